@@ -1,0 +1,16784 @@
+	.file	"test_tinfer.c"
+	.text
+.Ltext0:
+	.file 0 "/repo/aldor/aldor/src" "test/test_tinfer.c"
+	.section	.rodata
+.LC0:
+	.string	"testSimpleTInfer"
+.LC1:
+	.string	"testSelfTInfer"
+.LC2:
+	.string	"testConditionalTInfer"
+.LC3:
+	.string	"testConditionalTInfer2"
+.LC4:
+	.string	"testTinfer3"
+.LC5:
+	.string	"testConditionalTInfer4"
+.LC6:
+	.string	"testConditionalAdd"
+.LC7:
+	.string	"testTinfer5"
+.LC8:
+	.string	"testTinfer9"
+.LC9:
+	.string	"testTinferMutualReference"
+.LC10:
+	.string	"testTinferValueConditional"
+.LC11:
+	.string	"testTinferImport"
+	.text
+	.globl	tinferTest
+	.type	tinferTest, @function
+tinferTest:
+.LFB0:
+	.file 1 "test/test_tinfer.c"
+	.loc 1 52 1
+	.cfi_startproc
+	pushq	%rbp
+	.cfi_def_cfa_offset 16
+	.cfi_offset 6, -16
+	movq	%rsp, %rbp
+	.cfi_def_cfa_register 6
+	.loc 1 53 2
+	call	init@PLT
+	.loc 1 55 2
+	leaq	testSimpleTInfer(%rip), %rax
+	movq	%rax, %rsi
+	leaq	.LC0(%rip), %rax
+	movq	%rax, %rdi
+	call	showTest@PLT
+	.loc 1 57 2
+	leaq	testSelfTInfer(%rip), %rax
+	movq	%rax, %rsi
+	leaq	.LC1(%rip), %rax
+	movq	%rax, %rdi
+	call	showTest@PLT
+	.loc 1 58 2
+	leaq	testConditionalTInfer(%rip), %rax
+	movq	%rax, %rsi
+	leaq	.LC2(%rip), %rax
+	movq	%rax, %rdi
+	call	showTest@PLT
+	.loc 1 59 2
+	leaq	testConditionalTInfer2(%rip), %rax
+	movq	%rax, %rsi
+	leaq	.LC3(%rip), %rax
+	movq	%rax, %rdi
+	call	showTest@PLT
+	.loc 1 60 2
+	leaq	testTinfer3(%rip), %rax
+	movq	%rax, %rsi
+	leaq	.LC4(%rip), %rax
+	movq	%rax, %rdi
+	call	showTest@PLT
+	.loc 1 61 2
+	leaq	testConditionalTInfer4(%rip), %rax
+	movq	%rax, %rsi
+	leaq	.LC5(%rip), %rax
+	movq	%rax, %rdi
+	call	showTest@PLT
+	.loc 1 63 2
+	leaq	testConditionalAdd(%rip), %rax
+	movq	%rax, %rsi
+	leaq	.LC6(%rip), %rax
+	movq	%rax, %rdi
+	call	showTest@PLT
+	.loc 1 64 2
+	leaq	testTinfer5(%rip), %rax
+	movq	%rax, %rsi
+	leaq	.LC7(%rip), %rax
+	movq	%rax, %rdi
+	call	showTest@PLT
+	.loc 1 65 2
+	leaq	testTinfer9(%rip), %rax
+	movq	%rax, %rsi
+	leaq	.LC8(%rip), %rax
+	movq	%rax, %rdi
+	call	showTest@PLT
+	.loc 1 66 2
+	leaq	testTinferMutualReference(%rip), %rax
+	movq	%rax, %rsi
+	leaq	.LC9(%rip), %rax
+	movq	%rax, %rdi
+	call	showTest@PLT
+	.loc 1 68 2
+	leaq	testTinferValueConditional(%rip), %rax
+	movq	%rax, %rsi
+	leaq	.LC10(%rip), %rax
+	movq	%rax, %rdi
+	call	showTest@PLT
+	.loc 1 69 2
+	leaq	testTinferImport(%rip), %rax
+	movq	%rax, %rsi
+	leaq	.LC11(%rip), %rax
+	movq	%rax, %rdi
+	call	showTest@PLT
+	.loc 1 71 2
+	call	fini@PLT
+	.loc 1 72 1
+	nop
+	popq	%rbp
+	.cfi_def_cfa 7, 8
+	ret
+	.cfi_endproc
+.LFE0:
+	.size	tinferTest, .-tinferTest
+	.section	.rodata
+.LC12:
+	.string	"x"
+.LC13:
+	.string	"Declare is sefo"
+	.text
+	.globl	testSimpleTInfer
+	.type	testSimpleTInfer, @function
+testSimpleTInfer:
+.LFB1:
+	.loc 1 76 1
+	.cfi_startproc
+	pushq	%rbp
+	.cfi_def_cfa_offset 16
+	.cfi_offset 6, -16
+	movq	%rsp, %rbp
+	.cfi_def_cfa_register 6
+	pushq	%r12
+	pushq	%rbx
+	subq	$16, %rsp
+	.cfi_offset 12, -24
+	.cfi_offset 3, -32
+	.loc 1 77 16
+	movl	$0, %eax
+	call	emptyAdd@PLT
+	movq	%rax, %rbx
+	movl	$0, %eax
+	call	emptyWith@PLT
+	movq	%rax, %r12
+	leaq	.LC12(%rip), %rax
+	movq	%rax, %rdi
+	call	id@PLT
+	movq	%r12, %rsi
+	movq	%rax, %rdi
+	call	declare@PLT
+	movq	%rbx, %rsi
+	movq	%rax, %rdi
+	call	define@PLT
+	movq	%rax, -24(%rbp)
+	.loc 1 79 2
+	call	initFile@PLT
+	.loc 1 80 9
+	call	stabFile@PLT
+	movq	%rax, -32(%rbp)
+	.loc 1 82 2
+	movq	-24(%rbp), %rax
+	movl	$7, %esi
+	movq	%rax, %rdi
+	call	abPutUse@PLT
+	.loc 1 83 2
+	movq	-24(%rbp), %rdx
+	movq	-32(%rbp), %rax
+	movq	%rdx, %rsi
+	movq	%rax, %rdi
+	call	scopeBind@PLT
+	.loc 1 84 2
+	movq	-24(%rbp), %rdx
+	movq	-32(%rbp), %rax
+	movq	%rdx, %rsi
+	movq	%rax, %rdi
+	call	typeInfer@PLT
+	.loc 1 86 46
+	movq	-24(%rbp), %rax
+	movzbl	2(%rax), %eax
+	.loc 1 86 2
+	cmpb	$2, %al
+	sete	%al
+	movzbl	%al, %eax
+	movl	%eax, %esi
+	leaq	.LC13(%rip), %rax
+	movq	%rax, %rdi
+	call	testTrue@PLT
+	.loc 1 87 2
+	call	finiFile@PLT
+	.loc 1 88 1
+	nop
+	addq	$16, %rsp
+	popq	%rbx
+	popq	%r12
+	popq	%rbp
+	.cfi_def_cfa 7, 8
+	ret
+	.cfi_endproc
+.LFE1:
+	.size	testSimpleTInfer, .-testSimpleTInfer
+	.section	.rodata
+.LC14:
+	.string	"Boolean"
+.LC15:
+	.string	"Category"
+.LC16:
+	.string	"C1"
+.LC17:
+	.string	"X"
+.LC18:
+	.string	"%"
+.LC19:
+	.string	"->"
+.LC20:
+	.string	"f"
+.LC21:
+	.string	"Foo"
+.LC22:
+	.string	"D1"
+.LC23:
+	.string	"A"
+.LC24:
+	.string	"Error Count"
+.LC25:
+	.string	"SymeList Length"
+	.text
+	.globl	testConditionalTInfer
+	.type	testConditionalTInfer, @function
+testConditionalTInfer:
+.LFB2:
+	.loc 1 109 1
+	.cfi_startproc
+	pushq	%rbp
+	.cfi_def_cfa_offset 16
+	.cfi_offset 6, -16
+	movq	%rsp, %rbp
+	.cfi_def_cfa_register 6
+	pushq	%r13
+	pushq	%r12
+	pushq	%rbx
+	subq	$104, %rsp
+	.cfi_offset 13, -24
+	.cfi_offset 12, -32
+	.cfi_offset 3, -40
+	.loc 1 116 21
+	leaq	.LC14(%rip), %rax
+	movq	%rax, %rdi
+	call	id@PLT
+	movq	%rax, %rbx
+	call	nothing@PLT
+	movq	%rbx, %rsi
+	movq	%rax, %rdi
+	call	import@PLT
+	movq	%rax, -40(%rbp)
+	.loc 1 117 13
+	movl	$0, %eax
+	call	emptyWith@PLT
+	movq	%rax, %rbx
+	leaq	.LC15(%rip), %rax
+	movq	%rax, %rdi
+	call	id@PLT
+	movq	%rax, %r12
+	leaq	.LC16(%rip), %rax
+	movq	%rax, %rdi
+	call	id@PLT
+	movq	%r12, %rsi
+	movq	%rax, %rdi
+	call	declare@PLT
+	movq	%rbx, %rsi
+	movq	%rax, %rdi
+	call	define@PLT
+	movq	%rax, -48(%rbp)
+	.loc 1 118 20
+	call	nothing@PLT
+	movq	%rax, %r12
+	leaq	.LC17(%rip), %rax
+	movq	%rax, %rdi
+	call	id@PLT
+	movq	%rax, %r13
+	leaq	.LC18(%rip), %rax
+	movq	%rax, %rdi
+	call	id@PLT
+	movq	%rax, %rbx
+	leaq	.LC19(%rip), %rax
+	movq	%rax, %rdi
+	call	id@PLT
+	movq	%r13, %rdx
+	movq	%rbx, %rsi
+	movq	%rax, %rdi
+	call	apply2@PLT
+	movq	%rax, %rbx
+	leaq	.LC20(%rip), %rax
+	movq	%rax, %rdi
+	call	id@PLT
+	movq	%rbx, %rsi
+	movq	%rax, %rdi
+	call	declare@PLT
+	movq	%rax, %rbx
+	leaq	.LC16(%rip), %rax
+	movq	%rax, %rdi
+	call	id@PLT
+	movq	%rax, %r13
+	leaq	.LC17(%rip), %rax
+	movq	%rax, %rdi
+	call	id@PLT
+	movq	%r13, %rsi
+	movq	%rax, %rdi
+	call	has@PLT
+	movq	%r12, %rdx
+	movq	%rbx, %rsi
+	movq	%rax, %rdi
+	call	_if@PLT
+	movq	%rax, -56(%rbp)
+	.loc 1 122 14
+	call	nothing@PLT
+	movq	%rax, %rdx
+	movq	-56(%rbp), %rax
+	movq	%rax, %rsi
+	movq	%rdx, %rdi
+	call	with@PLT
+	movq	%rax, %r12
+	leaq	.LC15(%rip), %rax
+	movq	%rax, %rdi
+	call	id@PLT
+	movq	%rax, %rbx
+	movl	$0, %eax
+	call	emptyWith@PLT
+	movq	%rax, %r13
+	leaq	.LC17(%rip), %rax
+	movq	%rax, %rdi
+	call	id@PLT
+	movq	%r13, %rsi
+	movq	%rax, %rdi
+	call	declare@PLT
+	movq	%r12, %rcx
+	movq	%rbx, %rdx
+	movq	%rax, %rsi
+	leaq	.LC21(%rip), %rax
+	movq	%rax, %rdi
+	call	defineUnary@PLT
+	movq	%rax, -64(%rbp)
+	.loc 1 125 13
+	movl	$0, %eax
+	call	emptyAdd@PLT
+	movq	%rax, %rbx
+	call	nothing@PLT
+	movq	%rax, %r12
+	leaq	.LC16(%rip), %rax
+	movq	%rax, %rdi
+	call	id@PLT
+	movq	%r12, %rsi
+	movq	%rax, %rdi
+	call	with@PLT
+	movq	%rax, %r12
+	leaq	.LC22(%rip), %rax
+	movq	%rax, %rdi
+	call	id@PLT
+	movq	%r12, %rsi
+	movq	%rax, %rdi
+	call	declare@PLT
+	movq	%rbx, %rsi
+	movq	%rax, %rdi
+	call	define@PLT
+	movq	%rax, -72(%rbp)
+	.loc 1 126 17
+	movl	$0, %eax
+	call	emptyAdd@PLT
+	movq	%rax, -80(%rbp)
+	.loc 1 127 16
+	leaq	.LC22(%rip), %rax
+	movq	%rax, %rdi
+	call	id@PLT
+	movq	%rax, %rbx
+	leaq	.LC21(%rip), %rax
+	movq	%rax, %rdi
+	call	id@PLT
+	movq	%rbx, %rsi
+	movq	%rax, %rdi
+	call	apply1@PLT
+	movq	%rax, -88(%rbp)
+	.loc 1 128 12
+	call	nothing@PLT
+	movq	%rax, %rdx
+	movq	-88(%rbp), %rax
+	movq	%rdx, %rsi
+	movq	%rax, %rdi
+	call	with@PLT
+	movq	%rax, %rbx
+	leaq	.LC23(%rip), %rax
+	movq	%rax, %rdi
+	call	id@PLT
+	movq	%rbx, %rsi
+	movq	%rax, %rdi
+	call	declare@PLT
+	movq	%rax, %rdx
+	movq	-80(%rbp), %rax
+	movq	%rax, %rsi
+	movq	%rdx, %rdi
+	call	define@PLT
+	movq	%rax, -96(%rbp)
+	.loc 1 129 67
+	movq	AbSyn_listPointer(%rip), %rax
+	movq	16(%rax), %rbx
+	.loc 1 129 16
+	movl	$0, %eax
+	call	stdtypes@PLT
+	movq	%rax, %rsi
+	movq	-72(%rbp), %rdi
+	movq	-64(%rbp), %rcx
+	movq	-48(%rbp), %rdx
+	movq	-40(%rbp), %rax
+	subq	$8, %rsp
+	pushq	-96(%rbp)
+	movq	%rdi, %r9
+	movq	%rcx, %r8
+	movq	%rdx, %rcx
+	movq	%rax, %rdx
+	movl	$6, %edi
+	movl	$0, %eax
+	call	*%rbx
+.LVL0:
+	addq	$16, %rsp
+	movq	%rax, %rdx
+	movq	sposNone(%rip), %rax
+	movq	%rax, %rsi
+	movl	$64, %edi
+	call	abNewOfList@PLT
+	movq	%rax, -104(%rbp)
+	.loc 1 135 2
+	call	initFile@PLT
+	.loc 1 136 13
+	movl	$0, ablogDebug(%rip)
+	.loc 1 137 14
+	movl	$0, tipBupDebug(%rip)
+	.loc 1 138 10
+	movl	$0, tfDebug(%rip)
+	.loc 1 139 9
+	call	stabFile@PLT
+	movq	%rax, -112(%rbp)
+	.loc 1 141 2
+	movq	-104(%rbp), %rax
+	movl	$7, %esi
+	movq	%rax, %rdi
+	call	abPutUse@PLT
+	.loc 1 142 2
+	movq	-104(%rbp), %rax
+	movq	%rax, %rdi
+	call	abPrintDb@PLT
+	.loc 1 143 2
+	movq	-104(%rbp), %rdx
+	movq	-112(%rbp), %rax
+	movq	%rdx, %rsi
+	movq	%rax, %rdi
+	call	scopeBind@PLT
+	.loc 1 144 2
+	movq	-104(%rbp), %rdx
+	movq	-112(%rbp), %rax
+	movq	%rdx, %rsi
+	movq	%rax, %rdi
+	call	typeInfer@PLT
+	.loc 1 146 46
+	movq	-104(%rbp), %rax
+	movzbl	2(%rax), %eax
+	.loc 1 146 2
+	cmpb	$2, %al
+	sete	%al
+	movzbl	%al, %eax
+	movl	%eax, %esi
+	leaq	.LC13(%rip), %rax
+	movq	%rax, %rdi
+	call	testTrue@PLT
+	.loc 1 147 2
+	call	comsgErrorCount@PLT
+	movl	%eax, %edx
+	movl	$1, %esi
+	leaq	.LC24(%rip), %rax
+	movq	%rax, %rdi
+	call	testIntEqual@PLT
+	.loc 1 149 22
+	movq	-88(%rbp), %rax
+	movq	24(%rax), %rax
+	.loc 1 149 59
+	testq	%rax, %rax
+	je	.L4
+	.loc 1 149 45 discriminator 1
+	movq	-88(%rbp), %rax
+	movq	24(%rax), %rax
+	.loc 1 149 59 discriminator 1
+	movq	32(%rax), %rax
+	jmp	.L5
+.L4:
+	.loc 1 149 59 is_stmt 0 discriminator 2
+	movl	$0, %eax
+.L5:
+	.loc 1 149 5 is_stmt 1 discriminator 4
+	movq	%rax, -120(%rbp)
+	.loc 1 151 19 discriminator 4
+	movq	-80(%rbp), %rax
+	movq	40(%rax), %rax
+	.loc 1 151 32 discriminator 4
+	movq	24(%rax), %rax
+	.loc 1 150 7 discriminator 4
+	testq	%rax, %rax
+	je	.L6
+	.loc 1 151 55 discriminator 1
+	movq	-80(%rbp), %rax
+	movq	40(%rax), %rax
+	.loc 1 151 68 discriminator 1
+	movq	24(%rax), %rax
+	.loc 1 150 7 discriminator 1
+	movq	32(%rax), %rdx
+	jmp	.L7
+.L6:
+	.loc 1 150 7 is_stmt 0 discriminator 2
+	movl	$0, %edx
+.L7:
+	.loc 1 150 7 discriminator 4
+	movq	-80(%rbp), %rax
+	movq	48(%rax), %rsi
+	.loc 1 150 34 is_stmt 1 discriminator 4
+	movq	-80(%rbp), %rax
+	movq	24(%rax), %rax
+	.loc 1 150 7 discriminator 4
+	testq	%rax, %rax
+	je	.L8
+	.loc 1 150 58 discriminator 5
+	movq	-80(%rbp), %rax
+	movq	24(%rax), %rax
+	.loc 1 150 7 discriminator 5
+	movq	8(%rax), %rax
+	jmp	.L9
+.L8:
+	.loc 1 150 7 is_stmt 0 discriminator 6
+	movl	$0, %eax
+.L9:
+	.loc 1 150 7 discriminator 8
+	movq	-120(%rbp), %rcx
+	movl	$0, %r8d
+	movq	%rax, %rdi
+	call	tiAddSymes@PLT
+	movq	%rax, -128(%rbp)
+	.loc 1 152 54 is_stmt 1 discriminator 8
+	movq	Syme_listPointer(%rip), %rax
+	movq	128(%rax), %rdx
+	movq	-128(%rbp), %rax
+	movq	%rax, %rdi
+	call	*%rdx
+.LVL1:
+	.loc 1 152 2 discriminator 8
+	movl	%eax, %edx
+	movl	$1, %esi
+	leaq	.LC25(%rip), %rax
+	movq	%rax, %rdi
+	call	testIntEqual@PLT
+	.loc 1 153 2 discriminator 8
+	call	finiFile@PLT
+	.loc 1 154 1 discriminator 8
+	nop
+	leaq	-24(%rbp), %rsp
+	popq	%rbx
+	popq	%r12
+	popq	%r13
+	popq	%rbp
+	.cfi_def_cfa 7, 8
+	ret
+	.cfi_endproc
+.LFE2:
+	.size	testConditionalTInfer, .-testConditionalTInfer
+	.section	.rodata
+.LC26:
+	.string	"import from Boolean"
+	.align 8
+.LC27:
+	.string	"XAlgebra(T: with): Category == with"
+	.align 8
+.LC28:
+	.string	"XIntegralDomain: Category == XAlgebra(%) with"
+	.align 8
+.LC29:
+	.string	"XLocalAlgebra(R: with, S: XAlgebra R): with == add"
+	.align 8
+.LC30:
+	.string	"D: with == add; F(U: with): XIntegralDomain with == add"
+	.align 8
+.LC31:
+	.string	"export a: XLocalAlgebra(F D, F D)"
+	.align 8
+.LC32:
+	.string	"F(X: XIntegralDomain): with { 1: %} == XLocalAlgebra(X, X) add {1: % == never}"
+.LC33:
+	.string	"XAlgebra"
+.LC34:
+	.string	"D"
+.LC35:
+	.string	"Type of D is %pTForm\n"
+	.align 8
+.LC36:
+	.string	"Self for Type of D is %pSymeList\n"
+.LC37:
+	.string	"Self: %s Type: %pTForm\n"
+	.text
+	.globl	testSelfTInfer
+	.type	testSelfTInfer, @function
+testSelfTInfer:
+.LFB3:
+	.loc 1 158 1
+	.cfi_startproc
+	pushq	%rbp
+	.cfi_def_cfa_offset 16
+	.cfi_offset 6, -16
+	movq	%rsp, %rbp
+	.cfi_def_cfa_register 6
+	pushq	%r12
+	pushq	%rbx
+	subq	$176, %rsp
+	.cfi_offset 12, -24
+	.cfi_offset 3, -32
+	.loc 1 159 9
+	leaq	.LC26(%rip), %rax
+	movq	%rax, -32(%rbp)
+	.loc 1 160 9
+	leaq	.LC27(%rip), %rax
+	movq	%rax, -40(%rbp)
+	.loc 1 161 9
+	leaq	.LC28(%rip), %rax
+	movq	%rax, -48(%rbp)
+	.loc 1 162 9
+	leaq	.LC29(%rip), %rax
+	movq	%rax, -56(%rbp)
+	.loc 1 163 9
+	leaq	.LC30(%rip), %rax
+	movq	%rax, -64(%rbp)
+	.loc 1 164 9
+	leaq	.LC31(%rip), %rax
+	movq	%rax, -72(%rbp)
+	.loc 1 165 9
+	leaq	.LC32(%rip), %rax
+	movq	%rax, -80(%rbp)
+	.loc 1 166 40
+	movq	String_listPointer(%rip), %rax
+	movq	16(%rax), %r10
+	movq	-64(%rbp), %rdi
+	movq	-56(%rbp), %rsi
+	movq	-48(%rbp), %rcx
+	movq	-40(%rbp), %rdx
+	movq	-32(%rbp), %rax
+	movq	%rdi, %r9
+	movq	%rsi, %r8
+	movq	%rax, %rsi
+	movl	$5, %edi
+	movl	$0, %eax
+	call	*%r10
+.LVL2:
+	movq	%rax, -88(%rbp)
+	.loc 1 168 42
+	movq	AbSyn_listPointer(%rip), %rax
+	movq	(%rax), %rbx
+	movq	-88(%rbp), %rax
+	movq	%rax, %rdi
+	call	abqParseLines@PLT
+	movq	%rax, %r12
+	movl	$0, %eax
+	call	stdtypes@PLT
+	movq	%r12, %rsi
+	movq	%rax, %rdi
+	call	*%rbx
+.LVL3:
+	movq	%rax, -96(%rbp)
+	.loc 1 169 16
+	movq	sposNone(%rip), %rax
+	movq	-96(%rbp), %rdx
+	movq	%rax, %rsi
+	movl	$64, %edi
+	call	abNewOfList@PLT
+	movq	%rax, -104(%rbp)
+	.loc 1 179 2
+	call	initFile@PLT
+	.loc 1 181 9
+	call	stabFile@PLT
+	movq	%rax, -112(%rbp)
+	.loc 1 183 2
+	movq	-104(%rbp), %rax
+	movl	$7, %esi
+	movq	%rax, %rdi
+	call	abPutUse@PLT
+	.loc 1 184 2
+	movq	-104(%rbp), %rdx
+	movq	-112(%rbp), %rax
+	movq	%rdx, %rsi
+	movq	%rax, %rdi
+	call	scopeBind@PLT
+	.loc 1 185 2
+	movq	-104(%rbp), %rdx
+	movq	-112(%rbp), %rax
+	movq	%rdx, %rsi
+	movq	%rax, %rdi
+	call	typeInfer@PLT
+	.loc 1 187 46
+	movq	-104(%rbp), %rax
+	movzbl	2(%rax), %eax
+	.loc 1 187 2
+	cmpb	$2, %al
+	sete	%al
+	movzbl	%al, %eax
+	movl	%eax, %esi
+	leaq	.LC13(%rip), %rax
+	movq	%rax, %rdi
+	call	testTrue@PLT
+	.loc 1 188 2
+	call	comsgErrorCount@PLT
+	movl	%eax, %edx
+	movl	$0, %esi
+	leaq	.LC24(%rip), %rax
+	movq	%rax, %rdi
+	call	testIntEqual@PLT
+	.loc 1 190 13
+	movq	-112(%rbp), %rax
+	leaq	.LC33(%rip), %rdx
+	movq	%rdx, %rsi
+	movq	%rax, %rdi
+	call	uniqueMeaning@PLT
+	movq	%rax, -120(%rbp)
+	.loc 1 191 6
+	movq	-112(%rbp), %rax
+	leaq	.LC34(%rip), %rdx
+	movq	%rdx, %rsi
+	movq	%rax, %rdi
+	call	uniqueMeaning@PLT
+	movq	%rax, -128(%rbp)
+	.loc 1 192 9
+	movq	-128(%rbp), %rax
+	movq	%rax, %rdi
+	call	abFrSyme@PLT
+	movq	%rax, %rbx
+	movq	-120(%rbp), %rax
+	movq	%rax, %rdi
+	call	abFrSyme@PLT
+	movq	%rax, %rdx
+	movq	sposNone(%rip), %rax
+	movq	%rbx, %r8
+	movq	%rdx, %rcx
+	movl	$2, %edx
+	movq	%rax, %rsi
+	movl	$9, %edi
+	movl	$0, %eax
+	call	abNew@PLT
+	movq	%rax, -136(%rbp)
+	.loc 1 193 7
+	movq	-136(%rbp), %rdx
+	movq	-112(%rbp), %rax
+	movq	%rdx, %rsi
+	movq	%rax, %rdi
+	call	tfFullFrAbSyn@PLT
+	movq	%rax, -144(%rbp)
+	.loc 1 195 2
+	movq	-128(%rbp), %rax
+	movq	%rax, %rdi
+	call	symePrintDb@PLT
+	.loc 1 196 73
+	movl	$0, tfsExportDebug(%rip)
+	.loc 1 196 56
+	movl	tfsExportDebug(%rip), %eax
+	movl	%eax, tfsParentDebug(%rip)
+	.loc 1 196 39
+	movl	tfsParentDebug(%rip), %eax
+	movl	%eax, tfsDebug(%rip)
+	.loc 1 196 28
+	movl	tfsDebug(%rip), %eax
+	movl	%eax, tipTdnDebug(%rip)
+	.loc 1 196 14
+	movl	tipTdnDebug(%rip), %eax
+	movl	%eax, tipBupDebug(%rip)
+	.loc 1 197 17
+	movl	$0, sefoEqualDebug(%rip)
+	.loc 1 199 10
+	movq	-128(%rbp), %rax
+	movq	%rax, %rdi
+	call	abFrSyme@PLT
+	movq	%rax, -152(%rbp)
+	.loc 1 200 2
+	movq	-152(%rbp), %rdx
+	movq	-112(%rbp), %rax
+	movq	%rdx, %rsi
+	movq	%rax, %rdi
+	call	tiSefo@PLT
+	.loc 1 201 6
+	movq	-152(%rbp), %rax
+	movq	32(%rax), %rax
+	movq	%rax, -160(%rbp)
+	.loc 1 202 2
+	movq	dbOut(%rip), %rax
+	movq	-160(%rbp), %rdx
+	leaq	.LC35(%rip), %rcx
+	movq	%rcx, %rsi
+	movq	%rax, %rdi
+	movl	$0, %eax
+	call	afprintf@PLT
+	.loc 1 203 17
+	movq	-160(%rbp), %rax
+	movq	%rax, %rdi
+	call	tfGetCatSelf@PLT
+	movq	%rax, -168(%rbp)
+	.loc 1 204 2
+	movq	dbOut(%rip), %rax
+	movq	-168(%rbp), %rdx
+	leaq	.LC36(%rip), %rcx
+	movq	%rcx, %rsi
+	movq	%rax, %rdi
+	movl	$0, %eax
+	call	afprintf@PLT
+.LBB2:
+	.loc 1 205 44
+	movq	-168(%rbp), %rax
+	movq	%rax, -24(%rbp)
+	.loc 1 205 35
+	jmp	.L11
+.L12:
+	.loc 1 205 99 discriminator 3
+	movq	-24(%rbp), %rax
+	movq	(%rax), %rax
+	movq	%rax, -192(%rbp)
+	.loc 1 205 119 discriminator 3
+	movq	-192(%rbp), %rax
+	movq	%rax, %rdi
+	call	symeType@PLT
+	movq	%rax, %rcx
+	.loc 1 205 176 discriminator 3
+	movq	-192(%rbp), %rax
+	movq	8(%rax), %rax
+	.loc 1 205 119 discriminator 3
+	movq	8(%rax), %rdx
+	movq	dbOut(%rip), %rax
+	leaq	.LC37(%rip), %rsi
+	movq	%rax, %rdi
+	movl	$0, %eax
+	call	afprintf@PLT
+	.loc 1 205 71 discriminator 3
+	movq	-24(%rbp), %rax
+	movq	8(%rax), %rax
+	movq	%rax, -24(%rbp)
+.L11:
+	.loc 1 205 62 discriminator 1
+	cmpq	$0, -24(%rbp)
+	jne	.L12
+.LBE2:
+	.loc 1 209 12
+	movq	-72(%rbp), %rax
+	movq	%rax, %rdi
+	call	abqParse@PLT
+	movq	%rax, -176(%rbp)
+	.loc 1 211 2
+	movq	-176(%rbp), %rax
+	movl	$7, %esi
+	movq	%rax, %rdi
+	call	abPutUse@PLT
+	.loc 1 212 2
+	movq	-176(%rbp), %rdx
+	movq	-112(%rbp), %rax
+	movq	%rdx, %rsi
+	movq	%rax, %rdi
+	call	scopeBind@PLT
+	.loc 1 213 2
+	movq	-176(%rbp), %rdx
+	movq	-112(%rbp), %rax
+	movq	%rdx, %rsi
+	movq	%rax, %rdi
+	call	typeInfer@PLT
+	.loc 1 215 46
+	movq	-104(%rbp), %rax
+	movzbl	2(%rax), %eax
+	.loc 1 215 2
+	cmpb	$2, %al
+	sete	%al
+	movzbl	%al, %eax
+	movl	%eax, %esi
+	leaq	.LC13(%rip), %rax
+	movq	%rax, %rdi
+	call	testTrue@PLT
+	.loc 1 216 2
+	call	comsgErrorCount@PLT
+	movl	%eax, %edx
+	movl	$0, %esi
+	leaq	.LC24(%rip), %rax
+	movq	%rax, %rdi
+	call	testIntEqual@PLT
+	.loc 1 218 6
+	movq	-80(%rbp), %rax
+	movq	%rax, %rdi
+	call	abqParse@PLT
+	movq	%rax, -184(%rbp)
+	.loc 1 219 2
+	movq	-176(%rbp), %rax
+	movl	$7, %esi
+	movq	%rax, %rdi
+	call	abPutUse@PLT
+	.loc 1 220 2
+	movq	-176(%rbp), %rdx
+	movq	-112(%rbp), %rax
+	movq	%rdx, %rsi
+	movq	%rax, %rdi
+	call	scopeBind@PLT
+	.loc 1 221 2
+	movq	-176(%rbp), %rdx
+	movq	-112(%rbp), %rax
+	movq	%rdx, %rsi
+	movq	%rax, %rdi
+	call	typeInfer@PLT
+	.loc 1 223 46
+	movq	-104(%rbp), %rax
+	movzbl	2(%rax), %eax
+	.loc 1 223 2
+	cmpb	$2, %al
+	sete	%al
+	movzbl	%al, %eax
+	movl	%eax, %esi
+	leaq	.LC13(%rip), %rax
+	movq	%rax, %rdi
+	call	testTrue@PLT
+	.loc 1 224 2
+	call	comsgErrorCount@PLT
+	movl	%eax, %edx
+	movl	$0, %esi
+	leaq	.LC24(%rip), %rax
+	movq	%rax, %rdi
+	call	testIntEqual@PLT
+	.loc 1 226 2
+	call	finiFile@PLT
+	.loc 1 227 1
+	nop
+	addq	$176, %rsp
+	popq	%rbx
+	popq	%r12
+	popq	%rbp
+	.cfi_def_cfa 7, 8
+	ret
+	.cfi_endproc
+.LFE3:
+	.size	testSelfTInfer, .-testSelfTInfer
+	.section	.rodata
+	.align 8
+.LC38:
+	.string	"AdditiveType: Category == with"
+	.align 8
+.LC39:
+	.string	"Evalable(T: AdditiveType): Category == with { eval: % -> T; }"
+	.align 8
+.LC40:
+	.string	"Obj(R: with): Category == with {    x: %;    if R has AdditiveType then if R has Evalable(R) then Evalable(R) }"
+	.text
+	.globl	testConditionalTInfer2
+	.type	testConditionalTInfer2, @function
+testConditionalTInfer2:
+.LFB4:
+	.loc 1 231 1
+	.cfi_startproc
+	pushq	%rbp
+	.cfi_def_cfa_offset 16
+	.cfi_offset 6, -16
+	movq	%rsp, %rbp
+	.cfi_def_cfa_register 6
+	pushq	%r12
+	pushq	%rbx
+	subq	$64, %rsp
+	.cfi_offset 12, -24
+	.cfi_offset 3, -32
+	.loc 1 237 9
+	leaq	.LC26(%rip), %rax
+	movq	%rax, -24(%rbp)
+	.loc 1 238 9
+	leaq	.LC38(%rip), %rax
+	movq	%rax, -32(%rbp)
+	.loc 1 239 9
+	leaq	.LC39(%rip), %rax
+	movq	%rax, -40(%rbp)
+	.loc 1 240 9
+	leaq	.LC40(%rip), %rax
+	movq	%rax, -48(%rbp)
+	.loc 1 247 40
+	movq	String_listPointer(%rip), %rax
+	movq	16(%rax), %r9
+	movq	-48(%rbp), %rsi
+	movq	-40(%rbp), %rcx
+	movq	-32(%rbp), %rdx
+	movq	-24(%rbp), %rax
+	movq	%rsi, %r8
+	movq	%rax, %rsi
+	movl	$4, %edi
+	movl	$0, %eax
+	call	*%r9
+.LVL4:
+	movq	%rax, -56(%rbp)
+	.loc 1 248 37
+	movq	AbSyn_listPointer(%rip), %rax
+	movq	(%rax), %rbx
+	movq	-56(%rbp), %rax
+	movq	%rax, %rdi
+	call	abqParseLines@PLT
+	movq	%rax, %r12
+	movl	$0, %eax
+	call	stdtypes@PLT
+	movq	%r12, %rsi
+	movq	%rax, %rdi
+	call	*%rbx
+.LVL5:
+	movq	%rax, -64(%rbp)
+	.loc 1 249 16
+	movq	sposNone(%rip), %rax
+	movq	-64(%rbp), %rdx
+	movq	%rax, %rsi
+	movl	$64, %edi
+	call	abNewOfList@PLT
+	movq	%rax, -72(%rbp)
+	.loc 1 253 2
+	call	initFile@PLT
+	.loc 1 254 13
+	movl	$0, ablogDebug(%rip)
+	.loc 1 255 14
+	movl	$0, tipBupDebug(%rip)
+	.loc 1 256 12
+	movl	$0, titfDebug(%rip)
+	.loc 1 257 9
+	call	stabFile@PLT
+	movq	%rax, -80(%rbp)
+	.loc 1 259 2
+	movq	-72(%rbp), %rax
+	movl	$7, %esi
+	movq	%rax, %rdi
+	call	abPutUse@PLT
+	.loc 1 261 2
+	movq	-72(%rbp), %rdx
+	movq	-80(%rbp), %rax
+	movq	%rdx, %rsi
+	movq	%rax, %rdi
+	call	scopeBind@PLT
+	.loc 1 262 2
+	movq	-72(%rbp), %rdx
+	movq	-80(%rbp), %rax
+	movq	%rdx, %rsi
+	movq	%rax, %rdi
+	call	typeInfer@PLT
+	.loc 1 264 46
+	movq	-72(%rbp), %rax
+	movzbl	2(%rax), %eax
+	.loc 1 264 2
+	cmpb	$2, %al
+	sete	%al
+	movzbl	%al, %eax
+	movl	%eax, %esi
+	leaq	.LC13(%rip), %rax
+	movq	%rax, %rdi
+	call	testTrue@PLT
+	.loc 1 265 2
+	call	comsgErrorCount@PLT
+	movl	%eax, %edx
+	movl	$0, %esi
+	leaq	.LC24(%rip), %rax
+	movq	%rax, %rdi
+	call	testIntEqual@PLT
+	.loc 1 266 2
+	call	finiFile@PLT
+	.loc 1 267 1
+	nop
+	addq	$64, %rsp
+	popq	%rbx
+	popq	%r12
+	popq	%rbp
+	.cfi_def_cfa 7, 8
+	ret
+	.cfi_endproc
+.LFE4:
+	.size	testConditionalTInfer2, .-testConditionalTInfer2
+	.section	.rodata
+	.align 8
+.LC41:
+	.string	"AdditiveType: Category == with;"
+	.align 8
+.LC42:
+	.string	"Obj(R: with): Category == AdditiveType with { x: %;\tif R has AdditiveType then {            Evalable(R);            foo: () -> Evalable(R)}}"
+	.align 8
+.LC43:
+	.string	"AnAdditive: AdditiveType == add;"
+.LC44:
+	.string	"Obj(AnAdditive)"
+.LC45:
+	.string	"Export count"
+.LC46:
+	.string	"X: Obj(AnAdditive)"
+.LC47:
+	.string	"Inferred X"
+	.text
+	.globl	testTinfer3
+	.type	testTinfer3, @function
+testTinfer3:
+.LFB5:
+	.loc 1 271 1
+	.cfi_startproc
+	pushq	%rbp
+	.cfi_def_cfa_offset 16
+	.cfi_offset 6, -16
+	movq	%rsp, %rbp
+	.cfi_def_cfa_register 6
+	pushq	%r12
+	pushq	%rbx
+	addq	$-128, %rsp
+	.cfi_offset 12, -24
+	.cfi_offset 3, -32
+	.loc 1 272 9
+	leaq	.LC26(%rip), %rax
+	movq	%rax, -24(%rbp)
+	.loc 1 273 9
+	leaq	.LC41(%rip), %rax
+	movq	%rax, -32(%rbp)
+	.loc 1 274 9
+	leaq	.LC39(%rip), %rax
+	movq	%rax, -40(%rbp)
+	.loc 1 275 9
+	leaq	.LC42(%rip), %rax
+	movq	%rax, -48(%rbp)
+	.loc 1 280 9
+	leaq	.LC43(%rip), %rax
+	movq	%rax, -56(%rbp)
+	.loc 1 282 40
+	movq	String_listPointer(%rip), %rax
+	movq	16(%rax), %r10
+	movq	-56(%rbp), %rdi
+	movq	-48(%rbp), %rsi
+	movq	-40(%rbp), %rcx
+	movq	-32(%rbp), %rdx
+	movq	-24(%rbp), %rax
+	movq	%rdi, %r9
+	movq	%rsi, %r8
+	movq	%rax, %rsi
+	movl	$5, %edi
+	movl	$0, %eax
+	call	*%r10
+.LVL6:
+	movq	%rax, -64(%rbp)
+	.loc 1 284 37
+	movq	AbSyn_listPointer(%rip), %rax
+	movq	(%rax), %rbx
+	movq	-64(%rbp), %rax
+	movq	%rax, %rdi
+	call	abqParseLines@PLT
+	movq	%rax, %r12
+	movl	$0, %eax
+	call	stdtypes@PLT
+	movq	%r12, %rsi
+	movq	%rax, %rdi
+	call	*%rbx
+.LVL7:
+	movq	%rax, -72(%rbp)
+	.loc 1 285 16
+	movq	sposNone(%rip), %rax
+	movq	-72(%rbp), %rdx
+	movq	%rax, %rsi
+	movl	$64, %edi
+	call	abNewOfList@PLT
+	movq	%rax, -80(%rbp)
+	.loc 1 293 2
+	call	initFile@PLT
+	.loc 1 294 13
+	movl	$0, ablogDebug(%rip)
+	.loc 1 295 14
+	movl	$0, tipBupDebug(%rip)
+	.loc 1 296 12
+	movl	$0, titfDebug(%rip)
+	.loc 1 297 10
+	movl	$0, tfDebug(%rip)
+	.loc 1 298 9
+	call	stabFile@PLT
+	movq	%rax, -88(%rbp)
+	.loc 1 300 2
+	movq	-80(%rbp), %rax
+	movl	$7, %esi
+	movq	%rax, %rdi
+	call	abPutUse@PLT
+	.loc 1 302 2
+	movq	-80(%rbp), %rdx
+	movq	-88(%rbp), %rax
+	movq	%rdx, %rsi
+	movq	%rax, %rdi
+	call	scopeBind@PLT
+	.loc 1 303 2
+	movq	-80(%rbp), %rdx
+	movq	-88(%rbp), %rax
+	movq	%rdx, %rsi
+	movq	%rax, %rdi
+	call	typeInfer@PLT
+	.loc 1 305 46
+	movq	-80(%rbp), %rax
+	movzbl	2(%rax), %eax
+	.loc 1 305 2
+	cmpb	$2, %al
+	sete	%al
+	movzbl	%al, %eax
+	movl	%eax, %esi
+	leaq	.LC13(%rip), %rax
+	movq	%rax, %rdi
+	call	testTrue@PLT
+	.loc 1 306 2
+	call	comsgErrorCount@PLT
+	movl	%eax, %edx
+	movl	$0, %esi
+	leaq	.LC24(%rip), %rax
+	movq	%rax, %rdi
+	call	testIntEqual@PLT
+	.loc 1 308 7
+	leaq	.LC44(%rip), %rax
+	movq	%rax, %rdi
+	call	abqParse@PLT
+	movq	%rax, -96(%rbp)
+	.loc 1 309 2
+	movq	-80(%rbp), %rax
+	movl	$7, %esi
+	movq	%rax, %rdi
+	call	abPutUse@PLT
+	.loc 1 310 2
+	movq	-96(%rbp), %rdx
+	movq	-88(%rbp), %rax
+	movq	%rdx, %rsi
+	movq	%rax, %rdi
+	call	typeInfer@PLT
+	.loc 1 311 2
+	call	comsgErrorCount@PLT
+	movl	%eax, %edx
+	movl	$0, %esi
+	leaq	.LC24(%rip), %rax
+	movq	%rax, %rdi
+	call	testIntEqual@PLT
+	.loc 1 312 5
+	movq	-96(%rbp), %rax
+	movq	32(%rax), %rax
+	movq	%rax, -104(%rbp)
+	.loc 1 313 6
+	movq	-104(%rbp), %rax
+	movq	%rax, %rdi
+	call	tfGetThdExports@PLT
+	movq	%rax, -112(%rbp)
+	.loc 1 314 51
+	movq	Syme_listPointer(%rip), %rax
+	movq	128(%rax), %rdx
+	movq	-112(%rbp), %rax
+	movq	%rax, %rdi
+	call	*%rdx
+.LVL8:
+	.loc 1 314 2
+	movl	%eax, %edx
+	movl	$6, %esi
+	leaq	.LC45(%rip), %rax
+	movq	%rax, %rdi
+	call	testIntEqual@PLT
+	.loc 1 316 8
+	leaq	.LC46(%rip), %rax
+	movq	%rax, %rdi
+	call	abqParse@PLT
+	movq	%rax, -120(%rbp)
+	.loc 1 317 2
+	movq	-120(%rbp), %rax
+	movl	$7, %esi
+	movq	%rax, %rdi
+	call	abPutUse@PLT
+	.loc 1 318 2
+	movq	-120(%rbp), %rdx
+	movq	-88(%rbp), %rax
+	movq	%rdx, %rsi
+	movq	%rax, %rdi
+	call	scopeBind@PLT
+	.loc 1 319 2
+	movq	-120(%rbp), %rdx
+	movq	-88(%rbp), %rax
+	movq	%rdx, %rsi
+	movq	%rax, %rdi
+	call	typeInfer@PLT
+	.loc 1 320 2
+	call	comsgErrorCount@PLT
+	movl	%eax, %edx
+	movl	$0, %esi
+	leaq	.LC24(%rip), %rax
+	movq	%rax, %rdi
+	call	testIntEqual@PLT
+	.loc 1 321 10
+	movl	$1, %esi
+	leaq	.LC17(%rip), %rax
+	movq	%rax, %rdi
+	call	symProbe@PLT
+	movq	%rax, %rbx
+	call	ablogTrue@PLT
+	movq	%rax, %rcx
+	movq	-88(%rbp), %rax
+	movq	%rbx, %rdx
+	movq	%rcx, %rsi
+	movq	%rax, %rdi
+	call	stabGetMeanings@PLT
+	movq	%rax, -128(%rbp)
+	.loc 1 322 49
+	movq	Syme_listPointer(%rip), %rax
+	movq	128(%rax), %rdx
+	movq	-128(%rbp), %rax
+	movq	%rax, %rdi
+	call	*%rdx
+.LVL9:
+	.loc 1 322 2
+	movl	%eax, %edx
+	movl	$1, %esi
+	leaq	.LC47(%rip), %rax
+	movq	%rax, %rdi
+	call	testIntEqual@PLT
+	.loc 1 323 7
+	movq	-128(%rbp), %rax
+	movq	(%rax), %rax
+	movq	%rax, -136(%rbp)
+	.loc 1 324 7
+	movq	-136(%rbp), %rax
+	movq	%rax, %rdi
+	call	symeType@PLT
+	movq	%rax, -104(%rbp)
+	.loc 1 325 10
+	movq	-104(%rbp), %rax
+	movq	%rax, %rdi
+	call	tfGetDomImports@PLT
+	movq	%rax, -128(%rbp)
+	.loc 1 326 2
+	movq	-128(%rbp), %rax
+	movq	%rax, %rdi
+	call	symeListPrintDb@PLT
+	.loc 1 327 2
+	call	finiFile@PLT
+	.loc 1 329 1
+	nop
+	subq	$-128, %rsp
+	popq	%rbx
+	popq	%r12
+	popq	%rbp
+	.cfi_def_cfa 7, 8
+	ret
+	.cfi_endproc
+.LFE5:
+	.size	testTinfer3, .-testTinfer3
+	.section	.rodata
+	.align 8
+.LC48:
+	.string	"AdditiveType1: Category == AdditiveType with"
+	.align 8
+.LC49:
+	.string	"AdditiveType2: Category == AdditiveType with"
+	.align 8
+.LC50:
+	.string	"Obj(R: with): Category == with {    x: %;    if R has AdditiveType1 then if R has Evalable(R) then Evalable(R);   if R has AdditiveType2 then if R has Evalable(R) then Evalable(R); }"
+	.text
+	.globl	testConditionalTInfer4
+	.type	testConditionalTInfer4, @function
+testConditionalTInfer4:
+.LFB6:
+	.loc 1 333 1
+	.cfi_startproc
+	pushq	%rbp
+	.cfi_def_cfa_offset 16
+	.cfi_offset 6, -16
+	movq	%rsp, %rbp
+	.cfi_def_cfa_register 6
+	pushq	%r12
+	pushq	%rbx
+	subq	$80, %rsp
+	.cfi_offset 12, -24
+	.cfi_offset 3, -32
+	.loc 1 341 9
+	leaq	.LC26(%rip), %rax
+	movq	%rax, -24(%rbp)
+	.loc 1 342 9
+	leaq	.LC38(%rip), %rax
+	movq	%rax, -32(%rbp)
+	.loc 1 343 9
+	leaq	.LC48(%rip), %rax
+	movq	%rax, -40(%rbp)
+	.loc 1 344 9
+	leaq	.LC49(%rip), %rax
+	movq	%rax, -48(%rbp)
+	.loc 1 345 9
+	leaq	.LC39(%rip), %rax
+	movq	%rax, -56(%rbp)
+	.loc 1 346 9
+	leaq	.LC50(%rip), %rax
+	movq	%rax, -64(%rbp)
+	.loc 1 352 40
+	movq	String_listPointer(%rip), %rax
+	movq	16(%rax), %r10
+	movq	-56(%rbp), %rdi
+	movq	-48(%rbp), %rsi
+	movq	-40(%rbp), %rcx
+	movq	-32(%rbp), %rdx
+	movq	-24(%rbp), %rax
+	subq	$8, %rsp
+	pushq	-64(%rbp)
+	movq	%rdi, %r9
+	movq	%rsi, %r8
+	movq	%rax, %rsi
+	movl	$6, %edi
+	movl	$0, %eax
+	call	*%r10
+.LVL10:
+	addq	$16, %rsp
+	movq	%rax, -72(%rbp)
+	.loc 1 357 37
+	movq	AbSyn_listPointer(%rip), %rax
+	movq	(%rax), %rbx
+	movq	-72(%rbp), %rax
+	movq	%rax, %rdi
+	call	abqParseLines@PLT
+	movq	%rax, %r12
+	movl	$0, %eax
+	call	stdtypes@PLT
+	movq	%r12, %rsi
+	movq	%rax, %rdi
+	call	*%rbx
+.LVL11:
+	movq	%rax, -80(%rbp)
+	.loc 1 358 16
+	movq	sposNone(%rip), %rax
+	movq	-80(%rbp), %rdx
+	movq	%rax, %rsi
+	movl	$64, %edi
+	call	abNewOfList@PLT
+	movq	%rax, -88(%rbp)
+	.loc 1 362 2
+	call	initFile@PLT
+	.loc 1 363 16
+	movl	$0, tfImportDebug(%rip)
+	.loc 1 364 13
+	movl	$0, ablogDebug(%rip)
+	.loc 1 365 14
+	movl	$0, tipBupDebug(%rip)
+	.loc 1 366 12
+	movl	$0, titfDebug(%rip)
+	.loc 1 367 10
+	movl	$0, tfDebug(%rip)
+	.loc 1 369 9
+	call	stabFile@PLT
+	movq	%rax, -96(%rbp)
+	.loc 1 371 2
+	movq	-88(%rbp), %rax
+	movl	$7, %esi
+	movq	%rax, %rdi
+	call	abPutUse@PLT
+	.loc 1 373 2
+	movq	-88(%rbp), %rdx
+	movq	-96(%rbp), %rax
+	movq	%rdx, %rsi
+	movq	%rax, %rdi
+	call	scopeBind@PLT
+	.loc 1 374 2
+	movq	-88(%rbp), %rdx
+	movq	-96(%rbp), %rax
+	movq	%rdx, %rsi
+	movq	%rax, %rdi
+	call	typeInfer@PLT
+	.loc 1 376 46
+	movq	-88(%rbp), %rax
+	movzbl	2(%rax), %eax
+	.loc 1 376 2
+	cmpb	$2, %al
+	sete	%al
+	movzbl	%al, %eax
+	movl	%eax, %esi
+	leaq	.LC13(%rip), %rax
+	movq	%rax, %rdi
+	call	testTrue@PLT
+	.loc 1 377 2
+	call	comsgErrorCount@PLT
+	movl	%eax, %edx
+	movl	$0, %esi
+	leaq	.LC24(%rip), %rax
+	movq	%rax, %rdi
+	call	testIntEqual@PLT
+	.loc 1 379 2
+	call	finiFile@PLT
+	.loc 1 380 1
+	nop
+	leaq	-16(%rbp), %rsp
+	popq	%rbx
+	popq	%r12
+	popq	%rbp
+	.cfi_def_cfa 7, 8
+	ret
+	.cfi_endproc
+.LFE6:
+	.size	testConditionalTInfer4, .-testConditionalTInfer4
+	.section	.rodata
+	.align 8
+.LC51:
+	.string	"AdditiveGroup: Category == with { 0: % }"
+	.align 8
+.LC52:
+	.string	"IndexedCategory(X: with): Category == with {if X has AdditiveGroup then AdditiveGroup}"
+	.align 8
+.LC53:
+	.string	"IndexedObject(S: with): with IndexedCategory(S) == add { if S has AdditiveGroup then 0: % == 0$S pretend %}"
+	.align 8
+.LC54:
+	.string	"Obj: AdditiveGroup with == add { 0: % == never }"
+	.text
+	.globl	testConditionalAdd
+	.type	testConditionalAdd, @function
+testConditionalAdd:
+.LFB7:
+	.loc 1 384 1
+	.cfi_startproc
+	pushq	%rbp
+	.cfi_def_cfa_offset 16
+	.cfi_offset 6, -16
+	movq	%rsp, %rbp
+	.cfi_def_cfa_register 6
+	pushq	%r12
+	pushq	%rbx
+	subq	$80, %rsp
+	.cfi_offset 12, -24
+	.cfi_offset 3, -32
+	.loc 1 385 9
+	leaq	.LC26(%rip), %rax
+	movq	%rax, -24(%rbp)
+	.loc 1 386 9
+	leaq	.LC51(%rip), %rax
+	movq	%rax, -32(%rbp)
+	.loc 1 387 9
+	leaq	.LC52(%rip), %rax
+	movq	%rax, -40(%rbp)
+	.loc 1 388 9
+	leaq	.LC53(%rip), %rax
+	movq	%rax, -48(%rbp)
+	.loc 1 389 9
+	leaq	.LC54(%rip), %rax
+	movq	%rax, -56(%rbp)
+	.loc 1 391 40
+	movq	String_listPointer(%rip), %rax
+	movq	16(%rax), %r10
+	movq	-56(%rbp), %rdi
+	movq	-48(%rbp), %rsi
+	movq	-40(%rbp), %rcx
+	movq	-32(%rbp), %rdx
+	movq	-24(%rbp), %rax
+	movq	%rdi, %r9
+	movq	%rsi, %r8
+	movq	%rax, %rsi
+	movl	$5, %edi
+	movl	$0, %eax
+	call	*%r10
+.LVL12:
+	movq	%rax, -64(%rbp)
+	.loc 1 398 37
+	movq	AbSyn_listPointer(%rip), %rax
+	movq	(%rax), %rbx
+	movq	-64(%rbp), %rax
+	movq	%rax, %rdi
+	call	abqParseLines@PLT
+	movq	%rax, %r12
+	movl	$0, %eax
+	call	stdtypes@PLT
+	movq	%r12, %rsi
+	movq	%rax, %rdi
+	call	*%rbx
+.LVL13:
+	movq	%rax, -72(%rbp)
+	.loc 1 399 16
+	movq	sposNone(%rip), %rax
+	movq	-72(%rbp), %rdx
+	movq	%rax, %rsi
+	movl	$64, %edi
+	call	abNewOfList@PLT
+	movq	%rax, -80(%rbp)
+	.loc 1 403 2
+	call	initFile@PLT
+	.loc 1 404 16
+	movl	$0, tfImportDebug(%rip)
+	.loc 1 405 13
+	movl	$0, ablogDebug(%rip)
+	.loc 1 406 14
+	movl	$1, tipBupDebug(%rip)
+	.loc 1 407 12
+	movl	$0, titfDebug(%rip)
+	.loc 1 408 15
+	movl	$0, titfOneDebug(%rip)
+	.loc 1 409 10
+	movl	$0, tfDebug(%rip)
+	.loc 1 410 10
+	movl	$0, tcDebug(%rip)
+	.loc 1 411 14
+	movl	$0, tipAddDebug(%rip)
+	.loc 1 412 16
+	movl	$0, tfImportDebug(%rip)
+	.loc 1 414 9
+	call	stabFile@PLT
+	movq	%rax, -88(%rbp)
+	.loc 1 416 2
+	movq	-80(%rbp), %rax
+	movl	$7, %esi
+	movq	%rax, %rdi
+	call	abPutUse@PLT
+	.loc 1 418 2
+	movq	-80(%rbp), %rdx
+	movq	-88(%rbp), %rax
+	movq	%rdx, %rsi
+	movq	%rax, %rdi
+	call	scopeBind@PLT
+	.loc 1 419 2
+	movq	-80(%rbp), %rdx
+	movq	-88(%rbp), %rax
+	movq	%rdx, %rsi
+	movq	%rax, %rdi
+	call	typeInfer@PLT
+	.loc 1 422 46
+	movq	-80(%rbp), %rax
+	movzbl	2(%rax), %eax
+	.loc 1 422 2
+	cmpb	$2, %al
+	sete	%al
+	movzbl	%al, %eax
+	movl	%eax, %esi
+	leaq	.LC13(%rip), %rax
+	movq	%rax, %rdi
+	call	testTrue@PLT
+	.loc 1 423 2
+	call	comsgErrorCount@PLT
+	movl	%eax, %edx
+	movl	$0, %esi
+	leaq	.LC24(%rip), %rax
+	movq	%rax, %rdi
+	call	testIntEqual@PLT
+	.loc 1 435 2
+	call	finiFile@PLT
+	.loc 1 436 1
+	nop
+	addq	$80, %rsp
+	popq	%rbx
+	popq	%r12
+	popq	%rbp
+	.cfi_def_cfa 7, 8
+	ret
+	.cfi_endproc
+.LFE7:
+	.size	testConditionalAdd, .-testConditionalAdd
+	.section	.rodata
+.LC55:
+	.string	"R: Category == with"
+.LC56:
+	.string	"M(T: R): with == add"
+	.align 8
+.LC57:
+	.string	"V(T: Type): Category == with { if T has R then o: % -> M T }"
+	.text
+	.globl	testTinfer5
+	.type	testTinfer5, @function
+testTinfer5:
+.LFB8:
+	.loc 1 440 1
+	.cfi_startproc
+	pushq	%rbp
+	.cfi_def_cfa_offset 16
+	.cfi_offset 6, -16
+	movq	%rsp, %rbp
+	.cfi_def_cfa_register 6
+	pushq	%r12
+	pushq	%rbx
+	subq	$64, %rsp
+	.cfi_offset 12, -24
+	.cfi_offset 3, -32
+	.loc 1 441 9
+	leaq	.LC26(%rip), %rax
+	movq	%rax, -24(%rbp)
+	.loc 1 442 9
+	leaq	.LC55(%rip), %rax
+	movq	%rax, -32(%rbp)
+	.loc 1 443 9
+	leaq	.LC56(%rip), %rax
+	movq	%rax, -40(%rbp)
+	.loc 1 444 9
+	leaq	.LC57(%rip), %rax
+	movq	%rax, -48(%rbp)
+	.loc 1 451 2
+	call	initFile@PLT
+	.loc 1 452 29
+	movq	String_listPointer(%rip), %rax
+	movq	16(%rax), %r9
+	movq	-48(%rbp), %rsi
+	movq	-40(%rbp), %rcx
+	movq	-32(%rbp), %rdx
+	movq	-24(%rbp), %rax
+	movq	%rsi, %r8
+	movq	%rax, %rsi
+	movl	$4, %edi
+	movl	$0, %eax
+	call	*%r9
+.LVL14:
+	movq	%rax, -56(%rbp)
+	.loc 1 454 27
+	movq	AbSyn_listPointer(%rip), %rax
+	movq	(%rax), %rbx
+	movq	-56(%rbp), %rax
+	movq	%rax, %rdi
+	call	abqParseLines@PLT
+	movq	%rax, %r12
+	movl	$0, %eax
+	call	stdtypes@PLT
+	movq	%r12, %rsi
+	movq	%rax, %rdi
+	call	*%rbx
+.LVL15:
+	movq	%rax, -64(%rbp)
+	.loc 1 455 10
+	movq	sposNone(%rip), %rax
+	movq	-64(%rbp), %rdx
+	movq	%rax, %rsi
+	movl	$64, %edi
+	call	abNewOfList@PLT
+	movq	%rax, -72(%rbp)
+	.loc 1 456 9
+	call	stabFile@PLT
+	movq	%rax, -80(%rbp)
+	.loc 1 458 2
+	movq	-72(%rbp), %rax
+	movl	$7, %esi
+	movq	%rax, %rdi
+	call	abPutUse@PLT
+	.loc 1 459 2
+	movq	-72(%rbp), %rdx
+	movq	-80(%rbp), %rax
+	movq	%rdx, %rsi
+	movq	%rax, %rdi
+	call	scopeBind@PLT
+	.loc 1 460 2
+	movq	-72(%rbp), %rdx
+	movq	-80(%rbp), %rax
+	movq	%rdx, %rsi
+	movq	%rax, %rdi
+	call	typeInfer@PLT
+	.loc 1 462 46
+	movq	-72(%rbp), %rax
+	movzbl	2(%rax), %eax
+	.loc 1 462 2
+	cmpb	$2, %al
+	sete	%al
+	movzbl	%al, %eax
+	movl	%eax, %esi
+	leaq	.LC13(%rip), %rax
+	movq	%rax, %rdi
+	call	testTrue@PLT
+	.loc 1 463 2
+	call	comsgErrorCount@PLT
+	movl	%eax, %edx
+	movl	$0, %esi
+	leaq	.LC24(%rip), %rax
+	movq	%rax, %rdi
+	call	testIntEqual@PLT
+	.loc 1 465 2
+	call	finiFile@PLT
+	.loc 1 466 1
+	nop
+	addq	$64, %rsp
+	popq	%rbx
+	popq	%r12
+	popq	%rbp
+	.cfi_def_cfa 7, 8
+	ret
+	.cfi_endproc
+.LFE8:
+	.size	testTinfer5, .-testTinfer5
+	.section	.rodata
+	.align 8
+.LC58:
+	.string	"Bar: with { f: () -> %; a: % } == add { f():  % == a$% }"
+	.text
+	.globl	testTinfer9
+	.type	testTinfer9, @function
+testTinfer9:
+.LFB9:
+	.loc 1 470 1
+	.cfi_startproc
+	pushq	%rbp
+	.cfi_def_cfa_offset 16
+	.cfi_offset 6, -16
+	movq	%rsp, %rbp
+	.cfi_def_cfa_register 6
+	pushq	%r12
+	pushq	%rbx
+	subq	$48, %rsp
+	.cfi_offset 12, -24
+	.cfi_offset 3, -32
+	.loc 1 471 9
+	leaq	.LC58(%rip), %rax
+	movq	%rax, -24(%rbp)
+	.loc 1 478 2
+	call	initFile@PLT
+	.loc 1 479 29
+	movq	String_listPointer(%rip), %rax
+	movq	16(%rax), %rdx
+	movq	-24(%rbp), %rax
+	movq	%rax, %rsi
+	movl	$1, %edi
+	movl	$0, %eax
+	call	*%rdx
+.LVL16:
+	movq	%rax, -32(%rbp)
+	.loc 1 481 27
+	movq	AbSyn_listPointer(%rip), %rax
+	movq	(%rax), %rbx
+	movq	-32(%rbp), %rax
+	movq	%rax, %rdi
+	call	abqParseLines@PLT
+	movq	%rax, %r12
+	movl	$0, %eax
+	call	stdtypes@PLT
+	movq	%r12, %rsi
+	movq	%rax, %rdi
+	call	*%rbx
+.LVL17:
+	movq	%rax, -40(%rbp)
+	.loc 1 482 10
+	movq	sposNone(%rip), %rax
+	movq	-40(%rbp), %rdx
+	movq	%rax, %rsi
+	movl	$64, %edi
+	call	abNewOfList@PLT
+	movq	%rax, -48(%rbp)
+	.loc 1 483 9
+	call	stabFile@PLT
+	movq	%rax, -56(%rbp)
+	.loc 1 484 14
+	movl	$1, tipLitDebug(%rip)
+	.loc 1 486 2
+	movq	-48(%rbp), %rax
+	movl	$7, %esi
+	movq	%rax, %rdi
+	call	abPutUse@PLT
+	.loc 1 487 2
+	movq	-48(%rbp), %rdx
+	movq	-56(%rbp), %rax
+	movq	%rdx, %rsi
+	movq	%rax, %rdi
+	call	scopeBind@PLT
+	.loc 1 488 2
+	movq	-48(%rbp), %rdx
+	movq	-56(%rbp), %rax
+	movq	%rdx, %rsi
+	movq	%rax, %rdi
+	call	typeInfer@PLT
+	.loc 1 490 46
+	movq	-48(%rbp), %rax
+	movzbl	2(%rax), %eax
+	.loc 1 490 2
+	cmpb	$2, %al
+	sete	%al
+	movzbl	%al, %eax
+	movl	%eax, %esi
+	leaq	.LC13(%rip), %rax
+	movq	%rax, %rdi
+	call	testTrue@PLT
+	.loc 1 491 2
+	call	comsgErrorCount@PLT
+	movl	%eax, %edx
+	movl	$2, %esi
+	leaq	.LC24(%rip), %rax
+	movq	%rax, %rdi
+	call	testIntEqual@PLT
+	.loc 1 493 2
+	call	finiFile@PLT
+	.loc 1 494 1
+	nop
+	addq	$48, %rsp
+	popq	%rbx
+	popq	%r12
+	popq	%rbp
+	.cfi_def_cfa 7, 8
+	ret
+	.cfi_endproc
+.LFE9:
+	.size	testTinfer9, .-testTinfer9
+	.section	.rodata
+	.align 8
+.LC59:
+	.string	"Foo(F: with): with { f: () -> %;} == add { f(): % == (f()$Bar(F)) pretend %; }"
+	.align 8
+.LC60:
+	.string	"Bar(B: with): with { f: () -> %;} == add { f(): % == (f()$Foo(B)) pretend % }"
+	.text
+	.globl	testTinferMutualReference
+	.type	testTinferMutualReference, @function
+testTinferMutualReference:
+.LFB10:
+	.loc 1 499 1
+	.cfi_startproc
+	pushq	%rbp
+	.cfi_def_cfa_offset 16
+	.cfi_offset 6, -16
+	movq	%rsp, %rbp
+	.cfi_def_cfa_register 6
+	pushq	%r12
+	pushq	%rbx
+	subq	$48, %rsp
+	.cfi_offset 12, -24
+	.cfi_offset 3, -32
+	.loc 1 500 9
+	leaq	.LC59(%rip), %rax
+	movq	%rax, -24(%rbp)
+	.loc 1 501 9
+	leaq	.LC60(%rip), %rax
+	movq	%rax, -32(%rbp)
+	.loc 1 508 2
+	call	initFile@PLT
+	.loc 1 509 29
+	movq	String_listPointer(%rip), %rax
+	movq	16(%rax), %rcx
+	movq	-32(%rbp), %rdx
+	movq	-24(%rbp), %rax
+	movq	%rax, %rsi
+	movl	$2, %edi
+	movl	$0, %eax
+	call	*%rcx
+.LVL18:
+	movq	%rax, -40(%rbp)
+	.loc 1 511 27
+	movq	AbSyn_listPointer(%rip), %rax
+	movq	(%rax), %rbx
+	movq	-40(%rbp), %rax
+	movq	%rax, %rdi
+	call	abqParseLines@PLT
+	movq	%rax, %r12
+	movl	$0, %eax
+	call	stdtypes@PLT
+	movq	%r12, %rsi
+	movq	%rax, %rdi
+	call	*%rbx
+.LVL19:
+	movq	%rax, -48(%rbp)
+	.loc 1 512 10
+	movq	sposNone(%rip), %rax
+	movq	-48(%rbp), %rdx
+	movq	%rax, %rsi
+	movl	$64, %edi
+	call	abNewOfList@PLT
+	movq	%rax, -56(%rbp)
+	.loc 1 513 9
+	call	stabFile@PLT
+	movq	%rax, -64(%rbp)
+	.loc 1 515 2
+	movq	-56(%rbp), %rax
+	movl	$7, %esi
+	movq	%rax, %rdi
+	call	abPutUse@PLT
+	.loc 1 516 2
+	movq	-56(%rbp), %rdx
+	movq	-64(%rbp), %rax
+	movq	%rdx, %rsi
+	movq	%rax, %rdi
+	call	scopeBind@PLT
+	.loc 1 517 2
+	movq	-56(%rbp), %rdx
+	movq	-64(%rbp), %rax
+	movq	%rdx, %rsi
+	movq	%rax, %rdi
+	call	typeInfer@PLT
+	.loc 1 519 46
+	movq	-56(%rbp), %rax
+	movzbl	2(%rax), %eax
+	.loc 1 519 2
+	cmpb	$2, %al
+	sete	%al
+	movzbl	%al, %eax
+	movl	%eax, %esi
+	leaq	.LC13(%rip), %rax
+	movq	%rax, %rdi
+	call	testTrue@PLT
+	.loc 1 520 2
+	call	comsgErrorCount@PLT
+	movl	%eax, %edx
+	movl	$0, %esi
+	leaq	.LC24(%rip), %rax
+	movq	%rax, %rdi
+	call	testIntEqual@PLT
+	.loc 1 522 2
+	call	finiFile@PLT
+	.loc 1 523 1
+	nop
+	addq	$48, %rsp
+	popq	%rbx
+	popq	%r12
+	popq	%rbp
+	.cfi_def_cfa 7, 8
+	ret
+	.cfi_endproc
+.LFE10:
+	.size	testTinferMutualReference, .-testTinferMutualReference
+	.section	.rodata
+	.align 8
+.LC61:
+	.string	"I: with { zero?: % -> Boolean } == add { zero?(t: %): Boolean == never }"
+	.align 8
+.LC62:
+	.string	"C(i: I): with { if zero? i then { foo: % -> () } } ==     add { if zero? i then foo(i: %): () == never };"
+	.text
+	.globl	testTinferValueConditionalAliased
+	.type	testTinferValueConditionalAliased, @function
+testTinferValueConditionalAliased:
+.LFB11:
+	.loc 1 527 1
+	.cfi_startproc
+	pushq	%rbp
+	.cfi_def_cfa_offset 16
+	.cfi_offset 6, -16
+	movq	%rsp, %rbp
+	.cfi_def_cfa_register 6
+	pushq	%r12
+	pushq	%rbx
+	subq	$48, %rsp
+	.cfi_offset 12, -24
+	.cfi_offset 3, -32
+	.loc 1 528 9
+	leaq	.LC61(%rip), %rax
+	movq	%rax, -24(%rbp)
+	.loc 1 529 9
+	leaq	.LC62(%rip), %rax
+	movq	%rax, -32(%rbp)
+	.loc 1 538 2
+	call	initFile@PLT
+	.loc 1 539 29
+	movq	String_listPointer(%rip), %rax
+	movq	16(%rax), %rcx
+	movq	-32(%rbp), %rdx
+	movq	-24(%rbp), %rax
+	movq	%rax, %rsi
+	movl	$2, %edi
+	movl	$0, %eax
+	call	*%rcx
+.LVL20:
+	movq	%rax, -40(%rbp)
+	.loc 1 541 27
+	movq	AbSyn_listPointer(%rip), %rax
+	movq	(%rax), %rbx
+	movq	-40(%rbp), %rax
+	movq	%rax, %rdi
+	call	abqParseLines@PLT
+	movq	%rax, %r12
+	movl	$0, %eax
+	call	stdtypes@PLT
+	movq	%r12, %rsi
+	movq	%rax, %rdi
+	call	*%rbx
+.LVL21:
+	movq	%rax, -48(%rbp)
+	.loc 1 542 10
+	movq	sposNone(%rip), %rax
+	movq	-48(%rbp), %rdx
+	movq	%rax, %rsi
+	movl	$64, %edi
+	call	abNewOfList@PLT
+	movq	%rax, -56(%rbp)
+	.loc 1 543 9
+	call	stabFile@PLT
+	movq	%rax, -64(%rbp)
+	.loc 1 545 2
+	movq	-56(%rbp), %rax
+	movl	$7, %esi
+	movq	%rax, %rdi
+	call	abPutUse@PLT
+	.loc 1 546 2
+	movq	-56(%rbp), %rdx
+	movq	-64(%rbp), %rax
+	movq	%rdx, %rsi
+	movq	%rax, %rdi
+	call	scopeBind@PLT
+	.loc 1 547 2
+	movq	-56(%rbp), %rdx
+	movq	-64(%rbp), %rax
+	movq	%rdx, %rsi
+	movq	%rax, %rdi
+	call	typeInfer@PLT
+	.loc 1 549 46
+	movq	-56(%rbp), %rax
+	movzbl	2(%rax), %eax
+	.loc 1 549 2
+	cmpb	$2, %al
+	sete	%al
+	movzbl	%al, %eax
+	movl	%eax, %esi
+	leaq	.LC13(%rip), %rax
+	movq	%rax, %rdi
+	call	testTrue@PLT
+	.loc 1 550 2
+	call	comsgErrorCount@PLT
+	movl	%eax, %edx
+	movl	$0, %esi
+	leaq	.LC24(%rip), %rax
+	movq	%rax, %rdi
+	call	testIntEqual@PLT
+	.loc 1 552 2
+	call	finiFile@PLT
+	.loc 1 553 1
+	nop
+	addq	$48, %rsp
+	popq	%rbx
+	popq	%r12
+	popq	%rbp
+	.cfi_def_cfa 7, 8
+	ret
+	.cfi_endproc
+.LFE11:
+	.size	testTinferValueConditionalAliased, .-testTinferValueConditionalAliased
+	.section	.rodata
+	.align 8
+.LC63:
+	.string	"C(i: I): with { if zero? i then { foo: % -> () } } ==     add { import from I; if zero? i then foo(n: %): () == never };"
+	.text
+	.globl	testTinferValueConditional
+	.type	testTinferValueConditional, @function
+testTinferValueConditional:
+.LFB12:
+	.loc 1 557 1
+	.cfi_startproc
+	pushq	%rbp
+	.cfi_def_cfa_offset 16
+	.cfi_offset 6, -16
+	movq	%rsp, %rbp
+	.cfi_def_cfa_register 6
+	pushq	%r12
+	pushq	%rbx
+	subq	$48, %rsp
+	.cfi_offset 12, -24
+	.cfi_offset 3, -32
+	.loc 1 558 9
+	leaq	.LC61(%rip), %rax
+	movq	%rax, -24(%rbp)
+	.loc 1 559 9
+	leaq	.LC63(%rip), %rax
+	movq	%rax, -32(%rbp)
+	.loc 1 567 2
+	call	initFile@PLT
+	.loc 1 569 29
+	movq	String_listPointer(%rip), %rax
+	movq	16(%rax), %rcx
+	movq	-32(%rbp), %rdx
+	movq	-24(%rbp), %rax
+	movq	%rax, %rsi
+	movl	$2, %edi
+	movl	$0, %eax
+	call	*%rcx
+.LVL22:
+	movq	%rax, -40(%rbp)
+	.loc 1 570 27
+	movq	AbSyn_listPointer(%rip), %rax
+	movq	(%rax), %rbx
+	movq	-40(%rbp), %rax
+	movq	%rax, %rdi
+	call	abqParseLines@PLT
+	movq	%rax, %r12
+	movl	$0, %eax
+	call	stdtypes@PLT
+	movq	%r12, %rsi
+	movq	%rax, %rdi
+	call	*%rbx
+.LVL23:
+	movq	%rax, -48(%rbp)
+	.loc 1 571 10
+	movq	sposNone(%rip), %rax
+	movq	-48(%rbp), %rdx
+	movq	%rax, %rsi
+	movl	$64, %edi
+	call	abNewOfList@PLT
+	movq	%rax, -56(%rbp)
+	.loc 1 572 9
+	call	stabFile@PLT
+	movq	%rax, -64(%rbp)
+	.loc 1 573 16
+	movl	$1, tfImportDebug(%rip)
+	.loc 1 574 2
+	movq	-56(%rbp), %rax
+	movl	$7, %esi
+	movq	%rax, %rdi
+	call	abPutUse@PLT
+	.loc 1 575 2
+	movq	-56(%rbp), %rdx
+	movq	-64(%rbp), %rax
+	movq	%rdx, %rsi
+	movq	%rax, %rdi
+	call	scopeBind@PLT
+	.loc 1 576 2
+	movq	-56(%rbp), %rdx
+	movq	-64(%rbp), %rax
+	movq	%rdx, %rsi
+	movq	%rax, %rdi
+	call	typeInfer@PLT
+	.loc 1 578 46
+	movq	-56(%rbp), %rax
+	movzbl	2(%rax), %eax
+	.loc 1 578 2
+	cmpb	$2, %al
+	sete	%al
+	movzbl	%al, %eax
+	movl	%eax, %esi
+	leaq	.LC13(%rip), %rax
+	movq	%rax, %rdi
+	call	testTrue@PLT
+	.loc 1 579 2
+	call	comsgErrorCount@PLT
+	movl	%eax, %edx
+	movl	$0, %esi
+	leaq	.LC24(%rip), %rax
+	movq	%rax, %rdi
+	call	testIntEqual@PLT
+	.loc 1 581 2
+	call	finiFile@PLT
+	.loc 1 582 1
+	nop
+	addq	$48, %rsp
+	popq	%rbx
+	popq	%r12
+	popq	%rbp
+	.cfi_def_cfa 7, 8
+	ret
+	.cfi_endproc
+.LFE12:
+	.size	testTinferValueConditional, .-testTinferValueConditional
+	.section	.rodata
+.LC64:
+	.string	"T: with == add"
+.LC65:
+	.string	"f(): T == { import from 'a' }"
+	.align 8
+.LC66:
+	.string	"f(): T == { import from 'a', 'b' }"
+	.align 8
+.LC67:
+	.string	"f(): T == { inline from 'a', 'b' }"
+	.align 8
+.LC68:
+	.string	"f(): 'a' == { import from 'a'; a }"
+	.align 8
+.LC69:
+	.string	"X: Category == with { import from 'a' }"
+	.text
+	.globl	testTinferImport
+	.type	testTinferImport, @function
+testTinferImport:
+.LFB13:
+	.loc 1 586 1
+	.cfi_startproc
+	pushq	%rbp
+	.cfi_def_cfa_offset 16
+	.cfi_offset 6, -16
+	movq	%rsp, %rbp
+	.cfi_def_cfa_register 6
+	.loc 1 587 2
+	call	initFile@PLT
+	.loc 1 588 2
+	call	stabFile@PLT
+	movq	%rax, %rdi
+	call	stdscope@PLT
+	.loc 1 590 2
+	call	stabFile@PLT
+	movq	%rax, %rdx
+	leaq	.LC64(%rip), %rax
+	movq	%rax, %rsi
+	movq	%rdx, %rdi
+	call	tfqTypeInfer@PLT
+	.loc 1 591 2
+	call	stabFile@PLT
+	movq	%rax, %rdx
+	leaq	.LC65(%rip), %rax
+	movq	%rax, %rsi
+	movq	%rdx, %rdi
+	call	tfqTypeInferFails@PLT
+	.loc 1 592 2
+	call	stabFile@PLT
+	movq	%rax, %rdx
+	leaq	.LC66(%rip), %rax
+	movq	%rax, %rsi
+	movq	%rdx, %rdi
+	call	tfqTypeInferFails@PLT
+	.loc 1 593 2
+	call	stabFile@PLT
+	movq	%rax, %rdx
+	leaq	.LC67(%rip), %rax
+	movq	%rax, %rsi
+	movq	%rdx, %rdi
+	call	tfqTypeInferFails@PLT
+	.loc 1 594 2
+	call	stabFile@PLT
+	movq	%rax, %rdx
+	leaq	.LC68(%rip), %rax
+	movq	%rax, %rsi
+	movq	%rdx, %rdi
+	call	tfqTypeInfer@PLT
+	.loc 1 595 2
+	call	stabFile@PLT
+	movq	%rax, %rdx
+	leaq	.LC69(%rip), %rax
+	movq	%rax, %rsi
+	movq	%rdx, %rdi
+	call	tfqTypeInfer@PLT
+	.loc 1 597 2
+	call	finiFile@PLT
+	.loc 1 598 1
+	nop
+	popq	%rbp
+	.cfi_def_cfa 7, 8
+	ret
+	.cfi_endproc
+.LFE13:
+	.size	testTinferImport, .-testTinferImport
+.Letext0:
+	.file 2 "/usr/include/x86_64-linux-gnu/bits/types.h"
+	.file 3 "<built-in>"
+	.file 4 "/usr/lib/gcc/x86_64-linux-gnu/12/include/stddef.h"
+	.file 5 "/usr/include/x86_64-linux-gnu/bits/types/struct_FILE.h"
+	.file 6 "/usr/include/x86_64-linux-gnu/bits/types/FILE.h"
+	.file 7 "./cport.h"
+	.file 8 "./buffer.h"
+	.file 9 "./ostream.h"
+	.file 10 "./axlgen.h"
+	.file 11 "./fname.h"
+	.file 12 "./srcpos.h"
+	.file 13 "./table.h"
+	.file 14 "./bigint.h"
+	.file 15 "./axlobs.h"
+	.file 16 "./symbol.h"
+	.file 17 "./absyn.h"
+	.file 18 "./ablogic.h"
+	.file 19 "./syme.h"
+	.file 20 "./tform.h"
+	.file 21 "./foam.h"
+	.file 22 "./lib.h"
+	.file 23 "./stab.h"
+	.file 24 "./strops.h"
+	.file 25 "./debug.h"
+	.file 26 "./tfcond.h"
+	.file 27 "./symeset.h"
+	.file 28 "./tinfer.h"
+	.file 29 "test/abquick.h"
+	.file 30 "./sefo.h"
+	.file 31 "./format.h"
+	.file 32 "./ti_sef.h"
+	.file 33 "test/testlib.h"
+	.file 34 "./comsg.h"
+	.file 35 "./scobind.h"
+	.file 36 "./abuse.h"
+	.section	.debug_info,"",@progbits
+.Ldebug_info0:
+	.long	0x5eff
+	.value	0x5
+	.byte	0x1
+	.byte	0x8
+	.long	.Ldebug_abbrev0
+	.uleb128 0x30
+	.long	.LASF807
+	.byte	0xc
+	.long	.LASF0
+	.long	.LASF1
+	.quad	.Ltext0
+	.quad	.Letext0-.Ltext0
+	.long	.Ldebug_line0
+	.uleb128 0x31
+	.byte	0x4
+	.byte	0x5
+	.string	"int"
+	.uleb128 0x16
+	.byte	0x1
+	.byte	0x8
+	.long	.LASF2
+	.uleb128 0x16
+	.byte	0x2
+	.byte	0x7
+	.long	.LASF3
+	.uleb128 0x16
+	.byte	0x4
+	.byte	0x7
+	.long	.LASF4
+	.uleb128 0x16
+	.byte	0x8
+	.byte	0x7
+	.long	.LASF5
+	.uleb128 0x16
+	.byte	0x1
+	.byte	0x6
+	.long	.LASF6
+	.uleb128 0x16
+	.byte	0x2
+	.byte	0x5
+	.long	.LASF7
+	.uleb128 0x16
+	.byte	0x8
+	.byte	0x5
+	.long	.LASF8
+	.uleb128 0xb
+	.long	.LASF9
+	.byte	0x2
+	.byte	0x98
+	.byte	0x12
+	.long	0x5f
+	.uleb128 0xb
+	.long	.LASF10
+	.byte	0x2
+	.byte	0x99
+	.byte	0x12
+	.long	0x5f
+	.uleb128 0x32
+	.byte	0x8
+	.uleb128 0x5
+	.long	0x85
+	.uleb128 0x16
+	.byte	0x1
+	.byte	0x6
+	.long	.LASF11
+	.uleb128 0x20
+	.long	0x85
+	.uleb128 0x16
+	.byte	0x4
+	.byte	0x4
+	.long	.LASF12
+	.uleb128 0x16
+	.byte	0x8
+	.byte	0x4
+	.long	.LASF13
+	.uleb128 0x33
+	.long	.LASF808
+	.byte	0x18
+	.byte	0x3
+	.byte	0
+	.long	0xd4
+	.uleb128 0x21
+	.long	.LASF14
+	.long	0x43
+	.byte	0
+	.uleb128 0x21
+	.long	.LASF15
+	.long	0x43
+	.byte	0x4
+	.uleb128 0x21
+	.long	.LASF16
+	.long	0x7e
+	.byte	0x8
+	.uleb128 0x21
+	.long	.LASF17
+	.long	0x7e
+	.byte	0x10
+	.byte	0
+	.uleb128 0xb
+	.long	.LASF18
+	.byte	0x4
+	.byte	0xd6
+	.byte	0x1b
+	.long	0x4a
+	.uleb128 0xe
+	.long	.LASF73
+	.byte	0xd8
+	.byte	0x5
+	.byte	0x31
+	.byte	0x8
+	.long	0x267
+	.uleb128 0x3
+	.long	.LASF19
+	.byte	0x5
+	.byte	0x33
+	.byte	0x7
+	.long	0x2e
+	.byte	0
+	.uleb128 0x3
+	.long	.LASF20
+	.byte	0x5
+	.byte	0x36
+	.byte	0x9
+	.long	0x80
+	.byte	0x8
+	.uleb128 0x3
+	.long	.LASF21
+	.byte	0x5
+	.byte	0x37
+	.byte	0x9
+	.long	0x80
+	.byte	0x10
+	.uleb128 0x3
+	.long	.LASF22
+	.byte	0x5
+	.byte	0x38
+	.byte	0x9
+	.long	0x80
+	.byte	0x18
+	.uleb128 0x3
+	.long	.LASF23
+	.byte	0x5
+	.byte	0x39
+	.byte	0x9
+	.long	0x80
+	.byte	0x20
+	.uleb128 0x3
+	.long	.LASF24
+	.byte	0x5
+	.byte	0x3a
+	.byte	0x9
+	.long	0x80
+	.byte	0x28
+	.uleb128 0x3
+	.long	.LASF25
+	.byte	0x5
+	.byte	0x3b
+	.byte	0x9
+	.long	0x80
+	.byte	0x30
+	.uleb128 0x3
+	.long	.LASF26
+	.byte	0x5
+	.byte	0x3c
+	.byte	0x9
+	.long	0x80
+	.byte	0x38
+	.uleb128 0x3
+	.long	.LASF27
+	.byte	0x5
+	.byte	0x3d
+	.byte	0x9
+	.long	0x80
+	.byte	0x40
+	.uleb128 0x3
+	.long	.LASF28
+	.byte	0x5
+	.byte	0x40
+	.byte	0x9
+	.long	0x80
+	.byte	0x48
+	.uleb128 0x3
+	.long	.LASF29
+	.byte	0x5
+	.byte	0x41
+	.byte	0x9
+	.long	0x80
+	.byte	0x50
+	.uleb128 0x3
+	.long	.LASF30
+	.byte	0x5
+	.byte	0x42
+	.byte	0x9
+	.long	0x80
+	.byte	0x58
+	.uleb128 0x3
+	.long	.LASF31
+	.byte	0x5
+	.byte	0x44
+	.byte	0x16
+	.long	0x280
+	.byte	0x60
+	.uleb128 0x3
+	.long	.LASF32
+	.byte	0x5
+	.byte	0x46
+	.byte	0x14
+	.long	0x285
+	.byte	0x68
+	.uleb128 0x3
+	.long	.LASF33
+	.byte	0x5
+	.byte	0x48
+	.byte	0x7
+	.long	0x2e
+	.byte	0x70
+	.uleb128 0x3
+	.long	.LASF34
+	.byte	0x5
+	.byte	0x49
+	.byte	0x7
+	.long	0x2e
+	.byte	0x74
+	.uleb128 0x3
+	.long	.LASF35
+	.byte	0x5
+	.byte	0x4a
+	.byte	0xb
+	.long	0x66
+	.byte	0x78
+	.uleb128 0x3
+	.long	.LASF36
+	.byte	0x5
+	.byte	0x4d
+	.byte	0x12
+	.long	0x3c
+	.byte	0x80
+	.uleb128 0x3
+	.long	.LASF37
+	.byte	0x5
+	.byte	0x4e
+	.byte	0xf
+	.long	0x51
+	.byte	0x82
+	.uleb128 0x3
+	.long	.LASF38
+	.byte	0x5
+	.byte	0x4f
+	.byte	0x8
+	.long	0x28a
+	.byte	0x83
+	.uleb128 0x3
+	.long	.LASF39
+	.byte	0x5
+	.byte	0x51
+	.byte	0xf
+	.long	0x29a
+	.byte	0x88
+	.uleb128 0x3
+	.long	.LASF40
+	.byte	0x5
+	.byte	0x59
+	.byte	0xd
+	.long	0x72
+	.byte	0x90
+	.uleb128 0x3
+	.long	.LASF41
+	.byte	0x5
+	.byte	0x5b
+	.byte	0x17
+	.long	0x2a4
+	.byte	0x98
+	.uleb128 0x3
+	.long	.LASF42
+	.byte	0x5
+	.byte	0x5c
+	.byte	0x19
+	.long	0x2ae
+	.byte	0xa0
+	.uleb128 0x3
+	.long	.LASF43
+	.byte	0x5
+	.byte	0x5d
+	.byte	0x14
+	.long	0x285
+	.byte	0xa8
+	.uleb128 0x3
+	.long	.LASF44
+	.byte	0x5
+	.byte	0x5e
+	.byte	0x9
+	.long	0x7e
+	.byte	0xb0
+	.uleb128 0x3
+	.long	.LASF45
+	.byte	0x5
+	.byte	0x5f
+	.byte	0xa
+	.long	0xd4
+	.byte	0xb8
+	.uleb128 0x3
+	.long	.LASF46
+	.byte	0x5
+	.byte	0x60
+	.byte	0x7
+	.long	0x2e
+	.byte	0xc0
+	.uleb128 0x3
+	.long	.LASF47
+	.byte	0x5
+	.byte	0x62
+	.byte	0x8
+	.long	0x2b3
+	.byte	0xc4
+	.byte	0
+	.uleb128 0xb
+	.long	.LASF48
+	.byte	0x6
+	.byte	0x7
+	.byte	0x19
+	.long	0xe0
+	.uleb128 0x34
+	.long	.LASF809
+	.byte	0x5
+	.byte	0x2b
+	.byte	0xe
+	.uleb128 0x13
+	.long	.LASF49
+	.uleb128 0x5
+	.long	0x27b
+	.uleb128 0x5
+	.long	0xe0
+	.uleb128 0x17
+	.long	0x85
+	.long	0x29a
+	.uleb128 0x18
+	.long	0x4a
+	.byte	0
+	.byte	0
+	.uleb128 0x5
+	.long	0x273
+	.uleb128 0x13
+	.long	.LASF50
+	.uleb128 0x5
+	.long	0x29f
+	.uleb128 0x13
+	.long	.LASF51
+	.uleb128 0x5
+	.long	0x2a9
+	.uleb128 0x17
+	.long	0x85
+	.long	0x2c3
+	.uleb128 0x18
+	.long	0x4a
+	.byte	0x13
+	.byte	0
+	.uleb128 0x5
+	.long	0x267
+	.uleb128 0x16
+	.byte	0x8
+	.byte	0x5
+	.long	.LASF52
+	.uleb128 0x5
+	.long	0x8c
+	.uleb128 0x11
+	.long	.LASF53
+	.byte	0x7
+	.value	0x138
+	.byte	0x17
+	.long	0x35
+	.uleb128 0x11
+	.long	.LASF54
+	.byte	0x7
+	.value	0x139
+	.byte	0x18
+	.long	0x3c
+	.uleb128 0x11
+	.long	.LASF55
+	.byte	0x7
+	.value	0x13a
+	.byte	0x17
+	.long	0x4a
+	.uleb128 0x11
+	.long	.LASF56
+	.byte	0x7
+	.value	0x141
+	.byte	0x10
+	.long	0x5f
+	.uleb128 0x11
+	.long	.LASF57
+	.byte	0x7
+	.value	0x142
+	.byte	0x19
+	.long	0x4a
+	.uleb128 0x11
+	.long	.LASF58
+	.byte	0x7
+	.value	0x14e
+	.byte	0x16
+	.long	0x43
+	.uleb128 0x11
+	.long	.LASF59
+	.byte	0x7
+	.value	0x156
+	.byte	0xd
+	.long	0x2e
+	.uleb128 0x11
+	.long	.LASF60
+	.byte	0x7
+	.value	0x157
+	.byte	0xf
+	.long	0x308
+	.uleb128 0x11
+	.long	.LASF61
+	.byte	0x7
+	.value	0x158
+	.byte	0x10
+	.long	0xd4
+	.uleb128 0x11
+	.long	.LASF62
+	.byte	0x7
+	.value	0x159
+	.byte	0xf
+	.long	0x2ee
+	.uleb128 0x11
+	.long	.LASF63
+	.byte	0x7
+	.value	0x166
+	.byte	0x12
+	.long	0x7e
+	.uleb128 0x11
+	.long	.LASF64
+	.byte	0x7
+	.value	0x16a
+	.byte	0xf
+	.long	0x80
+	.uleb128 0x11
+	.long	.LASF65
+	.byte	0x7
+	.value	0x16b
+	.byte	0x15
+	.long	0x2cf
+	.uleb128 0x11
+	.long	.LASF66
+	.byte	0x7
+	.value	0x176
+	.byte	0x11
+	.long	0x91
+	.uleb128 0x11
+	.long	.LASF67
+	.byte	0x7
+	.value	0x178
+	.byte	0x10
+	.long	0x98
+	.uleb128 0x11
+	.long	.LASF68
+	.byte	0x7
+	.value	0x17a
+	.byte	0x10
+	.long	0x98
+	.uleb128 0xb
+	.long	.LASF69
+	.byte	0x8
+	.byte	0x10
+	.byte	0x18
+	.long	0x3b0
+	.uleb128 0x5
+	.long	0x3b5
+	.uleb128 0x13
+	.long	.LASF70
+	.uleb128 0xb
+	.long	.LASF71
+	.byte	0x9
+	.byte	0x7
+	.byte	0xf
+	.long	0x3c6
+	.uleb128 0x5
+	.long	0x3cb
+	.uleb128 0x9
+	.long	0x2e
+	.long	0x3df
+	.uleb128 0x1
+	.long	0x370
+	.uleb128 0x1
+	.long	0x2e
+	.byte	0
+	.uleb128 0xb
+	.long	.LASF72
+	.byte	0x9
+	.byte	0x9
+	.byte	0x19
+	.long	0x3eb
+	.uleb128 0x5
+	.long	0x3f0
+	.uleb128 0xe
+	.long	.LASF74
+	.byte	0x10
+	.byte	0x9
+	.byte	0x15
+	.byte	0x8
+	.long	0x418
+	.uleb128 0x14
+	.string	"ops"
+	.byte	0x9
+	.byte	0x16
+	.byte	0xd
+	.long	0x4b4
+	.byte	0
+	.uleb128 0x3
+	.long	.LASF75
+	.byte	0x9
+	.byte	0x1a
+	.byte	0x4
+	.long	0x4c5
+	.byte	0x8
+	.byte	0
+	.uleb128 0xb
+	.long	.LASF76
+	.byte	0x9
+	.byte	0xb
+	.byte	0xe
+	.long	0x424
+	.uleb128 0x15
+	.long	0x434
+	.uleb128 0x1
+	.long	0x3df
+	.uleb128 0x1
+	.long	0x85
+	.byte	0
+	.uleb128 0xb
+	.long	.LASF77
+	.byte	0x9
+	.byte	0xc
+	.byte	0xd
+	.long	0x440
+	.uleb128 0x9
+	.long	0x2e
+	.long	0x459
+	.uleb128 0x1
+	.long	0x3df
+	.uleb128 0x1
+	.long	0x2cf
+	.uleb128 0x1
+	.long	0x2e
+	.byte	0
+	.uleb128 0xb
+	.long	.LASF78
+	.byte	0x9
+	.byte	0xd
+	.byte	0xe
+	.long	0x465
+	.uleb128 0x15
+	.long	0x470
+	.uleb128 0x1
+	.long	0x3df
+	.byte	0
+	.uleb128 0xe
+	.long	.LASF79
+	.byte	0x18
+	.byte	0x9
+	.byte	0xf
+	.byte	0x10
+	.long	0x4a5
+	.uleb128 0x3
+	.long	.LASF80
+	.byte	0x9
+	.byte	0x10
+	.byte	0x12
+	.long	0x4a5
+	.byte	0
+	.uleb128 0x3
+	.long	.LASF81
+	.byte	0x9
+	.byte	0x11
+	.byte	0x14
+	.long	0x4aa
+	.byte	0x8
+	.uleb128 0x3
+	.long	.LASF82
+	.byte	0x9
+	.byte	0x12
+	.byte	0xe
+	.long	0x4af
+	.byte	0x10
+	.byte	0
+	.uleb128 0x5
+	.long	0x418
+	.uleb128 0x5
+	.long	0x434
+	.uleb128 0x5
+	.long	0x459
+	.uleb128 0xb
+	.long	.LASF83
+	.byte	0x9
+	.byte	0x13
+	.byte	0x4
+	.long	0x4c0
+	.uleb128 0x5
+	.long	0x470
+	.uleb128 0x35
+	.byte	0x8
+	.byte	0x9
+	.byte	0x17
+	.byte	0x2
+	.long	0x4e5
+	.uleb128 0x2c
+	.string	"obj"
+	.byte	0x18
+	.byte	0xb
+	.long	0x356
+	.uleb128 0x2c
+	.string	"fun"
+	.byte	0x19
+	.byte	0x11
+	.long	0x3ba
+	.byte	0
+	.uleb128 0x5
+	.long	0x9f
+	.uleb128 0x5
+	.long	0x2e
+	.uleb128 0xb
+	.long	.LASF84
+	.byte	0xa
+	.byte	0x28
+	.byte	0x1b
+	.long	0x4fb
+	.uleb128 0x5
+	.long	0x500
+	.uleb128 0xe
+	.long	.LASF85
+	.byte	0x50
+	.byte	0xb
+	.byte	0xe
+	.byte	0x8
+	.long	0x51b
+	.uleb128 0x3
+	.long	.LASF86
+	.byte	0xb
+	.byte	0xf
+	.byte	0x9
+	.long	0x22cf
+	.byte	0
+	.byte	0
+	.uleb128 0xb
+	.long	.LASF87
+	.byte	0xa
+	.byte	0x29
+	.byte	0xf
+	.long	0x2ee
+	.uleb128 0xb
+	.long	.LASF88
+	.byte	0xa
+	.byte	0x2a
+	.byte	0x1b
+	.long	0x533
+	.uleb128 0x5
+	.long	0x538
+	.uleb128 0xe
+	.long	.LASF89
+	.byte	0x10
+	.byte	0xc
+	.byte	0x43
+	.byte	0x8
+	.long	0x560
+	.uleb128 0x3
+	.long	.LASF90
+	.byte	0xc
+	.byte	0x44
+	.byte	0x9
+	.long	0x51b
+	.byte	0
+	.uleb128 0x3
+	.long	.LASF91
+	.byte	0xc
+	.byte	0x45
+	.byte	0xe
+	.long	0x560
+	.byte	0x8
+	.byte	0
+	.uleb128 0xb
+	.long	.LASF92
+	.byte	0xa
+	.byte	0x2b
+	.byte	0x19
+	.long	0x56c
+	.uleb128 0x36
+	.long	.LASF111
+	.byte	0x8
+	.byte	0xc
+	.byte	0x3e
+	.byte	0x7
+	.long	0x590
+	.uleb128 0x2d
+	.long	.LASF90
+	.byte	0x3f
+	.byte	0x9
+	.long	0x51b
+	.uleb128 0x2d
+	.long	.LASF93
+	.byte	0x40
+	.byte	0xd
+	.long	0x527
+	.byte	0
+	.uleb128 0xb
+	.long	.LASF94
+	.byte	0xa
+	.byte	0x2d
+	.byte	0x18
+	.long	0x59c
+	.uleb128 0x5
+	.long	0x5a1
+	.uleb128 0xe
+	.long	.LASF95
+	.byte	0x30
+	.byte	0xd
+	.byte	0x21
+	.byte	0x8
+	.long	0x5fd
+	.uleb128 0x3
+	.long	.LASF96
+	.byte	0xd
+	.byte	0x22
+	.byte	0xd
+	.long	0x2303
+	.byte	0
+	.uleb128 0x3
+	.long	.LASF97
+	.byte	0xd
+	.byte	0x23
+	.byte	0xb
+	.long	0x2323
+	.byte	0x8
+	.uleb128 0x3
+	.long	.LASF98
+	.byte	0xd
+	.byte	0x24
+	.byte	0xa
+	.long	0x356
+	.byte	0x10
+	.uleb128 0x3
+	.long	.LASF99
+	.byte	0xd
+	.byte	0x25
+	.byte	0x9
+	.long	0x33c
+	.byte	0x18
+	.uleb128 0x3
+	.long	.LASF100
+	.byte	0xd
+	.byte	0x26
+	.byte	0x9
+	.long	0x33c
+	.byte	0x20
+	.uleb128 0x3
+	.long	.LASF101
+	.byte	0xd
+	.byte	0x27
+	.byte	0x13
+	.long	0x238f
+	.byte	0x28
+	.byte	0
+	.uleb128 0xb
+	.long	.LASF102
+	.byte	0xa
+	.byte	0x2e
+	.byte	0x17
+	.long	0x609
+	.uleb128 0x5
+	.long	0x60e
+	.uleb128 0xe
+	.long	.LASF103
+	.byte	0x40
+	.byte	0xe
+	.byte	0x11
+	.byte	0x8
+	.long	0x650
+	.uleb128 0x3
+	.long	.LASF104
+	.byte	0xe
+	.byte	0x12
+	.byte	0x7
+	.long	0x322
+	.byte	0
+	.uleb128 0x3
+	.long	.LASF105
+	.byte	0xe
+	.byte	0x13
+	.byte	0x9
+	.long	0x33c
+	.byte	0x8
+	.uleb128 0x3
+	.long	.LASF106
+	.byte	0xe
+	.byte	0x14
+	.byte	0x9
+	.long	0x33c
+	.byte	0x10
+	.uleb128 0x3
+	.long	.LASF107
+	.byte	0xe
+	.byte	0x15
+	.byte	0x8
+	.long	0x51e5
+	.byte	0x18
+	.byte	0
+	.uleb128 0xb
+	.long	.LASF108
+	.byte	0xf
+	.byte	0x19
+	.byte	0x19
+	.long	0x65c
+	.uleb128 0x5
+	.long	0x661
+	.uleb128 0xe
+	.long	.LASF109
+	.byte	0x10
+	.byte	0x10
+	.byte	0x19
+	.byte	0x8
+	.long	0x689
+	.uleb128 0x3
+	.long	.LASF98
+	.byte	0x10
+	.byte	0x1a
+	.byte	0x13
+	.long	0x2394
+	.byte	0
+	.uleb128 0x14
+	.string	"str"
+	.byte	0x10
+	.byte	0x1b
+	.byte	0x9
+	.long	0x363
+	.byte	0x8
+	.byte	0
+	.uleb128 0x2e
+	.string	"Doc"
+	.byte	0x1c
+	.long	0x693
+	.uleb128 0x5
+	.long	0x698
+	.uleb128 0x37
+	.string	"doc"
+	.uleb128 0xb
+	.long	.LASF110
+	.byte	0xf
+	.byte	0x1d
+	.byte	0x17
+	.long	0x6a9
+	.uleb128 0x5
+	.long	0x6ae
+	.uleb128 0x2f
+	.long	.LASF112
+	.byte	0x80
+	.byte	0x11
+	.value	0x2e0
+	.long	0xa71
+	.uleb128 0x6
+	.long	.LASF113
+	.byte	0x11
+	.value	0x2e4
+	.byte	0xf
+	.long	0x2731
+	.uleb128 0x6
+	.long	.LASF114
+	.byte	0x11
+	.value	0x2e5
+	.byte	0xf
+	.long	0x27ef
+	.uleb128 0x6
+	.long	.LASF115
+	.byte	0x11
+	.value	0x2ec
+	.byte	0x11
+	.long	0x2819
+	.uleb128 0x6
+	.long	.LASF116
+	.byte	0x11
+	.value	0x2ed
+	.byte	0xe
+	.long	0x2843
+	.uleb128 0x6
+	.long	.LASF117
+	.byte	0x11
+	.value	0x2ee
+	.byte	0x10
+	.long	0x286d
+	.uleb128 0x6
+	.long	.LASF118
+	.byte	0x11
+	.value	0x2f0
+	.byte	0x13
+	.long	0x2897
+	.uleb128 0x6
+	.long	.LASF119
+	.byte	0x11
+	.value	0x2f1
+	.byte	0x16
+	.long	0x28c1
+	.uleb128 0x6
+	.long	.LASF120
+	.byte	0x11
+	.value	0x2f2
+	.byte	0x15
+	.long	0x2915
+	.uleb128 0x6
+	.long	.LASF121
+	.byte	0x11
+	.value	0x2f3
+	.byte	0x14
+	.long	0x28eb
+	.uleb128 0x6
+	.long	.LASF122
+	.byte	0x11
+	.value	0x2f6
+	.byte	0xf
+	.long	0x293f
+	.uleb128 0x6
+	.long	.LASF123
+	.byte	0x11
+	.value	0x2f7
+	.byte	0xf
+	.long	0x2977
+	.uleb128 0x6
+	.long	.LASF124
+	.byte	0x11
+	.value	0x2f8
+	.byte	0x11
+	.long	0x29a1
+	.uleb128 0x6
+	.long	.LASF125
+	.byte	0x11
+	.value	0x2f9
+	.byte	0x12
+	.long	0x29d8
+	.uleb128 0x6
+	.long	.LASF126
+	.byte	0x11
+	.value	0x2fa
+	.byte	0x12
+	.long	0x2a02
+	.uleb128 0x6
+	.long	.LASF127
+	.byte	0x11
+	.value	0x2fb
+	.byte	0x11
+	.long	0x2a3a
+	.uleb128 0x6
+	.long	.LASF128
+	.byte	0x11
+	.value	0x2fc
+	.byte	0x13
+	.long	0x2a64
+	.uleb128 0x6
+	.long	.LASF129
+	.byte	0x11
+	.value	0x2fd
+	.byte	0x13
+	.long	0x2a8e
+	.uleb128 0x6
+	.long	.LASF130
+	.byte	0x11
+	.value	0x2fe
+	.byte	0x14
+	.long	0x2b27
+	.uleb128 0x6
+	.long	.LASF131
+	.byte	0x11
+	.value	0x2ff
+	.byte	0x13
+	.long	0x2b5f
+	.uleb128 0x6
+	.long	.LASF132
+	.byte	0x11
+	.value	0x300
+	.byte	0x11
+	.long	0x2b97
+	.uleb128 0x6
+	.long	.LASF133
+	.byte	0x11
+	.value	0x301
+	.byte	0x13
+	.long	0x2bc1
+	.uleb128 0x6
+	.long	.LASF134
+	.byte	0x11
+	.value	0x302
+	.byte	0x12
+	.long	0x2beb
+	.uleb128 0x6
+	.long	.LASF135
+	.byte	0x11
+	.value	0x303
+	.byte	0x13
+	.long	0x2c23
+	.uleb128 0x6
+	.long	.LASF136
+	.byte	0x11
+	.value	0x304
+	.byte	0xe
+	.long	0x2ac5
+	.uleb128 0x6
+	.long	.LASF137
+	.byte	0x11
+	.value	0x305
+	.byte	0x16
+	.long	0x2aef
+	.uleb128 0x6
+	.long	.LASF138
+	.byte	0x11
+	.value	0x306
+	.byte	0x12
+	.long	0x2c4d
+	.uleb128 0x6
+	.long	.LASF139
+	.byte	0x11
+	.value	0x307
+	.byte	0x10
+	.long	0x2c85
+	.uleb128 0x6
+	.long	.LASF140
+	.byte	0x11
+	.value	0x308
+	.byte	0x12
+	.long	0x2cbd
+	.uleb128 0x6
+	.long	.LASF141
+	.byte	0x11
+	.value	0x309
+	.byte	0x12
+	.long	0x2d03
+	.uleb128 0x6
+	.long	.LASF142
+	.byte	0x11
+	.value	0x30a
+	.byte	0xf
+	.long	0x2d2d
+	.uleb128 0x6
+	.long	.LASF143
+	.byte	0x11
+	.value	0x30b
+	.byte	0x11
+	.long	0x2d57
+	.uleb128 0x6
+	.long	.LASF144
+	.byte	0x11
+	.value	0x30c
+	.byte	0xf
+	.long	0x2d81
+	.uleb128 0x6
+	.long	.LASF145
+	.byte	0x11
+	.value	0x30d
+	.byte	0x19
+	.long	0x2dc7
+	.uleb128 0x6
+	.long	.LASF146
+	.byte	0x11
+	.value	0x30e
+	.byte	0x19
+	.long	0x2dff
+	.uleb128 0x6
+	.long	.LASF147
+	.byte	0x11
+	.value	0x30f
+	.byte	0x10
+	.long	0x2e37
+	.uleb128 0x6
+	.long	.LASF148
+	.byte	0x11
+	.value	0x310
+	.byte	0x14
+	.long	0x2e61
+	.uleb128 0x6
+	.long	.LASF149
+	.byte	0x11
+	.value	0x311
+	.byte	0x10
+	.long	0x2e99
+	.uleb128 0x6
+	.long	.LASF150
+	.byte	0x11
+	.value	0x312
+	.byte	0xf
+	.long	0x2ec3
+	.uleb128 0x6
+	.long	.LASF151
+	.byte	0x11
+	.value	0x313
+	.byte	0x10
+	.long	0x2efb
+	.uleb128 0x6
+	.long	.LASF152
+	.byte	0x11
+	.value	0x314
+	.byte	0x10
+	.long	0x2f25
+	.uleb128 0x6
+	.long	.LASF153
+	.byte	0x11
+	.value	0x315
+	.byte	0xe
+	.long	0x2f4f
+	.uleb128 0x6
+	.long	.LASF154
+	.byte	0x11
+	.value	0x316
+	.byte	0x12
+	.long	0x2f95
+	.uleb128 0x6
+	.long	.LASF155
+	.byte	0x11
+	.value	0x317
+	.byte	0x12
+	.long	0x2fcd
+	.uleb128 0x6
+	.long	.LASF156
+	.byte	0x11
+	.value	0x318
+	.byte	0x13
+	.long	0x3005
+	.uleb128 0x6
+	.long	.LASF157
+	.byte	0x11
+	.value	0x319
+	.byte	0x11
+	.long	0x302f
+	.uleb128 0x6
+	.long	.LASF158
+	.byte	0x11
+	.value	0x31a
+	.byte	0x12
+	.long	0x3067
+	.uleb128 0x6
+	.long	.LASF159
+	.byte	0x11
+	.value	0x31b
+	.byte	0xf
+	.long	0x30ad
+	.uleb128 0x6
+	.long	.LASF160
+	.byte	0x11
+	.value	0x31c
+	.byte	0x11
+	.long	0x30e5
+	.uleb128 0x6
+	.long	.LASF161
+	.byte	0x11
+	.value	0x31d
+	.byte	0x11
+	.long	0x310f
+	.uleb128 0x6
+	.long	.LASF162
+	.byte	0x11
+	.value	0x31e
+	.byte	0x13
+	.long	0x3139
+	.uleb128 0x6
+	.long	.LASF163
+	.byte	0x11
+	.value	0x31f
+	.byte	0x13
+	.long	0x3171
+	.uleb128 0x6
+	.long	.LASF164
+	.byte	0x11
+	.value	0x320
+	.byte	0x11
+	.long	0x31a9
+	.uleb128 0x6
+	.long	.LASF165
+	.byte	0x11
+	.value	0x321
+	.byte	0xf
+	.long	0x31c5
+	.uleb128 0x6
+	.long	.LASF166
+	.byte	0x11
+	.value	0x322
+	.byte	0x13
+	.long	0x31ef
+	.uleb128 0x6
+	.long	.LASF167
+	.byte	0x11
+	.value	0x323
+	.byte	0xe
+	.long	0x320b
+	.uleb128 0x6
+	.long	.LASF168
+	.byte	0x11
+	.value	0x324
+	.byte	0x11
+	.long	0x3235
+	.uleb128 0x6
+	.long	.LASF169
+	.byte	0x11
+	.value	0x325
+	.byte	0x13
+	.long	0x325f
+	.uleb128 0x6
+	.long	.LASF170
+	.byte	0x11
+	.value	0x326
+	.byte	0x15
+	.long	0x32a5
+	.uleb128 0x6
+	.long	.LASF171
+	.byte	0x11
+	.value	0x327
+	.byte	0x13
+	.long	0x32dd
+	.uleb128 0x6
+	.long	.LASF172
+	.byte	0x11
+	.value	0x328
+	.byte	0x11
+	.long	0x3315
+	.uleb128 0x6
+	.long	.LASF173
+	.byte	0x11
+	.value	0x329
+	.byte	0x15
+	.long	0x333f
+	.uleb128 0x6
+	.long	.LASF174
+	.byte	0x11
+	.value	0x32a
+	.byte	0x12
+	.long	0x3369
+	.uleb128 0x6
+	.long	.LASF175
+	.byte	0x11
+	.value	0x32b
+	.byte	0x16
+	.long	0x33a1
+	.uleb128 0x6
+	.long	.LASF176
+	.byte	0x11
+	.value	0x32c
+	.byte	0x15
+	.long	0x33d9
+	.uleb128 0x6
+	.long	.LASF177
+	.byte	0x11
+	.value	0x32d
+	.byte	0x12
+	.long	0x3411
+	.uleb128 0x6
+	.long	.LASF178
+	.byte	0x11
+	.value	0x32e
+	.byte	0x12
+	.long	0x343b
+	.uleb128 0x6
+	.long	.LASF179
+	.byte	0x11
+	.value	0x32f
+	.byte	0x14
+	.long	0x3473
+	.uleb128 0x6
+	.long	.LASF180
+	.byte	0x11
+	.value	0x330
+	.byte	0x10
+	.long	0x349d
+	.uleb128 0x6
+	.long	.LASF181
+	.byte	0x11
+	.value	0x331
+	.byte	0xf
+	.long	0x34c7
+	.uleb128 0x6
+	.long	.LASF182
+	.byte	0x11
+	.value	0x332
+	.byte	0x11
+	.long	0x351a
+	.uleb128 0x6
+	.long	.LASF183
+	.byte	0x11
+	.value	0x333
+	.byte	0x11
+	.long	0x3552
+	.uleb128 0x6
+	.long	.LASF184
+	.byte	0x11
+	.value	0x334
+	.byte	0x10
+	.long	0x357c
+	.uleb128 0x6
+	.long	.LASF185
+	.byte	0x11
+	.value	0x335
+	.byte	0x11
+	.long	0x35b4
+	.byte	0
+	.uleb128 0xb
+	.long	.LASF186
+	.byte	0xf
+	.byte	0x1e
+	.byte	0x17
+	.long	0x6a9
+	.uleb128 0xb
+	.long	.LASF187
+	.byte	0xf
+	.byte	0x20
+	.byte	0x18
+	.long	0xa89
+	.uleb128 0x5
+	.long	0xa8e
+	.uleb128 0x13
+	.long	.LASF188
+	.uleb128 0xb
+	.long	.LASF189
+	.byte	0xf
+	.byte	0x21
+	.byte	0x1a
+	.long	0xa9f
+	.uleb128 0x5
+	.long	0xaa4
+	.uleb128 0xe
+	.long	.LASF190
+	.byte	0x8
+	.byte	0x12
+	.byte	0x13
+	.byte	0x8
+	.long	0xabf
+	.uleb128 0x3
+	.long	.LASF191
+	.byte	0x12
+	.byte	0x14
+	.byte	0x9
+	.long	0x98
+	.byte	0
+	.byte	0
+	.uleb128 0xb
+	.long	.LASF192
+	.byte	0xf
+	.byte	0x22
+	.byte	0x17
+	.long	0xacb
+	.uleb128 0x5
+	.long	0xad0
+	.uleb128 0x13
+	.long	.LASF193
+	.uleb128 0xb
+	.long	.LASF194
+	.byte	0xf
+	.byte	0x23
+	.byte	0x17
+	.long	0xae1
+	.uleb128 0x5
+	.long	0xae6
+	.uleb128 0xe
+	.long	.LASF195
+	.byte	0x40
+	.byte	0x13
+	.byte	0xcf
+	.byte	0x8
+	.long	0xb82
+	.uleb128 0x3
+	.long	.LASF196
+	.byte	0x13
+	.byte	0xd0
+	.byte	0x8
+	.long	0x2d4
+	.byte	0
+	.uleb128 0x3
+	.long	.LASF197
+	.byte	0x13
+	.byte	0xd1
+	.byte	0x8
+	.long	0x2d4
+	.byte	0x1
+	.uleb128 0x3
+	.long	.LASF198
+	.byte	0x13
+	.byte	0xd2
+	.byte	0x9
+	.long	0x2e1
+	.byte	0x2
+	.uleb128 0x14
+	.string	"id"
+	.byte	0x13
+	.byte	0xd4
+	.byte	0x9
+	.long	0x650
+	.byte	0x8
+	.uleb128 0x14
+	.string	"lib"
+	.byte	0x13
+	.byte	0xd5
+	.byte	0x6
+	.long	0x11a4
+	.byte	0x10
+	.uleb128 0x3
+	.long	.LASF199
+	.byte	0x13
+	.byte	0xd6
+	.byte	0x7
+	.long	0x32f
+	.byte	0x18
+	.uleb128 0x3
+	.long	.LASF200
+	.byte	0x13
+	.byte	0xd7
+	.byte	0x8
+	.long	0xb82
+	.byte	0x20
+	.uleb128 0x3
+	.long	.LASF201
+	.byte	0x13
+	.byte	0xd9
+	.byte	0xf
+	.long	0x43
+	.byte	0x28
+	.uleb128 0x3
+	.long	.LASF202
+	.byte	0x13
+	.byte	0xda
+	.byte	0xf
+	.long	0x43
+	.byte	0x2c
+	.uleb128 0x3
+	.long	.LASF203
+	.byte	0x13
+	.byte	0xdb
+	.byte	0x7
+	.long	0xad5
+	.byte	0x30
+	.uleb128 0x3
+	.long	.LASF204
+	.byte	0x13
+	.byte	0xdc
+	.byte	0x9
+	.long	0x228c
+	.byte	0x38
+	.byte	0
+	.uleb128 0xb
+	.long	.LASF205
+	.byte	0xf
+	.byte	0x24
+	.byte	0x18
+	.long	0xb8e
+	.uleb128 0x5
+	.long	0xb93
+	.uleb128 0xe
+	.long	.LASF206
+	.byte	0xd0
+	.byte	0x14
+	.byte	0x78
+	.byte	0x8
+	.long	0xd40
+	.uleb128 0x14
+	.string	"tag"
+	.byte	0x14
+	.byte	0x79
+	.byte	0x8
+	.long	0x2d4
+	.byte	0
+	.uleb128 0x3
+	.long	.LASF207
+	.byte	0x14
+	.byte	0x7a
+	.byte	0x8
+	.long	0x2d4
+	.byte	0x1
+	.uleb128 0x3
+	.long	.LASF208
+	.byte	0x14
+	.byte	0x7b
+	.byte	0x8
+	.long	0x2d4
+	.byte	0x2
+	.uleb128 0x3
+	.long	.LASF209
+	.byte	0x14
+	.byte	0x7c
+	.byte	0x8
+	.long	0x2d4
+	.byte	0x3
+	.uleb128 0x3
+	.long	.LASF210
+	.byte	0x14
+	.byte	0x7d
+	.byte	0x8
+	.long	0x2d4
+	.byte	0x4
+	.uleb128 0x3
+	.long	.LASF211
+	.byte	0x14
+	.byte	0x7e
+	.byte	0x8
+	.long	0x2d4
+	.byte	0x5
+	.uleb128 0x14
+	.string	"raw"
+	.byte	0x14
+	.byte	0x7f
+	.byte	0x8
+	.long	0x2d4
+	.byte	0x6
+	.uleb128 0x3
+	.long	.LASF199
+	.byte	0x14
+	.byte	0x80
+	.byte	0x7
+	.long	0x32f
+	.byte	0x8
+	.uleb128 0x3
+	.long	.LASF212
+	.byte	0x14
+	.byte	0x81
+	.byte	0x8
+	.long	0x69d
+	.byte	0x10
+	.uleb128 0x3
+	.long	.LASF213
+	.byte	0x14
+	.byte	0x82
+	.byte	0x9
+	.long	0x2e1
+	.byte	0x18
+	.uleb128 0x3
+	.long	.LASF214
+	.byte	0x14
+	.byte	0x84
+	.byte	0x9
+	.long	0x33c
+	.byte	0x20
+	.uleb128 0x3
+	.long	.LASF215
+	.byte	0x14
+	.byte	0x85
+	.byte	0x9
+	.long	0x1bca
+	.byte	0x28
+	.uleb128 0x3
+	.long	.LASF216
+	.byte	0x14
+	.byte	0x87
+	.byte	0x7
+	.long	0x1481
+	.byte	0x30
+	.uleb128 0x3
+	.long	.LASF217
+	.byte	0x14
+	.byte	0x88
+	.byte	0xb
+	.long	0x1ca7
+	.byte	0x38
+	.uleb128 0x3
+	.long	.LASF218
+	.byte	0x14
+	.byte	0x89
+	.byte	0xb
+	.long	0x1ca7
+	.byte	0x40
+	.uleb128 0x3
+	.long	.LASF219
+	.byte	0x14
+	.byte	0x8a
+	.byte	0xb
+	.long	0x1ca7
+	.byte	0x48
+	.uleb128 0x3
+	.long	.LASF220
+	.byte	0x14
+	.byte	0x8b
+	.byte	0xb
+	.long	0x1ca7
+	.byte	0x50
+	.uleb128 0x3
+	.long	.LASF221
+	.byte	0x14
+	.byte	0x8d
+	.byte	0xb
+	.long	0x1ca7
+	.byte	0x58
+	.uleb128 0x3
+	.long	.LASF222
+	.byte	0x14
+	.byte	0x8e
+	.byte	0xb
+	.long	0x1ca7
+	.byte	0x60
+	.uleb128 0x3
+	.long	.LASF223
+	.byte	0x14
+	.byte	0x8f
+	.byte	0xb
+	.long	0x1ca7
+	.byte	0x68
+	.uleb128 0x3
+	.long	.LASF224
+	.byte	0x14
+	.byte	0x91
+	.byte	0xa
+	.long	0x4fde
+	.byte	0x70
+	.uleb128 0x3
+	.long	.LASF225
+	.byte	0x14
+	.byte	0x93
+	.byte	0xd
+	.long	0x23b4
+	.byte	0x78
+	.uleb128 0x3
+	.long	.LASF226
+	.byte	0x14
+	.byte	0x95
+	.byte	0xd
+	.long	0x1bfc
+	.byte	0x80
+	.uleb128 0x3
+	.long	.LASF227
+	.byte	0x14
+	.byte	0x96
+	.byte	0xc
+	.long	0x1bbe
+	.byte	0x88
+	.uleb128 0x3
+	.long	.LASF228
+	.byte	0x14
+	.byte	0x97
+	.byte	0xc
+	.long	0x1c35
+	.byte	0x90
+	.uleb128 0x3
+	.long	.LASF229
+	.byte	0x14
+	.byte	0x99
+	.byte	0x9
+	.long	0x4fa5
+	.byte	0x98
+	.uleb128 0x3
+	.long	.LASF230
+	.byte	0x14
+	.byte	0x9b
+	.byte	0x8
+	.long	0xa7d
+	.byte	0xa0
+	.uleb128 0x14
+	.string	"fv"
+	.byte	0x14
+	.byte	0x9c
+	.byte	0xa
+	.long	0xabf
+	.byte	0xa8
+	.uleb128 0x14
+	.string	"rho"
+	.byte	0x14
+	.byte	0x9d
+	.byte	0xa
+	.long	0x4fef
+	.byte	0xb0
+	.uleb128 0x3
+	.long	.LASF231
+	.byte	0x14
+	.byte	0x9f
+	.byte	0xb
+	.long	0x14d0
+	.byte	0xb8
+	.uleb128 0x3
+	.long	.LASF232
+	.byte	0x14
+	.byte	0xa0
+	.byte	0x8
+	.long	0xb82
+	.byte	0xc0
+	.uleb128 0x3
+	.long	.LASF233
+	.byte	0x14
+	.byte	0xa1
+	.byte	0x8
+	.long	0x2ee
+	.byte	0xc8
+	.byte	0
+	.uleb128 0xb
+	.long	.LASF234
+	.byte	0xf
+	.byte	0x25
+	.byte	0x18
+	.long	0xd4c
+	.uleb128 0x5
+	.long	0xd51
+	.uleb128 0x13
+	.long	.LASF235
+	.uleb128 0xb
+	.long	.LASF236
+	.byte	0xf
+	.byte	0x26
+	.byte	0x19
+	.long	0xd62
+	.uleb128 0x5
+	.long	0xd67
+	.uleb128 0x13
+	.long	.LASF237
+	.uleb128 0xb
+	.long	.LASF238
+	.byte	0xf
+	.byte	0x27
+	.byte	0x18
+	.long	0xd78
+	.uleb128 0x5
+	.long	0xd7d
+	.uleb128 0x13
+	.long	.LASF239
+	.uleb128 0xb
+	.long	.LASF240
+	.byte	0xf
+	.byte	0x28
+	.byte	0x16
+	.long	0xd8e
+	.uleb128 0x5
+	.long	0xd93
+	.uleb128 0x2f
+	.long	.LASF241
+	.byte	0x98
+	.byte	0x15
+	.value	0x4af
+	.long	0x11a4
+	.uleb128 0x1d
+	.string	"hdr"
+	.byte	0x15
+	.value	0x4b0
+	.byte	0x11
+	.long	0x366a
+	.uleb128 0x6
+	.long	.LASF242
+	.byte	0x15
+	.value	0x4b1
+	.byte	0x11
+	.long	0x3733
+	.uleb128 0x6
+	.long	.LASF243
+	.byte	0x15
+	.value	0x4b3
+	.byte	0x11
+	.long	0x376d
+	.uleb128 0x6
+	.long	.LASF244
+	.byte	0x15
+	.value	0x4b4
+	.byte	0x12
+	.long	0x3789
+	.uleb128 0x6
+	.long	.LASF245
+	.byte	0x15
+	.value	0x4b5
+	.byte	0x12
+	.long	0x37b3
+	.uleb128 0x6
+	.long	.LASF246
+	.byte	0x15
+	.value	0x4b6
+	.byte	0x12
+	.long	0x37dd
+	.uleb128 0x6
+	.long	.LASF247
+	.byte	0x15
+	.value	0x4b7
+	.byte	0x12
+	.long	0x3807
+	.uleb128 0x6
+	.long	.LASF248
+	.byte	0x15
+	.value	0x4b8
+	.byte	0x12
+	.long	0x3831
+	.uleb128 0x6
+	.long	.LASF249
+	.byte	0x15
+	.value	0x4b9
+	.byte	0x12
+	.long	0x385b
+	.uleb128 0x6
+	.long	.LASF250
+	.byte	0x15
+	.value	0x4ba
+	.byte	0x12
+	.long	0x3885
+	.uleb128 0x6
+	.long	.LASF251
+	.byte	0x15
+	.value	0x4bb
+	.byte	0x12
+	.long	0x38af
+	.uleb128 0x6
+	.long	.LASF252
+	.byte	0x15
+	.value	0x4bc
+	.byte	0x12
+	.long	0x38d9
+	.uleb128 0x6
+	.long	.LASF253
+	.byte	0x15
+	.value	0x4bd
+	.byte	0x11
+	.long	0x3903
+	.uleb128 0x6
+	.long	.LASF254
+	.byte	0x15
+	.value	0x4be
+	.byte	0x11
+	.long	0x393d
+	.uleb128 0x6
+	.long	.LASF255
+	.byte	0x15
+	.value	0x4bf
+	.byte	0x11
+	.long	0x3985
+	.uleb128 0x6
+	.long	.LASF256
+	.byte	0x15
+	.value	0x4c0
+	.byte	0x12
+	.long	0x39cd
+	.uleb128 0x6
+	.long	.LASF257
+	.byte	0x15
+	.value	0x4c1
+	.byte	0x12
+	.long	0x3a13
+	.uleb128 0x6
+	.long	.LASF258
+	.byte	0x15
+	.value	0x4c2
+	.byte	0x12
+	.long	0x3ae5
+	.uleb128 0x6
+	.long	.LASF259
+	.byte	0x15
+	.value	0x4c4
+	.byte	0x12
+	.long	0x3b8c
+	.uleb128 0x6
+	.long	.LASF260
+	.byte	0x15
+	.value	0x4c5
+	.byte	0x13
+	.long	0x3b1d
+	.uleb128 0x6
+	.long	.LASF261
+	.byte	0x15
+	.value	0x4c6
+	.byte	0x13
+	.long	0x3bdf
+	.uleb128 0x6
+	.long	.LASF262
+	.byte	0x15
+	.value	0x4c7
+	.byte	0x14
+	.long	0x3c17
+	.uleb128 0x6
+	.long	.LASF263
+	.byte	0x15
+	.value	0x4c8
+	.byte	0x12
+	.long	0x3c41
+	.uleb128 0x6
+	.long	.LASF264
+	.byte	0x15
+	.value	0x4c9
+	.byte	0x12
+	.long	0x3c6b
+	.uleb128 0x6
+	.long	.LASF265
+	.byte	0x15
+	.value	0x4ca
+	.byte	0x11
+	.long	0x3c95
+	.uleb128 0x6
+	.long	.LASF266
+	.byte	0x15
+	.value	0x4cb
+	.byte	0x12
+	.long	0x3ccd
+	.uleb128 0x6
+	.long	.LASF267
+	.byte	0x15
+	.value	0x4cd
+	.byte	0x11
+	.long	0x3cf7
+	.uleb128 0x6
+	.long	.LASF268
+	.byte	0x15
+	.value	0x4ce
+	.byte	0x11
+	.long	0x3d21
+	.uleb128 0x6
+	.long	.LASF269
+	.byte	0x15
+	.value	0x4cf
+	.byte	0x11
+	.long	0x3d4b
+	.uleb128 0x6
+	.long	.LASF270
+	.byte	0x15
+	.value	0x4d0
+	.byte	0x11
+	.long	0x3d83
+	.uleb128 0x6
+	.long	.LASF271
+	.byte	0x15
+	.value	0x4d1
+	.byte	0x13
+	.long	0x3dd7
+	.uleb128 0x6
+	.long	.LASF272
+	.byte	0x15
+	.value	0x4d2
+	.byte	0x13
+	.long	0x3dad
+	.uleb128 0x6
+	.long	.LASF273
+	.byte	0x15
+	.value	0x4d3
+	.byte	0x11
+	.long	0x3e01
+	.uleb128 0x6
+	.long	.LASF274
+	.byte	0x15
+	.value	0x4d4
+	.byte	0x12
+	.long	0x3e2b
+	.uleb128 0x6
+	.long	.LASF275
+	.byte	0x15
+	.value	0x4d5
+	.byte	0x12
+	.long	0x3e63
+	.uleb128 0x6
+	.long	.LASF276
+	.byte	0x15
+	.value	0x4d6
+	.byte	0x13
+	.long	0x3e9b
+	.uleb128 0x6
+	.long	.LASF277
+	.byte	0x15
+	.value	0x4d7
+	.byte	0x11
+	.long	0x3ec5
+	.uleb128 0x6
+	.long	.LASF278
+	.byte	0x15
+	.value	0x4d8
+	.byte	0x13
+	.long	0x3eef
+	.uleb128 0x6
+	.long	.LASF279
+	.byte	0x15
+	.value	0x4d9
+	.byte	0x12
+	.long	0x3f19
+	.uleb128 0x6
+	.long	.LASF280
+	.byte	0x15
+	.value	0x4da
+	.byte	0x13
+	.long	0x3f43
+	.uleb128 0x6
+	.long	.LASF281
+	.byte	0x15
+	.value	0x4db
+	.byte	0x15
+	.long	0x3f6d
+	.uleb128 0x6
+	.long	.LASF282
+	.byte	0x15
+	.value	0x4dc
+	.byte	0x13
+	.long	0x3f97
+	.uleb128 0x6
+	.long	.LASF283
+	.byte	0x15
+	.value	0x4dd
+	.byte	0x12
+	.long	0x3fc1
+	.uleb128 0x6
+	.long	.LASF284
+	.byte	0x15
+	.value	0x4de
+	.byte	0x12
+	.long	0x40af
+	.uleb128 0x6
+	.long	.LASF285
+	.byte	0x15
+	.value	0x4df
+	.byte	0x13
+	.long	0x403f
+	.uleb128 0x6
+	.long	.LASF286
+	.byte	0x15
+	.value	0x4e0
+	.byte	0x13
+	.long	0x40f5
+	.uleb128 0x6
+	.long	.LASF287
+	.byte	0x15
+	.value	0x4e1
+	.byte	0x13
+	.long	0x413b
+	.uleb128 0x6
+	.long	.LASF288
+	.byte	0x15
+	.value	0x4e2
+	.byte	0x12
+	.long	0x418f
+	.uleb128 0x6
+	.long	.LASF289
+	.byte	0x15
+	.value	0x4e3
+	.byte	0x12
+	.long	0x41e3
+	.uleb128 0x6
+	.long	.LASF290
+	.byte	0x15
+	.value	0x4e5
+	.byte	0x13
+	.long	0x420d
+	.uleb128 0x6
+	.long	.LASF291
+	.byte	0x15
+	.value	0x4e6
+	.byte	0x11
+	.long	0x4237
+	.uleb128 0x6
+	.long	.LASF292
+	.byte	0x15
+	.value	0x4e7
+	.byte	0x11
+	.long	0x4253
+	.uleb128 0x6
+	.long	.LASF293
+	.byte	0x15
+	.value	0x4e8
+	.byte	0x10
+	.long	0x428b
+	.uleb128 0x6
+	.long	.LASF294
+	.byte	0x15
+	.value	0x4e9
+	.byte	0x11
+	.long	0x42c3
+	.uleb128 0x6
+	.long	.LASF295
+	.byte	0x15
+	.value	0x4ea
+	.byte	0x14
+	.long	0x4597
+	.uleb128 0x6
+	.long	.LASF296
+	.byte	0x15
+	.value	0x4eb
+	.byte	0x12
+	.long	0x42ed
+	.uleb128 0x6
+	.long	.LASF297
+	.byte	0x15
+	.value	0x4ec
+	.byte	0x12
+	.long	0x4325
+	.uleb128 0x6
+	.long	.LASF298
+	.byte	0x15
+	.value	0x4ed
+	.byte	0x13
+	.long	0x4007
+	.uleb128 0x6
+	.long	.LASF299
+	.byte	0x15
+	.value	0x4ee
+	.byte	0x13
+	.long	0x434f
+	.uleb128 0x6
+	.long	.LASF300
+	.byte	0x15
+	.value	0x4ef
+	.byte	0x12
+	.long	0x4387
+	.uleb128 0x6
+	.long	.LASF301
+	.byte	0x15
+	.value	0x4f0
+	.byte	0x13
+	.long	0x43bf
+	.uleb128 0x6
+	.long	.LASF302
+	.byte	0x15
+	.value	0x4f1
+	.byte	0x13
+	.long	0x4412
+	.uleb128 0x6
+	.long	.LASF303
+	.byte	0x15
+	.value	0x4f2
+	.byte	0x13
+	.long	0x4449
+	.uleb128 0x6
+	.long	.LASF304
+	.byte	0x15
+	.value	0x4f3
+	.byte	0x13
+	.long	0x448e
+	.uleb128 0x6
+	.long	.LASF305
+	.byte	0x15
+	.value	0x4f4
+	.byte	0x14
+	.long	0x44e1
+	.uleb128 0x6
+	.long	.LASF306
+	.byte	0x15
+	.value	0x4f5
+	.byte	0x14
+	.long	0x4535
+	.uleb128 0x6
+	.long	.LASF307
+	.byte	0x15
+	.value	0x4f6
+	.byte	0x15
+	.long	0x4606
+	.uleb128 0x6
+	.long	.LASF308
+	.byte	0x15
+	.value	0x4f7
+	.byte	0x14
+	.long	0x463e
+	.uleb128 0x6
+	.long	.LASF309
+	.byte	0x15
+	.value	0x4f8
+	.byte	0x12
+	.long	0x465a
+	.uleb128 0x6
+	.long	.LASF310
+	.byte	0x15
+	.value	0x4f9
+	.byte	0x13
+	.long	0x4085
+	.uleb128 0x6
+	.long	.LASF311
+	.byte	0x15
+	.value	0x4fa
+	.byte	0x14
+	.long	0x4692
+	.uleb128 0x6
+	.long	.LASF312
+	.byte	0x15
+	.value	0x4fc
+	.byte	0x12
+	.long	0x45ce
+	.uleb128 0x6
+	.long	.LASF313
+	.byte	0x15
+	.value	0x4fe
+	.byte	0x12
+	.long	0x46bc
+	.uleb128 0x6
+	.long	.LASF314
+	.byte	0x15
+	.value	0x4ff
+	.byte	0x12
+	.long	0x46e6
+	.uleb128 0x6
+	.long	.LASF315
+	.byte	0x15
+	.value	0x500
+	.byte	0x12
+	.long	0x4710
+	.uleb128 0x6
+	.long	.LASF316
+	.byte	0x15
+	.value	0x501
+	.byte	0x13
+	.long	0x473a
+	.uleb128 0x6
+	.long	.LASF317
+	.byte	0x15
+	.value	0x502
+	.byte	0x13
+	.long	0x4772
+	.uleb128 0x6
+	.long	.LASF318
+	.byte	0x15
+	.value	0x503
+	.byte	0x15
+	.long	0x47aa
+	.uleb128 0x6
+	.long	.LASF319
+	.byte	0x15
+	.value	0x504
+	.byte	0x14
+	.long	0x47f0
+	.byte	0
+	.uleb128 0x2e
+	.string	"Lib"
+	.byte	0x2a
+	.long	0x11ae
+	.uleb128 0x5
+	.long	0x11b3
+	.uleb128 0x38
+	.string	"lib"
+	.value	0x308
+	.byte	0x16
+	.byte	0x63
+	.byte	0x8
+	.long	0x1362
+	.uleb128 0x3
+	.long	.LASF320
+	.byte	0x16
+	.byte	0x64
+	.byte	0xb
+	.long	0x4ef
+	.byte	0
+	.uleb128 0x3
+	.long	.LASF321
+	.byte	0x16
+	.byte	0x65
+	.byte	0xa
+	.long	0x1362
+	.byte	0x8
+	.uleb128 0x3
+	.long	.LASF322
+	.byte	0x16
+	.byte	0x66
+	.byte	0x8
+	.long	0x2d4
+	.byte	0x10
+	.uleb128 0x3
+	.long	.LASF323
+	.byte	0x16
+	.byte	0x67
+	.byte	0x8
+	.long	0x2d4
+	.byte	0x11
+	.uleb128 0x3
+	.long	.LASF324
+	.byte	0x16
+	.byte	0x68
+	.byte	0x8
+	.long	0x2d4
+	.byte	0x12
+	.uleb128 0x3
+	.long	.LASF325
+	.byte	0x16
+	.byte	0x69
+	.byte	0x9
+	.long	0x363
+	.byte	0x18
+	.uleb128 0x3
+	.long	.LASF326
+	.byte	0x16
+	.byte	0x6a
+	.byte	0x9
+	.long	0x2c3
+	.byte	0x20
+	.uleb128 0x3
+	.long	.LASF327
+	.byte	0x16
+	.byte	0x6b
+	.byte	0x9
+	.long	0x349
+	.byte	0x28
+	.uleb128 0x3
+	.long	.LASF217
+	.byte	0x16
+	.byte	0x6c
+	.byte	0x7
+	.long	0xad5
+	.byte	0x30
+	.uleb128 0x3
+	.long	.LASF216
+	.byte	0x16
+	.byte	0x6d
+	.byte	0x7
+	.long	0x1481
+	.byte	0x38
+	.uleb128 0x3
+	.long	.LASF328
+	.byte	0x16
+	.byte	0x70
+	.byte	0x9
+	.long	0x2e1
+	.byte	0x40
+	.uleb128 0x3
+	.long	.LASF329
+	.byte	0x16
+	.byte	0x71
+	.byte	0x9
+	.long	0x2e1
+	.byte	0x42
+	.uleb128 0x3
+	.long	.LASF330
+	.byte	0x16
+	.byte	0x72
+	.byte	0x9
+	.long	0x21e9
+	.byte	0x48
+	.uleb128 0x3
+	.long	.LASF220
+	.byte	0x16
+	.byte	0x73
+	.byte	0xb
+	.long	0x1ca7
+	.byte	0x50
+	.uleb128 0x3
+	.long	.LASF331
+	.byte	0x16
+	.byte	0x74
+	.byte	0xa
+	.long	0x4ee7
+	.byte	0x58
+	.uleb128 0x3
+	.long	.LASF332
+	.byte	0x16
+	.byte	0x75
+	.byte	0xb
+	.long	0x4eec
+	.byte	0x60
+	.uleb128 0x3
+	.long	.LASF333
+	.byte	0x16
+	.byte	0x76
+	.byte	0xb
+	.long	0x1ca7
+	.byte	0x68
+	.uleb128 0x3
+	.long	.LASF334
+	.byte	0x16
+	.byte	0x79
+	.byte	0x8
+	.long	0x2ee
+	.byte	0x70
+	.uleb128 0x3
+	.long	.LASF335
+	.byte	0x16
+	.byte	0x7a
+	.byte	0xa
+	.long	0x1bca
+	.byte	0x78
+	.uleb128 0x3
+	.long	.LASF336
+	.byte	0x16
+	.byte	0x7b
+	.byte	0xc
+	.long	0x1bbe
+	.byte	0x80
+	.uleb128 0x3
+	.long	.LASF337
+	.byte	0x16
+	.byte	0x7c
+	.byte	0x8
+	.long	0x4ea
+	.byte	0x88
+	.uleb128 0x3
+	.long	.LASF338
+	.byte	0x16
+	.byte	0x7d
+	.byte	0x9
+	.long	0x3a4
+	.byte	0x90
+	.uleb128 0x3
+	.long	.LASF339
+	.byte	0x16
+	.byte	0x80
+	.byte	0x9
+	.long	0x33c
+	.byte	0x98
+	.uleb128 0x3
+	.long	.LASF340
+	.byte	0x16
+	.byte	0x81
+	.byte	0x9
+	.long	0x2287
+	.byte	0xa0
+	.uleb128 0x3
+	.long	.LASF341
+	.byte	0x16
+	.byte	0x82
+	.byte	0x8
+	.long	0x4ea
+	.byte	0xa8
+	.uleb128 0x3
+	.long	.LASF342
+	.byte	0x16
+	.byte	0x83
+	.byte	0x9
+	.long	0x3a4
+	.byte	0xb0
+	.uleb128 0x14
+	.string	"pos"
+	.byte	0x16
+	.byte	0x84
+	.byte	0x9
+	.long	0x3a4
+	.byte	0xb8
+	.uleb128 0x3
+	.long	.LASF343
+	.byte	0x16
+	.byte	0x85
+	.byte	0x9
+	.long	0x3a4
+	.byte	0xc0
+	.uleb128 0x3
+	.long	.LASF344
+	.byte	0x16
+	.byte	0x86
+	.byte	0x7
+	.long	0xd82
+	.byte	0xc8
+	.uleb128 0x3
+	.long	.LASF345
+	.byte	0x16
+	.byte	0x87
+	.byte	0x7
+	.long	0xd82
+	.byte	0xd0
+	.uleb128 0x3
+	.long	.LASF346
+	.byte	0x16
+	.byte	0x89
+	.byte	0x8
+	.long	0x69d
+	.byte	0xd8
+	.uleb128 0x14
+	.string	"hdr"
+	.byte	0x16
+	.byte	0x8b
+	.byte	0x10
+	.long	0x4e69
+	.byte	0xe0
+	.byte	0
+	.uleb128 0xb
+	.long	.LASF347
+	.byte	0xf
+	.byte	0x2c
+	.byte	0x1b
+	.long	0x136e
+	.uleb128 0x5
+	.long	0x1373
+	.uleb128 0x13
+	.long	.LASF348
+	.uleb128 0xb
+	.long	.LASF349
+	.byte	0xf
+	.byte	0x2e
+	.byte	0x1c
+	.long	0x1384
+	.uleb128 0x5
+	.long	0x1389
+	.uleb128 0xe
+	.long	.LASF350
+	.byte	0x80
+	.byte	0x17
+	.byte	0x3d
+	.byte	0x8
+	.long	0x1481
+	.uleb128 0x3
+	.long	.LASF351
+	.byte	0x17
+	.byte	0x3e
+	.byte	0x8
+	.long	0x2ee
+	.byte	0
+	.uleb128 0x3
+	.long	.LASF352
+	.byte	0x17
+	.byte	0x3f
+	.byte	0x8
+	.long	0x2ee
+	.byte	0x8
+	.uleb128 0x3
+	.long	.LASF353
+	.byte	0x17
+	.byte	0x40
+	.byte	0x8
+	.long	0x2ee
+	.byte	0x10
+	.uleb128 0x3
+	.long	.LASF199
+	.byte	0x17
+	.byte	0x41
+	.byte	0x7
+	.long	0x32f
+	.byte	0x18
+	.uleb128 0x3
+	.long	.LASF354
+	.byte	0x17
+	.byte	0x42
+	.byte	0x8
+	.long	0x2d4
+	.byte	0x20
+	.uleb128 0x3
+	.long	.LASF355
+	.byte	0x17
+	.byte	0x43
+	.byte	0x8
+	.long	0x2d4
+	.byte	0x21
+	.uleb128 0x3
+	.long	.LASF356
+	.byte	0x17
+	.byte	0x44
+	.byte	0x8
+	.long	0x2d4
+	.byte	0x22
+	.uleb128 0x3
+	.long	.LASF213
+	.byte	0x17
+	.byte	0x45
+	.byte	0x9
+	.long	0x2e1
+	.byte	0x24
+	.uleb128 0x14
+	.string	"tbl"
+	.byte	0x17
+	.byte	0x46
+	.byte	0x8
+	.long	0x590
+	.byte	0x28
+	.uleb128 0x3
+	.long	.LASF357
+	.byte	0x17
+	.byte	0x47
+	.byte	0xb
+	.long	0x1c6e
+	.byte	0x30
+	.uleb128 0x3
+	.long	.LASF90
+	.byte	0x17
+	.byte	0x48
+	.byte	0x9
+	.long	0x51b
+	.byte	0x38
+	.uleb128 0x3
+	.long	.LASF358
+	.byte	0x17
+	.byte	0x49
+	.byte	0xd
+	.long	0x1577
+	.byte	0x40
+	.uleb128 0x3
+	.long	.LASF359
+	.byte	0x17
+	.byte	0x4a
+	.byte	0xc
+	.long	0x15b0
+	.byte	0x48
+	.uleb128 0x3
+	.long	.LASF360
+	.byte	0x17
+	.byte	0x4f
+	.byte	0x4
+	.long	0x519d
+	.byte	0x50
+	.uleb128 0x3
+	.long	.LASF361
+	.byte	0x17
+	.byte	0x51
+	.byte	0xc
+	.long	0x1bbe
+	.byte	0x60
+	.uleb128 0x3
+	.long	.LASF362
+	.byte	0x17
+	.byte	0x52
+	.byte	0xb
+	.long	0x1ca7
+	.byte	0x68
+	.uleb128 0x3
+	.long	.LASF363
+	.byte	0x17
+	.byte	0x53
+	.byte	0xb
+	.long	0x1ca7
+	.byte	0x70
+	.uleb128 0x3
+	.long	.LASF364
+	.byte	0x17
+	.byte	0x54
+	.byte	0x8
+	.long	0x590
+	.byte	0x78
+	.byte	0
+	.uleb128 0xb
+	.long	.LASF365
+	.byte	0xf
+	.byte	0x2f
+	.byte	0x24
+	.long	0x148d
+	.uleb128 0x5
+	.long	0x1492
+	.uleb128 0xe
+	.long	.LASF366
+	.byte	0x10
+	.byte	0xf
+	.byte	0x56
+	.byte	0x10
+	.long	0x14ba
+	.uleb128 0x3
+	.long	.LASF367
+	.byte	0xf
+	.byte	0x56
+	.byte	0x2e
+	.long	0x1378
+	.byte	0
+	.uleb128 0x3
+	.long	.LASF91
+	.byte	0xf
+	.byte	0x56
+	.byte	0x4f
+	.long	0x148d
+	.byte	0x8
+	.byte	0
+	.uleb128 0xb
+	.long	.LASF368
+	.byte	0xf
+	.byte	0x30
+	.byte	0x1a
+	.long	0x14c6
+	.uleb128 0x5
+	.long	0x14cb
+	.uleb128 0x13
+	.long	.LASF369
+	.uleb128 0xb
+	.long	.LASF370
+	.byte	0xf
+	.byte	0x35
+	.byte	0xf
+	.long	0x2ee
+	.uleb128 0xb
+	.long	.LASF371
+	.byte	0xf
+	.byte	0x37
+	.byte	0x1a
+	.long	0x14e8
+	.uleb128 0x5
+	.long	0x14ed
+	.uleb128 0x13
+	.long	.LASF372
+	.uleb128 0xb
+	.long	.LASF373
+	.byte	0xf
+	.byte	0x38
+	.byte	0x1b
+	.long	0x14fe
+	.uleb128 0x5
+	.long	0x1503
+	.uleb128 0x13
+	.long	.LASF374
+	.uleb128 0xb
+	.long	.LASF375
+	.byte	0xf
+	.byte	0x39
+	.byte	0x1b
+	.long	0x1514
+	.uleb128 0x5
+	.long	0x1519
+	.uleb128 0x13
+	.long	.LASF376
+	.uleb128 0xb
+	.long	.LASF377
+	.byte	0xf
+	.byte	0x3a
+	.byte	0x18
+	.long	0x152a
+	.uleb128 0x5
+	.long	0x152f
+	.uleb128 0x39
+	.long	.LASF810
+	.uleb128 0xb
+	.long	.LASF378
+	.byte	0xf
+	.byte	0x3d
+	.byte	0x22
+	.long	0x1540
+	.uleb128 0x5
+	.long	0x1545
+	.uleb128 0x13
+	.long	.LASF379
+	.uleb128 0xe
+	.long	.LASF380
+	.byte	0x10
+	.byte	0xf
+	.byte	0x49
+	.byte	0x10
+	.long	0x1572
+	.uleb128 0x3
+	.long	.LASF367
+	.byte	0xf
+	.byte	0x49
+	.byte	0x28
+	.long	0x650
+	.byte	0
+	.uleb128 0x3
+	.long	.LASF91
+	.byte	0xf
+	.byte	0x49
+	.byte	0x46
+	.long	0x1572
+	.byte	0x8
+	.byte	0
+	.uleb128 0x5
+	.long	0x154a
+	.uleb128 0xb
+	.long	.LASF381
+	.byte	0xf
+	.byte	0x49
+	.byte	0x4f
+	.long	0x1572
+	.uleb128 0xe
+	.long	.LASF382
+	.byte	0x10
+	.byte	0xf
+	.byte	0x4f
+	.byte	0x10
+	.long	0x15ab
+	.uleb128 0x3
+	.long	.LASF367
+	.byte	0xf
+	.byte	0x4f
+	.byte	0x26
+	.long	0x69d
+	.byte	0
+	.uleb128 0x3
+	.long	.LASF91
+	.byte	0xf
+	.byte	0x4f
+	.byte	0x43
+	.long	0x15ab
+	.byte	0x8
+	.byte	0
+	.uleb128 0x5
+	.long	0x1583
+	.uleb128 0xb
+	.long	.LASF383
+	.byte	0xf
+	.byte	0x4f
+	.byte	0x4c
+	.long	0x15ab
+	.uleb128 0x22
+	.long	.LASF384
+	.value	0x140
+	.byte	0xf
+	.byte	0x4f
+	.byte	0x5e
+	.long	0x17ff
+	.uleb128 0x3
+	.long	.LASF385
+	.byte	0xf
+	.byte	0x4f
+	.byte	0x80
+	.long	0x1818
+	.byte	0
+	.uleb128 0x3
+	.long	.LASF386
+	.byte	0xf
+	.byte	0x4f
+	.byte	0xa6
+	.long	0x182c
+	.byte	0x8
+	.uleb128 0x3
+	.long	.LASF387
+	.byte	0xf
+	.byte	0x4f
+	.byte	0xc6
+	.long	0x1841
+	.byte	0x10
+	.uleb128 0x3
+	.long	.LASF388
+	.byte	0xf
+	.byte	0x4f
+	.byte	0xe6
+	.long	0x1855
+	.byte	0x18
+	.uleb128 0xa
+	.long	.LASF389
+	.byte	0xf
+	.byte	0x4f
+	.value	0x109
+	.long	0x186a
+	.byte	0x20
+	.uleb128 0xa
+	.long	.LASF390
+	.byte	0xf
+	.byte	0x4f
+	.value	0x128
+	.long	0x18a1
+	.byte	0x28
+	.uleb128 0xa
+	.long	.LASF391
+	.byte	0xf
+	.byte	0x4f
+	.value	0x169
+	.long	0x18c4
+	.byte	0x30
+	.uleb128 0xa
+	.long	.LASF392
+	.byte	0xf
+	.byte	0x4f
+	.value	0x1af
+	.long	0x18d8
+	.byte	0x38
+	.uleb128 0xa
+	.long	.LASF393
+	.byte	0xf
+	.byte	0x4f
+	.value	0x1cd
+	.long	0x18e8
+	.byte	0x40
+	.uleb128 0xa
+	.long	.LASF394
+	.byte	0xf
+	.byte	0x4f
+	.value	0x1ec
+	.long	0x1901
+	.byte	0x48
+	.uleb128 0xa
+	.long	.LASF395
+	.byte	0xf
+	.byte	0x4f
+	.value	0x213
+	.long	0x1926
+	.byte	0x50
+	.uleb128 0xa
+	.long	.LASF396
+	.byte	0xf
+	.byte	0x4f
+	.value	0x24a
+	.long	0x1944
+	.byte	0x58
+	.uleb128 0xa
+	.long	.LASF397
+	.byte	0xf
+	.byte	0x4f
+	.value	0x290
+	.long	0x1976
+	.byte	0x60
+	.uleb128 0x1f
+	.string	"Elt"
+	.byte	0xf
+	.byte	0x4f
+	.value	0x2d4
+	.long	0x198f
+	.byte	0x68
+	.uleb128 0xa
+	.long	.LASF398
+	.byte	0xf
+	.byte	0x4f
+	.value	0x2fa
+	.long	0x19a8
+	.byte	0x70
+	.uleb128 0xa
+	.long	.LASF399
+	.byte	0xf
+	.byte	0x4f
+	.value	0x321
+	.long	0x18d8
+	.byte	0x78
+	.uleb128 0xa
+	.long	.LASF400
+	.byte	0xf
+	.byte	0x4f
+	.value	0x341
+	.long	0x19bc
+	.byte	0x80
+	.uleb128 0xa
+	.long	.LASF401
+	.byte	0xf
+	.byte	0x4f
+	.value	0x35e
+	.long	0x19d5
+	.byte	0x88
+	.uleb128 0xa
+	.long	.LASF402
+	.byte	0xf
+	.byte	0x4f
+	.value	0x384
+	.long	0x19d5
+	.byte	0x90
+	.uleb128 0xa
+	.long	.LASF403
+	.byte	0xf
+	.byte	0x4f
+	.value	0x3ab
+	.long	0x19d5
+	.byte	0x98
+	.uleb128 0xa
+	.long	.LASF404
+	.byte	0xf
+	.byte	0x4f
+	.value	0x3d6
+	.long	0x18d8
+	.byte	0xa0
+	.uleb128 0xa
+	.long	.LASF405
+	.byte	0xf
+	.byte	0x4f
+	.value	0x3f5
+	.long	0x1901
+	.byte	0xa8
+	.uleb128 0xa
+	.long	.LASF406
+	.byte	0xf
+	.byte	0x4f
+	.value	0x421
+	.long	0x1a02
+	.byte	0xb0
+	.uleb128 0xa
+	.long	.LASF407
+	.byte	0xf
+	.byte	0x4f
+	.value	0x458
+	.long	0x1a20
+	.byte	0xb8
+	.uleb128 0x1f
+	.string	"Map"
+	.byte	0xf
+	.byte	0x4f
+	.value	0x49c
+	.long	0x1a39
+	.byte	0xc0
+	.uleb128 0xa
+	.long	.LASF408
+	.byte	0xf
+	.byte	0x4f
+	.value	0x4cd
+	.long	0x1a39
+	.byte	0xc8
+	.uleb128 0xa
+	.long	.LASF409
+	.byte	0xf
+	.byte	0x4f
+	.value	0x4ff
+	.long	0x18d8
+	.byte	0xd0
+	.uleb128 0xa
+	.long	.LASF410
+	.byte	0xf
+	.byte	0x4f
+	.value	0x521
+	.long	0x18d8
+	.byte	0xd8
+	.uleb128 0xa
+	.long	.LASF411
+	.byte	0xf
+	.byte	0x4f
+	.value	0x544
+	.long	0x1901
+	.byte	0xe0
+	.uleb128 0xa
+	.long	.LASF412
+	.byte	0xf
+	.byte	0x4f
+	.value	0x570
+	.long	0x1901
+	.byte	0xe8
+	.uleb128 0xa
+	.long	.LASF413
+	.byte	0xf
+	.byte	0x4f
+	.value	0x598
+	.long	0x1a52
+	.byte	0xf0
+	.uleb128 0xa
+	.long	.LASF414
+	.byte	0xf
+	.byte	0x4f
+	.value	0x5b9
+	.long	0x1a70
+	.byte	0xf8
+	.uleb128 0xf
+	.long	.LASF415
+	.byte	0xf
+	.byte	0x4f
+	.value	0x5f5
+	.long	0x1a89
+	.value	0x100
+	.uleb128 0xf
+	.long	.LASF416
+	.byte	0xf
+	.byte	0x4f
+	.value	0x621
+	.long	0x1aa2
+	.value	0x108
+	.uleb128 0xf
+	.long	.LASF417
+	.byte	0xf
+	.byte	0x4f
+	.value	0x641
+	.long	0x1ac0
+	.value	0x110
+	.uleb128 0xf
+	.long	.LASF418
+	.byte	0xf
+	.byte	0x4f
+	.value	0x684
+	.long	0x1ade
+	.value	0x118
+	.uleb128 0xf
+	.long	.LASF419
+	.byte	0xf
+	.byte	0x4f
+	.value	0x6c1
+	.long	0x1af8
+	.value	0x120
+	.uleb128 0xf
+	.long	.LASF420
+	.byte	0xf
+	.byte	0x4f
+	.value	0x6e9
+	.long	0x1b2f
+	.value	0x128
+	.uleb128 0xf
+	.long	.LASF421
+	.byte	0xf
+	.byte	0x4f
+	.value	0x726
+	.long	0x1b5c
+	.value	0x130
+	.uleb128 0xf
+	.long	.LASF422
+	.byte	0xf
+	.byte	0x4f
+	.value	0x77c
+	.long	0x1b7a
+	.value	0x138
+	.byte	0
+	.uleb128 0x20
+	.long	0x15bc
+	.uleb128 0x9
+	.long	0x15b0
+	.long	0x1818
+	.uleb128 0x1
+	.long	0x69d
+	.uleb128 0x1
+	.long	0x15b0
+	.byte	0
+	.uleb128 0x5
+	.long	0x1804
+	.uleb128 0x9
+	.long	0x15b0
+	.long	0x182c
+	.uleb128 0x1
+	.long	0x69d
+	.byte	0
+	.uleb128 0x5
+	.long	0x181d
+	.uleb128 0x9
+	.long	0x15b0
+	.long	0x1841
+	.uleb128 0x1
+	.long	0x2e
+	.uleb128 0x19
+	.byte	0
+	.uleb128 0x5
+	.long	0x1831
+	.uleb128 0x9
+	.long	0x15b0
+	.long	0x1855
+	.uleb128 0x1
+	.long	0x4e5
+	.byte	0
+	.uleb128 0x5
+	.long	0x1846
+	.uleb128 0x9
+	.long	0x15b0
+	.long	0x186a
+	.uleb128 0x1
+	.long	0x69d
+	.uleb128 0x19
+	.byte	0
+	.uleb128 0x5
+	.long	0x185a
+	.uleb128 0x9
+	.long	0x322
+	.long	0x1888
+	.uleb128 0x1
+	.long	0x15b0
+	.uleb128 0x1
+	.long	0x15b0
+	.uleb128 0x1
+	.long	0x1888
+	.byte	0
+	.uleb128 0x5
+	.long	0x188d
+	.uleb128 0x9
+	.long	0x322
+	.long	0x18a1
+	.uleb128 0x1
+	.long	0x69d
+	.uleb128 0x1
+	.long	0x69d
+	.byte	0
+	.uleb128 0x5
+	.long	0x186f
+	.uleb128 0x9
+	.long	0x69d
+	.long	0x18c4
+	.uleb128 0x1
+	.long	0x15b0
+	.uleb128 0x1
+	.long	0x69d
+	.uleb128 0x1
+	.long	0x1888
+	.uleb128 0x1
+	.long	0x4ea
+	.byte	0
+	.uleb128 0x5
+	.long	0x18a6
+	.uleb128 0x9
+	.long	0x15b0
+	.long	0x18d8
+	.uleb128 0x1
+	.long	0x15b0
+	.byte	0
+	.uleb128 0x5
+	.long	0x18c9
+	.uleb128 0x15
+	.long	0x18e8
+	.uleb128 0x1
+	.long	0x15b0
+	.byte	0
+	.uleb128 0x5
+	.long	0x18dd
+	.uleb128 0x9
+	.long	0x15b0
+	.long	0x1901
+	.uleb128 0x1
+	.long	0x15b0
+	.uleb128 0x1
+	.long	0x15b0
+	.byte	0
+	.uleb128 0x5
+	.long	0x18ed
+	.uleb128 0x15
+	.long	0x1916
+	.uleb128 0x1
+	.long	0x15b0
+	.uleb128 0x1
+	.long	0x1916
+	.byte	0
+	.uleb128 0x5
+	.long	0x191b
+	.uleb128 0x15
+	.long	0x1926
+	.uleb128 0x1
+	.long	0x69d
+	.byte	0
+	.uleb128 0x5
+	.long	0x1906
+	.uleb128 0x9
+	.long	0x15b0
+	.long	0x1944
+	.uleb128 0x1
+	.long	0x15b0
+	.uleb128 0x1
+	.long	0x15b0
+	.uleb128 0x1
+	.long	0x1916
+	.byte	0
+	.uleb128 0x5
+	.long	0x192b
+	.uleb128 0x9
+	.long	0x15b0
+	.long	0x1962
+	.uleb128 0x1
+	.long	0x15b0
+	.uleb128 0x1
+	.long	0x1916
+	.uleb128 0x1
+	.long	0x1962
+	.byte	0
+	.uleb128 0x5
+	.long	0x1967
+	.uleb128 0x9
+	.long	0x322
+	.long	0x1976
+	.uleb128 0x1
+	.long	0x69d
+	.byte	0
+	.uleb128 0x5
+	.long	0x1949
+	.uleb128 0x9
+	.long	0x69d
+	.long	0x198f
+	.uleb128 0x1
+	.long	0x15b0
+	.uleb128 0x1
+	.long	0x33c
+	.byte	0
+	.uleb128 0x5
+	.long	0x197b
+	.uleb128 0x9
+	.long	0x15b0
+	.long	0x19a8
+	.uleb128 0x1
+	.long	0x15b0
+	.uleb128 0x1
+	.long	0x33c
+	.byte	0
+	.uleb128 0x5
+	.long	0x1994
+	.uleb128 0x9
+	.long	0x33c
+	.long	0x19bc
+	.uleb128 0x1
+	.long	0x15b0
+	.byte	0
+	.uleb128 0x5
+	.long	0x19ad
+	.uleb128 0x9
+	.long	0x322
+	.long	0x19d5
+	.uleb128 0x1
+	.long	0x15b0
+	.uleb128 0x1
+	.long	0x33c
+	.byte	0
+	.uleb128 0x5
+	.long	0x19c1
+	.uleb128 0x9
+	.long	0x15b0
+	.long	0x19ee
+	.uleb128 0x1
+	.long	0x15b0
+	.uleb128 0x1
+	.long	0x19ee
+	.byte	0
+	.uleb128 0x5
+	.long	0x19f3
+	.uleb128 0x9
+	.long	0x69d
+	.long	0x1a02
+	.uleb128 0x1
+	.long	0x69d
+	.byte	0
+	.uleb128 0x5
+	.long	0x19da
+	.uleb128 0x9
+	.long	0x15b0
+	.long	0x1a20
+	.uleb128 0x1
+	.long	0x15b0
+	.uleb128 0x1
+	.long	0x15b0
+	.uleb128 0x1
+	.long	0x19ee
+	.byte	0
+	.uleb128 0x5
+	.long	0x1a07
+	.uleb128 0x9
+	.long	0x15b0
+	.long	0x1a39
+	.uleb128 0x1
+	.long	0x19ee
+	.uleb128 0x1
+	.long	0x15b0
+	.byte	0
+	.uleb128 0x5
+	.long	0x1a25
+	.uleb128 0x9
+	.long	0x322
+	.long	0x1a52
+	.uleb128 0x1
+	.long	0x15b0
+	.uleb128 0x1
+	.long	0x69d
+	.byte	0
+	.uleb128 0x5
+	.long	0x1a3e
+	.uleb128 0x9
+	.long	0x322
+	.long	0x1a70
+	.uleb128 0x1
+	.long	0x15b0
+	.uleb128 0x1
+	.long	0x69d
+	.uleb128 0x1
+	.long	0x1888
+	.byte	0
+	.uleb128 0x5
+	.long	0x1a57
+	.uleb128 0x9
+	.long	0x322
+	.long	0x1a89
+	.uleb128 0x1
+	.long	0x15b0
+	.uleb128 0x1
+	.long	0x15b0
+	.byte	0
+	.uleb128 0x5
+	.long	0x1a75
+	.uleb128 0x9
+	.long	0x2e
+	.long	0x1aa2
+	.uleb128 0x1
+	.long	0x15b0
+	.uleb128 0x1
+	.long	0x69d
+	.byte	0
+	.uleb128 0x5
+	.long	0x1a8e
+	.uleb128 0x9
+	.long	0x2e
+	.long	0x1ac0
+	.uleb128 0x1
+	.long	0x15b0
+	.uleb128 0x1
+	.long	0x69d
+	.uleb128 0x1
+	.long	0x1888
+	.byte	0
+	.uleb128 0x5
+	.long	0x1aa7
+	.uleb128 0x9
+	.long	0x15b0
+	.long	0x1ade
+	.uleb128 0x1
+	.long	0x15b0
+	.uleb128 0x1
+	.long	0x69d
+	.uleb128 0x1
+	.long	0x1888
+	.byte	0
+	.uleb128 0x5
+	.long	0x1ac5
+	.uleb128 0x15
+	.long	0x1af3
+	.uleb128 0x1
+	.long	0x1af3
+	.uleb128 0x1
+	.long	0x15b0
+	.byte	0
+	.uleb128 0x5
+	.long	0x69d
+	.uleb128 0x5
+	.long	0x1ae3
+	.uleb128 0x9
+	.long	0x2e
+	.long	0x1b16
+	.uleb128 0x1
+	.long	0x2c3
+	.uleb128 0x1
+	.long	0x15b0
+	.uleb128 0x1
+	.long	0x1b16
+	.byte	0
+	.uleb128 0x5
+	.long	0x1b1b
+	.uleb128 0x9
+	.long	0x2e
+	.long	0x1b2f
+	.uleb128 0x1
+	.long	0x2c3
+	.uleb128 0x1
+	.long	0x69d
+	.byte	0
+	.uleb128 0x5
+	.long	0x1afd
+	.uleb128 0x9
+	.long	0x2e
+	.long	0x1b5c
+	.uleb128 0x1
+	.long	0x2c3
+	.uleb128 0x1
+	.long	0x15b0
+	.uleb128 0x1
+	.long	0x1b16
+	.uleb128 0x1
+	.long	0x80
+	.uleb128 0x1
+	.long	0x80
+	.uleb128 0x1
+	.long	0x80
+	.byte	0
+	.uleb128 0x5
+	.long	0x1b34
+	.uleb128 0x9
+	.long	0x2e
+	.long	0x1b7a
+	.uleb128 0x1
+	.long	0x3df
+	.uleb128 0x1
+	.long	0x370
+	.uleb128 0x1
+	.long	0x15b0
+	.byte	0
+	.uleb128 0x5
+	.long	0x1b61
+	.uleb128 0x28
+	.long	.LASF434
+	.byte	0xf
+	.byte	0x4f
+	.value	0x7cf
+	.long	0x1b8c
+	.uleb128 0x5
+	.long	0x17ff
+	.uleb128 0xe
+	.long	.LASF423
+	.byte	0x10
+	.byte	0xf
+	.byte	0x52
+	.byte	0x10
+	.long	0x1bb9
+	.uleb128 0x3
+	.long	.LASF367
+	.byte	0xf
+	.byte	0x52
+	.byte	0x26
+	.long	0xb82
+	.byte	0
+	.uleb128 0x3
+	.long	.LASF91
+	.byte	0xf
+	.byte	0x52
+	.byte	0x43
+	.long	0x1bb9
+	.byte	0x8
+	.byte	0
+	.uleb128 0x5
+	.long	0x1b91
+	.uleb128 0xb
+	.long	.LASF424
+	.byte	0xf
+	.byte	0x52
+	.byte	0x4c
+	.long	0x1bb9
+	.uleb128 0x5
+	.long	0xb82
+	.uleb128 0xe
+	.long	.LASF425
+	.byte	0x10
+	.byte	0xf
+	.byte	0x53
+	.byte	0x10
+	.long	0x1bf7
+	.uleb128 0x3
+	.long	.LASF367
+	.byte	0xf
+	.byte	0x53
+	.byte	0x28
+	.long	0xd56
+	.byte	0
+	.uleb128 0x3
+	.long	.LASF91
+	.byte	0xf
+	.byte	0x53
+	.byte	0x46
+	.long	0x1bf7
+	.byte	0x8
+	.byte	0
+	.uleb128 0x5
+	.long	0x1bcf
+	.uleb128 0xb
+	.long	.LASF426
+	.byte	0xf
+	.byte	0x53
+	.byte	0x4f
+	.long	0x1bf7
+	.uleb128 0xe
+	.long	.LASF427
+	.byte	0x10
+	.byte	0xf
+	.byte	0x54
+	.byte	0x10
+	.long	0x1c30
+	.uleb128 0x3
+	.long	.LASF367
+	.byte	0xf
+	.byte	0x54
+	.byte	0x26
+	.long	0xd6c
+	.byte	0
+	.uleb128 0x3
+	.long	.LASF91
+	.byte	0xf
+	.byte	0x54
+	.byte	0x43
+	.long	0x1c30
+	.byte	0x8
+	.byte	0
+	.uleb128 0x5
+	.long	0x1c08
+	.uleb128 0xb
+	.long	.LASF428
+	.byte	0xf
+	.byte	0x54
+	.byte	0x4c
+	.long	0x1c30
+	.uleb128 0xe
+	.long	.LASF429
+	.byte	0x10
+	.byte	0xf
+	.byte	0x55
+	.byte	0x10
+	.long	0x1c69
+	.uleb128 0x3
+	.long	.LASF367
+	.byte	0xf
+	.byte	0x55
+	.byte	0x24
+	.long	0x1481
+	.byte	0
+	.uleb128 0x3
+	.long	.LASF91
+	.byte	0xf
+	.byte	0x55
+	.byte	0x40
+	.long	0x1c69
+	.byte	0x8
+	.byte	0
+	.uleb128 0x5
+	.long	0x1c41
+	.uleb128 0xb
+	.long	.LASF430
+	.byte	0xf
+	.byte	0x55
+	.byte	0x49
+	.long	0x1c69
+	.uleb128 0xe
+	.long	.LASF431
+	.byte	0x10
+	.byte	0xf
+	.byte	0x57
+	.byte	0x10
+	.long	0x1ca2
+	.uleb128 0x3
+	.long	.LASF367
+	.byte	0xf
+	.byte	0x57
+	.byte	0x24
+	.long	0xad5
+	.byte	0
+	.uleb128 0x3
+	.long	.LASF91
+	.byte	0xf
+	.byte	0x57
+	.byte	0x40
+	.long	0x1ca2
+	.byte	0x8
+	.byte	0
+	.uleb128 0x5
+	.long	0x1c7a
+	.uleb128 0xb
+	.long	.LASF432
+	.byte	0xf
+	.byte	0x57
+	.byte	0x49
+	.long	0x1ca2
+	.uleb128 0x22
+	.long	.LASF433
+	.value	0x140
+	.byte	0xf
+	.byte	0x57
+	.byte	0x5a
+	.long	0x1ef5
+	.uleb128 0x3
+	.long	.LASF385
+	.byte	0xf
+	.byte	0x57
+	.byte	0x7a
+	.long	0x1f0e
+	.byte	0
+	.uleb128 0x3
+	.long	.LASF386
+	.byte	0xf
+	.byte	0x57
+	.byte	0x9d
+	.long	0x1f22
+	.byte	0x8
+	.uleb128 0x3
+	.long	.LASF387
+	.byte	0xf
+	.byte	0x57
+	.byte	0xbb
+	.long	0x1f37
+	.byte	0x10
+	.uleb128 0x3
+	.long	.LASF388
+	.byte	0xf
+	.byte	0x57
+	.byte	0xda
+	.long	0x1f4b
+	.byte	0x18
+	.uleb128 0x3
+	.long	.LASF389
+	.byte	0xf
+	.byte	0x57
+	.byte	0xfc
+	.long	0x1f60
+	.byte	0x20
+	.uleb128 0xa
+	.long	.LASF390
+	.byte	0xf
+	.byte	0x57
+	.value	0x11a
+	.long	0x1f97
+	.byte	0x28
+	.uleb128 0xa
+	.long	.LASF391
+	.byte	0xf
+	.byte	0x57
+	.value	0x156
+	.long	0x1fba
+	.byte	0x30
+	.uleb128 0xa
+	.long	.LASF392
+	.byte	0xf
+	.byte	0x57
+	.value	0x197
+	.long	0x1fce
+	.byte	0x38
+	.uleb128 0xa
+	.long	.LASF393
+	.byte	0xf
+	.byte	0x57
+	.value	0x1b4
+	.long	0x1fde
+	.byte	0x40
+	.uleb128 0xa
+	.long	.LASF394
+	.byte	0xf
+	.byte	0x57
+	.value	0x1d1
+	.long	0x1ff7
+	.byte	0x48
+	.uleb128 0xa
+	.long	.LASF395
+	.byte	0xf
+	.byte	0x57
+	.value	0x1f6
+	.long	0x201c
+	.byte	0x50
+	.uleb128 0xa
+	.long	.LASF396
+	.byte	0xf
+	.byte	0x57
+	.value	0x22a
+	.long	0x203a
+	.byte	0x58
+	.uleb128 0xa
+	.long	.LASF397
+	.byte	0xf
+	.byte	0x57
+	.value	0x26c
+	.long	0x206c
+	.byte	0x60
+	.uleb128 0x1f
+	.string	"Elt"
+	.byte	0xf
+	.byte	0x57
+	.value	0x2ac
+	.long	0x2085
+	.byte	0x68
+	.uleb128 0xa
+	.long	.LASF398
+	.byte	0xf
+	.byte	0x57
+	.value	0x2d0
+	.long	0x209e
+	.byte	0x70
+	.uleb128 0xa
+	.long	.LASF399
+	.byte	0xf
+	.byte	0x57
+	.value	0x2f5
+	.long	0x1fce
+	.byte	0x78
+	.uleb128 0xa
+	.long	.LASF400
+	.byte	0xf
+	.byte	0x57
+	.value	0x314
+	.long	0x20b2
+	.byte	0x80
+	.uleb128 0xa
+	.long	.LASF401
+	.byte	0xf
+	.byte	0x57
+	.value	0x330
+	.long	0x20cb
+	.byte	0x88
+	.uleb128 0xa
+	.long	.LASF402
+	.byte	0xf
+	.byte	0x57
+	.value	0x355
+	.long	0x20cb
+	.byte	0x90
+	.uleb128 0xa
+	.long	.LASF403
+	.byte	0xf
+	.byte	0x57
+	.value	0x37b
+	.long	0x20cb
+	.byte	0x98
+	.uleb128 0xa
+	.long	.LASF404
+	.byte	0xf
+	.byte	0x57
+	.value	0x3a4
+	.long	0x1fce
+	.byte	0xa0
+	.uleb128 0xa
+	.long	.LASF405
+	.byte	0xf
+	.byte	0x57
+	.value	0x3c1
+	.long	0x1ff7
+	.byte	0xa8
+	.uleb128 0xa
+	.long	.LASF406
+	.byte	0xf
+	.byte	0x57
+	.value	0x3ea
+	.long	0x20f8
+	.byte	0xb0
+	.uleb128 0xa
+	.long	.LASF407
+	.byte	0xf
+	.byte	0x57
+	.value	0x41d
+	.long	0x2116
+	.byte	0xb8
+	.uleb128 0x1f
+	.string	"Map"
+	.byte	0xf
+	.byte	0x57
+	.value	0x45c
+	.long	0x212f
+	.byte	0xc0
+	.uleb128 0xa
+	.long	.LASF408
+	.byte	0xf
+	.byte	0x57
+	.value	0x489
+	.long	0x212f
+	.byte	0xc8
+	.uleb128 0xa
+	.long	.LASF409
+	.byte	0xf
+	.byte	0x57
+	.value	0x4b7
+	.long	0x1fce
+	.byte	0xd0
+	.uleb128 0xa
+	.long	.LASF410
+	.byte	0xf
+	.byte	0x57
+	.value	0x4d7
+	.long	0x1fce
+	.byte	0xd8
+	.uleb128 0xa
+	.long	.LASF411
+	.byte	0xf
+	.byte	0x57
+	.value	0x4f8
+	.long	0x1ff7
+	.byte	0xe0
+	.uleb128 0xa
+	.long	.LASF412
+	.byte	0xf
+	.byte	0x57
+	.value	0x521
+	.long	0x1ff7
+	.byte	0xe8
+	.uleb128 0xa
+	.long	.LASF413
+	.byte	0xf
+	.byte	0x57
+	.value	0x547
+	.long	0x2148
+	.byte	0xf0
+	.uleb128 0xa
+	.long	.LASF414
+	.byte	0xf
+	.byte	0x57
+	.value	0x566
+	.long	0x2166
+	.byte	0xf8
+	.uleb128 0xf
+	.long	.LASF415
+	.byte	0xf
+	.byte	0x57
+	.value	0x59e
+	.long	0x217f
+	.value	0x100
+	.uleb128 0xf
+	.long	.LASF416
+	.byte	0xf
+	.byte	0x57
+	.value	0x5c8
+	.long	0x2198
+	.value	0x108
+	.uleb128 0xf
+	.long	.LASF417
+	.byte	0xf
+	.byte	0x57
+	.value	0x5e6
+	.long	0x21b6
+	.value	0x110
+	.uleb128 0xf
+	.long	.LASF418
+	.byte	0xf
+	.byte	0x57
+	.value	0x624
+	.long	0x21d4
+	.value	0x118
+	.uleb128 0xf
+	.long	.LASF419
+	.byte	0xf
+	.byte	0x57
+	.value	0x65d
+	.long	0x21ee
+	.value	0x120
+	.uleb128 0xf
+	.long	.LASF420
+	.byte	0xf
+	.byte	0x57
+	.value	0x683
+	.long	0x2225
+	.value	0x128
+	.uleb128 0xf
+	.long	.LASF421
+	.byte	0xf
+	.byte	0x57
+	.value	0x6be
+	.long	0x2252
+	.value	0x130
+	.uleb128 0xf
+	.long	.LASF422
+	.byte	0xf
+	.byte	0x57
+	.value	0x712
+	.long	0x2270
+	.value	0x138
+	.byte	0
+	.uleb128 0x20
+	.long	0x1cb3
+	.uleb128 0x9
+	.long	0x1ca7
+	.long	0x1f0e
+	.uleb128 0x1
+	.long	0xad5
+	.uleb128 0x1
+	.long	0x1ca7
+	.byte	0
+	.uleb128 0x5
+	.long	0x1efa
+	.uleb128 0x9
+	.long	0x1ca7
+	.long	0x1f22
+	.uleb128 0x1
+	.long	0xad5
+	.byte	0
+	.uleb128 0x5
+	.long	0x1f13
+	.uleb128 0x9
+	.long	0x1ca7
+	.long	0x1f37
+	.uleb128 0x1
+	.long	0x2e
+	.uleb128 0x19
+	.byte	0
+	.uleb128 0x5
+	.long	0x1f27
+	.uleb128 0x9
+	.long	0x1ca7
+	.long	0x1f4b
+	.uleb128 0x1
+	.long	0x4e5
+	.byte	0
+	.uleb128 0x5
+	.long	0x1f3c
+	.uleb128 0x9
+	.long	0x1ca7
+	.long	0x1f60
+	.uleb128 0x1
+	.long	0xad5
+	.uleb128 0x19
+	.byte	0
+	.uleb128 0x5
+	.long	0x1f50
+	.uleb128 0x9
+	.long	0x322
+	.long	0x1f7e
+	.uleb128 0x1
+	.long	0x1ca7
+	.uleb128 0x1
+	.long	0x1ca7
+	.uleb128 0x1
+	.long	0x1f7e
+	.byte	0
+	.uleb128 0x5
+	.long	0x1f83
+	.uleb128 0x9
+	.long	0x322
+	.long	0x1f97
+	.uleb128 0x1
+	.long	0xad5
+	.uleb128 0x1
+	.long	0xad5
+	.byte	0
+	.uleb128 0x5
+	.long	0x1f65
+	.uleb128 0x9
+	.long	0xad5
+	.long	0x1fba
+	.uleb128 0x1
+	.long	0x1ca7
+	.uleb128 0x1
+	.long	0xad5
+	.uleb128 0x1
+	.long	0x1f7e
+	.uleb128 0x1
+	.long	0x4ea
+	.byte	0
+	.uleb128 0x5
+	.long	0x1f9c
+	.uleb128 0x9
+	.long	0x1ca7
+	.long	0x1fce
+	.uleb128 0x1
+	.long	0x1ca7
+	.byte	0
+	.uleb128 0x5
+	.long	0x1fbf
+	.uleb128 0x15
+	.long	0x1fde
+	.uleb128 0x1
+	.long	0x1ca7
+	.byte	0
+	.uleb128 0x5
+	.long	0x1fd3
+	.uleb128 0x9
+	.long	0x1ca7
+	.long	0x1ff7
+	.uleb128 0x1
+	.long	0x1ca7
+	.uleb128 0x1
+	.long	0x1ca7
+	.byte	0
+	.uleb128 0x5
+	.long	0x1fe3
+	.uleb128 0x15
+	.long	0x200c
+	.uleb128 0x1
+	.long	0x1ca7
+	.uleb128 0x1
+	.long	0x200c
+	.byte	0
+	.uleb128 0x5
+	.long	0x2011
+	.uleb128 0x15
+	.long	0x201c
+	.uleb128 0x1
+	.long	0xad5
+	.byte	0
+	.uleb128 0x5
+	.long	0x1ffc
+	.uleb128 0x9
+	.long	0x1ca7
+	.long	0x203a
+	.uleb128 0x1
+	.long	0x1ca7
+	.uleb128 0x1
+	.long	0x1ca7
+	.uleb128 0x1
+	.long	0x200c
+	.byte	0
+	.uleb128 0x5
+	.long	0x2021
+	.uleb128 0x9
+	.long	0x1ca7
+	.long	0x2058
+	.uleb128 0x1
+	.long	0x1ca7
+	.uleb128 0x1
+	.long	0x200c
+	.uleb128 0x1
+	.long	0x2058
+	.byte	0
+	.uleb128 0x5
+	.long	0x205d
+	.uleb128 0x9
+	.long	0x322
+	.long	0x206c
+	.uleb128 0x1
+	.long	0xad5
+	.byte	0
+	.uleb128 0x5
+	.long	0x203f
+	.uleb128 0x9
+	.long	0xad5
+	.long	0x2085
+	.uleb128 0x1
+	.long	0x1ca7
+	.uleb128 0x1
+	.long	0x33c
+	.byte	0
+	.uleb128 0x5
+	.long	0x2071
+	.uleb128 0x9
+	.long	0x1ca7
+	.long	0x209e
+	.uleb128 0x1
+	.long	0x1ca7
+	.uleb128 0x1
+	.long	0x33c
+	.byte	0
+	.uleb128 0x5
+	.long	0x208a
+	.uleb128 0x9
+	.long	0x33c
+	.long	0x20b2
+	.uleb128 0x1
+	.long	0x1ca7
+	.byte	0
+	.uleb128 0x5
+	.long	0x20a3
+	.uleb128 0x9
+	.long	0x322
+	.long	0x20cb
+	.uleb128 0x1
+	.long	0x1ca7
+	.uleb128 0x1
+	.long	0x33c
+	.byte	0
+	.uleb128 0x5
+	.long	0x20b7
+	.uleb128 0x9
+	.long	0x1ca7
+	.long	0x20e4
+	.uleb128 0x1
+	.long	0x1ca7
+	.uleb128 0x1
+	.long	0x20e4
+	.byte	0
+	.uleb128 0x5
+	.long	0x20e9
+	.uleb128 0x9
+	.long	0xad5
+	.long	0x20f8
+	.uleb128 0x1
+	.long	0xad5
+	.byte	0
+	.uleb128 0x5
+	.long	0x20d0
+	.uleb128 0x9
+	.long	0x1ca7
+	.long	0x2116
+	.uleb128 0x1
+	.long	0x1ca7
+	.uleb128 0x1
+	.long	0x1ca7
+	.uleb128 0x1
+	.long	0x20e4
+	.byte	0
+	.uleb128 0x5
+	.long	0x20fd
+	.uleb128 0x9
+	.long	0x1ca7
+	.long	0x212f
+	.uleb128 0x1
+	.long	0x20e4
+	.uleb128 0x1
+	.long	0x1ca7
+	.byte	0
+	.uleb128 0x5
+	.long	0x211b
+	.uleb128 0x9
+	.long	0x322
+	.long	0x2148
+	.uleb128 0x1
+	.long	0x1ca7
+	.uleb128 0x1
+	.long	0xad5
+	.byte	0
+	.uleb128 0x5
+	.long	0x2134
+	.uleb128 0x9
+	.long	0x322
+	.long	0x2166
+	.uleb128 0x1
+	.long	0x1ca7
+	.uleb128 0x1
+	.long	0xad5
+	.uleb128 0x1
+	.long	0x1f7e
+	.byte	0
+	.uleb128 0x5
+	.long	0x214d
+	.uleb128 0x9
+	.long	0x322
+	.long	0x217f
+	.uleb128 0x1
+	.long	0x1ca7
+	.uleb128 0x1
+	.long	0x1ca7
+	.byte	0
+	.uleb128 0x5
+	.long	0x216b
+	.uleb128 0x9
+	.long	0x2e
+	.long	0x2198
+	.uleb128 0x1
+	.long	0x1ca7
+	.uleb128 0x1
+	.long	0xad5
+	.byte	0
+	.uleb128 0x5
+	.long	0x2184
+	.uleb128 0x9
+	.long	0x2e
+	.long	0x21b6
+	.uleb128 0x1
+	.long	0x1ca7
+	.uleb128 0x1
+	.long	0xad5
+	.uleb128 0x1
+	.long	0x1f7e
+	.byte	0
+	.uleb128 0x5
+	.long	0x219d
+	.uleb128 0x9
+	.long	0x1ca7
+	.long	0x21d4
+	.uleb128 0x1
+	.long	0x1ca7
+	.uleb128 0x1
+	.long	0xad5
+	.uleb128 0x1
+	.long	0x1f7e
+	.byte	0
+	.uleb128 0x5
+	.long	0x21bb
+	.uleb128 0x15
+	.long	0x21e9
+	.uleb128 0x1
+	.long	0x21e9
+	.uleb128 0x1
+	.long	0x1ca7
+	.byte	0
+	.uleb128 0x5
+	.long	0xad5
+	.uleb128 0x5
+	.long	0x21d9
+	.uleb128 0x9
+	.long	0x2e
+	.long	0x220c
+	.uleb128 0x1
+	.long	0x2c3
+	.uleb128 0x1
+	.long	0x1ca7
+	.uleb128 0x1
+	.long	0x220c
+	.byte	0
+	.uleb128 0x5
+	.long	0x2211
+	.uleb128 0x9
+	.long	0x2e
+	.long	0x2225
+	.uleb128 0x1
+	.long	0x2c3
+	.uleb128 0x1
+	.long	0xad5
+	.byte	0
+	.uleb128 0x5
+	.long	0x21f3
+	.uleb128 0x9
+	.long	0x2e
+	.long	0x2252
+	.uleb128 0x1
+	.long	0x2c3
+	.uleb128 0x1
+	.long	0x1ca7
+	.uleb128 0x1
+	.long	0x220c
+	.uleb128 0x1
+	.long	0x80
+	.uleb128 0x1
+	.long	0x80
+	.uleb128 0x1
+	.long	0x80
+	.byte	0
+	.uleb128 0x5
+	.long	0x222a
+	.uleb128 0x9
+	.long	0x2e
+	.long	0x2270
+	.uleb128 0x1
+	.long	0x3df
+	.uleb128 0x1
+	.long	0x370
+	.uleb128 0x1
+	.long	0x1ca7
+	.byte	0
+	.uleb128 0x5
+	.long	0x2257
+	.uleb128 0x28
+	.long	.LASF435
+	.byte	0xf
+	.byte	0x57
+	.value	0x763
+	.long	0x2282
+	.uleb128 0x5
+	.long	0x1ef5
+	.uleb128 0x5
+	.long	0xd82
+	.uleb128 0x5
+	.long	0x2fb
+	.uleb128 0xe
+	.long	.LASF436
+	.byte	0x10
+	.byte	0xf
+	.byte	0x5d
+	.byte	0x10
+	.long	0x22b9
+	.uleb128 0x3
+	.long	.LASF367
+	.byte	0xf
+	.byte	0x5d
+	.byte	0x28
+	.long	0x14dc
+	.byte	0
+	.uleb128 0x3
+	.long	.LASF91
+	.byte	0xf
+	.byte	0x5d
+	.byte	0x46
+	.long	0x22b9
+	.byte	0x8
+	.byte	0
+	.uleb128 0x5
+	.long	0x2291
+	.uleb128 0xb
+	.long	.LASF437
+	.byte	0xf
+	.byte	0x5d
+	.byte	0x4f
+	.long	0x22b9
+	.uleb128 0x5
+	.long	0x1ca7
+	.uleb128 0x17
+	.long	0x363
+	.long	0x22df
+	.uleb128 0x18
+	.long	0x4a
+	.byte	0x9
+	.byte	0
+	.uleb128 0x12
+	.long	.LASF438
+	.byte	0xc
+	.byte	0x13
+	.byte	0xf
+	.long	0x51b
+	.uleb128 0xb
+	.long	.LASF439
+	.byte	0xd
+	.byte	0xe
+	.byte	0x11
+	.long	0x356
+	.uleb128 0xb
+	.long	.LASF440
+	.byte	0xd
+	.byte	0xf
+	.byte	0x11
+	.long	0x356
+	.uleb128 0xb
+	.long	.LASF441
+	.byte	0xd
+	.byte	0x11
+	.byte	0x11
+	.long	0x230f
+	.uleb128 0x5
+	.long	0x2314
+	.uleb128 0x9
+	.long	0x32f
+	.long	0x2323
+	.uleb128 0x1
+	.long	0x22eb
+	.byte	0
+	.uleb128 0xb
+	.long	.LASF442
+	.byte	0xd
+	.byte	0x12
+	.byte	0x11
+	.long	0x232f
+	.uleb128 0x5
+	.long	0x2334
+	.uleb128 0x9
+	.long	0x322
+	.long	0x2348
+	.uleb128 0x1
+	.long	0x22eb
+	.uleb128 0x1
+	.long	0x22eb
+	.byte	0
+	.uleb128 0xe
+	.long	.LASF443
+	.byte	0x20
+	.byte	0xd
+	.byte	0x1a
+	.byte	0x8
+	.long	0x238a
+	.uleb128 0x14
+	.string	"key"
+	.byte	0xd
+	.byte	0x1b
+	.byte	0x9
+	.long	0x22eb
+	.byte	0
+	.uleb128 0x14
+	.string	"elt"
+	.byte	0xd
+	.byte	0x1c
+	.byte	0x9
+	.long	0x22f7
+	.byte	0x8
+	.uleb128 0x3
+	.long	.LASF199
+	.byte	0xd
+	.byte	0x1d
+	.byte	0x7
+	.long	0x32f
+	.byte	0x10
+	.uleb128 0x3
+	.long	.LASF444
+	.byte	0xd
+	.byte	0x1e
+	.byte	0x12
+	.long	0x238a
+	.byte	0x18
+	.byte	0
+	.uleb128 0x5
+	.long	0x2348
+	.uleb128 0x5
+	.long	0x238a
+	.uleb128 0x5
+	.long	0x397
+	.uleb128 0xe
+	.long	.LASF445
+	.byte	0x8
+	.byte	0x10
+	.byte	0x2e
+	.byte	0x10
+	.long	0x23b4
+	.uleb128 0x3
+	.long	.LASF95
+	.byte	0x10
+	.byte	0x2e
+	.byte	0x24
+	.long	0x590
+	.byte	0
+	.byte	0
+	.uleb128 0xb
+	.long	.LASF446
+	.byte	0x10
+	.byte	0x2e
+	.byte	0x2e
+	.long	0x23c0
+	.uleb128 0x5
+	.long	0x2399
+	.uleb128 0x29
+	.long	.LASF530
+	.long	0x43
+	.byte	0x16
+	.long	0x25c0
+	.uleb128 0x8
+	.long	.LASF447
+	.byte	0
+	.uleb128 0x8
+	.long	.LASF448
+	.byte	0
+	.uleb128 0x8
+	.long	.LASF449
+	.byte	0
+	.uleb128 0x8
+	.long	.LASF450
+	.byte	0x1
+	.uleb128 0x8
+	.long	.LASF451
+	.byte	0x2
+	.uleb128 0x8
+	.long	.LASF452
+	.byte	0x3
+	.uleb128 0x8
+	.long	.LASF453
+	.byte	0x3
+	.uleb128 0x8
+	.long	.LASF454
+	.byte	0x3
+	.uleb128 0x8
+	.long	.LASF455
+	.byte	0x4
+	.uleb128 0x8
+	.long	.LASF456
+	.byte	0x4
+	.uleb128 0x8
+	.long	.LASF457
+	.byte	0x4
+	.uleb128 0x8
+	.long	.LASF458
+	.byte	0x5
+	.uleb128 0x8
+	.long	.LASF459
+	.byte	0x6
+	.uleb128 0x8
+	.long	.LASF460
+	.byte	0x7
+	.uleb128 0x8
+	.long	.LASF461
+	.byte	0x7
+	.uleb128 0x8
+	.long	.LASF462
+	.byte	0x7
+	.uleb128 0x8
+	.long	.LASF463
+	.byte	0x8
+	.uleb128 0x8
+	.long	.LASF464
+	.byte	0x9
+	.uleb128 0x8
+	.long	.LASF465
+	.byte	0xa
+	.uleb128 0x8
+	.long	.LASF466
+	.byte	0xb
+	.uleb128 0x8
+	.long	.LASF467
+	.byte	0xc
+	.uleb128 0x8
+	.long	.LASF468
+	.byte	0xd
+	.uleb128 0x8
+	.long	.LASF469
+	.byte	0xe
+	.uleb128 0x8
+	.long	.LASF470
+	.byte	0xf
+	.uleb128 0x8
+	.long	.LASF471
+	.byte	0x10
+	.uleb128 0x8
+	.long	.LASF472
+	.byte	0x11
+	.uleb128 0x8
+	.long	.LASF473
+	.byte	0x12
+	.uleb128 0x8
+	.long	.LASF474
+	.byte	0x13
+	.uleb128 0x8
+	.long	.LASF475
+	.byte	0x14
+	.uleb128 0x8
+	.long	.LASF476
+	.byte	0x15
+	.uleb128 0x8
+	.long	.LASF477
+	.byte	0x16
+	.uleb128 0x8
+	.long	.LASF478
+	.byte	0x17
+	.uleb128 0x8
+	.long	.LASF479
+	.byte	0x18
+	.uleb128 0x8
+	.long	.LASF480
+	.byte	0x19
+	.uleb128 0x8
+	.long	.LASF481
+	.byte	0x1a
+	.uleb128 0x8
+	.long	.LASF482
+	.byte	0x1b
+	.uleb128 0x8
+	.long	.LASF483
+	.byte	0x1c
+	.uleb128 0x8
+	.long	.LASF484
+	.byte	0x1d
+	.uleb128 0x8
+	.long	.LASF485
+	.byte	0x1e
+	.uleb128 0x8
+	.long	.LASF486
+	.byte	0x1f
+	.uleb128 0x8
+	.long	.LASF487
+	.byte	0x20
+	.uleb128 0x8
+	.long	.LASF488
+	.byte	0x21
+	.uleb128 0x8
+	.long	.LASF489
+	.byte	0x22
+	.uleb128 0x8
+	.long	.LASF490
+	.byte	0x23
+	.uleb128 0x8
+	.long	.LASF491
+	.byte	0x24
+	.uleb128 0x8
+	.long	.LASF492
+	.byte	0x25
+	.uleb128 0x8
+	.long	.LASF493
+	.byte	0x26
+	.uleb128 0x8
+	.long	.LASF494
+	.byte	0x27
+	.uleb128 0x8
+	.long	.LASF495
+	.byte	0x28
+	.uleb128 0x8
+	.long	.LASF496
+	.byte	0x29
+	.uleb128 0x8
+	.long	.LASF497
+	.byte	0x2a
+	.uleb128 0x8
+	.long	.LASF498
+	.byte	0x2b
+	.uleb128 0x8
+	.long	.LASF499
+	.byte	0x2c
+	.uleb128 0x8
+	.long	.LASF500
+	.byte	0x2d
+	.uleb128 0x8
+	.long	.LASF501
+	.byte	0x2e
+	.uleb128 0x8
+	.long	.LASF502
+	.byte	0x2f
+	.uleb128 0x8
+	.long	.LASF503
+	.byte	0x30
+	.uleb128 0x8
+	.long	.LASF504
+	.byte	0x31
+	.uleb128 0x8
+	.long	.LASF505
+	.byte	0x32
+	.uleb128 0x8
+	.long	.LASF506
+	.byte	0x33
+	.uleb128 0x8
+	.long	.LASF507
+	.byte	0x34
+	.uleb128 0x8
+	.long	.LASF508
+	.byte	0x35
+	.uleb128 0x8
+	.long	.LASF509
+	.byte	0x36
+	.uleb128 0x8
+	.long	.LASF510
+	.byte	0x37
+	.uleb128 0x8
+	.long	.LASF511
+	.byte	0x38
+	.uleb128 0x8
+	.long	.LASF512
+	.byte	0x39
+	.uleb128 0x8
+	.long	.LASF513
+	.byte	0x3a
+	.uleb128 0x8
+	.long	.LASF514
+	.byte	0x3b
+	.uleb128 0x8
+	.long	.LASF515
+	.byte	0x3c
+	.uleb128 0x8
+	.long	.LASF516
+	.byte	0x3d
+	.uleb128 0x8
+	.long	.LASF517
+	.byte	0x3e
+	.uleb128 0x8
+	.long	.LASF518
+	.byte	0x3f
+	.uleb128 0x8
+	.long	.LASF519
+	.byte	0x40
+	.uleb128 0x8
+	.long	.LASF520
+	.byte	0x41
+	.uleb128 0x8
+	.long	.LASF521
+	.byte	0x42
+	.uleb128 0x8
+	.long	.LASF522
+	.byte	0x43
+	.uleb128 0x8
+	.long	.LASF523
+	.byte	0x44
+	.uleb128 0x8
+	.long	.LASF524
+	.byte	0x45
+	.uleb128 0x8
+	.long	.LASF525
+	.byte	0x46
+	.uleb128 0x8
+	.long	.LASF526
+	.byte	0x47
+	.uleb128 0x8
+	.long	.LASF527
+	.byte	0x48
+	.uleb128 0x8
+	.long	.LASF528
+	.byte	0x48
+	.byte	0
+	.uleb128 0xb
+	.long	.LASF529
+	.byte	0x11
+	.byte	0x75
+	.byte	0x17
+	.long	0x23c5
+	.uleb128 0x29
+	.long	.LASF531
+	.long	0x43
+	.byte	0xdc
+	.long	0x2629
+	.uleb128 0x8
+	.long	.LASF532
+	.byte	0
+	.uleb128 0x8
+	.long	.LASF533
+	.byte	0x1
+	.uleb128 0x8
+	.long	.LASF534
+	.byte	0x2
+	.uleb128 0x8
+	.long	.LASF535
+	.byte	0x3
+	.uleb128 0x8
+	.long	.LASF536
+	.byte	0x4
+	.uleb128 0x8
+	.long	.LASF537
+	.byte	0x5
+	.uleb128 0x8
+	.long	.LASF538
+	.byte	0x6
+	.uleb128 0x8
+	.long	.LASF539
+	.byte	0x7
+	.uleb128 0x8
+	.long	.LASF540
+	.byte	0x8
+	.uleb128 0x8
+	.long	.LASF541
+	.byte	0x9
+	.uleb128 0x8
+	.long	.LASF542
+	.byte	0xa
+	.uleb128 0x8
+	.long	.LASF543
+	.byte	0xb
+	.uleb128 0x8
+	.long	.LASF544
+	.byte	0xc
+	.byte	0
+	.uleb128 0xb
+	.long	.LASF545
+	.byte	0x11
+	.byte	0xec
+	.byte	0x15
+	.long	0x25cc
+	.uleb128 0x29
+	.long	.LASF546
+	.long	0x43
+	.byte	0xf2
+	.long	0x2662
+	.uleb128 0x8
+	.long	.LASF547
+	.byte	0
+	.uleb128 0x8
+	.long	.LASF548
+	.byte	0x1
+	.uleb128 0x8
+	.long	.LASF549
+	.byte	0x2
+	.uleb128 0x8
+	.long	.LASF550
+	.byte	0x3
+	.uleb128 0x8
+	.long	.LASF551
+	.byte	0x4
+	.byte	0
+	.uleb128 0x11
+	.long	.LASF552
+	.byte	0x11
+	.value	0x100
+	.byte	0xf
+	.long	0x2ee
+	.uleb128 0x7
+	.long	.LASF553
+	.byte	0x48
+	.byte	0x11
+	.value	0x11e
+	.long	0x26fb
+	.uleb128 0x2
+	.long	.LASF554
+	.byte	0x11
+	.value	0x11f
+	.byte	0x6
+	.long	0x689
+	.byte	0
+	.uleb128 0x2
+	.long	.LASF216
+	.byte	0x11
+	.value	0x120
+	.byte	0x7
+	.long	0x1481
+	.byte	0x8
+	.uleb128 0x2
+	.long	.LASF555
+	.byte	0x11
+	.value	0x121
+	.byte	0x6
+	.long	0x2e
+	.byte	0x10
+	.uleb128 0x2
+	.long	.LASF195
+	.byte	0x11
+	.value	0x122
+	.byte	0x7
+	.long	0xad5
+	.byte	0x18
+	.uleb128 0x2
+	.long	.LASF206
+	.byte	0x11
+	.value	0x123
+	.byte	0x8
+	.long	0xb82
+	.byte	0x20
+	.uleb128 0x2
+	.long	.LASF556
+	.byte	0x11
+	.value	0x124
+	.byte	0x8
+	.long	0x69d
+	.byte	0x28
+	.uleb128 0x2
+	.long	.LASF557
+	.byte	0x11
+	.value	0x125
+	.byte	0xa
+	.long	0x2662
+	.byte	0x30
+	.uleb128 0x2
+	.long	.LASF558
+	.byte	0x11
+	.value	0x126
+	.byte	0x8
+	.long	0x151e
+	.byte	0x38
+	.uleb128 0x2
+	.long	.LASF217
+	.byte	0x11
+	.value	0x127
+	.byte	0xb
+	.long	0x1ca7
+	.byte	0x40
+	.byte	0
+	.uleb128 0x11
+	.long	.LASF559
+	.byte	0x11
+	.value	0x12a
+	.byte	0x19
+	.long	0x2708
+	.uleb128 0x5
+	.long	0x266f
+	.uleb128 0x23
+	.byte	0x8
+	.byte	0x11
+	.value	0x13a
+	.long	0x2731
+	.uleb128 0x6
+	.long	.LASF560
+	.byte	0x11
+	.value	0x13b
+	.byte	0x9
+	.long	0xd40
+	.uleb128 0x6
+	.long	.LASF561
+	.byte	0x11
+	.value	0x13c
+	.byte	0x9
+	.long	0xb82
+	.byte	0
+	.uleb128 0x7
+	.long	.LASF113
+	.byte	0x28
+	.byte	0x11
+	.value	0x130
+	.long	0x27a1
+	.uleb128 0x4
+	.string	"tag"
+	.byte	0x11
+	.value	0x131
+	.byte	0x8
+	.long	0x2d4
+	.byte	0
+	.uleb128 0x4
+	.string	"use"
+	.byte	0x11
+	.value	0x132
+	.byte	0x8
+	.long	0x2d4
+	.byte	0x1
+	.uleb128 0x2
+	.long	.LASF208
+	.byte	0x11
+	.value	0x133
+	.byte	0x8
+	.long	0x2d4
+	.byte	0x2
+	.uleb128 0x2
+	.long	.LASF214
+	.byte	0x11
+	.value	0x135
+	.byte	0x9
+	.long	0x33c
+	.byte	0x8
+	.uleb128 0x4
+	.string	"pos"
+	.byte	0x11
+	.value	0x136
+	.byte	0xe
+	.long	0x560
+	.byte	0x10
+	.uleb128 0x2
+	.long	.LASF562
+	.byte	0x11
+	.value	0x138
+	.byte	0xa
+	.long	0x26fb
+	.byte	0x18
+	.uleb128 0x2
+	.long	.LASF200
+	.byte	0x11
+	.value	0x13d
+	.byte	0x4
+	.long	0x270d
+	.byte	0x20
+	.byte	0
+	.uleb128 0x23
+	.byte	0x50
+	.byte	0x11
+	.value	0x142
+	.long	0x27df
+	.uleb128 0x1d
+	.string	"sym"
+	.byte	0x11
+	.value	0x143
+	.byte	0xa
+	.long	0x650
+	.uleb128 0x1d
+	.string	"doc"
+	.byte	0x11
+	.value	0x144
+	.byte	0x7
+	.long	0x689
+	.uleb128 0x1d
+	.string	"str"
+	.byte	0x11
+	.value	0x145
+	.byte	0xa
+	.long	0x363
+	.uleb128 0x6
+	.long	.LASF215
+	.byte	0x11
+	.value	0x146
+	.byte	0x9
+	.long	0x27df
+	.byte	0
+	.uleb128 0x17
+	.long	0x69d
+	.long	0x27ef
+	.uleb128 0x18
+	.long	0x4a
+	.byte	0x9
+	.byte	0
+	.uleb128 0x7
+	.long	.LASF114
+	.byte	0x78
+	.byte	0x11
+	.value	0x140
+	.long	0x2819
+	.uleb128 0x4
+	.string	"hdr"
+	.byte	0x11
+	.value	0x141
+	.byte	0xf
+	.long	0x2731
+	.byte	0
+	.uleb128 0x2
+	.long	.LASF75
+	.byte	0x11
+	.value	0x147
+	.byte	0x4
+	.long	0x27a1
+	.byte	0x28
+	.byte	0
+	.uleb128 0x7
+	.long	.LASF115
+	.byte	0x30
+	.byte	0x11
+	.value	0x14e
+	.long	0x2843
+	.uleb128 0x4
+	.string	"hdr"
+	.byte	0x11
+	.value	0x14f
+	.byte	0xf
+	.long	0x2731
+	.byte	0
+	.uleb128 0x4
+	.string	"sym"
+	.byte	0x11
+	.value	0x150
+	.byte	0x9
+	.long	0x650
+	.byte	0x28
+	.byte	0
+	.uleb128 0x7
+	.long	.LASF116
+	.byte	0x30
+	.byte	0x11
+	.value	0x153
+	.long	0x286d
+	.uleb128 0x4
+	.string	"hdr"
+	.byte	0x11
+	.value	0x154
+	.byte	0xf
+	.long	0x2731
+	.byte	0
+	.uleb128 0x4
+	.string	"sym"
+	.byte	0x11
+	.value	0x155
+	.byte	0x9
+	.long	0x650
+	.byte	0x28
+	.byte	0
+	.uleb128 0x7
+	.long	.LASF117
+	.byte	0x30
+	.byte	0x11
+	.value	0x158
+	.long	0x2897
+	.uleb128 0x4
+	.string	"hdr"
+	.byte	0x11
+	.value	0x159
+	.byte	0xf
+	.long	0x2731
+	.byte	0
+	.uleb128 0x4
+	.string	"sym"
+	.byte	0x11
+	.value	0x15a
+	.byte	0x9
+	.long	0x650
+	.byte	0x28
+	.byte	0
+	.uleb128 0x7
+	.long	.LASF118
+	.byte	0x30
+	.byte	0x11
+	.value	0x15d
+	.long	0x28c1
+	.uleb128 0x4
+	.string	"hdr"
+	.byte	0x11
+	.value	0x15e
+	.byte	0xf
+	.long	0x2731
+	.byte	0
+	.uleb128 0x4
+	.string	"doc"
+	.byte	0x11
+	.value	0x15f
+	.byte	0x6
+	.long	0x689
+	.byte	0x28
+	.byte	0
+	.uleb128 0x7
+	.long	.LASF119
+	.byte	0x30
+	.byte	0x11
+	.value	0x162
+	.long	0x28eb
+	.uleb128 0x4
+	.string	"hdr"
+	.byte	0x11
+	.value	0x163
+	.byte	0xf
+	.long	0x2731
+	.byte	0
+	.uleb128 0x4
+	.string	"str"
+	.byte	0x11
+	.value	0x164
+	.byte	0x9
+	.long	0x363
+	.byte	0x28
+	.byte	0
+	.uleb128 0x7
+	.long	.LASF121
+	.byte	0x30
+	.byte	0x11
+	.value	0x167
+	.long	0x2915
+	.uleb128 0x4
+	.string	"hdr"
+	.byte	0x11
+	.value	0x168
+	.byte	0xf
+	.long	0x2731
+	.byte	0
+	.uleb128 0x4
+	.string	"str"
+	.byte	0x11
+	.value	0x169
+	.byte	0x9
+	.long	0x363
+	.byte	0x28
+	.byte	0
+	.uleb128 0x7
+	.long	.LASF120
+	.byte	0x30
+	.byte	0x11
+	.value	0x16c
+	.long	0x293f
+	.uleb128 0x4
+	.string	"hdr"
+	.byte	0x11
+	.value	0x16d
+	.byte	0xf
+	.long	0x2731
+	.byte	0
+	.uleb128 0x4
+	.string	"str"
+	.byte	0x11
+	.value	0x16e
+	.byte	0x9
+	.long	0x363
+	.byte	0x28
+	.byte	0
+	.uleb128 0x7
+	.long	.LASF122
+	.byte	0x38
+	.byte	0x11
+	.value	0x175
+	.long	0x2977
+	.uleb128 0x4
+	.string	"hdr"
+	.byte	0x11
+	.value	0x176
+	.byte	0xf
+	.long	0x2731
+	.byte	0
+	.uleb128 0x2
+	.long	.LASF563
+	.byte	0x11
+	.value	0x177
+	.byte	0x8
+	.long	0x69d
+	.byte	0x28
+	.uleb128 0x2
+	.long	.LASF564
+	.byte	0x11
+	.value	0x178
+	.byte	0x8
+	.long	0x69d
+	.byte	0x30
+	.byte	0
+	.uleb128 0x7
+	.long	.LASF123
+	.byte	0x78
+	.byte	0x11
+	.value	0x17b
+	.long	0x29a1
+	.uleb128 0x4
+	.string	"hdr"
+	.byte	0x11
+	.value	0x17c
+	.byte	0xf
+	.long	0x2731
+	.byte	0
+	.uleb128 0x2
+	.long	.LASF215
+	.byte	0x11
+	.value	0x17d
+	.byte	0x8
+	.long	0x27df
+	.byte	0x28
+	.byte	0
+	.uleb128 0x7
+	.long	.LASF124
+	.byte	0x80
+	.byte	0x11
+	.value	0x180
+	.long	0x29d8
+	.uleb128 0x4
+	.string	"hdr"
+	.byte	0x11
+	.value	0x181
+	.byte	0xf
+	.long	0x2731
+	.byte	0
+	.uleb128 0x4
+	.string	"op"
+	.byte	0x11
+	.value	0x182
+	.byte	0x8
+	.long	0x69d
+	.byte	0x28
+	.uleb128 0x2
+	.long	.LASF215
+	.byte	0x11
+	.value	0x183
+	.byte	0x8
+	.long	0x27df
+	.byte	0x30
+	.byte	0
+	.uleb128 0x7
+	.long	.LASF125
+	.byte	0x30
+	.byte	0x11
+	.value	0x186
+	.long	0x2a02
+	.uleb128 0x4
+	.string	"hdr"
+	.byte	0x11
+	.value	0x187
+	.byte	0xf
+	.long	0x2731
+	.byte	0
+	.uleb128 0x2
+	.long	.LASF565
+	.byte	0x11
+	.value	0x188
+	.byte	0x8
+	.long	0x69d
+	.byte	0x28
+	.byte	0
+	.uleb128 0x7
+	.long	.LASF126
+	.byte	0x38
+	.byte	0x11
+	.value	0x18b
+	.long	0x2a3a
+	.uleb128 0x4
+	.string	"hdr"
+	.byte	0x11
+	.value	0x18c
+	.byte	0xf
+	.long	0x2731
+	.byte	0
+	.uleb128 0x4
+	.string	"lhs"
+	.byte	0x11
+	.value	0x18d
+	.byte	0x8
+	.long	0x69d
+	.byte	0x28
+	.uleb128 0x4
+	.string	"rhs"
+	.byte	0x11
+	.value	0x18e
+	.byte	0x8
+	.long	0x69d
+	.byte	0x30
+	.byte	0
+	.uleb128 0x7
+	.long	.LASF127
+	.byte	0x30
+	.byte	0x11
+	.value	0x191
+	.long	0x2a64
+	.uleb128 0x4
+	.string	"hdr"
+	.byte	0x11
+	.value	0x192
+	.byte	0xf
+	.long	0x2731
+	.byte	0
+	.uleb128 0x2
+	.long	.LASF566
+	.byte	0x11
+	.value	0x193
+	.byte	0x8
+	.long	0x69d
+	.byte	0x28
+	.byte	0
+	.uleb128 0x7
+	.long	.LASF128
+	.byte	0x30
+	.byte	0x11
+	.value	0x196
+	.long	0x2a8e
+	.uleb128 0x4
+	.string	"hdr"
+	.byte	0x11
+	.value	0x197
+	.byte	0xf
+	.long	0x2731
+	.byte	0
+	.uleb128 0x2
+	.long	.LASF567
+	.byte	0x11
+	.value	0x198
+	.byte	0x8
+	.long	0x69d
+	.byte	0x28
+	.byte	0
+	.uleb128 0x7
+	.long	.LASF129
+	.byte	0x38
+	.byte	0x11
+	.value	0x19b
+	.long	0x2ac5
+	.uleb128 0x4
+	.string	"hdr"
+	.byte	0x11
+	.value	0x19c
+	.byte	0xf
+	.long	0x2731
+	.byte	0
+	.uleb128 0x4
+	.string	"id"
+	.byte	0x11
+	.value	0x19d
+	.byte	0x8
+	.long	0x69d
+	.byte	0x28
+	.uleb128 0x2
+	.long	.LASF200
+	.byte	0x11
+	.value	0x19e
+	.byte	0x8
+	.long	0x69d
+	.byte	0x30
+	.byte	0
+	.uleb128 0x7
+	.long	.LASF136
+	.byte	0x30
+	.byte	0x11
+	.value	0x1a1
+	.long	0x2aef
+	.uleb128 0x4
+	.string	"hdr"
+	.byte	0x11
+	.value	0x1a2
+	.byte	0xf
+	.long	0x2731
+	.byte	0
+	.uleb128 0x2
+	.long	.LASF568
+	.byte	0x11
+	.value	0x1a3
+	.byte	0x8
+	.long	0x69d
+	.byte	0x28
+	.byte	0
+	.uleb128 0x7
+	.long	.LASF137
+	.byte	0x38
+	.byte	0x11
+	.value	0x1a6
+	.long	0x2b27
+	.uleb128 0x4
+	.string	"hdr"
+	.byte	0x11
+	.value	0x1a7
+	.byte	0xf
+	.long	0x2731
+	.byte	0
+	.uleb128 0x2
+	.long	.LASF568
+	.byte	0x11
+	.value	0x1a8
+	.byte	0x8
+	.long	0x69d
+	.byte	0x28
+	.uleb128 0x4
+	.string	"doc"
+	.byte	0x11
+	.value	0x1a9
+	.byte	0x8
+	.long	0x69d
+	.byte	0x30
+	.byte	0
+	.uleb128 0x7
+	.long	.LASF130
+	.byte	0x38
+	.byte	0x11
+	.value	0x1ac
+	.long	0x2b5f
+	.uleb128 0x4
+	.string	"hdr"
+	.byte	0x11
+	.value	0x1ad
+	.byte	0xf
+	.long	0x2731
+	.byte	0
+	.uleb128 0x2
+	.long	.LASF568
+	.byte	0x11
+	.value	0x1ae
+	.byte	0x8
+	.long	0x69d
+	.byte	0x28
+	.uleb128 0x2
+	.long	.LASF200
+	.byte	0x11
+	.value	0x1af
+	.byte	0x8
+	.long	0x69d
+	.byte	0x30
+	.byte	0
+	.uleb128 0x7
+	.long	.LASF131
+	.byte	0x80
+	.byte	0x11
+	.value	0x1b2
+	.long	0x2b97
+	.uleb128 0x4
+	.string	"hdr"
+	.byte	0x11
+	.value	0x1b3
+	.byte	0xf
+	.long	0x2731
+	.byte	0
+	.uleb128 0x2
+	.long	.LASF569
+	.byte	0x11
+	.value	0x1b4
+	.byte	0x8
+	.long	0x69d
+	.byte	0x28
+	.uleb128 0x2
+	.long	.LASF570
+	.byte	0x11
+	.value	0x1b5
+	.byte	0x8
+	.long	0x27df
+	.byte	0x30
+	.byte	0
+	.uleb128 0x7
+	.long	.LASF132
+	.byte	0x78
+	.byte	0x11
+	.value	0x1b8
+	.long	0x2bc1
+	.uleb128 0x4
+	.string	"hdr"
+	.byte	0x11
+	.value	0x1b9
+	.byte	0xf
+	.long	0x2731
+	.byte	0
+	.uleb128 0x2
+	.long	.LASF215
+	.byte	0x11
+	.value	0x1ba
+	.byte	0x8
+	.long	0x27df
+	.byte	0x28
+	.byte	0
+	.uleb128 0x7
+	.long	.LASF133
+	.byte	0x30
+	.byte	0x11
+	.value	0x1bd
+	.long	0x2beb
+	.uleb128 0x4
+	.string	"hdr"
+	.byte	0x11
+	.value	0x1be
+	.byte	0xf
+	.long	0x2731
+	.byte	0
+	.uleb128 0x2
+	.long	.LASF569
+	.byte	0x11
+	.value	0x1bf
+	.byte	0x8
+	.long	0x69d
+	.byte	0x28
+	.byte	0
+	.uleb128 0x7
+	.long	.LASF134
+	.byte	0x38
+	.byte	0x11
+	.value	0x1c2
+	.long	0x2c23
+	.uleb128 0x4
+	.string	"hdr"
+	.byte	0x11
+	.value	0x1c3
+	.byte	0xf
+	.long	0x2731
+	.byte	0
+	.uleb128 0x4
+	.string	"lhs"
+	.byte	0x11
+	.value	0x1c4
+	.byte	0x8
+	.long	0x69d
+	.byte	0x28
+	.uleb128 0x4
+	.string	"rhs"
+	.byte	0x11
+	.value	0x1c5
+	.byte	0x8
+	.long	0x69d
+	.byte	0x30
+	.byte	0
+	.uleb128 0x7
+	.long	.LASF135
+	.byte	0x30
+	.byte	0x11
+	.value	0x1c8
+	.long	0x2c4d
+	.uleb128 0x4
+	.string	"hdr"
+	.byte	0x11
+	.value	0x1c9
+	.byte	0xf
+	.long	0x2731
+	.byte	0
+	.uleb128 0x2
+	.long	.LASF569
+	.byte	0x11
+	.value	0x1ca
+	.byte	0x8
+	.long	0x69d
+	.byte	0x28
+	.byte	0
+	.uleb128 0x7
+	.long	.LASF138
+	.byte	0x38
+	.byte	0x11
+	.value	0x1cd
+	.long	0x2c85
+	.uleb128 0x4
+	.string	"hdr"
+	.byte	0x11
+	.value	0x1ce
+	.byte	0xf
+	.long	0x2731
+	.byte	0
+	.uleb128 0x2
+	.long	.LASF200
+	.byte	0x11
+	.value	0x1cf
+	.byte	0x8
+	.long	0x69d
+	.byte	0x28
+	.uleb128 0x2
+	.long	.LASF571
+	.byte	0x11
+	.value	0x1d0
+	.byte	0x8
+	.long	0x69d
+	.byte	0x30
+	.byte	0
+	.uleb128 0x7
+	.long	.LASF139
+	.byte	0x38
+	.byte	0x11
+	.value	0x1d3
+	.long	0x2cbd
+	.uleb128 0x4
+	.string	"hdr"
+	.byte	0x11
+	.value	0x1d4
+	.byte	0xf
+	.long	0x2731
+	.byte	0
+	.uleb128 0x2
+	.long	.LASF565
+	.byte	0x11
+	.value	0x1d5
+	.byte	0x8
+	.long	0x69d
+	.byte	0x28
+	.uleb128 0x2
+	.long	.LASF572
+	.byte	0x11
+	.value	0x1d6
+	.byte	0x8
+	.long	0x69d
+	.byte	0x30
+	.byte	0
+	.uleb128 0x7
+	.long	.LASF140
+	.byte	0x40
+	.byte	0x11
+	.value	0x1d9
+	.long	0x2d03
+	.uleb128 0x4
+	.string	"hdr"
+	.byte	0x11
+	.value	0x1da
+	.byte	0xf
+	.long	0x2731
+	.byte	0
+	.uleb128 0x2
+	.long	.LASF567
+	.byte	0x11
+	.value	0x1db
+	.byte	0x8
+	.long	0x69d
+	.byte	0x28
+	.uleb128 0x2
+	.long	.LASF573
+	.byte	0x11
+	.value	0x1dc
+	.byte	0x8
+	.long	0x69d
+	.byte	0x30
+	.uleb128 0x2
+	.long	.LASF574
+	.byte	0x11
+	.value	0x1dd
+	.byte	0x8
+	.long	0x69d
+	.byte	0x38
+	.byte	0
+	.uleb128 0x7
+	.long	.LASF141
+	.byte	0x30
+	.byte	0x11
+	.value	0x1e0
+	.long	0x2d2d
+	.uleb128 0x4
+	.string	"hdr"
+	.byte	0x11
+	.value	0x1e1
+	.byte	0xf
+	.long	0x2731
+	.byte	0
+	.uleb128 0x2
+	.long	.LASF569
+	.byte	0x11
+	.value	0x1e2
+	.byte	0x8
+	.long	0x69d
+	.byte	0x28
+	.byte	0
+	.uleb128 0x7
+	.long	.LASF142
+	.byte	0x30
+	.byte	0x11
+	.value	0x1e5
+	.long	0x2d57
+	.uleb128 0x4
+	.string	"hdr"
+	.byte	0x11
+	.value	0x1e6
+	.byte	0xf
+	.long	0x2731
+	.byte	0
+	.uleb128 0x2
+	.long	.LASF575
+	.byte	0x11
+	.value	0x1e7
+	.byte	0x8
+	.long	0x69d
+	.byte	0x28
+	.byte	0
+	.uleb128 0x7
+	.long	.LASF143
+	.byte	0x78
+	.byte	0x11
+	.value	0x1ea
+	.long	0x2d81
+	.uleb128 0x4
+	.string	"hdr"
+	.byte	0x11
+	.value	0x1eb
+	.byte	0xf
+	.long	0x2731
+	.byte	0
+	.uleb128 0x2
+	.long	.LASF215
+	.byte	0x11
+	.value	0x1ec
+	.byte	0x8
+	.long	0x27df
+	.byte	0x28
+	.byte	0
+	.uleb128 0x7
+	.long	.LASF144
+	.byte	0x40
+	.byte	0x11
+	.value	0x1ef
+	.long	0x2dc7
+	.uleb128 0x4
+	.string	"hdr"
+	.byte	0x11
+	.value	0x1f0
+	.byte	0xf
+	.long	0x2731
+	.byte	0
+	.uleb128 0x4
+	.string	"lhs"
+	.byte	0x11
+	.value	0x1f1
+	.byte	0x8
+	.long	0x69d
+	.byte	0x28
+	.uleb128 0x2
+	.long	.LASF576
+	.byte	0x11
+	.value	0x1f2
+	.byte	0x8
+	.long	0x69d
+	.byte	0x30
+	.uleb128 0x2
+	.long	.LASF565
+	.byte	0x11
+	.value	0x1f3
+	.byte	0x8
+	.long	0x69d
+	.byte	0x38
+	.byte	0
+	.uleb128 0x7
+	.long	.LASF145
+	.byte	0x38
+	.byte	0x11
+	.value	0x1f6
+	.long	0x2dff
+	.uleb128 0x4
+	.string	"hdr"
+	.byte	0x11
+	.value	0x1f7
+	.byte	0xf
+	.long	0x2731
+	.byte	0
+	.uleb128 0x2
+	.long	.LASF567
+	.byte	0x11
+	.value	0x1f8
+	.byte	0x8
+	.long	0x69d
+	.byte	0x28
+	.uleb128 0x2
+	.long	.LASF573
+	.byte	0x11
+	.value	0x1f9
+	.byte	0x8
+	.long	0x69d
+	.byte	0x30
+	.byte	0
+	.uleb128 0x7
+	.long	.LASF146
+	.byte	0x38
+	.byte	0x11
+	.value	0x1fc
+	.long	0x2e37
+	.uleb128 0x4
+	.string	"hdr"
+	.byte	0x11
+	.value	0x1fd
+	.byte	0xf
+	.long	0x2731
+	.byte	0
+	.uleb128 0x2
+	.long	.LASF567
+	.byte	0x11
+	.value	0x1fe
+	.byte	0x8
+	.long	0x69d
+	.byte	0x28
+	.uleb128 0x2
+	.long	.LASF577
+	.byte	0x11
+	.value	0x1ff
+	.byte	0x8
+	.long	0x69d
+	.byte	0x30
+	.byte	0
+	.uleb128 0x7
+	.long	.LASF147
+	.byte	0x78
+	.byte	0x11
+	.value	0x202
+	.long	0x2e61
+	.uleb128 0x4
+	.string	"hdr"
+	.byte	0x11
+	.value	0x203
+	.byte	0xf
+	.long	0x2731
+	.byte	0
+	.uleb128 0x2
+	.long	.LASF215
+	.byte	0x11
+	.value	0x204
+	.byte	0x8
+	.long	0x27df
+	.byte	0x28
+	.byte	0
+	.uleb128 0x7
+	.long	.LASF148
+	.byte	0x38
+	.byte	0x11
+	.value	0x207
+	.long	0x2e99
+	.uleb128 0x4
+	.string	"hdr"
+	.byte	0x11
+	.value	0x208
+	.byte	0xf
+	.long	0x2731
+	.byte	0
+	.uleb128 0x2
+	.long	.LASF99
+	.byte	0x11
+	.value	0x209
+	.byte	0x8
+	.long	0x69d
+	.byte	0x28
+	.uleb128 0x2
+	.long	.LASF569
+	.byte	0x11
+	.value	0x20a
+	.byte	0x8
+	.long	0x69d
+	.byte	0x30
+	.byte	0
+	.uleb128 0x7
+	.long	.LASF149
+	.byte	0x30
+	.byte	0x11
+	.value	0x20d
+	.long	0x2ec3
+	.uleb128 0x4
+	.string	"hdr"
+	.byte	0x11
+	.value	0x20e
+	.byte	0xf
+	.long	0x2731
+	.byte	0
+	.uleb128 0x2
+	.long	.LASF566
+	.byte	0x11
+	.value	0x20f
+	.byte	0x8
+	.long	0x69d
+	.byte	0x28
+	.byte	0
+	.uleb128 0x7
+	.long	.LASF150
+	.byte	0x38
+	.byte	0x11
+	.value	0x212
+	.long	0x2efb
+	.uleb128 0x4
+	.string	"hdr"
+	.byte	0x11
+	.value	0x213
+	.byte	0xf
+	.long	0x2731
+	.byte	0
+	.uleb128 0x2
+	.long	.LASF568
+	.byte	0x11
+	.value	0x214
+	.byte	0x8
+	.long	0x69d
+	.byte	0x28
+	.uleb128 0x2
+	.long	.LASF578
+	.byte	0x11
+	.value	0x215
+	.byte	0x8
+	.long	0x69d
+	.byte	0x30
+	.byte	0
+	.uleb128 0x7
+	.long	.LASF151
+	.byte	0x30
+	.byte	0x11
+	.value	0x218
+	.long	0x2f25
+	.uleb128 0x4
+	.string	"hdr"
+	.byte	0x11
+	.value	0x219
+	.byte	0xf
+	.long	0x2731
+	.byte	0
+	.uleb128 0x2
+	.long	.LASF200
+	.byte	0x11
+	.value	0x21a
+	.byte	0x8
+	.long	0x69d
+	.byte	0x28
+	.byte	0
+	.uleb128 0x7
+	.long	.LASF152
+	.byte	0x30
+	.byte	0x11
+	.value	0x21d
+	.long	0x2f4f
+	.uleb128 0x4
+	.string	"hdr"
+	.byte	0x11
+	.value	0x21e
+	.byte	0xf
+	.long	0x2731
+	.byte	0
+	.uleb128 0x2
+	.long	.LASF568
+	.byte	0x11
+	.value	0x21f
+	.byte	0x8
+	.long	0x69d
+	.byte	0x28
+	.byte	0
+	.uleb128 0x7
+	.long	.LASF153
+	.byte	0x40
+	.byte	0x11
+	.value	0x222
+	.long	0x2f95
+	.uleb128 0x4
+	.string	"hdr"
+	.byte	0x11
+	.value	0x223
+	.byte	0xf
+	.long	0x2731
+	.byte	0
+	.uleb128 0x2
+	.long	.LASF565
+	.byte	0x11
+	.value	0x224
+	.byte	0x8
+	.long	0x69d
+	.byte	0x28
+	.uleb128 0x2
+	.long	.LASF579
+	.byte	0x11
+	.value	0x225
+	.byte	0x8
+	.long	0x69d
+	.byte	0x30
+	.uleb128 0x2
+	.long	.LASF580
+	.byte	0x11
+	.value	0x226
+	.byte	0x8
+	.long	0x69d
+	.byte	0x38
+	.byte	0
+	.uleb128 0x7
+	.long	.LASF154
+	.byte	0x38
+	.byte	0x11
+	.value	0x229
+	.long	0x2fcd
+	.uleb128 0x4
+	.string	"hdr"
+	.byte	0x11
+	.value	0x22a
+	.byte	0xf
+	.long	0x2731
+	.byte	0
+	.uleb128 0x2
+	.long	.LASF567
+	.byte	0x11
+	.value	0x22b
+	.byte	0x8
+	.long	0x69d
+	.byte	0x28
+	.uleb128 0x2
+	.long	.LASF573
+	.byte	0x11
+	.value	0x22c
+	.byte	0x8
+	.long	0x69d
+	.byte	0x30
+	.byte	0
+	.uleb128 0x7
+	.long	.LASF155
+	.byte	0x38
+	.byte	0x11
+	.value	0x22f
+	.long	0x3005
+	.uleb128 0x4
+	.string	"hdr"
+	.byte	0x11
+	.value	0x230
+	.byte	0xf
+	.long	0x2731
+	.byte	0
+	.uleb128 0x2
+	.long	.LASF567
+	.byte	0x11
+	.value	0x231
+	.byte	0x8
+	.long	0x69d
+	.byte	0x28
+	.uleb128 0x2
+	.long	.LASF573
+	.byte	0x11
+	.value	0x232
+	.byte	0x8
+	.long	0x69d
+	.byte	0x30
+	.byte	0
+	.uleb128 0x7
+	.long	.LASF156
+	.byte	0x30
+	.byte	0x11
+	.value	0x235
+	.long	0x302f
+	.uleb128 0x4
+	.string	"hdr"
+	.byte	0x11
+	.value	0x236
+	.byte	0xf
+	.long	0x2731
+	.byte	0
+	.uleb128 0x2
+	.long	.LASF566
+	.byte	0x11
+	.value	0x237
+	.byte	0x8
+	.long	0x69d
+	.byte	0x28
+	.byte	0
+	.uleb128 0x7
+	.long	.LASF157
+	.byte	0x38
+	.byte	0x11
+	.value	0x23a
+	.long	0x3067
+	.uleb128 0x4
+	.string	"hdr"
+	.byte	0x11
+	.value	0x23b
+	.byte	0xf
+	.long	0x2731
+	.byte	0
+	.uleb128 0x2
+	.long	.LASF566
+	.byte	0x11
+	.value	0x23c
+	.byte	0x8
+	.long	0x69d
+	.byte	0x28
+	.uleb128 0x2
+	.long	.LASF568
+	.byte	0x11
+	.value	0x23d
+	.byte	0x8
+	.long	0x69d
+	.byte	0x30
+	.byte	0
+	.uleb128 0x7
+	.long	.LASF158
+	.byte	0x40
+	.byte	0x11
+	.value	0x240
+	.long	0x30ad
+	.uleb128 0x4
+	.string	"hdr"
+	.byte	0x11
+	.value	0x241
+	.byte	0xf
+	.long	0x2731
+	.byte	0
+	.uleb128 0x2
+	.long	.LASF581
+	.byte	0x11
+	.value	0x242
+	.byte	0x8
+	.long	0x69d
+	.byte	0x28
+	.uleb128 0x2
+	.long	.LASF582
+	.byte	0x11
+	.value	0x243
+	.byte	0x8
+	.long	0x69d
+	.byte	0x30
+	.uleb128 0x2
+	.long	.LASF569
+	.byte	0x11
+	.value	0x244
+	.byte	0x8
+	.long	0x69d
+	.byte	0x38
+	.byte	0
+	.uleb128 0x7
+	.long	.LASF159
+	.byte	0x38
+	.byte	0x11
+	.value	0x247
+	.long	0x30e5
+	.uleb128 0x4
+	.string	"hdr"
+	.byte	0x11
+	.value	0x248
+	.byte	0xf
+	.long	0x2731
+	.byte	0
+	.uleb128 0x2
+	.long	.LASF583
+	.byte	0x11
+	.value	0x249
+	.byte	0x8
+	.long	0x69d
+	.byte	0x28
+	.uleb128 0x2
+	.long	.LASF568
+	.byte	0x11
+	.value	0x24a
+	.byte	0x8
+	.long	0x69d
+	.byte	0x30
+	.byte	0
+	.uleb128 0x7
+	.long	.LASF160
+	.byte	0x78
+	.byte	0x11
+	.value	0x24d
+	.long	0x310f
+	.uleb128 0x4
+	.string	"hdr"
+	.byte	0x11
+	.value	0x24e
+	.byte	0xf
+	.long	0x2731
+	.byte	0
+	.uleb128 0x2
+	.long	.LASF215
+	.byte	0x11
+	.value	0x24f
+	.byte	0x8
+	.long	0x27df
+	.byte	0x28
+	.byte	0
+	.uleb128 0x7
+	.long	.LASF161
+	.byte	0x30
+	.byte	0x11
+	.value	0x252
+	.long	0x3139
+	.uleb128 0x4
+	.string	"hdr"
+	.byte	0x11
+	.value	0x253
+	.byte	0xf
+	.long	0x2731
+	.byte	0
+	.uleb128 0x2
+	.long	.LASF568
+	.byte	0x11
+	.value	0x254
+	.byte	0x8
+	.long	0x69d
+	.byte	0x28
+	.byte	0
+	.uleb128 0x7
+	.long	.LASF162
+	.byte	0x38
+	.byte	0x11
+	.value	0x257
+	.long	0x3171
+	.uleb128 0x4
+	.string	"hdr"
+	.byte	0x11
+	.value	0x258
+	.byte	0xf
+	.long	0x2731
+	.byte	0
+	.uleb128 0x4
+	.string	"lhs"
+	.byte	0x11
+	.value	0x259
+	.byte	0x8
+	.long	0x69d
+	.byte	0x28
+	.uleb128 0x4
+	.string	"rhs"
+	.byte	0x11
+	.value	0x25a
+	.byte	0x8
+	.long	0x69d
+	.byte	0x30
+	.byte	0
+	.uleb128 0x7
+	.long	.LASF163
+	.byte	0x38
+	.byte	0x11
+	.value	0x25d
+	.long	0x31a9
+	.uleb128 0x4
+	.string	"hdr"
+	.byte	0x11
+	.value	0x25e
+	.byte	0xf
+	.long	0x2731
+	.byte	0
+	.uleb128 0x2
+	.long	.LASF581
+	.byte	0x11
+	.value	0x25f
+	.byte	0x8
+	.long	0x69d
+	.byte	0x28
+	.uleb128 0x2
+	.long	.LASF569
+	.byte	0x11
+	.value	0x260
+	.byte	0x8
+	.long	0x69d
+	.byte	0x30
+	.byte	0
+	.uleb128 0x7
+	.long	.LASF164
+	.byte	0x28
+	.byte	0x11
+	.value	0x263
+	.long	0x31c5
+	.uleb128 0x4
+	.string	"hdr"
+	.byte	0x11
+	.value	0x264
+	.byte	0xf
+	.long	0x2731
+	.byte	0
+	.byte	0
+	.uleb128 0x7
+	.long	.LASF165
+	.byte	0x30
+	.byte	0x11
+	.value	0x267
+	.long	0x31ef
+	.uleb128 0x4
+	.string	"hdr"
+	.byte	0x11
+	.value	0x268
+	.byte	0xf
+	.long	0x2731
+	.byte	0
+	.uleb128 0x2
+	.long	.LASF568
+	.byte	0x11
+	.value	0x269
+	.byte	0x8
+	.long	0x69d
+	.byte	0x28
+	.byte	0
+	.uleb128 0x7
+	.long	.LASF166
+	.byte	0x28
+	.byte	0x11
+	.value	0x26c
+	.long	0x320b
+	.uleb128 0x4
+	.string	"hdr"
+	.byte	0x11
+	.value	0x26d
+	.byte	0xf
+	.long	0x2731
+	.byte	0
+	.byte	0
+	.uleb128 0x7
+	.long	.LASF167
+	.byte	0x78
+	.byte	0x11
+	.value	0x270
+	.long	0x3235
+	.uleb128 0x4
+	.string	"hdr"
+	.byte	0x11
+	.value	0x271
+	.byte	0xf
+	.long	0x2731
+	.byte	0
+	.uleb128 0x2
+	.long	.LASF215
+	.byte	0x11
+	.value	0x272
+	.byte	0x8
+	.long	0x27df
+	.byte	0x28
+	.byte	0
+	.uleb128 0x7
+	.long	.LASF168
+	.byte	0x30
+	.byte	0x11
+	.value	0x275
+	.long	0x325f
+	.uleb128 0x4
+	.string	"hdr"
+	.byte	0x11
+	.value	0x276
+	.byte	0xf
+	.long	0x2731
+	.byte	0
+	.uleb128 0x2
+	.long	.LASF568
+	.byte	0x11
+	.value	0x277
+	.byte	0x8
+	.long	0x69d
+	.byte	0x28
+	.byte	0
+	.uleb128 0x7
+	.long	.LASF169
+	.byte	0x40
+	.byte	0x11
+	.value	0x27a
+	.long	0x32a5
+	.uleb128 0x4
+	.string	"hdr"
+	.byte	0x11
+	.value	0x27b
+	.byte	0xf
+	.long	0x2731
+	.byte	0
+	.uleb128 0x2
+	.long	.LASF581
+	.byte	0x11
+	.value	0x27c
+	.byte	0x8
+	.long	0x69d
+	.byte	0x28
+	.uleb128 0x2
+	.long	.LASF582
+	.byte	0x11
+	.value	0x27d
+	.byte	0x8
+	.long	0x69d
+	.byte	0x30
+	.uleb128 0x2
+	.long	.LASF569
+	.byte	0x11
+	.value	0x27e
+	.byte	0x8
+	.long	0x69d
+	.byte	0x38
+	.byte	0
+	.uleb128 0x7
+	.long	.LASF170
+	.byte	0x38
+	.byte	0x11
+	.value	0x281
+	.long	0x32dd
+	.uleb128 0x4
+	.string	"hdr"
+	.byte	0x11
+	.value	0x282
+	.byte	0xf
+	.long	0x2731
+	.byte	0
+	.uleb128 0x2
+	.long	.LASF568
+	.byte	0x11
+	.value	0x283
+	.byte	0x8
+	.long	0x69d
+	.byte	0x28
+	.uleb128 0x2
+	.long	.LASF200
+	.byte	0x11
+	.value	0x284
+	.byte	0x8
+	.long	0x69d
+	.byte	0x30
+	.byte	0
+	.uleb128 0x7
+	.long	.LASF171
+	.byte	0x38
+	.byte	0x11
+	.value	0x287
+	.long	0x3315
+	.uleb128 0x4
+	.string	"hdr"
+	.byte	0x11
+	.value	0x288
+	.byte	0xf
+	.long	0x2731
+	.byte	0
+	.uleb128 0x2
+	.long	.LASF567
+	.byte	0x11
+	.value	0x289
+	.byte	0x8
+	.long	0x69d
+	.byte	0x28
+	.uleb128 0x2
+	.long	.LASF573
+	.byte	0x11
+	.value	0x28a
+	.byte	0x8
+	.long	0x69d
+	.byte	0x30
+	.byte	0
+	.uleb128 0x7
+	.long	.LASF172
+	.byte	0x30
+	.byte	0x11
+	.value	0x28d
+	.long	0x333f
+	.uleb128 0x4
+	.string	"hdr"
+	.byte	0x11
+	.value	0x28e
+	.byte	0xf
+	.long	0x2731
+	.byte	0
+	.uleb128 0x2
+	.long	.LASF568
+	.byte	0x11
+	.value	0x28f
+	.byte	0x8
+	.long	0x69d
+	.byte	0x28
+	.byte	0
+	.uleb128 0x7
+	.long	.LASF173
+	.byte	0x30
+	.byte	0x11
+	.value	0x292
+	.long	0x3369
+	.uleb128 0x4
+	.string	"hdr"
+	.byte	0x11
+	.value	0x293
+	.byte	0xf
+	.long	0x2731
+	.byte	0
+	.uleb128 0x2
+	.long	.LASF569
+	.byte	0x11
+	.value	0x294
+	.byte	0x8
+	.long	0x69d
+	.byte	0x28
+	.byte	0
+	.uleb128 0x7
+	.long	.LASF174
+	.byte	0x80
+	.byte	0x11
+	.value	0x297
+	.long	0x33a1
+	.uleb128 0x4
+	.string	"hdr"
+	.byte	0x11
+	.value	0x298
+	.byte	0xf
+	.long	0x2731
+	.byte	0
+	.uleb128 0x2
+	.long	.LASF569
+	.byte	0x11
+	.value	0x299
+	.byte	0x8
+	.long	0x69d
+	.byte	0x28
+	.uleb128 0x2
+	.long	.LASF570
+	.byte	0x11
+	.value	0x29a
+	.byte	0x8
+	.long	0x27df
+	.byte	0x30
+	.byte	0
+	.uleb128 0x7
+	.long	.LASF175
+	.byte	0x38
+	.byte	0x11
+	.value	0x29d
+	.long	0x33d9
+	.uleb128 0x4
+	.string	"hdr"
+	.byte	0x11
+	.value	0x29e
+	.byte	0xf
+	.long	0x2731
+	.byte	0
+	.uleb128 0x2
+	.long	.LASF568
+	.byte	0x11
+	.value	0x29f
+	.byte	0x8
+	.long	0x69d
+	.byte	0x28
+	.uleb128 0x2
+	.long	.LASF200
+	.byte	0x11
+	.value	0x2a0
+	.byte	0x8
+	.long	0x69d
+	.byte	0x30
+	.byte	0
+	.uleb128 0x7
+	.long	.LASF176
+	.byte	0x38
+	.byte	0x11
+	.value	0x2a3
+	.long	0x3411
+	.uleb128 0x4
+	.string	"hdr"
+	.byte	0x11
+	.value	0x2a4
+	.byte	0xf
+	.long	0x2731
+	.byte	0
+	.uleb128 0x2
+	.long	.LASF568
+	.byte	0x11
+	.value	0x2a5
+	.byte	0x8
+	.long	0x69d
+	.byte	0x28
+	.uleb128 0x2
+	.long	.LASF200
+	.byte	0x11
+	.value	0x2a6
+	.byte	0x8
+	.long	0x69d
+	.byte	0x30
+	.byte	0
+	.uleb128 0x7
+	.long	.LASF177
+	.byte	0x30
+	.byte	0x11
+	.value	0x2a9
+	.long	0x343b
+	.uleb128 0x4
+	.string	"hdr"
+	.byte	0x11
+	.value	0x2aa
+	.byte	0xf
+	.long	0x2731
+	.byte	0
+	.uleb128 0x2
+	.long	.LASF572
+	.byte	0x11
+	.value	0x2ab
+	.byte	0x8
+	.long	0x69d
+	.byte	0x28
+	.byte	0
+	.uleb128 0x7
+	.long	.LASF178
+	.byte	0x38
+	.byte	0x11
+	.value	0x2ae
+	.long	0x3473
+	.uleb128 0x4
+	.string	"hdr"
+	.byte	0x11
+	.value	0x2af
+	.byte	0xf
+	.long	0x2731
+	.byte	0
+	.uleb128 0x2
+	.long	.LASF584
+	.byte	0x11
+	.value	0x2b0
+	.byte	0x8
+	.long	0x69d
+	.byte	0x28
+	.uleb128 0x2
+	.long	.LASF585
+	.byte	0x11
+	.value	0x2b1
+	.byte	0x8
+	.long	0x69d
+	.byte	0x30
+	.byte	0
+	.uleb128 0x7
+	.long	.LASF179
+	.byte	0x78
+	.byte	0x11
+	.value	0x2b4
+	.long	0x349d
+	.uleb128 0x4
+	.string	"hdr"
+	.byte	0x11
+	.value	0x2b5
+	.byte	0xf
+	.long	0x2731
+	.byte	0
+	.uleb128 0x2
+	.long	.LASF215
+	.byte	0x11
+	.value	0x2b6
+	.byte	0x8
+	.long	0x27df
+	.byte	0x28
+	.byte	0
+	.uleb128 0x7
+	.long	.LASF180
+	.byte	0x30
+	.byte	0x11
+	.value	0x2b9
+	.long	0x34c7
+	.uleb128 0x4
+	.string	"hdr"
+	.byte	0x11
+	.value	0x2ba
+	.byte	0xf
+	.long	0x2731
+	.byte	0
+	.uleb128 0x2
+	.long	.LASF586
+	.byte	0x11
+	.value	0x2bb
+	.byte	0x8
+	.long	0x69d
+	.byte	0x28
+	.byte	0
+	.uleb128 0x7
+	.long	.LASF181
+	.byte	0x48
+	.byte	0x11
+	.value	0x2be
+	.long	0x351a
+	.uleb128 0x4
+	.string	"hdr"
+	.byte	0x11
+	.value	0x2bf
+	.byte	0xf
+	.long	0x2731
+	.byte	0
+	.uleb128 0x2
+	.long	.LASF568
+	.byte	0x11
+	.value	0x2c0
+	.byte	0x8
+	.long	0x69d
+	.byte	0x28
+	.uleb128 0x4
+	.string	"id"
+	.byte	0x11
+	.value	0x2c1
+	.byte	0x8
+	.long	0x69d
+	.byte	0x30
+	.uleb128 0x2
+	.long	.LASF571
+	.byte	0x11
+	.value	0x2c2
+	.byte	0x8
+	.long	0x69d
+	.byte	0x38
+	.uleb128 0x2
+	.long	.LASF587
+	.byte	0x11
+	.value	0x2c3
+	.byte	0x8
+	.long	0x69d
+	.byte	0x40
+	.byte	0
+	.uleb128 0x7
+	.long	.LASF182
+	.byte	0x38
+	.byte	0x11
+	.value	0x2c6
+	.long	0x3552
+	.uleb128 0x4
+	.string	"hdr"
+	.byte	0x11
+	.value	0x2c7
+	.byte	0xf
+	.long	0x2731
+	.byte	0
+	.uleb128 0x2
+	.long	.LASF583
+	.byte	0x11
+	.value	0x2c8
+	.byte	0x8
+	.long	0x69d
+	.byte	0x28
+	.uleb128 0x2
+	.long	.LASF568
+	.byte	0x11
+	.value	0x2c9
+	.byte	0x8
+	.long	0x69d
+	.byte	0x30
+	.byte	0
+	.uleb128 0x7
+	.long	.LASF183
+	.byte	0x30
+	.byte	0x11
+	.value	0x2cc
+	.long	0x357c
+	.uleb128 0x4
+	.string	"hdr"
+	.byte	0x11
+	.value	0x2cd
+	.byte	0xf
+	.long	0x2731
+	.byte	0
+	.uleb128 0x2
+	.long	.LASF565
+	.byte	0x11
+	.value	0x2ce
+	.byte	0x8
+	.long	0x69d
+	.byte	0x28
+	.byte	0
+	.uleb128 0x7
+	.long	.LASF184
+	.byte	0x38
+	.byte	0x11
+	.value	0x2d1
+	.long	0x35b4
+	.uleb128 0x4
+	.string	"hdr"
+	.byte	0x11
+	.value	0x2d2
+	.byte	0xf
+	.long	0x2731
+	.byte	0
+	.uleb128 0x2
+	.long	.LASF563
+	.byte	0x11
+	.value	0x2d3
+	.byte	0x8
+	.long	0x69d
+	.byte	0x28
+	.uleb128 0x2
+	.long	.LASF588
+	.byte	0x11
+	.value	0x2d4
+	.byte	0x8
+	.long	0x69d
+	.byte	0x30
+	.byte	0
+	.uleb128 0x7
+	.long	.LASF185
+	.byte	0x30
+	.byte	0x11
+	.value	0x2d7
+	.long	0x35de
+	.uleb128 0x4
+	.string	"hdr"
+	.byte	0x11
+	.value	0x2d8
+	.byte	0xf
+	.long	0x2731
+	.byte	0
+	.uleb128 0x2
+	.long	.LASF572
+	.byte	0x11
+	.value	0x2d9
+	.byte	0x8
+	.long	0x69d
+	.byte	0x28
+	.byte	0
+	.uleb128 0x23
+	.byte	0x8
+	.byte	0x15
+	.value	0x1fd
+	.long	0x366a
+	.uleb128 0x1d
+	.string	"opt"
+	.byte	0x15
+	.value	0x1fe
+	.byte	0xb
+	.long	0x14ba
+	.uleb128 0x6
+	.long	.LASF589
+	.byte	0x15
+	.value	0x1ff
+	.byte	0x8
+	.long	0x322
+	.uleb128 0x6
+	.long	.LASF590
+	.byte	0x15
+	.value	0x200
+	.byte	0x8
+	.long	0x322
+	.uleb128 0x1d
+	.string	"sym"
+	.byte	0x15
+	.value	0x201
+	.byte	0xa
+	.long	0x650
+	.uleb128 0x6
+	.long	.LASF591
+	.byte	0x15
+	.value	0x202
+	.byte	0x8
+	.long	0x322
+	.uleb128 0x6
+	.long	.LASF592
+	.byte	0x15
+	.value	0x203
+	.byte	0x8
+	.long	0x2e
+	.uleb128 0x6
+	.long	.LASF593
+	.byte	0x15
+	.value	0x204
+	.byte	0xf
+	.long	0x22be
+	.uleb128 0x6
+	.long	.LASF594
+	.byte	0x15
+	.value	0x205
+	.byte	0xb
+	.long	0x14f2
+	.uleb128 0x6
+	.long	.LASF595
+	.byte	0x15
+	.value	0x206
+	.byte	0x19
+	.long	0x1508
+	.uleb128 0x6
+	.long	.LASF596
+	.byte	0x15
+	.value	0x208
+	.byte	0xc
+	.long	0x1534
+	.byte	0
+	.uleb128 0x7
+	.long	.LASF597
+	.byte	0x30
+	.byte	0x15
+	.value	0x1f8
+	.long	0x36e8
+	.uleb128 0x4
+	.string	"tag"
+	.byte	0x15
+	.value	0x1f9
+	.byte	0x8
+	.long	0x2d4
+	.byte	0
+	.uleb128 0x2
+	.long	.LASF598
+	.byte	0x15
+	.value	0x1fa
+	.byte	0x8
+	.long	0x2d4
+	.byte	0x1
+	.uleb128 0x2
+	.long	.LASF599
+	.byte	0x15
+	.value	0x1fb
+	.byte	0x8
+	.long	0x2d4
+	.byte	0x2
+	.uleb128 0x4
+	.string	"pos"
+	.byte	0x15
+	.value	0x1fc
+	.byte	0x9
+	.long	0x51b
+	.byte	0x8
+	.uleb128 0x2
+	.long	.LASF98
+	.byte	0x15
+	.value	0x20a
+	.byte	0x4
+	.long	0x35de
+	.byte	0x10
+	.uleb128 0x2
+	.long	.LASF600
+	.byte	0x15
+	.value	0x20b
+	.byte	0x6
+	.long	0x2e
+	.byte	0x18
+	.uleb128 0x2
+	.long	.LASF195
+	.byte	0x15
+	.value	0x20c
+	.byte	0x7
+	.long	0xad5
+	.byte	0x20
+	.uleb128 0x2
+	.long	.LASF214
+	.byte	0x15
+	.value	0x20d
+	.byte	0x9
+	.long	0x33c
+	.byte	0x28
+	.byte	0
+	.uleb128 0x23
+	.byte	0x8
+	.byte	0x15
+	.value	0x212
+	.long	0x3733
+	.uleb128 0x6
+	.long	.LASF601
+	.byte	0x15
+	.value	0x213
+	.byte	0x8
+	.long	0xd82
+	.uleb128 0x6
+	.long	.LASF75
+	.byte	0x15
+	.value	0x214
+	.byte	0x8
+	.long	0x2fb
+	.uleb128 0x1d
+	.string	"str"
+	.byte	0x15
+	.value	0x215
+	.byte	0xa
+	.long	0x363
+	.uleb128 0x6
+	.long	.LASF103
+	.byte	0x15
+	.value	0x216
+	.byte	0x8
+	.long	0x5fd
+	.uleb128 0x6
+	.long	.LASF602
+	.byte	0x15
+	.value	0x217
+	.byte	0xa
+	.long	0x37d
+	.byte	0
+	.uleb128 0x7
+	.long	.LASF242
+	.byte	0x80
+	.byte	0x15
+	.value	0x210
+	.long	0x375d
+	.uleb128 0x4
+	.string	"hdr"
+	.byte	0x15
+	.value	0x211
+	.byte	0x11
+	.long	0x366a
+	.byte	0
+	.uleb128 0x2
+	.long	.LASF215
+	.byte	0x15
+	.value	0x218
+	.byte	0x4
+	.long	0x375d
+	.byte	0x30
+	.byte	0
+	.uleb128 0x17
+	.long	0x36e8
+	.long	0x376d
+	.uleb128 0x18
+	.long	0x4a
+	.byte	0x9
+	.byte	0
+	.uleb128 0x7
+	.long	.LASF243
+	.byte	0x30
+	.byte	0x15
+	.value	0x21e
+	.long	0x3789
+	.uleb128 0x4
+	.string	"hdr"
+	.byte	0x15
+	.value	0x21f
+	.byte	0x11
+	.long	0x366a
+	.byte	0
+	.byte	0
+	.uleb128 0x7
+	.long	.LASF244
+	.byte	0x38
+	.byte	0x15
+	.value	0x225
+	.long	0x37b3
+	.uleb128 0x4
+	.string	"hdr"
+	.byte	0x15
+	.value	0x226
+	.byte	0x11
+	.long	0x366a
+	.byte	0
+	.uleb128 0x2
+	.long	.LASF603
+	.byte	0x15
+	.value	0x227
+	.byte	0x7
+	.long	0x2fb
+	.byte	0x30
+	.byte	0
+	.uleb128 0x7
+	.long	.LASF245
+	.byte	0x38
+	.byte	0x15
+	.value	0x22d
+	.long	0x37dd
+	.uleb128 0x4
+	.string	"hdr"
+	.byte	0x15
+	.value	0x22e
+	.byte	0x11
+	.long	0x366a
+	.byte	0
+	.uleb128 0x2
+	.long	.LASF604
+	.byte	0x15
+	.value	0x22f
+	.byte	0x7
+	.long	0x2fb
+	.byte	0x30
+	.byte	0
+	.uleb128 0x7
+	.long	.LASF246
+	.byte	0x38
+	.byte	0x15
+	.value	0x235
+	.long	0x3807
+	.uleb128 0x4
+	.string	"hdr"
+	.byte	0x15
+	.value	0x236
+	.byte	0x11
+	.long	0x366a
+	.byte	0
+	.uleb128 0x2
+	.long	.LASF605
+	.byte	0x15
+	.value	0x237
+	.byte	0x7
+	.long	0x2fb
+	.byte	0x30
+	.byte	0
+	.uleb128 0x7
+	.long	.LASF247
+	.byte	0x38
+	.byte	0x15
+	.value	0x23d
+	.long	0x3831
+	.uleb128 0x4
+	.string	"hdr"
+	.byte	0x15
+	.value	0x23e
+	.byte	0x11
+	.long	0x366a
+	.byte	0
+	.uleb128 0x2
+	.long	.LASF606
+	.byte	0x15
+	.value	0x23f
+	.byte	0x7
+	.long	0x2fb
+	.byte	0x30
+	.byte	0
+	.uleb128 0x7
+	.long	.LASF248
+	.byte	0x38
+	.byte	0x15
+	.value	0x245
+	.long	0x385b
+	.uleb128 0x4
+	.string	"hdr"
+	.byte	0x15
+	.value	0x246
+	.byte	0x11
+	.long	0x366a
+	.byte	0
+	.uleb128 0x2
+	.long	.LASF607
+	.byte	0x15
+	.value	0x247
+	.byte	0x7
+	.long	0x2fb
+	.byte	0x30
+	.byte	0
+	.uleb128 0x7
+	.long	.LASF249
+	.byte	0x38
+	.byte	0x15
+	.value	0x24d
+	.long	0x3885
+	.uleb128 0x4
+	.string	"hdr"
+	.byte	0x15
+	.value	0x24e
+	.byte	0x11
+	.long	0x366a
+	.byte	0
+	.uleb128 0x2
+	.long	.LASF608
+	.byte	0x15
+	.value	0x24f
+	.byte	0x7
+	.long	0x5fd
+	.byte	0x30
+	.byte	0
+	.uleb128 0x7
+	.long	.LASF250
+	.byte	0x38
+	.byte	0x15
+	.value	0x255
+	.long	0x38af
+	.uleb128 0x4
+	.string	"hdr"
+	.byte	0x15
+	.value	0x256
+	.byte	0x11
+	.long	0x366a
+	.byte	0
+	.uleb128 0x2
+	.long	.LASF609
+	.byte	0x15
+	.value	0x257
+	.byte	0x9
+	.long	0x37d
+	.byte	0x30
+	.byte	0
+	.uleb128 0x7
+	.long	.LASF251
+	.byte	0x38
+	.byte	0x15
+	.value	0x25d
+	.long	0x38d9
+	.uleb128 0x4
+	.string	"hdr"
+	.byte	0x15
+	.value	0x25e
+	.byte	0x11
+	.long	0x366a
+	.byte	0
+	.uleb128 0x2
+	.long	.LASF610
+	.byte	0x15
+	.value	0x25f
+	.byte	0x9
+	.long	0x38a
+	.byte	0x30
+	.byte	0
+	.uleb128 0x7
+	.long	.LASF252
+	.byte	0x38
+	.byte	0x15
+	.value	0x262
+	.long	0x3903
+	.uleb128 0x4
+	.string	"hdr"
+	.byte	0x15
+	.value	0x263
+	.byte	0x11
+	.long	0x366a
+	.byte	0
+	.uleb128 0x2
+	.long	.LASF75
+	.byte	0x15
+	.value	0x264
+	.byte	0x7
+	.long	0x2fb
+	.byte	0x30
+	.byte	0
+	.uleb128 0x7
+	.long	.LASF253
+	.byte	0x40
+	.byte	0x15
+	.value	0x267
+	.long	0x392d
+	.uleb128 0x4
+	.string	"hdr"
+	.byte	0x15
+	.value	0x268
+	.byte	0x11
+	.long	0x366a
+	.byte	0
+	.uleb128 0x2
+	.long	.LASF75
+	.byte	0x15
+	.value	0x269
+	.byte	0x7
+	.long	0x392d
+	.byte	0x30
+	.byte	0
+	.uleb128 0x17
+	.long	0x2fb
+	.long	0x393d
+	.uleb128 0x18
+	.long	0x4a
+	.byte	0x1
+	.byte	0
+	.uleb128 0x7
+	.long	.LASF254
+	.byte	0x88
+	.byte	0x15
+	.value	0x26c
+	.long	0x3975
+	.uleb128 0x4
+	.string	"hdr"
+	.byte	0x15
+	.value	0x26d
+	.byte	0x11
+	.long	0x366a
+	.byte	0
+	.uleb128 0x2
+	.long	.LASF611
+	.byte	0x15
+	.value	0x26e
+	.byte	0x7
+	.long	0x2fb
+	.byte	0x30
+	.uleb128 0x2
+	.long	.LASF612
+	.byte	0x15
+	.value	0x26f
+	.byte	0x7
+	.long	0x3975
+	.byte	0x38
+	.byte	0
+	.uleb128 0x17
+	.long	0x2fb
+	.long	0x3985
+	.uleb128 0x18
+	.long	0x4a
+	.byte	0x9
+	.byte	0
+	.uleb128 0x7
+	.long	.LASF255
+	.byte	0x88
+	.byte	0x15
+	.value	0x274
+	.long	0x39bd
+	.uleb128 0x4
+	.string	"hdr"
+	.byte	0x15
+	.value	0x275
+	.byte	0x11
+	.long	0x366a
+	.byte	0
+	.uleb128 0x2
+	.long	.LASF613
+	.byte	0x15
+	.value	0x276
+	.byte	0x7
+	.long	0x2fb
+	.byte	0x30
+	.uleb128 0x2
+	.long	.LASF612
+	.byte	0x15
+	.value	0x277
+	.byte	0x7
+	.long	0x39bd
+	.byte	0x38
+	.byte	0
+	.uleb128 0x17
+	.long	0xd82
+	.long	0x39cd
+	.uleb128 0x18
+	.long	0x4a
+	.byte	0x9
+	.byte	0
+	.uleb128 0x7
+	.long	.LASF256
+	.byte	0x48
+	.byte	0x15
+	.value	0x27a
+	.long	0x3a13
+	.uleb128 0x4
+	.string	"hdr"
+	.byte	0x15
+	.value	0x27b
+	.byte	0x11
+	.long	0x366a
+	.byte	0
+	.uleb128 0x2
+	.long	.LASF614
+	.byte	0x15
+	.value	0x27c
+	.byte	0x7
+	.long	0x2fb
+	.byte	0x30
+	.uleb128 0x4
+	.string	"fmt"
+	.byte	0x15
+	.value	0x27d
+	.byte	0x7
+	.long	0xd82
+	.byte	0x38
+	.uleb128 0x2
+	.long	.LASF615
+	.byte	0x15
+	.value	0x27e
+	.byte	0x7
+	.long	0xd82
+	.byte	0x40
+	.byte	0
+	.uleb128 0x7
+	.long	.LASF257
+	.byte	0x98
+	.byte	0x15
+	.value	0x28d
+	.long	0x3ae5
+	.uleb128 0x4
+	.string	"hdr"
+	.byte	0x15
+	.value	0x28e
+	.byte	0x11
+	.long	0x366a
+	.byte	0
+	.uleb128 0x2
+	.long	.LASF616
+	.byte	0x15
+	.value	0x28f
+	.byte	0x7
+	.long	0x2fb
+	.byte	0x30
+	.uleb128 0x2
+	.long	.LASF617
+	.byte	0x15
+	.value	0x290
+	.byte	0x7
+	.long	0x2fb
+	.byte	0x38
+	.uleb128 0x2
+	.long	.LASF618
+	.byte	0x15
+	.value	0x291
+	.byte	0x7
+	.long	0x2fb
+	.byte	0x40
+	.uleb128 0x2
+	.long	.LASF613
+	.byte	0x15
+	.value	0x292
+	.byte	0x7
+	.long	0x2fb
+	.byte	0x48
+	.uleb128 0x2
+	.long	.LASF619
+	.byte	0x15
+	.value	0x293
+	.byte	0x7
+	.long	0x2fb
+	.byte	0x50
+	.uleb128 0x2
+	.long	.LASF620
+	.byte	0x15
+	.value	0x295
+	.byte	0x7
+	.long	0x2fb
+	.byte	0x58
+	.uleb128 0x2
+	.long	.LASF621
+	.byte	0x15
+	.value	0x296
+	.byte	0x7
+	.long	0x2fb
+	.byte	0x60
+	.uleb128 0x2
+	.long	.LASF622
+	.byte	0x15
+	.value	0x297
+	.byte	0x7
+	.long	0x2fb
+	.byte	0x68
+	.uleb128 0x2
+	.long	.LASF623
+	.byte	0x15
+	.value	0x29c
+	.byte	0x7
+	.long	0xd82
+	.byte	0x70
+	.uleb128 0x2
+	.long	.LASF624
+	.byte	0x15
+	.value	0x29e
+	.byte	0x7
+	.long	0xd82
+	.byte	0x78
+	.uleb128 0x2
+	.long	.LASF625
+	.byte	0x15
+	.value	0x29f
+	.byte	0x7
+	.long	0xd82
+	.byte	0x80
+	.uleb128 0x2
+	.long	.LASF626
+	.byte	0x15
+	.value	0x2a0
+	.byte	0x7
+	.long	0xd82
+	.byte	0x88
+	.uleb128 0x2
+	.long	.LASF569
+	.byte	0x15
+	.value	0x2a1
+	.byte	0x7
+	.long	0xd82
+	.byte	0x90
+	.byte	0
+	.uleb128 0x7
+	.long	.LASF258
+	.byte	0x40
+	.byte	0x15
+	.value	0x2a6
+	.long	0x3b1d
+	.uleb128 0x4
+	.string	"hdr"
+	.byte	0x15
+	.value	0x2a7
+	.byte	0x11
+	.long	0x366a
+	.byte	0
+	.uleb128 0x4
+	.string	"env"
+	.byte	0x15
+	.value	0x2a8
+	.byte	0x7
+	.long	0xd82
+	.byte	0x30
+	.uleb128 0x2
+	.long	.LASF627
+	.byte	0x15
+	.value	0x2a9
+	.byte	0x7
+	.long	0xd82
+	.byte	0x38
+	.byte	0
+	.uleb128 0x7
+	.long	.LASF260
+	.byte	0x60
+	.byte	0x15
+	.value	0x2b4
+	.long	0x3b8c
+	.uleb128 0x4
+	.string	"hdr"
+	.byte	0x15
+	.value	0x2b5
+	.byte	0x11
+	.long	0x366a
+	.byte	0
+	.uleb128 0x2
+	.long	.LASF200
+	.byte	0x15
+	.value	0x2b6
+	.byte	0x7
+	.long	0x2fb
+	.byte	0x30
+	.uleb128 0x4
+	.string	"id"
+	.byte	0x15
+	.value	0x2b7
+	.byte	0x9
+	.long	0x363
+	.byte	0x38
+	.uleb128 0x2
+	.long	.LASF582
+	.byte	0x15
+	.value	0x2b8
+	.byte	0x7
+	.long	0x2fb
+	.byte	0x40
+	.uleb128 0x2
+	.long	.LASF613
+	.byte	0x15
+	.value	0x2b9
+	.byte	0x7
+	.long	0x2fb
+	.byte	0x48
+	.uleb128 0x4
+	.string	"dir"
+	.byte	0x15
+	.value	0x2ba
+	.byte	0x7
+	.long	0x2fb
+	.byte	0x50
+	.uleb128 0x2
+	.long	.LASF628
+	.byte	0x15
+	.value	0x2bb
+	.byte	0x7
+	.long	0x2fb
+	.byte	0x58
+	.byte	0
+	.uleb128 0x7
+	.long	.LASF259
+	.byte	0x50
+	.byte	0x15
+	.value	0x2c1
+	.long	0x3bdf
+	.uleb128 0x4
+	.string	"hdr"
+	.byte	0x15
+	.value	0x2c2
+	.byte	0x11
+	.long	0x366a
+	.byte	0
+	.uleb128 0x2
+	.long	.LASF200
+	.byte	0x15
+	.value	0x2c3
+	.byte	0x7
+	.long	0x2fb
+	.byte	0x30
+	.uleb128 0x4
+	.string	"id"
+	.byte	0x15
+	.value	0x2c4
+	.byte	0x9
+	.long	0x363
+	.byte	0x38
+	.uleb128 0x2
+	.long	.LASF629
+	.byte	0x15
+	.value	0x2c5
+	.byte	0x7
+	.long	0x2fb
+	.byte	0x40
+	.uleb128 0x2
+	.long	.LASF613
+	.byte	0x15
+	.value	0x2c6
+	.byte	0x7
+	.long	0x2fb
+	.byte	0x48
+	.byte	0
+	.uleb128 0x7
+	.long	.LASF261
+	.byte	0x88
+	.byte	0x15
+	.value	0x2cd
+	.long	0x3c17
+	.uleb128 0x4
+	.string	"hdr"
+	.byte	0x15
+	.value	0x2ce
+	.byte	0x11
+	.long	0x366a
+	.byte	0
+	.uleb128 0x2
+	.long	.LASF630
+	.byte	0x15
+	.value	0x2cf
+	.byte	0x7
+	.long	0x2fb
+	.byte	0x30
+	.uleb128 0x2
+	.long	.LASF215
+	.byte	0x15
+	.value	0x2d0
+	.byte	0x7
+	.long	0x39bd
+	.byte	0x38
+	.byte	0
+	.uleb128 0x7
+	.long	.LASF262
+	.byte	0x80
+	.byte	0x15
+	.value	0x2d7
+	.long	0x3c41
+	.uleb128 0x4
+	.string	"hdr"
+	.byte	0x15
+	.value	0x2d8
+	.byte	0x11
+	.long	0x366a
+	.byte	0
+	.uleb128 0x2
+	.long	.LASF215
+	.byte	0x15
+	.value	0x2d9
+	.byte	0x7
+	.long	0x3975
+	.byte	0x30
+	.byte	0
+	.uleb128 0x7
+	.long	.LASF263
+	.byte	0x80
+	.byte	0x15
+	.value	0x2de
+	.long	0x3c6b
+	.uleb128 0x4
+	.string	"hdr"
+	.byte	0x15
+	.value	0x2df
+	.byte	0x11
+	.long	0x366a
+	.byte	0
+	.uleb128 0x2
+	.long	.LASF215
+	.byte	0x15
+	.value	0x2e0
+	.byte	0x7
+	.long	0x3975
+	.byte	0x30
+	.byte	0
+	.uleb128 0x7
+	.long	.LASF264
+	.byte	0x80
+	.byte	0x15
+	.value	0x2e5
+	.long	0x3c95
+	.uleb128 0x4
+	.string	"hdr"
+	.byte	0x15
+	.value	0x2e6
+	.byte	0x11
+	.long	0x366a
+	.byte	0
+	.uleb128 0x2
+	.long	.LASF215
+	.byte	0x15
+	.value	0x2e7
+	.byte	0x7
+	.long	0x39bd
+	.byte	0x30
+	.byte	0
+	.uleb128 0x7
+	.long	.LASF265
+	.byte	0x40
+	.byte	0x15
+	.value	0x2ed
+	.long	0x3ccd
+	.uleb128 0x4
+	.string	"hdr"
+	.byte	0x15
+	.value	0x2ee
+	.byte	0x11
+	.long	0x366a
+	.byte	0
+	.uleb128 0x4
+	.string	"lhs"
+	.byte	0x15
+	.value	0x2ef
+	.byte	0x7
+	.long	0xd82
+	.byte	0x30
+	.uleb128 0x4
+	.string	"rhs"
+	.byte	0x15
+	.value	0x2f0
+	.byte	0x7
+	.long	0xd82
+	.byte	0x38
+	.byte	0
+	.uleb128 0x7
+	.long	.LASF266
+	.byte	0x80
+	.byte	0x15
+	.value	0x2f3
+	.long	0x3cf7
+	.uleb128 0x4
+	.string	"hdr"
+	.byte	0x15
+	.value	0x2f4
+	.byte	0x11
+	.long	0x366a
+	.byte	0
+	.uleb128 0x2
+	.long	.LASF215
+	.byte	0x15
+	.value	0x2f5
+	.byte	0x7
+	.long	0x39bd
+	.byte	0x30
+	.byte	0
+	.uleb128 0x7
+	.long	.LASF267
+	.byte	0x38
+	.byte	0x15
+	.value	0x2fa
+	.long	0x3d21
+	.uleb128 0x4
+	.string	"hdr"
+	.byte	0x15
+	.value	0x2fb
+	.byte	0x11
+	.long	0x366a
+	.byte	0
+	.uleb128 0x2
+	.long	.LASF631
+	.byte	0x15
+	.value	0x2fc
+	.byte	0x7
+	.long	0x2fb
+	.byte	0x30
+	.byte	0
+	.uleb128 0x7
+	.long	.LASF268
+	.byte	0x38
+	.byte	0x15
+	.value	0x303
+	.long	0x3d4b
+	.uleb128 0x4
+	.string	"hdr"
+	.byte	0x15
+	.value	0x304
+	.byte	0x11
+	.long	0x366a
+	.byte	0
+	.uleb128 0x2
+	.long	.LASF631
+	.byte	0x15
+	.value	0x305
+	.byte	0x7
+	.long	0x2fb
+	.byte	0x30
+	.byte	0
+	.uleb128 0x7
+	.long	.LASF269
+	.byte	0x40
+	.byte	0x15
+	.value	0x30b
+	.long	0x3d83
+	.uleb128 0x4
+	.string	"hdr"
+	.byte	0x15
+	.value	0x30c
+	.byte	0x11
+	.long	0x366a
+	.byte	0
+	.uleb128 0x2
+	.long	.LASF632
+	.byte	0x15
+	.value	0x30d
+	.byte	0x7
+	.long	0x2fb
+	.byte	0x30
+	.uleb128 0x2
+	.long	.LASF631
+	.byte	0x15
+	.value	0x30e
+	.byte	0x7
+	.long	0x2fb
+	.byte	0x38
+	.byte	0
+	.uleb128 0x7
+	.long	.LASF270
+	.byte	0x38
+	.byte	0x15
+	.value	0x313
+	.long	0x3dad
+	.uleb128 0x4
+	.string	"hdr"
+	.byte	0x15
+	.value	0x314
+	.byte	0x11
+	.long	0x366a
+	.byte	0
+	.uleb128 0x2
+	.long	.LASF631
+	.byte	0x15
+	.value	0x315
+	.byte	0x7
+	.long	0x2fb
+	.byte	0x30
+	.byte	0
+	.uleb128 0x7
+	.long	.LASF272
+	.byte	0x38
+	.byte	0x15
+	.value	0x31a
+	.long	0x3dd7
+	.uleb128 0x4
+	.string	"hdr"
+	.byte	0x15
+	.value	0x31b
+	.byte	0x11
+	.long	0x366a
+	.byte	0
+	.uleb128 0x2
+	.long	.LASF631
+	.byte	0x15
+	.value	0x31c
+	.byte	0x7
+	.long	0x2fb
+	.byte	0x30
+	.byte	0
+	.uleb128 0x7
+	.long	.LASF271
+	.byte	0x38
+	.byte	0x15
+	.value	0x321
+	.long	0x3e01
+	.uleb128 0x4
+	.string	"hdr"
+	.byte	0x15
+	.value	0x322
+	.byte	0x11
+	.long	0x366a
+	.byte	0
+	.uleb128 0x2
+	.long	.LASF631
+	.byte	0x15
+	.value	0x323
+	.byte	0x7
+	.long	0x2fb
+	.byte	0x30
+	.byte	0
+	.uleb128 0x7
+	.long	.LASF273
+	.byte	0x38
+	.byte	0x15
+	.value	0x328
+	.long	0x3e2b
+	.uleb128 0x4
+	.string	"hdr"
+	.byte	0x15
+	.value	0x329
+	.byte	0x11
+	.long	0x366a
+	.byte	0
+	.uleb128 0x2
+	.long	.LASF632
+	.byte	0x15
+	.value	0x32a
+	.byte	0x7
+	.long	0x2fb
+	.byte	0x30
+	.byte	0
+	.uleb128 0x7
+	.long	.LASF274
+	.byte	0x40
+	.byte	0x15
+	.value	0x32f
+	.long	0x3e63
+	.uleb128 0x4
+	.string	"hdr"
+	.byte	0x15
+	.value	0x330
+	.byte	0x11
+	.long	0x366a
+	.byte	0
+	.uleb128 0x2
+	.long	.LASF632
+	.byte	0x15
+	.value	0x331
+	.byte	0x7
+	.long	0x2fb
+	.byte	0x30
+	.uleb128 0x4
+	.string	"env"
+	.byte	0x15
+	.value	0x332
+	.byte	0x7
+	.long	0xd82
+	.byte	0x38
+	.byte	0
+	.uleb128 0x7
+	.long	.LASF275
+	.byte	0x40
+	.byte	0x15
+	.value	0x337
+	.long	0x3e9b
+	.uleb128 0x4
+	.string	"hdr"
+	.byte	0x15
+	.value	0x338
+	.byte	0x11
+	.long	0x366a
+	.byte	0
+	.uleb128 0x4
+	.string	"idx"
+	.byte	0x15
+	.value	0x339
+	.byte	0x7
+	.long	0x2fb
+	.byte	0x30
+	.uleb128 0x2
+	.long	.LASF627
+	.byte	0x15
+	.value	0x33a
+	.byte	0x7
+	.long	0xd82
+	.byte	0x38
+	.byte	0
+	.uleb128 0x7
+	.long	.LASF276
+	.byte	0x38
+	.byte	0x15
+	.value	0x33f
+	.long	0x3ec5
+	.uleb128 0x4
+	.string	"hdr"
+	.byte	0x15
+	.value	0x340
+	.byte	0x11
+	.long	0x366a
+	.byte	0
+	.uleb128 0x2
+	.long	.LASF566
+	.byte	0x15
+	.value	0x341
+	.byte	0x7
+	.long	0x2fb
+	.byte	0x30
+	.byte	0
+	.uleb128 0x7
+	.long	.LASF277
+	.byte	0x38
+	.byte	0x15
+	.value	0x346
+	.long	0x3eef
+	.uleb128 0x4
+	.string	"hdr"
+	.byte	0x15
+	.value	0x347
+	.byte	0x11
+	.long	0x366a
+	.byte	0
+	.uleb128 0x4
+	.string	"val"
+	.byte	0x15
+	.value	0x348
+	.byte	0x7
+	.long	0xd82
+	.byte	0x30
+	.byte	0
+	.uleb128 0x7
+	.long	.LASF278
+	.byte	0x38
+	.byte	0x15
+	.value	0x34d
+	.long	0x3f19
+	.uleb128 0x4
+	.string	"hdr"
+	.byte	0x15
+	.value	0x34e
+	.byte	0x11
+	.long	0x366a
+	.byte	0
+	.uleb128 0x2
+	.long	.LASF627
+	.byte	0x15
+	.value	0x34f
+	.byte	0x7
+	.long	0xd82
+	.byte	0x30
+	.byte	0
+	.uleb128 0x7
+	.long	.LASF279
+	.byte	0x38
+	.byte	0x15
+	.value	0x354
+	.long	0x3f43
+	.uleb128 0x4
+	.string	"hdr"
+	.byte	0x15
+	.value	0x355
+	.byte	0x11
+	.long	0x366a
+	.byte	0
+	.uleb128 0x4
+	.string	"env"
+	.byte	0x15
+	.value	0x356
+	.byte	0x7
+	.long	0xd82
+	.byte	0x30
+	.byte	0
+	.uleb128 0x7
+	.long	.LASF280
+	.byte	0x38
+	.byte	0x15
+	.value	0x35b
+	.long	0x3f6d
+	.uleb128 0x4
+	.string	"hdr"
+	.byte	0x15
+	.value	0x35c
+	.byte	0x11
+	.long	0x366a
+	.byte	0
+	.uleb128 0x4
+	.string	"loc"
+	.byte	0x15
+	.value	0x35d
+	.byte	0x7
+	.long	0xd82
+	.byte	0x30
+	.byte	0
+	.uleb128 0x7
+	.long	.LASF281
+	.byte	0x38
+	.byte	0x15
+	.value	0x362
+	.long	0x3f97
+	.uleb128 0x4
+	.string	"hdr"
+	.byte	0x15
+	.value	0x363
+	.byte	0x11
+	.long	0x366a
+	.byte	0
+	.uleb128 0x4
+	.string	"env"
+	.byte	0x15
+	.value	0x364
+	.byte	0x7
+	.long	0xd82
+	.byte	0x30
+	.byte	0
+	.uleb128 0x7
+	.long	.LASF282
+	.byte	0x38
+	.byte	0x15
+	.value	0x369
+	.long	0x3fc1
+	.uleb128 0x4
+	.string	"hdr"
+	.byte	0x15
+	.value	0x36a
+	.byte	0x11
+	.long	0x366a
+	.byte	0
+	.uleb128 0x4
+	.string	"env"
+	.byte	0x15
+	.value	0x36b
+	.byte	0x7
+	.long	0xd82
+	.byte	0x30
+	.byte	0
+	.uleb128 0x7
+	.long	.LASF283
+	.byte	0x48
+	.byte	0x15
+	.value	0x370
+	.long	0x4007
+	.uleb128 0x4
+	.string	"hdr"
+	.byte	0x15
+	.value	0x371
+	.byte	0x11
+	.long	0x366a
+	.byte	0
+	.uleb128 0x2
+	.long	.LASF611
+	.byte	0x15
+	.value	0x372
+	.byte	0x7
+	.long	0x2fb
+	.byte	0x30
+	.uleb128 0x2
+	.long	.LASF631
+	.byte	0x15
+	.value	0x373
+	.byte	0x7
+	.long	0xd82
+	.byte	0x38
+	.uleb128 0x2
+	.long	.LASF568
+	.byte	0x15
+	.value	0x374
+	.byte	0x7
+	.long	0xd82
+	.byte	0x40
+	.byte	0
+	.uleb128 0x7
+	.long	.LASF298
+	.byte	0x40
+	.byte	0x15
+	.value	0x379
+	.long	0x403f
+	.uleb128 0x4
+	.string	"hdr"
+	.byte	0x15
+	.value	0x37a
+	.byte	0x11
+	.long	0x366a
+	.byte	0
+	.uleb128 0x2
+	.long	.LASF214
+	.byte	0x15
+	.value	0x37b
+	.byte	0x7
+	.long	0x2fb
+	.byte	0x30
+	.uleb128 0x4
+	.string	"fmt"
+	.byte	0x15
+	.value	0x37c
+	.byte	0x7
+	.long	0xd82
+	.byte	0x38
+	.byte	0
+	.uleb128 0x7
+	.long	.LASF285
+	.byte	0x48
+	.byte	0x15
+	.value	0x382
+	.long	0x4085
+	.uleb128 0x4
+	.string	"hdr"
+	.byte	0x15
+	.value	0x383
+	.byte	0x11
+	.long	0x366a
+	.byte	0
+	.uleb128 0x2
+	.long	.LASF633
+	.byte	0x15
+	.value	0x384
+	.byte	0x7
+	.long	0x2fb
+	.byte	0x30
+	.uleb128 0x4
+	.string	"fmt"
+	.byte	0x15
+	.value	0x385
+	.byte	0x7
+	.long	0xd82
+	.byte	0x38
+	.uleb128 0x2
+	.long	.LASF75
+	.byte	0x15
+	.value	0x386
+	.byte	0x7
+	.long	0xd82
+	.byte	0x40
+	.byte	0
+	.uleb128 0x7
+	.long	.LASF310
+	.byte	0x38
+	.byte	0x15
+	.value	0x38c
+	.long	0x40af
+	.uleb128 0x4
+	.string	"hdr"
+	.byte	0x15
+	.value	0x38d
+	.byte	0x11
+	.long	0x366a
+	.byte	0
+	.uleb128 0x4
+	.string	"fmt"
+	.byte	0x15
+	.value	0x38e
+	.byte	0x7
+	.long	0xd82
+	.byte	0x30
+	.byte	0
+	.uleb128 0x7
+	.long	.LASF284
+	.byte	0x48
+	.byte	0x15
+	.value	0x394
+	.long	0x40f5
+	.uleb128 0x4
+	.string	"hdr"
+	.byte	0x15
+	.value	0x395
+	.byte	0x11
+	.long	0x366a
+	.byte	0
+	.uleb128 0x2
+	.long	.LASF613
+	.byte	0x15
+	.value	0x396
+	.byte	0x7
+	.long	0x2fb
+	.byte	0x30
+	.uleb128 0x2
+	.long	.LASF568
+	.byte	0x15
+	.value	0x397
+	.byte	0x7
+	.long	0xd82
+	.byte	0x38
+	.uleb128 0x2
+	.long	.LASF633
+	.byte	0x15
+	.value	0x398
+	.byte	0x7
+	.long	0x2fb
+	.byte	0x40
+	.byte	0
+	.uleb128 0x7
+	.long	.LASF286
+	.byte	0x48
+	.byte	0x15
+	.value	0x39d
+	.long	0x413b
+	.uleb128 0x4
+	.string	"hdr"
+	.byte	0x15
+	.value	0x39e
+	.byte	0x11
+	.long	0x366a
+	.byte	0
+	.uleb128 0x2
+	.long	.LASF613
+	.byte	0x15
+	.value	0x39f
+	.byte	0x7
+	.long	0x2fb
+	.byte	0x30
+	.uleb128 0x2
+	.long	.LASF568
+	.byte	0x15
+	.value	0x3a0
+	.byte	0x7
+	.long	0xd82
+	.byte	0x38
+	.uleb128 0x2
+	.long	.LASF633
+	.byte	0x15
+	.value	0x3a1
+	.byte	0x7
+	.long	0x2fb
+	.byte	0x40
+	.byte	0
+	.uleb128 0x7
+	.long	.LASF287
+	.byte	0x50
+	.byte	0x15
+	.value	0x3a6
+	.long	0x418f
+	.uleb128 0x4
+	.string	"hdr"
+	.byte	0x15
+	.value	0x3a7
+	.byte	0x11
+	.long	0x366a
+	.byte	0
+	.uleb128 0x2
+	.long	.LASF613
+	.byte	0x15
+	.value	0x3a8
+	.byte	0x7
+	.long	0x2fb
+	.byte	0x30
+	.uleb128 0x2
+	.long	.LASF568
+	.byte	0x15
+	.value	0x3a9
+	.byte	0x7
+	.long	0xd82
+	.byte	0x38
+	.uleb128 0x2
+	.long	.LASF631
+	.byte	0x15
+	.value	0x3aa
+	.byte	0x7
+	.long	0xd82
+	.byte	0x40
+	.uleb128 0x2
+	.long	.LASF633
+	.byte	0x15
+	.value	0x3ab
+	.byte	0x7
+	.long	0x2fb
+	.byte	0x48
+	.byte	0
+	.uleb128 0x7
+	.long	.LASF288
+	.byte	0x50
+	.byte	0x15
+	.value	0x3b0
+	.long	0x41e3
+	.uleb128 0x4
+	.string	"hdr"
+	.byte	0x15
+	.value	0x3b1
+	.byte	0x11
+	.long	0x366a
+	.byte	0
+	.uleb128 0x4
+	.string	"env"
+	.byte	0x15
+	.value	0x3b2
+	.byte	0x7
+	.long	0x2fb
+	.byte	0x30
+	.uleb128 0x4
+	.string	"ref"
+	.byte	0x15
+	.value	0x3b3
+	.byte	0x7
+	.long	0xd82
+	.byte	0x38
+	.uleb128 0x2
+	.long	.LASF632
+	.byte	0x15
+	.value	0x3b4
+	.byte	0x7
+	.long	0x2fb
+	.byte	0x40
+	.uleb128 0x4
+	.string	"lex"
+	.byte	0x15
+	.value	0x3b5
+	.byte	0x7
+	.long	0x2fb
+	.byte	0x48
+	.byte	0
+	.uleb128 0x7
+	.long	.LASF289
+	.byte	0x38
+	.byte	0x15
+	.value	0x3bb
+	.long	0x420d
+	.uleb128 0x4
+	.string	"hdr"
+	.byte	0x15
+	.value	0x3bc
+	.byte	0x11
+	.long	0x366a
+	.byte	0
+	.uleb128 0x2
+	.long	.LASF634
+	.byte	0x15
+	.value	0x3bd
+	.byte	0x7
+	.long	0x2fb
+	.byte	0x30
+	.byte	0
+	.uleb128 0x7
+	.long	.LASF290
+	.byte	0x38
+	.byte	0x15
+	.value	0x3c3
+	.long	0x4237
+	.uleb128 0x4
+	.string	"hdr"
+	.byte	0x15
+	.value	0x3c4
+	.byte	0x11
+	.long	0x366a
+	.byte	0
+	.uleb128 0x4
+	.string	"str"
+	.byte	0x15
+	.value	0x3c5
+	.byte	0x9
+	.long	0x363
+	.byte	0x30
+	.byte	0
+	.uleb128 0x7
+	.long	.LASF291
+	.byte	0x30
+	.byte	0x15
+	.value	0x3cb
+	.long	0x4253
+	.uleb128 0x4
+	.string	"hdr"
+	.byte	0x15
+	.value	0x3cc
+	.byte	0x11
+	.long	0x366a
+	.byte	0
+	.byte	0
+	.uleb128 0x7
+	.long	.LASF292
+	.byte	0x40
+	.byte	0x15
+	.value	0x3d1
+	.long	0x428b
+	.uleb128 0x4
+	.string	"hdr"
+	.byte	0x15
+	.value	0x3d2
+	.byte	0x11
+	.long	0x366a
+	.byte	0
+	.uleb128 0x4
+	.string	"lhs"
+	.byte	0x15
+	.value	0x3d3
+	.byte	0x7
+	.long	0xd82
+	.byte	0x30
+	.uleb128 0x4
+	.string	"rhs"
+	.byte	0x15
+	.value	0x3d4
+	.byte	0x7
+	.long	0xd82
+	.byte	0x38
+	.byte	0
+	.uleb128 0x7
+	.long	.LASF293
+	.byte	0x40
+	.byte	0x15
+	.value	0x3d9
+	.long	0x42c3
+	.uleb128 0x4
+	.string	"hdr"
+	.byte	0x15
+	.value	0x3da
+	.byte	0x11
+	.long	0x366a
+	.byte	0
+	.uleb128 0x2
+	.long	.LASF565
+	.byte	0x15
+	.value	0x3db
+	.byte	0x7
+	.long	0xd82
+	.byte	0x30
+	.uleb128 0x2
+	.long	.LASF566
+	.byte	0x15
+	.value	0x3dc
+	.byte	0x7
+	.long	0x2fb
+	.byte	0x38
+	.byte	0
+	.uleb128 0x7
+	.long	.LASF294
+	.byte	0x80
+	.byte	0x15
+	.value	0x3e1
+	.long	0x42ed
+	.uleb128 0x4
+	.string	"hdr"
+	.byte	0x15
+	.value	0x3e2
+	.byte	0x11
+	.long	0x366a
+	.byte	0
+	.uleb128 0x2
+	.long	.LASF215
+	.byte	0x15
+	.value	0x3e3
+	.byte	0x7
+	.long	0x39bd
+	.byte	0x30
+	.byte	0
+	.uleb128 0x7
+	.long	.LASF296
+	.byte	0x40
+	.byte	0x15
+	.value	0x3e8
+	.long	0x4325
+	.uleb128 0x4
+	.string	"hdr"
+	.byte	0x15
+	.value	0x3e9
+	.byte	0x11
+	.long	0x366a
+	.byte	0
+	.uleb128 0x2
+	.long	.LASF635
+	.byte	0x15
+	.value	0x3ea
+	.byte	0x7
+	.long	0x2fb
+	.byte	0x30
+	.uleb128 0x2
+	.long	.LASF620
+	.byte	0x15
+	.value	0x3eb
+	.byte	0x7
+	.long	0xd82
+	.byte	0x38
+	.byte	0
+	.uleb128 0x7
+	.long	.LASF297
+	.byte	0x38
+	.byte	0x15
+	.value	0x3f0
+	.long	0x434f
+	.uleb128 0x4
+	.string	"hdr"
+	.byte	0x15
+	.value	0x3f1
+	.byte	0x11
+	.long	0x366a
+	.byte	0
+	.uleb128 0x2
+	.long	.LASF613
+	.byte	0x15
+	.value	0x3f2
+	.byte	0x7
+	.long	0x2fb
+	.byte	0x30
+	.byte	0
+	.uleb128 0x7
+	.long	.LASF299
+	.byte	0x40
+	.byte	0x15
+	.value	0x3f7
+	.long	0x4387
+	.uleb128 0x4
+	.string	"hdr"
+	.byte	0x15
+	.value	0x3f8
+	.byte	0x11
+	.long	0x366a
+	.byte	0
+	.uleb128 0x2
+	.long	.LASF613
+	.byte	0x15
+	.value	0x3f9
+	.byte	0x7
+	.long	0x2fb
+	.byte	0x30
+	.uleb128 0x2
+	.long	.LASF620
+	.byte	0x15
+	.value	0x3fa
+	.byte	0x7
+	.long	0xd82
+	.byte	0x38
+	.byte	0
+	.uleb128 0x7
+	.long	.LASF300
+	.byte	0x40
+	.byte	0x15
+	.value	0x3ff
+	.long	0x43bf
+	.uleb128 0x4
+	.string	"hdr"
+	.byte	0x15
+	.value	0x400
+	.byte	0x11
+	.long	0x366a
+	.byte	0
+	.uleb128 0x2
+	.long	.LASF200
+	.byte	0x15
+	.value	0x401
+	.byte	0x7
+	.long	0x2fb
+	.byte	0x30
+	.uleb128 0x2
+	.long	.LASF568
+	.byte	0x15
+	.value	0x402
+	.byte	0x7
+	.long	0xd82
+	.byte	0x38
+	.byte	0
+	.uleb128 0x7
+	.long	.LASF301
+	.byte	0x98
+	.byte	0x15
+	.value	0x408
+	.long	0x4412
+	.uleb128 0x4
+	.string	"hdr"
+	.byte	0x15
+	.value	0x409
+	.byte	0x11
+	.long	0x366a
+	.byte	0
+	.uleb128 0x2
+	.long	.LASF628
+	.byte	0x15
+	.value	0x40a
+	.byte	0x7
+	.long	0x2fb
+	.byte	0x30
+	.uleb128 0x2
+	.long	.LASF200
+	.byte	0x15
+	.value	0x40b
+	.byte	0x7
+	.long	0x2fb
+	.byte	0x38
+	.uleb128 0x4
+	.string	"op"
+	.byte	0x15
+	.value	0x40c
+	.byte	0x7
+	.long	0xd82
+	.byte	0x40
+	.uleb128 0x2
+	.long	.LASF215
+	.byte	0x15
+	.value	0x40d
+	.byte	0x7
+	.long	0x39bd
+	.byte	0x48
+	.byte	0
+	.uleb128 0x7
+	.long	.LASF302
+	.byte	0x88
+	.byte	0x15
+	.value	0x418
+	.long	0x4449
+	.uleb128 0x4
+	.string	"hdr"
+	.byte	0x15
+	.value	0x419
+	.byte	0x11
+	.long	0x366a
+	.byte	0
+	.uleb128 0x4
+	.string	"op"
+	.byte	0x15
+	.value	0x41a
+	.byte	0x7
+	.long	0x2fb
+	.byte	0x30
+	.uleb128 0x2
+	.long	.LASF215
+	.byte	0x15
+	.value	0x41b
+	.byte	0x7
+	.long	0x39bd
+	.byte	0x38
+	.byte	0
+	.uleb128 0x7
+	.long	.LASF303
+	.byte	0x90
+	.byte	0x15
+	.value	0x421
+	.long	0x448e
+	.uleb128 0x4
+	.string	"hdr"
+	.byte	0x15
+	.value	0x422
+	.byte	0x11
+	.long	0x366a
+	.byte	0
+	.uleb128 0x2
+	.long	.LASF200
+	.byte	0x15
+	.value	0x423
+	.byte	0x7
+	.long	0x2fb
+	.byte	0x30
+	.uleb128 0x4
+	.string	"op"
+	.byte	0x15
+	.value	0x424
+	.byte	0x7
+	.long	0xd82
+	.byte	0x38
+	.uleb128 0x2
+	.long	.LASF215
+	.byte	0x15
+	.value	0x425
+	.byte	0x7
+	.long	0x39bd
+	.byte	0x40
+	.byte	0
+	.uleb128 0x7
+	.long	.LASF304
+	.byte	0x98
+	.byte	0x15
+	.value	0x42d
+	.long	0x44e1
+	.uleb128 0x4
+	.string	"hdr"
+	.byte	0x15
+	.value	0x42e
+	.byte	0x11
+	.long	0x366a
+	.byte	0
+	.uleb128 0x2
+	.long	.LASF200
+	.byte	0x15
+	.value	0x42f
+	.byte	0x7
+	.long	0x2fb
+	.byte	0x30
+	.uleb128 0x4
+	.string	"op"
+	.byte	0x15
+	.value	0x430
+	.byte	0x7
+	.long	0xd82
+	.byte	0x38
+	.uleb128 0x4
+	.string	"env"
+	.byte	0x15
+	.value	0x431
+	.byte	0x7
+	.long	0xd82
+	.byte	0x40
+	.uleb128 0x2
+	.long	.LASF215
+	.byte	0x15
+	.value	0x432
+	.byte	0x7
+	.long	0x39bd
+	.byte	0x48
+	.byte	0
+	.uleb128 0x7
+	.long	.LASF305
+	.byte	0x50
+	.byte	0x15
+	.value	0x438
+	.long	0x4535
+	.uleb128 0x4
+	.string	"hdr"
+	.byte	0x15
+	.value	0x439
+	.byte	0x11
+	.long	0x366a
+	.byte	0
+	.uleb128 0x2
+	.long	.LASF636
+	.byte	0x15
+	.value	0x43a
+	.byte	0x7
+	.long	0xd82
+	.byte	0x30
+	.uleb128 0x4
+	.string	"fmt"
+	.byte	0x15
+	.value	0x43b
+	.byte	0x7
+	.long	0x2fb
+	.byte	0x38
+	.uleb128 0x2
+	.long	.LASF637
+	.byte	0x15
+	.value	0x43c
+	.byte	0x7
+	.long	0x2fb
+	.byte	0x40
+	.uleb128 0x2
+	.long	.LASF638
+	.byte	0x15
+	.value	0x43d
+	.byte	0x7
+	.long	0xd82
+	.byte	0x48
+	.byte	0
+	.uleb128 0x7
+	.long	.LASF306
+	.byte	0x58
+	.byte	0x15
+	.value	0x443
+	.long	0x4597
+	.uleb128 0x4
+	.string	"hdr"
+	.byte	0x15
+	.value	0x444
+	.byte	0x11
+	.long	0x366a
+	.byte	0
+	.uleb128 0x2
+	.long	.LASF627
+	.byte	0x15
+	.value	0x445
+	.byte	0x7
+	.long	0xd82
+	.byte	0x30
+	.uleb128 0x4
+	.string	"env"
+	.byte	0x15
+	.value	0x446
+	.byte	0x7
+	.long	0xd82
+	.byte	0x38
+	.uleb128 0x4
+	.string	"fmt"
+	.byte	0x15
+	.value	0x447
+	.byte	0x7
+	.long	0x2fb
+	.byte	0x40
+	.uleb128 0x2
+	.long	.LASF637
+	.byte	0x15
+	.value	0x448
+	.byte	0x7
+	.long	0x2fb
+	.byte	0x48
+	.uleb128 0x2
+	.long	.LASF638
+	.byte	0x15
+	.value	0x449
+	.byte	0x7
+	.long	0xd82
+	.byte	0x50
+	.byte	0
+	.uleb128 0x7
+	.long	.LASF295
+	.byte	0x88
+	.byte	0x15
+	.value	0x44f
+	.long	0x45ce
+	.uleb128 0x4
+	.string	"hdr"
+	.byte	0x15
+	.value	0x450
+	.byte	0x11
+	.long	0x366a
+	.byte	0
+	.uleb128 0x4
+	.string	"op"
+	.byte	0x15
+	.value	0x451
+	.byte	0x7
+	.long	0xd82
+	.byte	0x30
+	.uleb128 0x2
+	.long	.LASF215
+	.byte	0x15
+	.value	0x452
+	.byte	0x7
+	.long	0x3975
+	.byte	0x38
+	.byte	0
+	.uleb128 0x7
+	.long	.LASF312
+	.byte	0x40
+	.byte	0x15
+	.value	0x457
+	.long	0x4606
+	.uleb128 0x4
+	.string	"hdr"
+	.byte	0x15
+	.value	0x458
+	.byte	0x11
+	.long	0x366a
+	.byte	0
+	.uleb128 0x2
+	.long	.LASF345
+	.byte	0x15
+	.value	0x459
+	.byte	0x7
+	.long	0xd82
+	.byte	0x30
+	.uleb128 0x2
+	.long	.LASF639
+	.byte	0x15
+	.value	0x45a
+	.byte	0x7
+	.long	0xd82
+	.byte	0x38
+	.byte	0
+	.uleb128 0x7
+	.long	.LASF307
+	.byte	0x40
+	.byte	0x15
+	.value	0x461
+	.long	0x463e
+	.uleb128 0x4
+	.string	"hdr"
+	.byte	0x15
+	.value	0x462
+	.byte	0x11
+	.long	0x366a
+	.byte	0
+	.uleb128 0x2
+	.long	.LASF613
+	.byte	0x15
+	.value	0x463
+	.byte	0x7
+	.long	0x2fb
+	.byte	0x30
+	.uleb128 0x2
+	.long	.LASF232
+	.byte	0x15
+	.value	0x464
+	.byte	0x7
+	.long	0xd82
+	.byte	0x38
+	.byte	0
+	.uleb128 0x7
+	.long	.LASF308
+	.byte	0x30
+	.byte	0x15
+	.value	0x469
+	.long	0x465a
+	.uleb128 0x4
+	.string	"hdr"
+	.byte	0x15
+	.value	0x46a
+	.byte	0x11
+	.long	0x366a
+	.byte	0
+	.byte	0
+	.uleb128 0x7
+	.long	.LASF309
+	.byte	0x40
+	.byte	0x15
+	.value	0x46f
+	.long	0x4692
+	.uleb128 0x4
+	.string	"hdr"
+	.byte	0x15
+	.value	0x470
+	.byte	0x11
+	.long	0x366a
+	.byte	0
+	.uleb128 0x2
+	.long	.LASF613
+	.byte	0x15
+	.value	0x471
+	.byte	0x7
+	.long	0x2fb
+	.byte	0x30
+	.uleb128 0x2
+	.long	.LASF572
+	.byte	0x15
+	.value	0x472
+	.byte	0x7
+	.long	0xd82
+	.byte	0x38
+	.byte	0
+	.uleb128 0x7
+	.long	.LASF311
+	.byte	0x80
+	.byte	0x15
+	.value	0x476
+	.long	0x46bc
+	.uleb128 0x4
+	.string	"hdr"
+	.byte	0x15
+	.value	0x477
+	.byte	0x11
+	.long	0x366a
+	.byte	0
+	.uleb128 0x2
+	.long	.LASF215
+	.byte	0x15
+	.value	0x478
+	.byte	0x7
+	.long	0x39bd
+	.byte	0x30
+	.byte	0
+	.uleb128 0x7
+	.long	.LASF313
+	.byte	0x38
+	.byte	0x15
+	.value	0x47b
+	.long	0x46e6
+	.uleb128 0x4
+	.string	"hdr"
+	.byte	0x15
+	.value	0x47c
+	.byte	0x11
+	.long	0x366a
+	.byte	0
+	.uleb128 0x2
+	.long	.LASF640
+	.byte	0x15
+	.value	0x47d
+	.byte	0x7
+	.long	0xd82
+	.byte	0x30
+	.byte	0
+	.uleb128 0x7
+	.long	.LASF314
+	.byte	0x38
+	.byte	0x15
+	.value	0x482
+	.long	0x4710
+	.uleb128 0x4
+	.string	"hdr"
+	.byte	0x15
+	.value	0x483
+	.byte	0x11
+	.long	0x366a
+	.byte	0
+	.uleb128 0x2
+	.long	.LASF640
+	.byte	0x15
+	.value	0x484
+	.byte	0x7
+	.long	0xd82
+	.byte	0x30
+	.byte	0
+	.uleb128 0x7
+	.long	.LASF315
+	.byte	0x38
+	.byte	0x15
+	.value	0x489
+	.long	0x473a
+	.uleb128 0x4
+	.string	"hdr"
+	.byte	0x15
+	.value	0x48a
+	.byte	0x11
+	.long	0x366a
+	.byte	0
+	.uleb128 0x2
+	.long	.LASF566
+	.byte	0x15
+	.value	0x48b
+	.byte	0x7
+	.long	0x2fb
+	.byte	0x30
+	.byte	0
+	.uleb128 0x7
+	.long	.LASF316
+	.byte	0x40
+	.byte	0x15
+	.value	0x490
+	.long	0x4772
+	.uleb128 0x4
+	.string	"hdr"
+	.byte	0x15
+	.value	0x491
+	.byte	0x11
+	.long	0x366a
+	.byte	0
+	.uleb128 0x4
+	.string	"tag"
+	.byte	0x15
+	.value	0x492
+	.byte	0x7
+	.long	0xd82
+	.byte	0x30
+	.uleb128 0x4
+	.string	"val"
+	.byte	0x15
+	.value	0x493
+	.byte	0x7
+	.long	0xd82
+	.byte	0x38
+	.byte	0
+	.uleb128 0x7
+	.long	.LASF317
+	.byte	0x40
+	.byte	0x15
+	.value	0x498
+	.long	0x47aa
+	.uleb128 0x4
+	.string	"hdr"
+	.byte	0x15
+	.value	0x499
+	.byte	0x11
+	.long	0x366a
+	.byte	0
+	.uleb128 0x4
+	.string	"ref"
+	.byte	0x15
+	.value	0x49a
+	.byte	0x7
+	.long	0xd82
+	.byte	0x30
+	.uleb128 0x2
+	.long	.LASF568
+	.byte	0x15
+	.value	0x49b
+	.byte	0x7
+	.long	0xd82
+	.byte	0x38
+	.byte	0
+	.uleb128 0x7
+	.long	.LASF318
+	.byte	0x48
+	.byte	0x15
+	.value	0x4a0
+	.long	0x47f0
+	.uleb128 0x4
+	.string	"hdr"
+	.byte	0x15
+	.value	0x4a1
+	.byte	0x11
+	.long	0x366a
+	.byte	0
+	.uleb128 0x4
+	.string	"val"
+	.byte	0x15
+	.value	0x4a2
+	.byte	0x7
+	.long	0xd82
+	.byte	0x30
+	.uleb128 0x2
+	.long	.LASF568
+	.byte	0x15
+	.value	0x4a3
+	.byte	0x7
+	.long	0xd82
+	.byte	0x38
+	.uleb128 0x2
+	.long	.LASF641
+	.byte	0x15
+	.value	0x4a4
+	.byte	0x7
+	.long	0xd82
+	.byte	0x40
+	.byte	0
+	.uleb128 0x7
+	.long	.LASF319
+	.byte	0x38
+	.byte	0x15
+	.value	0x4a9
+	.long	0x481a
+	.uleb128 0x4
+	.string	"hdr"
+	.byte	0x15
+	.value	0x4aa
+	.byte	0x11
+	.long	0x366a
+	.byte	0
+	.uleb128 0x2
+	.long	.LASF572
+	.byte	0x15
+	.value	0x4ab
+	.byte	0x7
+	.long	0xd82
+	.byte	0x30
+	.byte	0
+	.uleb128 0xe
+	.long	.LASF642
+	.byte	0x10
+	.byte	0x18
+	.byte	0x14
+	.byte	0x10
+	.long	0x4842
+	.uleb128 0x3
+	.long	.LASF367
+	.byte	0x18
+	.byte	0x14
+	.byte	0x28
+	.long	0x363
+	.byte	0
+	.uleb128 0x3
+	.long	.LASF91
+	.byte	0x18
+	.byte	0x14
+	.byte	0x46
+	.long	0x4842
+	.byte	0x8
+	.byte	0
+	.uleb128 0x5
+	.long	0x481a
+	.uleb128 0xb
+	.long	.LASF643
+	.byte	0x18
+	.byte	0x14
+	.byte	0x4f
+	.long	0x4842
+	.uleb128 0x22
+	.long	.LASF644
+	.value	0x140
+	.byte	0x18
+	.byte	0x14
+	.byte	0x62
+	.long	0x4a96
+	.uleb128 0x3
+	.long	.LASF385
+	.byte	0x18
+	.byte	0x14
+	.byte	0x86
+	.long	0x4aaf
+	.byte	0
+	.uleb128 0x3
+	.long	.LASF386
+	.byte	0x18
+	.byte	0x14
+	.byte	0xaf
+	.long	0x4ac3
+	.byte	0x8
+	.uleb128 0x3
+	.long	.LASF387
+	.byte	0x18
+	.byte	0x14
+	.byte	0xd1
+	.long	0x4ad8
+	.byte	0x10
+	.uleb128 0x3
+	.long	.LASF388
+	.byte	0x18
+	.byte	0x14
+	.byte	0xf2
+	.long	0x4aec
+	.byte	0x18
+	.uleb128 0xa
+	.long	.LASF389
+	.byte	0x18
+	.byte	0x14
+	.value	0x116
+	.long	0x4b01
+	.byte	0x20
+	.uleb128 0xa
+	.long	.LASF390
+	.byte	0x18
+	.byte	0x14
+	.value	0x136
+	.long	0x4b38
+	.byte	0x28
+	.uleb128 0xa
+	.long	.LASF391
+	.byte	0x18
+	.byte	0x14
+	.value	0x17c
+	.long	0x4b5b
+	.byte	0x30
+	.uleb128 0xa
+	.long	.LASF392
+	.byte	0x18
+	.byte	0x14
+	.value	0x1c7
+	.long	0x4b6f
+	.byte	0x38
+	.uleb128 0xa
+	.long	.LASF393
+	.byte	0x18
+	.byte	0x14
+	.value	0x1e6
+	.long	0x4b7f
+	.byte	0x40
+	.uleb128 0xa
+	.long	.LASF394
+	.byte	0x18
+	.byte	0x14
+	.value	0x207
+	.long	0x4b98
+	.byte	0x48
+	.uleb128 0xa
+	.long	.LASF395
+	.byte	0x18
+	.byte	0x14
+	.value	0x230
+	.long	0x4bbd
+	.byte	0x50
+	.uleb128 0xa
+	.long	.LASF396
+	.byte	0x18
+	.byte	0x14
+	.value	0x26a
+	.long	0x4bdb
+	.byte	0x58
+	.uleb128 0xa
+	.long	.LASF397
+	.byte	0x18
+	.byte	0x14
+	.value	0x2b4
+	.long	0x4c0d
+	.byte	0x60
+	.uleb128 0x1f
+	.string	"Elt"
+	.byte	0x18
+	.byte	0x14
+	.value	0x2fc
+	.long	0x4c26
+	.byte	0x68
+	.uleb128 0xa
+	.long	.LASF398
+	.byte	0x18
+	.byte	0x14
+	.value	0x324
+	.long	0x4c3f
+	.byte	0x70
+	.uleb128 0xa
+	.long	.LASF399
+	.byte	0x18
+	.byte	0x14
+	.value	0x34d
+	.long	0x4b6f
+	.byte	0x78
+	.uleb128 0xa
+	.long	.LASF400
+	.byte	0x18
+	.byte	0x14
+	.value	0x36e
+	.long	0x4c53
+	.byte	0x80
+	.uleb128 0xa
+	.long	.LASF401
+	.byte	0x18
+	.byte	0x14
+	.value	0x38c
+	.long	0x4c6c
+	.byte	0x88
+	.uleb128 0xa
+	.long	.LASF402
+	.byte	0x18
+	.byte	0x14
+	.value	0x3b3
+	.long	0x4c6c
+	.byte	0x90
+	.uleb128 0xa
+	.long	.LASF403
+	.byte	0x18
+	.byte	0x14
+	.value	0x3db
+	.long	0x4c6c
+	.byte	0x98
+	.uleb128 0xa
+	.long	.LASF404
+	.byte	0x18
+	.byte	0x14
+	.value	0x408
+	.long	0x4b6f
+	.byte	0xa0
+	.uleb128 0xa
+	.long	.LASF405
+	.byte	0x18
+	.byte	0x14
+	.value	0x429
+	.long	0x4b98
+	.byte	0xa8
+	.uleb128 0xa
+	.long	.LASF406
+	.byte	0x18
+	.byte	0x14
+	.value	0x458
+	.long	0x4c99
+	.byte	0xb0
+	.uleb128 0xa
+	.long	.LASF407
+	.byte	0x18
+	.byte	0x14
+	.value	0x493
+	.long	0x4cb7
+	.byte	0xb8
+	.uleb128 0x1f
+	.string	"Map"
+	.byte	0x18
+	.byte	0x14
+	.value	0x4dc
+	.long	0x4cd0
+	.byte	0xc0
+	.uleb128 0xa
+	.long	.LASF408
+	.byte	0x18
+	.byte	0x14
+	.value	0x511
+	.long	0x4cd0
+	.byte	0xc8
+	.uleb128 0xa
+	.long	.LASF409
+	.byte	0x18
+	.byte	0x14
+	.value	0x547
+	.long	0x4b6f
+	.byte	0xd0
+	.uleb128 0xa
+	.long	.LASF410
+	.byte	0x18
+	.byte	0x14
+	.value	0x56b
+	.long	0x4b6f
+	.byte	0xd8
+	.uleb128 0xa
+	.long	.LASF411
+	.byte	0x18
+	.byte	0x14
+	.value	0x590
+	.long	0x4b98
+	.byte	0xe0
+	.uleb128 0xa
+	.long	.LASF412
+	.byte	0x18
+	.byte	0x14
+	.value	0x5bf
+	.long	0x4b98
+	.byte	0xe8
+	.uleb128 0xa
+	.long	.LASF413
+	.byte	0x18
+	.byte	0x14
+	.value	0x5e9
+	.long	0x4ce9
+	.byte	0xf0
+	.uleb128 0xa
+	.long	.LASF414
+	.byte	0x18
+	.byte	0x14
+	.value	0x60c
+	.long	0x4d07
+	.byte	0xf8
+	.uleb128 0xf
+	.long	.LASF415
+	.byte	0x18
+	.byte	0x14
+	.value	0x64c
+	.long	0x4d20
+	.value	0x100
+	.uleb128 0xf
+	.long	.LASF416
+	.byte	0x18
+	.byte	0x14
+	.value	0x67a
+	.long	0x4d39
+	.value	0x108
+	.uleb128 0xf
+	.long	.LASF417
+	.byte	0x18
+	.byte	0x14
+	.value	0x69c
+	.long	0x4d57
+	.value	0x110
+	.uleb128 0xf
+	.long	.LASF418
+	.byte	0x18
+	.byte	0x14
+	.value	0x6e4
+	.long	0x4d75
+	.value	0x118
+	.uleb128 0xf
+	.long	.LASF419
+	.byte	0x18
+	.byte	0x14
+	.value	0x725
+	.long	0x4d8f
+	.value	0x120
+	.uleb128 0xf
+	.long	.LASF420
+	.byte	0x18
+	.byte	0x14
+	.value	0x74f
+	.long	0x4dc6
+	.value	0x128
+	.uleb128 0xf
+	.long	.LASF421
+	.byte	0x18
+	.byte	0x14
+	.value	0x78e
+	.long	0x4df3
+	.value	0x130
+	.uleb128 0xf
+	.long	.LASF422
+	.byte	0x18
+	.byte	0x14
+	.value	0x7e6
+	.long	0x4e11
+	.value	0x138
+	.byte	0
+	.uleb128 0x20
+	.long	0x4853
+	.uleb128 0x9
+	.long	0x4847
+	.long	0x4aaf
+	.uleb128 0x1
+	.long	0x363
+	.uleb128 0x1
+	.long	0x4847
+	.byte	0
+	.uleb128 0x5
+	.long	0x4a9b
+	.uleb128 0x9
+	.long	0x4847
+	.long	0x4ac3
+	.uleb128 0x1
+	.long	0x363
+	.byte	0
+	.uleb128 0x5
+	.long	0x4ab4
+	.uleb128 0x9
+	.long	0x4847
+	.long	0x4ad8
+	.uleb128 0x1
+	.long	0x2e
+	.uleb128 0x19
+	.byte	0
+	.uleb128 0x5
+	.long	0x4ac8
+	.uleb128 0x9
+	.long	0x4847
+	.long	0x4aec
+	.uleb128 0x1
+	.long	0x4e5
+	.byte	0
+	.uleb128 0x5
+	.long	0x4add
+	.uleb128 0x9
+	.long	0x4847
+	.long	0x4b01
+	.uleb128 0x1
+	.long	0x363
+	.uleb128 0x19
+	.byte	0
+	.uleb128 0x5
+	.long	0x4af1
+	.uleb128 0x9
+	.long	0x322
+	.long	0x4b1f
+	.uleb128 0x1
+	.long	0x4847
+	.uleb128 0x1
+	.long	0x4847
+	.uleb128 0x1
+	.long	0x4b1f
+	.byte	0
+	.uleb128 0x5
+	.long	0x4b24
+	.uleb128 0x9
+	.long	0x322
+	.long	0x4b38
+	.uleb128 0x1
+	.long	0x363
+	.uleb128 0x1
+	.long	0x363
+	.byte	0
+	.uleb128 0x5
+	.long	0x4b06
+	.uleb128 0x9
+	.long	0x363
+	.long	0x4b5b
+	.uleb128 0x1
+	.long	0x4847
+	.uleb128 0x1
+	.long	0x363
+	.uleb128 0x1
+	.long	0x4b1f
+	.uleb128 0x1
+	.long	0x4ea
+	.byte	0
+	.uleb128 0x5
+	.long	0x4b3d
+	.uleb128 0x9
+	.long	0x4847
+	.long	0x4b6f
+	.uleb128 0x1
+	.long	0x4847
+	.byte	0
+	.uleb128 0x5
+	.long	0x4b60
+	.uleb128 0x15
+	.long	0x4b7f
+	.uleb128 0x1
+	.long	0x4847
+	.byte	0
+	.uleb128 0x5
+	.long	0x4b74
+	.uleb128 0x9
+	.long	0x4847
+	.long	0x4b98
+	.uleb128 0x1
+	.long	0x4847
+	.uleb128 0x1
+	.long	0x4847
+	.byte	0
+	.uleb128 0x5
+	.long	0x4b84
+	.uleb128 0x15
+	.long	0x4bad
+	.uleb128 0x1
+	.long	0x4847
+	.uleb128 0x1
+	.long	0x4bad
+	.byte	0
+	.uleb128 0x5
+	.long	0x4bb2
+	.uleb128 0x15
+	.long	0x4bbd
+	.uleb128 0x1
+	.long	0x363
+	.byte	0
+	.uleb128 0x5
+	.long	0x4b9d
+	.uleb128 0x9
+	.long	0x4847
+	.long	0x4bdb
+	.uleb128 0x1
+	.long	0x4847
+	.uleb128 0x1
+	.long	0x4847
+	.uleb128 0x1
+	.long	0x4bad
+	.byte	0
+	.uleb128 0x5
+	.long	0x4bc2
+	.uleb128 0x9
+	.long	0x4847
+	.long	0x4bf9
+	.uleb128 0x1
+	.long	0x4847
+	.uleb128 0x1
+	.long	0x4bad
+	.uleb128 0x1
+	.long	0x4bf9
+	.byte	0
+	.uleb128 0x5
+	.long	0x4bfe
+	.uleb128 0x9
+	.long	0x322
+	.long	0x4c0d
+	.uleb128 0x1
+	.long	0x363
+	.byte	0
+	.uleb128 0x5
+	.long	0x4be0
+	.uleb128 0x9
+	.long	0x363
+	.long	0x4c26
+	.uleb128 0x1
+	.long	0x4847
+	.uleb128 0x1
+	.long	0x33c
+	.byte	0
+	.uleb128 0x5
+	.long	0x4c12
+	.uleb128 0x9
+	.long	0x4847
+	.long	0x4c3f
+	.uleb128 0x1
+	.long	0x4847
+	.uleb128 0x1
+	.long	0x33c
+	.byte	0
+	.uleb128 0x5
+	.long	0x4c2b
+	.uleb128 0x9
+	.long	0x33c
+	.long	0x4c53
+	.uleb128 0x1
+	.long	0x4847
+	.byte	0
+	.uleb128 0x5
+	.long	0x4c44
+	.uleb128 0x9
+	.long	0x322
+	.long	0x4c6c
+	.uleb128 0x1
+	.long	0x4847
+	.uleb128 0x1
+	.long	0x33c
+	.byte	0
+	.uleb128 0x5
+	.long	0x4c58
+	.uleb128 0x9
+	.long	0x4847
+	.long	0x4c85
+	.uleb128 0x1
+	.long	0x4847
+	.uleb128 0x1
+	.long	0x4c85
+	.byte	0
+	.uleb128 0x5
+	.long	0x4c8a
+	.uleb128 0x9
+	.long	0x363
+	.long	0x4c99
+	.uleb128 0x1
+	.long	0x363
+	.byte	0
+	.uleb128 0x5
+	.long	0x4c71
+	.uleb128 0x9
+	.long	0x4847
+	.long	0x4cb7
+	.uleb128 0x1
+	.long	0x4847
+	.uleb128 0x1
+	.long	0x4847
+	.uleb128 0x1
+	.long	0x4c85
+	.byte	0
+	.uleb128 0x5
+	.long	0x4c9e
+	.uleb128 0x9
+	.long	0x4847
+	.long	0x4cd0
+	.uleb128 0x1
+	.long	0x4c85
+	.uleb128 0x1
+	.long	0x4847
+	.byte	0
+	.uleb128 0x5
+	.long	0x4cbc
+	.uleb128 0x9
+	.long	0x322
+	.long	0x4ce9
+	.uleb128 0x1
+	.long	0x4847
+	.uleb128 0x1
+	.long	0x363
+	.byte	0
+	.uleb128 0x5
+	.long	0x4cd5
+	.uleb128 0x9
+	.long	0x322
+	.long	0x4d07
+	.uleb128 0x1
+	.long	0x4847
+	.uleb128 0x1
+	.long	0x363
+	.uleb128 0x1
+	.long	0x4b1f
+	.byte	0
+	.uleb128 0x5
+	.long	0x4cee
+	.uleb128 0x9
+	.long	0x322
+	.long	0x4d20
+	.uleb128 0x1
+	.long	0x4847
+	.uleb128 0x1
+	.long	0x4847
+	.byte	0
+	.uleb128 0x5
+	.long	0x4d0c
+	.uleb128 0x9
+	.long	0x2e
+	.long	0x4d39
+	.uleb128 0x1
+	.long	0x4847
+	.uleb128 0x1
+	.long	0x363
+	.byte	0
+	.uleb128 0x5
+	.long	0x4d25
+	.uleb128 0x9
+	.long	0x2e
+	.long	0x4d57
+	.uleb128 0x1
+	.long	0x4847
+	.uleb128 0x1
+	.long	0x363
+	.uleb128 0x1
+	.long	0x4b1f
+	.byte	0
+	.uleb128 0x5
+	.long	0x4d3e
+	.uleb128 0x9
+	.long	0x4847
+	.long	0x4d75
+	.uleb128 0x1
+	.long	0x4847
+	.uleb128 0x1
+	.long	0x363
+	.uleb128 0x1
+	.long	0x4b1f
+	.byte	0
+	.uleb128 0x5
+	.long	0x4d5c
+	.uleb128 0x15
+	.long	0x4d8a
+	.uleb128 0x1
+	.long	0x4d8a
+	.uleb128 0x1
+	.long	0x4847
+	.byte	0
+	.uleb128 0x5
+	.long	0x363
+	.uleb128 0x5
+	.long	0x4d7a
+	.uleb128 0x9
+	.long	0x2e
+	.long	0x4dad
+	.uleb128 0x1
+	.long	0x2c3
+	.uleb128 0x1
+	.long	0x4847
+	.uleb128 0x1
+	.long	0x4dad
+	.byte	0
+	.uleb128 0x5
+	.long	0x4db2
+	.uleb128 0x9
+	.long	0x2e
+	.long	0x4dc6
+	.uleb128 0x1
+	.long	0x2c3
+	.uleb128 0x1
+	.long	0x363
+	.byte	0
+	.uleb128 0x5
+	.long	0x4d94
+	.uleb128 0x9
+	.long	0x2e
+	.long	0x4df3
+	.uleb128 0x1
+	.long	0x2c3
+	.uleb128 0x1
+	.long	0x4847
+	.uleb128 0x1
+	.long	0x4dad
+	.uleb128 0x1
+	.long	0x80
+	.uleb128 0x1
+	.long	0x80
+	.uleb128 0x1
+	.long	0x80
+	.byte	0
+	.uleb128 0x5
+	.long	0x4dcb
+	.uleb128 0x9
+	.long	0x2e
+	.long	0x4e11
+	.uleb128 0x1
+	.long	0x3df
+	.uleb128 0x1
+	.long	0x370
+	.uleb128 0x1
+	.long	0x4847
+	.byte	0
+	.uleb128 0x5
+	.long	0x4df8
+	.uleb128 0x28
+	.long	.LASF645
+	.byte	0x18
+	.byte	0x14
+	.value	0x83b
+	.long	0x4e23
+	.uleb128 0x5
+	.long	0x4a96
+	.uleb128 0x12
+	.long	.LASF646
+	.byte	0x19
+	.byte	0x27
+	.byte	0xe
+	.long	0x2c3
+	.uleb128 0xe
+	.long	.LASF647
+	.byte	0x18
+	.byte	0x16
+	.byte	0x33
+	.byte	0x8
+	.long	0x4e69
+	.uleb128 0x3
+	.long	.LASF320
+	.byte	0x16
+	.byte	0x34
+	.byte	0x8
+	.long	0x2d4
+	.byte	0
+	.uleb128 0x3
+	.long	.LASF327
+	.byte	0x16
+	.byte	0x35
+	.byte	0x9
+	.long	0x349
+	.byte	0x8
+	.uleb128 0x3
+	.long	.LASF648
+	.byte	0x16
+	.byte	0x36
+	.byte	0x9
+	.long	0x349
+	.byte	0x10
+	.byte	0
+	.uleb128 0x22
+	.long	.LASF649
+	.value	0x228
+	.byte	0x16
+	.byte	0x53
+	.byte	0x8
+	.long	0x4ec7
+	.uleb128 0x3
+	.long	.LASF650
+	.byte	0x16
+	.byte	0x54
+	.byte	0x9
+	.long	0x2e1
+	.byte	0
+	.uleb128 0x3
+	.long	.LASF651
+	.byte	0x16
+	.byte	0x55
+	.byte	0x8
+	.long	0x2ee
+	.byte	0x8
+	.uleb128 0x3
+	.long	.LASF652
+	.byte	0x16
+	.byte	0x56
+	.byte	0x8
+	.long	0x2ee
+	.byte	0x10
+	.uleb128 0x3
+	.long	.LASF653
+	.byte	0x16
+	.byte	0x57
+	.byte	0x9
+	.long	0x2e1
+	.byte	0x18
+	.uleb128 0x3
+	.long	.LASF654
+	.byte	0x16
+	.byte	0x59
+	.byte	0x11
+	.long	0x4ec7
+	.byte	0x20
+	.uleb128 0x3a
+	.long	.LASF655
+	.byte	0x16
+	.byte	0x5a
+	.byte	0x9
+	.long	0x4ed7
+	.value	0x200
+	.byte	0
+	.uleb128 0x17
+	.long	0x4e34
+	.long	0x4ed7
+	.uleb128 0x18
+	.long	0x4a
+	.byte	0x13
+	.byte	0
+	.uleb128 0x17
+	.long	0x2e1
+	.long	0x4ee7
+	.uleb128 0x18
+	.long	0x4a
+	.byte	0x13
+	.byte	0
+	.uleb128 0x5
+	.long	0x2ee
+	.uleb128 0x5
+	.long	0x2e1
+	.uleb128 0xe
+	.long	.LASF656
+	.byte	0x18
+	.byte	0x1a
+	.byte	0x7
+	.byte	0x10
+	.long	0x4f26
+	.uleb128 0x3
+	.long	.LASF216
+	.byte	0x1a
+	.byte	0x8
+	.byte	0x7
+	.long	0x1481
+	.byte	0
+	.uleb128 0x3
+	.long	.LASF657
+	.byte	0x1a
+	.byte	0x9
+	.byte	0xc
+	.long	0x15b0
+	.byte	0x8
+	.uleb128 0x3
+	.long	.LASF658
+	.byte	0x1a
+	.byte	0xa
+	.byte	0xa
+	.long	0xa93
+	.byte	0x10
+	.byte	0
+	.uleb128 0xb
+	.long	.LASF659
+	.byte	0x1a
+	.byte	0xb
+	.byte	0x4
+	.long	0x4f32
+	.uleb128 0x5
+	.long	0x4ef1
+	.uleb128 0xe
+	.long	.LASF660
+	.byte	0x10
+	.byte	0x1a
+	.byte	0xd
+	.byte	0x10
+	.long	0x4f5f
+	.uleb128 0x3
+	.long	.LASF367
+	.byte	0x1a
+	.byte	0xd
+	.byte	0x2e
+	.long	0x4f26
+	.byte	0
+	.uleb128 0x3
+	.long	.LASF91
+	.byte	0x1a
+	.byte	0xd
+	.byte	0x4f
+	.long	0x4f5f
+	.byte	0x8
+	.byte	0
+	.uleb128 0x5
+	.long	0x4f37
+	.uleb128 0xb
+	.long	.LASF661
+	.byte	0x1a
+	.byte	0xd
+	.byte	0x58
+	.long	0x4f5f
+	.uleb128 0xe
+	.long	.LASF662
+	.byte	0x18
+	.byte	0x1a
+	.byte	0xf
+	.byte	0x10
+	.long	0x4fa5
+	.uleb128 0x3
+	.long	.LASF663
+	.byte	0x1a
+	.byte	0x10
+	.byte	0x7
+	.long	0x322
+	.byte	0
+	.uleb128 0x3
+	.long	.LASF229
+	.byte	0x1a
+	.byte	0x11
+	.byte	0x10
+	.long	0x4f64
+	.byte	0x8
+	.uleb128 0x3
+	.long	.LASF658
+	.byte	0x1a
+	.byte	0x12
+	.byte	0xa
+	.long	0xa93
+	.byte	0x10
+	.byte	0
+	.uleb128 0xb
+	.long	.LASF664
+	.byte	0x1a
+	.byte	0x13
+	.byte	0x4
+	.long	0x4fb1
+	.uleb128 0x5
+	.long	0x4f70
+	.uleb128 0xe
+	.long	.LASF665
+	.byte	0x10
+	.byte	0x1b
+	.byte	0xc
+	.byte	0x10
+	.long	0x4fde
+	.uleb128 0x3
+	.long	.LASF666
+	.byte	0x1b
+	.byte	0xd
+	.byte	0xd
+	.long	0x23b4
+	.byte	0
+	.uleb128 0x3
+	.long	.LASF220
+	.byte	0x1b
+	.byte	0xe
+	.byte	0xb
+	.long	0x1ca7
+	.byte	0x8
+	.byte	0
+	.uleb128 0xb
+	.long	.LASF665
+	.byte	0x1b
+	.byte	0xf
+	.byte	0x4
+	.long	0x4fea
+	.uleb128 0x5
+	.long	0x4fb6
+	.uleb128 0x5
+	.long	0x33c
+	.uleb128 0xb
+	.long	.LASF667
+	.byte	0x17
+	.byte	0x16
+	.byte	0x1b
+	.long	0x5000
+	.uleb128 0x5
+	.long	0x5005
+	.uleb128 0xe
+	.long	.LASF668
+	.byte	0xb0
+	.byte	0x17
+	.byte	0x1a
+	.byte	0x8
+	.long	0x5164
+	.uleb128 0x3
+	.long	.LASF669
+	.byte	0x17
+	.byte	0x1b
+	.byte	0x8
+	.long	0x2d4
+	.byte	0
+	.uleb128 0x3
+	.long	.LASF670
+	.byte	0x17
+	.byte	0x1c
+	.byte	0x8
+	.long	0x2d4
+	.byte	0x1
+	.uleb128 0x3
+	.long	.LASF671
+	.byte	0x17
+	.byte	0x1d
+	.byte	0x8
+	.long	0x2d4
+	.byte	0x2
+	.uleb128 0x3
+	.long	.LASF672
+	.byte	0x17
+	.byte	0x1e
+	.byte	0x8
+	.long	0x2d4
+	.byte	0x3
+	.uleb128 0x3
+	.long	.LASF673
+	.byte	0x17
+	.byte	0x1f
+	.byte	0x8
+	.long	0x2d4
+	.byte	0x4
+	.uleb128 0x14
+	.string	"tf"
+	.byte	0x17
+	.byte	0x20
+	.byte	0x8
+	.long	0xb82
+	.byte	0x8
+	.uleb128 0x3
+	.long	.LASF674
+	.byte	0x17
+	.byte	0x21
+	.byte	0x8
+	.long	0xd6c
+	.byte	0x10
+	.uleb128 0x3
+	.long	.LASF675
+	.byte	0x17
+	.byte	0x22
+	.byte	0x8
+	.long	0xd6c
+	.byte	0x18
+	.uleb128 0x3
+	.long	.LASF676
+	.byte	0x17
+	.byte	0x23
+	.byte	0x8
+	.long	0xd6c
+	.byte	0x20
+	.uleb128 0x3
+	.long	.LASF228
+	.byte	0x17
+	.byte	0x24
+	.byte	0xc
+	.long	0x1c35
+	.byte	0x28
+	.uleb128 0x3
+	.long	.LASF677
+	.byte	0x17
+	.byte	0x25
+	.byte	0xc
+	.long	0x15b0
+	.byte	0x30
+	.uleb128 0x3
+	.long	.LASF678
+	.byte	0x17
+	.byte	0x26
+	.byte	0xc
+	.long	0x15b0
+	.byte	0x38
+	.uleb128 0x3
+	.long	.LASF679
+	.byte	0x17
+	.byte	0x27
+	.byte	0xd
+	.long	0x1577
+	.byte	0x40
+	.uleb128 0x3
+	.long	.LASF680
+	.byte	0x17
+	.byte	0x28
+	.byte	0x10
+	.long	0x5191
+	.byte	0x48
+	.uleb128 0x3
+	.long	.LASF681
+	.byte	0x17
+	.byte	0x29
+	.byte	0x10
+	.long	0x5191
+	.byte	0x50
+	.uleb128 0x3
+	.long	.LASF682
+	.byte	0x17
+	.byte	0x2a
+	.byte	0x9
+	.long	0x33c
+	.byte	0x58
+	.uleb128 0x3
+	.long	.LASF683
+	.byte	0x17
+	.byte	0x2b
+	.byte	0x9
+	.long	0x33c
+	.byte	0x60
+	.uleb128 0x3
+	.long	.LASF684
+	.byte	0x17
+	.byte	0x2c
+	.byte	0x10
+	.long	0x5191
+	.byte	0x68
+	.uleb128 0x3
+	.long	.LASF685
+	.byte	0x17
+	.byte	0x2d
+	.byte	0x10
+	.long	0x5191
+	.byte	0x70
+	.uleb128 0x3
+	.long	.LASF686
+	.byte	0x17
+	.byte	0x2e
+	.byte	0x9
+	.long	0x33c
+	.byte	0x78
+	.uleb128 0x3
+	.long	.LASF687
+	.byte	0x17
+	.byte	0x2f
+	.byte	0x9
+	.long	0x33c
+	.byte	0x80
+	.uleb128 0x3
+	.long	.LASF688
+	.byte	0x17
+	.byte	0x30
+	.byte	0x7
+	.long	0x322
+	.byte	0x88
+	.uleb128 0x3
+	.long	.LASF689
+	.byte	0x17
+	.byte	0x31
+	.byte	0x10
+	.long	0x5191
+	.byte	0x90
+	.uleb128 0x3
+	.long	.LASF690
+	.byte	0x17
+	.byte	0x32
+	.byte	0x9
+	.long	0x33c
+	.byte	0x98
+	.uleb128 0x3
+	.long	.LASF691
+	.byte	0x17
+	.byte	0x33
+	.byte	0x7
+	.long	0x322
+	.byte	0xa0
+	.uleb128 0x3
+	.long	.LASF692
+	.byte	0x17
+	.byte	0x34
+	.byte	0xc
+	.long	0x4ff4
+	.byte	0xa8
+	.byte	0
+	.uleb128 0xe
+	.long	.LASF693
+	.byte	0x10
+	.byte	0x17
+	.byte	0x18
+	.byte	0x10
+	.long	0x518c
+	.uleb128 0x3
+	.long	.LASF367
+	.byte	0x17
+	.byte	0x18
+	.byte	0x2e
+	.long	0x4ff4
+	.byte	0
+	.uleb128 0x3
+	.long	.LASF91
+	.byte	0x17
+	.byte	0x18
+	.byte	0x4f
+	.long	0x518c
+	.byte	0x8
+	.byte	0
+	.uleb128 0x5
+	.long	0x5164
+	.uleb128 0xb
+	.long	.LASF694
+	.byte	0x17
+	.byte	0x18
+	.byte	0x58
+	.long	0x518c
+	.uleb128 0x3b
+	.byte	0x10
+	.byte	0x17
+	.byte	0x4c
+	.byte	0x2
+	.long	0x51c1
+	.uleb128 0x3
+	.long	.LASF657
+	.byte	0x17
+	.byte	0x4d
+	.byte	0x11
+	.long	0x5191
+	.byte	0
+	.uleb128 0x3
+	.long	.LASF95
+	.byte	0x17
+	.byte	0x4e
+	.byte	0x9
+	.long	0x590
+	.byte	0x8
+	.byte	0
+	.uleb128 0x12
+	.long	.LASF695
+	.byte	0x1c
+	.byte	0x63
+	.byte	0xd
+	.long	0x322
+	.uleb128 0x12
+	.long	.LASF696
+	.byte	0x1c
+	.byte	0x6a
+	.byte	0xd
+	.long	0x322
+	.uleb128 0xb
+	.long	.LASF697
+	.byte	0xe
+	.byte	0xe
+	.byte	0x14
+	.long	0x315
+	.uleb128 0x17
+	.long	0x51d9
+	.long	0x51f5
+	.uleb128 0x18
+	.long	0x4a
+	.byte	0x9
+	.byte	0
+	.uleb128 0x12
+	.long	.LASF698
+	.byte	0x1
+	.byte	0x5b
+	.byte	0xc
+	.long	0x2e
+	.uleb128 0x12
+	.long	.LASF699
+	.byte	0x1
+	.byte	0x5c
+	.byte	0xc
+	.long	0x2e
+	.uleb128 0x12
+	.long	.LASF700
+	.byte	0x1
+	.byte	0x5d
+	.byte	0xc
+	.long	0x2e
+	.uleb128 0x12
+	.long	.LASF701
+	.byte	0x1
+	.byte	0x5e
+	.byte	0xc
+	.long	0x2e
+	.uleb128 0x12
+	.long	.LASF702
+	.byte	0x1
+	.byte	0x5f
+	.byte	0xc
+	.long	0x2e
+	.uleb128 0x12
+	.long	.LASF703
+	.byte	0x1
+	.byte	0x61
+	.byte	0xc
+	.long	0x2e
+	.uleb128 0x12
+	.long	.LASF704
+	.byte	0x1
+	.byte	0x62
+	.byte	0xc
+	.long	0x2e
+	.uleb128 0x12
+	.long	.LASF705
+	.byte	0x1
+	.byte	0x63
+	.byte	0xc
+	.long	0x2e
+	.uleb128 0x12
+	.long	.LASF706
+	.byte	0x1
+	.byte	0x64
+	.byte	0xc
+	.long	0x2e
+	.uleb128 0x12
+	.long	.LASF707
+	.byte	0x1
+	.byte	0x65
+	.byte	0xc
+	.long	0x2e
+	.uleb128 0x12
+	.long	.LASF708
+	.byte	0x1
+	.byte	0x66
+	.byte	0xc
+	.long	0x2e
+	.uleb128 0x12
+	.long	.LASF709
+	.byte	0x1
+	.byte	0x67
+	.byte	0xc
+	.long	0x2e
+	.uleb128 0x1e
+	.long	.LASF710
+	.byte	0x1d
+	.byte	0x4d
+	.byte	0x6
+	.long	0x529c
+	.uleb128 0x1
+	.long	0x1481
+	.uleb128 0x1
+	.long	0x363
+	.byte	0
+	.uleb128 0x10
+	.long	.LASF712
+	.byte	0x1d
+	.byte	0x4c
+	.byte	0x6
+	.long	0xa71
+	.long	0x52b7
+	.uleb128 0x1
+	.long	0x1481
+	.uleb128 0x1
+	.long	0x363
+	.byte	0
+	.uleb128 0x1e
+	.long	.LASF711
+	.byte	0x1d
+	.byte	0x46
+	.byte	0x6
+	.long	0x52c9
+	.uleb128 0x1
+	.long	0x1481
+	.byte	0
+	.uleb128 0x10
+	.long	.LASF713
+	.byte	0x1e
+	.byte	0x27
+	.byte	0xc
+	.long	0x2e
+	.long	0x52df
+	.uleb128 0x1
+	.long	0x1ca7
+	.byte	0
+	.uleb128 0x1b
+	.long	.LASF714
+	.byte	0x14
+	.value	0x177
+	.byte	0x11
+	.long	0x1ca7
+	.long	0x52f6
+	.uleb128 0x1
+	.long	0xb82
+	.byte	0
+	.uleb128 0x10
+	.long	.LASF715
+	.byte	0x17
+	.byte	0x9c
+	.byte	0x11
+	.long	0x1ca7
+	.long	0x5316
+	.uleb128 0x1
+	.long	0x1481
+	.uleb128 0x1
+	.long	0xa93
+	.uleb128 0x1
+	.long	0x650
+	.byte	0
+	.uleb128 0x24
+	.long	.LASF731
+	.byte	0x12
+	.byte	0x24
+	.byte	0x10
+	.long	0xa93
+	.uleb128 0x10
+	.long	.LASF716
+	.byte	0x10
+	.byte	0x29
+	.byte	0xf
+	.long	0x650
+	.long	0x533d
+	.uleb128 0x1
+	.long	0x363
+	.uleb128 0x1
+	.long	0x2e
+	.byte	0
+	.uleb128 0x1b
+	.long	.LASF717
+	.byte	0x14
+	.value	0x16b
+	.byte	0x11
+	.long	0x1ca7
+	.long	0x5354
+	.uleb128 0x1
+	.long	0xb82
+	.byte	0
+	.uleb128 0x10
+	.long	.LASF718
+	.byte	0x1d
+	.byte	0x41
+	.byte	0x7
+	.long	0x69d
+	.long	0x536a
+	.uleb128 0x1
+	.long	0x363
+	.byte	0
+	.uleb128 0x1b
+	.long	.LASF719
+	.byte	0x13
+	.value	0x138
+	.byte	0xe
+	.long	0xb82
+	.long	0x5381
+	.uleb128 0x1
+	.long	0xad5
+	.byte	0
+	.uleb128 0x1b
+	.long	.LASF720
+	.byte	0x14
+	.value	0x153
+	.byte	0x11
+	.long	0x1ca7
+	.long	0x5398
+	.uleb128 0x1
+	.long	0xb82
+	.byte	0
+	.uleb128 0x10
+	.long	.LASF721
+	.byte	0x1f
+	.byte	0x26
+	.byte	0xc
+	.long	0x2e
+	.long	0x53b4
+	.uleb128 0x1
+	.long	0x2c3
+	.uleb128 0x1
+	.long	0x2cf
+	.uleb128 0x19
+	.byte	0
+	.uleb128 0x1e
+	.long	.LASF722
+	.byte	0x20
+	.byte	0xe
+	.byte	0xd
+	.long	0x53cb
+	.uleb128 0x1
+	.long	0x1481
+	.uleb128 0x1
+	.long	0xa71
+	.byte	0
+	.uleb128 0x10
+	.long	.LASF723
+	.byte	0x1e
+	.byte	0x23
+	.byte	0xc
+	.long	0x2e
+	.long	0x53e1
+	.uleb128 0x1
+	.long	0xad5
+	.byte	0
+	.uleb128 0x1b
+	.long	.LASF724
+	.byte	0x14
+	.value	0x12b
+	.byte	0xe
+	.long	0xb82
+	.long	0x53fd
+	.uleb128 0x1
+	.long	0x1481
+	.uleb128 0x1
+	.long	0xa71
+	.byte	0
+	.uleb128 0x1b
+	.long	.LASF725
+	.byte	0x11
+	.value	0x3b8
+	.byte	0xe
+	.long	0x69d
+	.long	0x541f
+	.uleb128 0x1
+	.long	0x25c0
+	.uleb128 0x1
+	.long	0x51b
+	.uleb128 0x1
+	.long	0x33c
+	.uleb128 0x19
+	.byte	0
+	.uleb128 0x1b
+	.long	.LASF726
+	.byte	0x11
+	.value	0x3cb
+	.byte	0xe
+	.long	0x69d
+	.long	0x5436
+	.uleb128 0x1
+	.long	0xad5
+	.byte	0
+	.uleb128 0x10
+	.long	.LASF727
+	.byte	0x1d
+	.byte	0x48
+	.byte	0x6
+	.long	0xad5
+	.long	0x5451
+	.uleb128 0x1
+	.long	0x1481
+	.uleb128 0x1
+	.long	0x363
+	.byte	0
+	.uleb128 0x10
+	.long	.LASF728
+	.byte	0x1d
+	.byte	0x42
+	.byte	0xb
+	.long	0x15b0
+	.long	0x5467
+	.uleb128 0x1
+	.long	0x4847
+	.byte	0
+	.uleb128 0x10
+	.long	.LASF729
+	.byte	0x1c
+	.byte	0x4a
+	.byte	0x11
+	.long	0x1ca7
+	.long	0x5491
+	.uleb128 0x1
+	.long	0x1481
+	.uleb128 0x1
+	.long	0x69d
+	.uleb128 0x1
+	.long	0xb82
+	.uleb128 0x1
+	.long	0xb82
+	.uleb128 0x1
+	.long	0x22ca
+	.byte	0
+	.uleb128 0x1e
+	.long	.LASF730
+	.byte	0x21
+	.byte	0x8
+	.byte	0x6
+	.long	0x54ad
+	.uleb128 0x1
+	.long	0x363
+	.uleb128 0x1
+	.long	0x2e
+	.uleb128 0x1
+	.long	0x2e
+	.byte	0
+	.uleb128 0x24
+	.long	.LASF732
+	.byte	0x22
+	.byte	0x49
+	.byte	0xc
+	.long	0x2e
+	.uleb128 0x1b
+	.long	.LASF733
+	.byte	0x11
+	.value	0x3ce
+	.byte	0xc
+	.long	0x2e
+	.long	0x54d0
+	.uleb128 0x1
+	.long	0x69d
+	.byte	0
+	.uleb128 0x1b
+	.long	.LASF734
+	.byte	0x11
+	.value	0x3b9
+	.byte	0xe
+	.long	0x69d
+	.long	0x54f1
+	.uleb128 0x1
+	.long	0x25c0
+	.uleb128 0x1
+	.long	0x51b
+	.uleb128 0x1
+	.long	0x15b0
+	.byte	0
+	.uleb128 0x2a
+	.long	.LASF735
+	.byte	0x1
+	.byte	0x2b
+	.long	0x69d
+	.long	0x5502
+	.uleb128 0x19
+	.byte	0
+	.uleb128 0x10
+	.long	.LASF736
+	.byte	0x1d
+	.byte	0x2e
+	.byte	0xe
+	.long	0x69d
+	.long	0x551d
+	.uleb128 0x1
+	.long	0x69d
+	.uleb128 0x1
+	.long	0x69d
+	.byte	0
+	.uleb128 0x10
+	.long	.LASF737
+	.byte	0x1
+	.byte	0x69
+	.byte	0x7
+	.long	0x69d
+	.long	0x5542
+	.uleb128 0x1
+	.long	0x363
+	.uleb128 0x1
+	.long	0x69d
+	.uleb128 0x1
+	.long	0x69d
+	.uleb128 0x1
+	.long	0x69d
+	.byte	0
+	.uleb128 0x10
+	.long	.LASF738
+	.byte	0x1d
+	.byte	0x2a
+	.byte	0xe
+	.long	0x69d
+	.long	0x555d
+	.uleb128 0x1
+	.long	0x69d
+	.uleb128 0x1
+	.long	0x69d
+	.byte	0
+	.uleb128 0x2b
+	.string	"_if"
+	.byte	0x3f
+	.byte	0x7
+	.long	0x69d
+	.long	0x557c
+	.uleb128 0x1
+	.long	0x69d
+	.uleb128 0x1
+	.long	0x69d
+	.uleb128 0x1
+	.long	0x69d
+	.byte	0
+	.uleb128 0x2b
+	.string	"has"
+	.byte	0x2d
+	.byte	0xe
+	.long	0x69d
+	.long	0x5596
+	.uleb128 0x1
+	.long	0x69d
+	.uleb128 0x1
+	.long	0x69d
+	.byte	0
+	.uleb128 0x10
+	.long	.LASF739
+	.byte	0x1d
+	.byte	0x2f
+	.byte	0xe
+	.long	0x69d
+	.long	0x55b6
+	.uleb128 0x1
+	.long	0x69d
+	.uleb128 0x1
+	.long	0x69d
+	.uleb128 0x1
+	.long	0x69d
+	.byte	0
+	.uleb128 0x10
+	.long	.LASF740
+	.byte	0x1d
+	.byte	0x32
+	.byte	0xe
+	.long	0x69d
+	.long	0x55d1
+	.uleb128 0x1
+	.long	0x69d
+	.uleb128 0x1
+	.long	0x69d
+	.byte	0
+	.uleb128 0x24
+	.long	.LASF741
+	.byte	0x1d
+	.byte	0x29
+	.byte	0xe
+	.long	0x69d
+	.uleb128 0x25
+	.long	.LASF747
+	.byte	0x1b
+	.uleb128 0x1e
+	.long	.LASF742
+	.byte	0x21
+	.byte	0xc
+	.byte	0x6
+	.long	0x55fa
+	.uleb128 0x1
+	.long	0x363
+	.uleb128 0x1
+	.long	0x322
+	.byte	0
+	.uleb128 0x10
+	.long	.LASF743
+	.byte	0x1c
+	.byte	0x16
+	.byte	0xe
+	.long	0xb82
+	.long	0x5615
+	.uleb128 0x1
+	.long	0x1481
+	.uleb128 0x1
+	.long	0x69d
+	.byte	0
+	.uleb128 0x1e
+	.long	.LASF744
+	.byte	0x23
+	.byte	0xe
+	.byte	0xd
+	.long	0x562c
+	.uleb128 0x1
+	.long	0x1481
+	.uleb128 0x1
+	.long	0x69d
+	.byte	0
+	.uleb128 0x10
+	.long	.LASF745
+	.byte	0x24
+	.byte	0xe
+	.byte	0xe
+	.long	0x69d
+	.long	0x5647
+	.uleb128 0x1
+	.long	0x69d
+	.uleb128 0x1
+	.long	0x2629
+	.byte	0
+	.uleb128 0x24
+	.long	.LASF746
+	.byte	0x17
+	.byte	0x85
+	.byte	0xd
+	.long	0x1481
+	.uleb128 0x25
+	.long	.LASF748
+	.byte	0x1a
+	.uleb128 0x10
+	.long	.LASF749
+	.byte	0x1d
+	.byte	0x27
+	.byte	0xe
+	.long	0x69d
+	.long	0x5674
+	.uleb128 0x1
+	.long	0x69d
+	.uleb128 0x1
+	.long	0x69d
+	.byte	0
+	.uleb128 0x10
+	.long	.LASF750
+	.byte	0x1d
+	.byte	0x28
+	.byte	0xe
+	.long	0x69d
+	.long	0x568f
+	.uleb128 0x1
+	.long	0x69d
+	.uleb128 0x1
+	.long	0x69d
+	.byte	0
+	.uleb128 0x2b
+	.string	"id"
+	.byte	0x39
+	.byte	0xe
+	.long	0x69d
+	.long	0x56a3
+	.uleb128 0x1
+	.long	0x363
+	.byte	0
+	.uleb128 0x2a
+	.long	.LASF751
+	.byte	0x1d
+	.byte	0x3c
+	.long	0x69d
+	.long	0x56b4
+	.uleb128 0x19
+	.byte	0
+	.uleb128 0x2a
+	.long	.LASF752
+	.byte	0x1d
+	.byte	0x3d
+	.long	0x69d
+	.long	0x56c5
+	.uleb128 0x19
+	.byte	0
+	.uleb128 0x25
+	.long	.LASF753
+	.byte	0x2e
+	.uleb128 0x1e
+	.long	.LASF754
+	.byte	0x21
+	.byte	0x15
+	.byte	0x6
+	.long	0x56e2
+	.uleb128 0x1
+	.long	0x80
+	.uleb128 0x1
+	.long	0x56e2
+	.byte	0
+	.uleb128 0x5
+	.long	0x56e7
+	.uleb128 0x3c
+	.uleb128 0x25
+	.long	.LASF755
+	.byte	0x2d
+	.uleb128 0x3d
+	.long	.LASF805
+	.byte	0x1
+	.value	0x249
+	.byte	0x1
+	.quad	.LFB13
+	.quad	.LFE13-.LFB13
+	.uleb128 0x1
+	.byte	0x9c
+	.uleb128 0x1c
+	.long	.LASF760
+	.value	0x22c
+	.quad	.LFB12
+	.quad	.LFE12-.LFB12
+	.uleb128 0x1
+	.byte	0x9c
+	.long	0x5783
+	.uleb128 0xc
+	.long	.LASF756
+	.value	0x22e
+	.byte	0x9
+	.long	0x363
+	.uleb128 0x2
+	.byte	0x91
+	.sleb128 -40
+	.uleb128 0xc
+	.long	.LASF757
+	.value	0x22f
+	.byte	0x9
+	.long	0x363
+	.uleb128 0x2
+	.byte	0x91
+	.sleb128 -48
+	.uleb128 0xc
+	.long	.LASF758
+	.value	0x232
+	.byte	0xd
+	.long	0x4847
+	.uleb128 0x2
+	.byte	0x91
+	.sleb128 -56
+	.uleb128 0xc
+	.long	.LASF601
+	.value	0x233
+	.byte	0xc
+	.long	0x15b0
+	.uleb128 0x2
+	.byte	0x91
+	.sleb128 -64
+	.uleb128 0xc
+	.long	.LASF759
+	.value	0x234
+	.byte	0x8
+	.long	0x69d
+	.uleb128 0x3
+	.byte	0x91
+	.sleb128 -72
+	.uleb128 0xc
+	.long	.LASF216
+	.value	0x235
+	.byte	0x7
+	.long	0x1481
+	.uleb128 0x3
+	.byte	0x91
+	.sleb128 -80
+	.byte	0
+	.uleb128 0x1c
+	.long	.LASF761
+	.value	0x20e
+	.quad	.LFB11
+	.quad	.LFE11-.LFB11
+	.uleb128 0x1
+	.byte	0x9c
+	.long	0x57fd
+	.uleb128 0xc
+	.long	.LASF756
+	.value	0x210
+	.byte	0x9
+	.long	0x363
+	.uleb128 0x2
+	.byte	0x91
+	.sleb128 -40
+	.uleb128 0xc
+	.long	.LASF757
+	.value	0x211
+	.byte	0x9
+	.long	0x363
+	.uleb128 0x2
+	.byte	0x91
+	.sleb128 -48
+	.uleb128 0xc
+	.long	.LASF758
+	.value	0x214
+	.byte	0xd
+	.long	0x4847
+	.uleb128 0x2
+	.byte	0x91
+	.sleb128 -56
+	.uleb128 0xc
+	.long	.LASF601
+	.value	0x216
+	.byte	0xc
+	.long	0x15b0
+	.uleb128 0x2
+	.byte	0x91
+	.sleb128 -64
+	.uleb128 0xc
+	.long	.LASF759
+	.value	0x217
+	.byte	0x8
+	.long	0x69d
+	.uleb128 0x3
+	.byte	0x91
+	.sleb128 -72
+	.uleb128 0xc
+	.long	.LASF216
+	.value	0x218
+	.byte	0x7
+	.long	0x1481
+	.uleb128 0x3
+	.byte	0x91
+	.sleb128 -80
+	.byte	0
+	.uleb128 0x1c
+	.long	.LASF762
+	.value	0x1f2
+	.quad	.LFB10
+	.quad	.LFE10-.LFB10
+	.uleb128 0x1
+	.byte	0x9c
+	.long	0x5877
+	.uleb128 0xc
+	.long	.LASF763
+	.value	0x1f4
+	.byte	0x9
+	.long	0x363
+	.uleb128 0x2
+	.byte	0x91
+	.sleb128 -40
+	.uleb128 0xc
+	.long	.LASF764
+	.value	0x1f5
+	.byte	0x9
+	.long	0x363
+	.uleb128 0x2
+	.byte	0x91
+	.sleb128 -48
+	.uleb128 0xc
+	.long	.LASF758
+	.value	0x1f6
+	.byte	0xd
+	.long	0x4847
+	.uleb128 0x2
+	.byte	0x91
+	.sleb128 -56
+	.uleb128 0xc
+	.long	.LASF601
+	.value	0x1f8
+	.byte	0xc
+	.long	0x15b0
+	.uleb128 0x2
+	.byte	0x91
+	.sleb128 -64
+	.uleb128 0xc
+	.long	.LASF759
+	.value	0x1f9
+	.byte	0x8
+	.long	0x69d
+	.uleb128 0x3
+	.byte	0x91
+	.sleb128 -72
+	.uleb128 0xc
+	.long	.LASF216
+	.value	0x1fa
+	.byte	0x7
+	.long	0x1481
+	.uleb128 0x3
+	.byte	0x91
+	.sleb128 -80
+	.byte	0
+	.uleb128 0x1c
+	.long	.LASF765
+	.value	0x1d5
+	.quad	.LFB9
+	.quad	.LFE9-.LFB9
+	.uleb128 0x1
+	.byte	0x9c
+	.long	0x58e1
+	.uleb128 0xc
+	.long	.LASF764
+	.value	0x1d7
+	.byte	0x9
+	.long	0x363
+	.uleb128 0x2
+	.byte	0x91
+	.sleb128 -40
+	.uleb128 0xc
+	.long	.LASF758
+	.value	0x1d8
+	.byte	0xd
+	.long	0x4847
+	.uleb128 0x2
+	.byte	0x91
+	.sleb128 -48
+	.uleb128 0xc
+	.long	.LASF601
+	.value	0x1da
+	.byte	0xc
+	.long	0x15b0
+	.uleb128 0x2
+	.byte	0x91
+	.sleb128 -56
+	.uleb128 0xc
+	.long	.LASF759
+	.value	0x1db
+	.byte	0x8
+	.long	0x69d
+	.uleb128 0x2
+	.byte	0x91
+	.sleb128 -64
+	.uleb128 0xc
+	.long	.LASF216
+	.value	0x1dc
+	.byte	0x7
+	.long	0x1481
+	.uleb128 0x3
+	.byte	0x91
+	.sleb128 -72
+	.byte	0
+	.uleb128 0x1c
+	.long	.LASF766
+	.value	0x1b7
+	.quad	.LFB8
+	.quad	.LFE8-.LFB8
+	.uleb128 0x1
+	.byte	0x9c
+	.long	0x597b
+	.uleb128 0xc
+	.long	.LASF767
+	.value	0x1b9
+	.byte	0x9
+	.long	0x363
+	.uleb128 0x2
+	.byte	0x91
+	.sleb128 -40
+	.uleb128 0xc
+	.long	.LASF768
+	.value	0x1ba
+	.byte	0x9
+	.long	0x363
+	.uleb128 0x2
+	.byte	0x91
+	.sleb128 -48
+	.uleb128 0xc
+	.long	.LASF769
+	.value	0x1bb
+	.byte	0x9
+	.long	0x363
+	.uleb128 0x2
+	.byte	0x91
+	.sleb128 -56
+	.uleb128 0xc
+	.long	.LASF770
+	.value	0x1bc
+	.byte	0x9
+	.long	0x363
+	.uleb128 0x2
+	.byte	0x91
+	.sleb128 -64
+	.uleb128 0xc
+	.long	.LASF758
+	.value	0x1bd
+	.byte	0xd
+	.long	0x4847
+	.uleb128 0x3
+	.byte	0x91
+	.sleb128 -72
+	.uleb128 0xc
+	.long	.LASF601
+	.value	0x1bf
+	.byte	0xc
+	.long	0x15b0
+	.uleb128 0x3
+	.byte	0x91
+	.sleb128 -80
+	.uleb128 0xc
+	.long	.LASF759
+	.value	0x1c0
+	.byte	0x8
+	.long	0x69d
+	.uleb128 0x3
+	.byte	0x91
+	.sleb128 -88
+	.uleb128 0xc
+	.long	.LASF216
+	.value	0x1c1
+	.byte	0x7
+	.long	0x1481
+	.uleb128 0x3
+	.byte	0x91
+	.sleb128 -96
+	.byte	0
+	.uleb128 0x1c
+	.long	.LASF771
+	.value	0x17f
+	.quad	.LFB7
+	.quad	.LFE7-.LFB7
+	.uleb128 0x1
+	.byte	0x9c
+	.long	0x5a25
+	.uleb128 0xc
+	.long	.LASF767
+	.value	0x181
+	.byte	0x9
+	.long	0x363
+	.uleb128 0x2
+	.byte	0x91
+	.sleb128 -40
+	.uleb128 0xc
+	.long	.LASF772
+	.value	0x182
+	.byte	0x9
+	.long	0x363
+	.uleb128 0x2
+	.byte	0x91
+	.sleb128 -48
+	.uleb128 0xc
+	.long	.LASF773
+	.value	0x183
+	.byte	0x9
+	.long	0x363
+	.uleb128 0x2
+	.byte	0x91
+	.sleb128 -56
+	.uleb128 0xc
+	.long	.LASF774
+	.value	0x184
+	.byte	0x9
+	.long	0x363
+	.uleb128 0x2
+	.byte	0x91
+	.sleb128 -64
+	.uleb128 0xc
+	.long	.LASF775
+	.value	0x185
+	.byte	0x9
+	.long	0x363
+	.uleb128 0x3
+	.byte	0x91
+	.sleb128 -72
+	.uleb128 0xc
+	.long	.LASF758
+	.value	0x187
+	.byte	0xd
+	.long	0x4847
+	.uleb128 0x3
+	.byte	0x91
+	.sleb128 -80
+	.uleb128 0xc
+	.long	.LASF601
+	.value	0x18e
+	.byte	0xc
+	.long	0x15b0
+	.uleb128 0x3
+	.byte	0x91
+	.sleb128 -88
+	.uleb128 0xc
+	.long	.LASF759
+	.value	0x18f
+	.byte	0x8
+	.long	0x69d
+	.uleb128 0x3
+	.byte	0x91
+	.sleb128 -96
+	.uleb128 0xc
+	.long	.LASF216
+	.value	0x191
+	.byte	0x7
+	.long	0x1481
+	.uleb128 0x3
+	.byte	0x91
+	.sleb128 -104
+	.byte	0
+	.uleb128 0x1c
+	.long	.LASF776
+	.value	0x14c
+	.quad	.LFB6
+	.quad	.LFE6-.LFB6
+	.uleb128 0x1
+	.byte	0x9c
+	.long	0x5adf
+	.uleb128 0xc
+	.long	.LASF767
+	.value	0x155
+	.byte	0x9
+	.long	0x363
+	.uleb128 0x2
+	.byte	0x91
+	.sleb128 -40
+	.uleb128 0xc
+	.long	.LASF777
+	.value	0x156
+	.byte	0x9
+	.long	0x363
+	.uleb128 0x2
+	.byte	0x91
+	.sleb128 -48
+	.uleb128 0xc
+	.long	.LASF778
+	.value	0x157
+	.byte	0x9
+	.long	0x363
+	.uleb128 0x2
+	.byte	0x91
+	.sleb128 -56
+	.uleb128 0xc
+	.long	.LASF779
+	.value	0x158
+	.byte	0x9
+	.long	0x363
+	.uleb128 0x2
+	.byte	0x91
+	.sleb128 -64
+	.uleb128 0xc
+	.long	.LASF780
+	.value	0x159
+	.byte	0x9
+	.long	0x363
+	.uleb128 0x3
+	.byte	0x91
+	.sleb128 -72
+	.uleb128 0xc
+	.long	.LASF781
+	.value	0x15a
+	.byte	0x9
+	.long	0x363
+	.uleb128 0x3
+	.byte	0x91
+	.sleb128 -80
+	.uleb128 0xc
+	.long	.LASF758
+	.value	0x160
+	.byte	0xd
+	.long	0x4847
+	.uleb128 0x3
+	.byte	0x91
+	.sleb128 -88
+	.uleb128 0xc
+	.long	.LASF601
+	.value	0x165
+	.byte	0xc
+	.long	0x15b0
+	.uleb128 0x3
+	.byte	0x91
+	.sleb128 -96
+	.uleb128 0xc
+	.long	.LASF759
+	.value	0x166
+	.byte	0x8
+	.long	0x69d
+	.uleb128 0x3
+	.byte	0x91
+	.sleb128 -104
+	.uleb128 0xc
+	.long	.LASF216
+	.value	0x168
+	.byte	0x7
+	.long	0x1481
+	.uleb128 0x3
+	.byte	0x91
+	.sleb128 -112
+	.byte	0
+	.uleb128 0x1c
+	.long	.LASF782
+	.value	0x10e
+	.quad	.LFB5
+	.quad	.LFE5-.LFB5
+	.uleb128 0x1
+	.byte	0x9c
+	.long	0x5be5
+	.uleb128 0xc
+	.long	.LASF767
+	.value	0x110
+	.byte	0x9
+	.long	0x363
+	.uleb128 0x2
+	.byte	0x91
+	.sleb128 -40
+	.uleb128 0xc
+	.long	.LASF777
+	.value	0x111
+	.byte	0x9
+	.long	0x363
+	.uleb128 0x2
+	.byte	0x91
+	.sleb128 -48
+	.uleb128 0xc
+	.long	.LASF780
+	.value	0x112
+	.byte	0x9
+	.long	0x363
+	.uleb128 0x2
+	.byte	0x91
+	.sleb128 -56
+	.uleb128 0xc
+	.long	.LASF781
+	.value	0x113
+	.byte	0x9
+	.long	0x363
+	.uleb128 0x2
+	.byte	0x91
+	.sleb128 -64
+	.uleb128 0xc
+	.long	.LASF783
+	.value	0x118
+	.byte	0x9
+	.long	0x363
+	.uleb128 0x3
+	.byte	0x91
+	.sleb128 -72
+	.uleb128 0xc
+	.long	.LASF758
+	.value	0x11a
+	.byte	0xd
+	.long	0x4847
+	.uleb128 0x3
+	.byte	0x91
+	.sleb128 -80
+	.uleb128 0xc
+	.long	.LASF601
+	.value	0x11c
+	.byte	0xc
+	.long	0x15b0
+	.uleb128 0x3
+	.byte	0x91
+	.sleb128 -88
+	.uleb128 0xc
+	.long	.LASF759
+	.value	0x11d
+	.byte	0x8
+	.long	0x69d
+	.uleb128 0x3
+	.byte	0x91
+	.sleb128 -96
+	.uleb128 0x26
+	.string	"ab"
+	.value	0x11f
+	.byte	0x8
+	.long	0x69d
+	.uleb128 0x3
+	.byte	0x91
+	.sleb128 -112
+	.uleb128 0x26
+	.string	"ab2"
+	.value	0x11f
+	.byte	0xc
+	.long	0x69d
+	.uleb128 0x3
+	.byte	0x91
+	.sleb128 -136
+	.uleb128 0xc
+	.long	.LASF220
+	.value	0x120
+	.byte	0xb
+	.long	0x1ca7
+	.uleb128 0x3
+	.byte	0x91
+	.sleb128 -144
+	.uleb128 0x26
+	.string	"l"
+	.value	0x120
+	.byte	0x12
+	.long	0x1ca7
+	.uleb128 0x3
+	.byte	0x91
+	.sleb128 -128
+	.uleb128 0xc
+	.long	.LASF195
+	.value	0x121
+	.byte	0x7
+	.long	0xad5
+	.uleb128 0x3
+	.byte	0x91
+	.sleb128 -152
+	.uleb128 0x26
+	.string	"tf"
+	.value	0x122
+	.byte	0x8
+	.long	0xb82
+	.uleb128 0x3
+	.byte	0x91
+	.sleb128 -120
+	.uleb128 0xc
+	.long	.LASF216
+	.value	0x123
+	.byte	0x7
+	.long	0x1481
+	.uleb128 0x3
+	.byte	0x91
+	.sleb128 -104
+	.byte	0
+	.uleb128 0x27
+	.long	.LASF784
+	.byte	0xe6
+	.quad	.LFB4
+	.quad	.LFE4-.LFB4
+	.uleb128 0x1
+	.byte	0x9c
+	.long	0x5c76
+	.uleb128 0xd
+	.long	.LASF767
+	.byte	0xed
+	.byte	0x9
+	.long	0x363
+	.uleb128 0x2
+	.byte	0x91
+	.sleb128 -40
+	.uleb128 0xd
+	.long	.LASF777
+	.byte	0xee
+	.byte	0x9
+	.long	0x363
+	.uleb128 0x2
+	.byte	0x91
+	.sleb128 -48
+	.uleb128 0xd
+	.long	.LASF780
+	.byte	0xef
+	.byte	0x9
+	.long	0x363
+	.uleb128 0x2
+	.byte	0x91
+	.sleb128 -56
+	.uleb128 0xd
+	.long	.LASF781
+	.byte	0xf0
+	.byte	0x9
+	.long	0x363
+	.uleb128 0x2
+	.byte	0x91
+	.sleb128 -64
+	.uleb128 0xd
+	.long	.LASF758
+	.byte	0xf7
+	.byte	0xd
+	.long	0x4847
+	.uleb128 0x3
+	.byte	0x91
+	.sleb128 -72
+	.uleb128 0xd
+	.long	.LASF601
+	.byte	0xf8
+	.byte	0xc
+	.long	0x15b0
+	.uleb128 0x3
+	.byte	0x91
+	.sleb128 -80
+	.uleb128 0xd
+	.long	.LASF759
+	.byte	0xf9
+	.byte	0x8
+	.long	0x69d
+	.uleb128 0x3
+	.byte	0x91
+	.sleb128 -88
+	.uleb128 0xd
+	.long	.LASF216
+	.byte	0xfb
+	.byte	0x7
+	.long	0x1481
+	.uleb128 0x3
+	.byte	0x91
+	.sleb128 -96
+	.byte	0
+	.uleb128 0x27
+	.long	.LASF785
+	.byte	0x9d
+	.quad	.LFB3
+	.quad	.LFE3-.LFB3
+	.uleb128 0x1
+	.byte	0x9c
+	.long	0x5de6
+	.uleb128 0xd
+	.long	.LASF767
+	.byte	0x9f
+	.byte	0x9
+	.long	0x363
+	.uleb128 0x2
+	.byte	0x91
+	.sleb128 -48
+	.uleb128 0xd
+	.long	.LASF786
+	.byte	0xa0
+	.byte	0x9
+	.long	0x363
+	.uleb128 0x2
+	.byte	0x91
+	.sleb128 -56
+	.uleb128 0xd
+	.long	.LASF787
+	.byte	0xa1
+	.byte	0x9
+	.long	0x363
+	.uleb128 0x2
+	.byte	0x91
+	.sleb128 -64
+	.uleb128 0xd
+	.long	.LASF788
+	.byte	0xa2
+	.byte	0x9
+	.long	0x363
+	.uleb128 0x3
+	.byte	0x91
+	.sleb128 -72
+	.uleb128 0xd
+	.long	.LASF789
+	.byte	0xa3
+	.byte	0x9
+	.long	0x363
+	.uleb128 0x3
+	.byte	0x91
+	.sleb128 -80
+	.uleb128 0xd
+	.long	.LASF790
+	.byte	0xa4
+	.byte	0x9
+	.long	0x363
+	.uleb128 0x3
+	.byte	0x91
+	.sleb128 -88
+	.uleb128 0xd
+	.long	.LASF791
+	.byte	0xa5
+	.byte	0x9
+	.long	0x363
+	.uleb128 0x3
+	.byte	0x91
+	.sleb128 -96
+	.uleb128 0xd
+	.long	.LASF758
+	.byte	0xa6
+	.byte	0xd
+	.long	0x4847
+	.uleb128 0x3
+	.byte	0x91
+	.sleb128 -104
+	.uleb128 0xd
+	.long	.LASF792
+	.byte	0xa8
+	.byte	0xc
+	.long	0x15b0
+	.uleb128 0x3
+	.byte	0x91
+	.sleb128 -112
+	.uleb128 0xd
+	.long	.LASF759
+	.byte	0xa9
+	.byte	0x8
+	.long	0x69d
+	.uleb128 0x3
+	.byte	0x91
+	.sleb128 -120
+	.uleb128 0xd
+	.long	.LASF216
+	.byte	0xab
+	.byte	0x7
+	.long	0x1481
+	.uleb128 0x3
+	.byte	0x91
+	.sleb128 -128
+	.uleb128 0x1a
+	.string	"F"
+	.byte	0xac
+	.byte	0x8
+	.long	0x69d
+	.uleb128 0x3
+	.byte	0x91
+	.sleb128 -200
+	.uleb128 0xd
+	.long	.LASF793
+	.byte	0xac
+	.byte	0xb
+	.long	0x69d
+	.uleb128 0x3
+	.byte	0x91
+	.sleb128 -192
+	.uleb128 0xd
+	.long	.LASF794
+	.byte	0xac
+	.byte	0x14
+	.long	0x69d
+	.uleb128 0x3
+	.byte	0x91
+	.sleb128 -152
+	.uleb128 0xd
+	.long	.LASF795
+	.byte	0xac
+	.byte	0x1a
+	.long	0x69d
+	.uleb128 0x3
+	.byte	0x91
+	.sleb128 -168
+	.uleb128 0xd
+	.long	.LASF796
+	.byte	0xae
+	.byte	0x7
+	.long	0xad5
+	.uleb128 0x3
+	.byte	0x91
+	.sleb128 -136
+	.uleb128 0x1a
+	.string	"d"
+	.byte	0xae
+	.byte	0x11
+	.long	0xad5
+	.uleb128 0x3
+	.byte	0x91
+	.sleb128 -144
+	.uleb128 0x1a
+	.string	"tf"
+	.byte	0xaf
+	.byte	0x8
+	.long	0xb82
+	.uleb128 0x3
+	.byte	0x91
+	.sleb128 -160
+	.uleb128 0x1a
+	.string	"dTf"
+	.byte	0xaf
+	.byte	0xc
+	.long	0xb82
+	.uleb128 0x3
+	.byte	0x91
+	.sleb128 -176
+	.uleb128 0xd
+	.long	.LASF797
+	.byte	0xb1
+	.byte	0xb
+	.long	0x1ca7
+	.uleb128 0x3
+	.byte	0x91
+	.sleb128 -184
+	.uleb128 0x3e
+	.quad	.LBB2
+	.quad	.LBE2-.LBB2
+	.uleb128 0x1a
+	.string	"_l0"
+	.byte	0xcd
+	.byte	0xf
+	.long	0x1ca7
+	.uleb128 0x2
+	.byte	0x91
+	.sleb128 -40
+	.uleb128 0xd
+	.long	.LASF798
+	.byte	0xcd
+	.byte	0x19
+	.long	0xad5
+	.uleb128 0x3
+	.byte	0x91
+	.sleb128 -208
+	.byte	0
+	.byte	0
+	.uleb128 0x27
+	.long	.LASF799
+	.byte	0x6c
+	.quad	.LFB2
+	.quad	.LFE2-.LFB2
+	.uleb128 0x1
+	.byte	0x9c
+	.long	0x5eaf
+	.uleb128 0xd
+	.long	.LASF800
+	.byte	0x74
+	.byte	0x8
+	.long	0x69d
+	.uleb128 0x2
+	.byte	0x91
+	.sleb128 -56
+	.uleb128 0x1a
+	.string	"c1"
+	.byte	0x75
+	.byte	0x8
+	.long	0x69d
+	.uleb128 0x2
+	.byte	0x91
+	.sleb128 -64
+	.uleb128 0xd
+	.long	.LASF801
+	.byte	0x76
+	.byte	0x8
+	.long	0x69d
+	.uleb128 0x3
+	.byte	0x91
+	.sleb128 -72
+	.uleb128 0x1a
+	.string	"foo"
+	.byte	0x7a
+	.byte	0x8
+	.long	0x69d
+	.uleb128 0x3
+	.byte	0x91
+	.sleb128 -80
+	.uleb128 0x1a
+	.string	"d1"
+	.byte	0x7d
+	.byte	0x8
+	.long	0x69d
+	.uleb128 0x3
+	.byte	0x91
+	.sleb128 -88
+	.uleb128 0xd
+	.long	.LASF802
+	.byte	0x7e
+	.byte	0x8
+	.long	0x69d
+	.uleb128 0x3
+	.byte	0x91
+	.sleb128 -96
+	.uleb128 0xd
+	.long	.LASF803
+	.byte	0x7f
+	.byte	0x8
+	.long	0x69d
+	.uleb128 0x3
+	.byte	0x91
+	.sleb128 -104
+	.uleb128 0x1a
+	.string	"a"
+	.byte	0x80
+	.byte	0x8
+	.long	0x69d
+	.uleb128 0x3
+	.byte	0x91
+	.sleb128 -112
+	.uleb128 0xd
+	.long	.LASF759
+	.byte	0x81
+	.byte	0x8
+	.long	0x69d
+	.uleb128 0x3
+	.byte	0x91
+	.sleb128 -120
+	.uleb128 0x1a
+	.string	"tf"
+	.byte	0x83
+	.byte	0x8
+	.long	0xb82
+	.uleb128 0x3
+	.byte	0x91
+	.sleb128 -136
+	.uleb128 0x1a
+	.string	"sl"
+	.byte	0x84
+	.byte	0xb
+	.long	0x1ca7
+	.uleb128 0x3
+	.byte	0x91
+	.sleb128 -144
+	.uleb128 0xd
+	.long	.LASF216
+	.byte	0x85
+	.byte	0x7
+	.long	0x1481
+	.uleb128 0x3
+	.byte	0x91
+	.sleb128 -128
+	.byte	0
+	.uleb128 0x27
+	.long	.LASF804
+	.byte	0x4b
+	.quad	.LFB1
+	.quad	.LFE1-.LFB1
+	.uleb128 0x1
+	.byte	0x9c
+	.long	0x5ee8
+	.uleb128 0xd
+	.long	.LASF759
+	.byte	0x4d
+	.byte	0x8
+	.long	0x69d
+	.uleb128 0x2
+	.byte	0x91
+	.sleb128 -40
+	.uleb128 0xd
+	.long	.LASF216
+	.byte	0x4e
+	.byte	0x7
+	.long	0x1481
+	.uleb128 0x2
+	.byte	0x91
+	.sleb128 -48
+	.byte	0
+	.uleb128 0x3f
+	.long	.LASF806
+	.byte	0x1
+	.byte	0x33
+	.byte	0x6
+	.quad	.LFB0
+	.quad	.LFE0-.LFB0
+	.uleb128 0x1
+	.byte	0x9c
+	.byte	0
+	.section	.debug_abbrev,"",@progbits
+.Ldebug_abbrev0:
+	.uleb128 0x1
+	.uleb128 0x5
+	.byte	0
+	.uleb128 0x49
+	.uleb128 0x13
+	.byte	0
+	.byte	0
+	.uleb128 0x2
+	.uleb128 0xd
+	.byte	0
+	.uleb128 0x3
+	.uleb128 0xe
+	.uleb128 0x3a
+	.uleb128 0xb
+	.uleb128 0x3b
+	.uleb128 0x5
+	.uleb128 0x39
+	.uleb128 0xb
+	.uleb128 0x49
+	.uleb128 0x13
+	.uleb128 0x38
+	.uleb128 0xb
+	.byte	0
+	.byte	0
+	.uleb128 0x3
+	.uleb128 0xd
+	.byte	0
+	.uleb128 0x3
+	.uleb128 0xe
+	.uleb128 0x3a
+	.uleb128 0xb
+	.uleb128 0x3b
+	.uleb128 0xb
+	.uleb128 0x39
+	.uleb128 0xb
+	.uleb128 0x49
+	.uleb128 0x13
+	.uleb128 0x38
+	.uleb128 0xb
+	.byte	0
+	.byte	0
+	.uleb128 0x4
+	.uleb128 0xd
+	.byte	0
+	.uleb128 0x3
+	.uleb128 0x8
+	.uleb128 0x3a
+	.uleb128 0xb
+	.uleb128 0x3b
+	.uleb128 0x5
+	.uleb128 0x39
+	.uleb128 0xb
+	.uleb128 0x49
+	.uleb128 0x13
+	.uleb128 0x38
+	.uleb128 0xb
+	.byte	0
+	.byte	0
+	.uleb128 0x5
+	.uleb128 0xf
+	.byte	0
+	.uleb128 0xb
+	.uleb128 0x21
+	.sleb128 8
+	.uleb128 0x49
+	.uleb128 0x13
+	.byte	0
+	.byte	0
+	.uleb128 0x6
+	.uleb128 0xd
+	.byte	0
+	.uleb128 0x3
+	.uleb128 0xe
+	.uleb128 0x3a
+	.uleb128 0xb
+	.uleb128 0x3b
+	.uleb128 0x5
+	.uleb128 0x39
+	.uleb128 0xb
+	.uleb128 0x49
+	.uleb128 0x13
+	.byte	0
+	.byte	0
+	.uleb128 0x7
+	.uleb128 0x13
+	.byte	0x1
+	.uleb128 0x3
+	.uleb128 0xe
+	.uleb128 0xb
+	.uleb128 0xb
+	.uleb128 0x3a
+	.uleb128 0xb
+	.uleb128 0x3b
+	.uleb128 0x5
+	.uleb128 0x39
+	.uleb128 0x21
+	.sleb128 8
+	.uleb128 0x1
+	.uleb128 0x13
+	.byte	0
+	.byte	0
+	.uleb128 0x8
+	.uleb128 0x28
+	.byte	0
+	.uleb128 0x3
+	.uleb128 0xe
+	.uleb128 0x1c
+	.uleb128 0xb
+	.byte	0
+	.byte	0
+	.uleb128 0x9
+	.uleb128 0x15
+	.byte	0x1
+	.uleb128 0x27
+	.uleb128 0x19
+	.uleb128 0x49
+	.uleb128 0x13
+	.uleb128 0x1
+	.uleb128 0x13
+	.byte	0
+	.byte	0
+	.uleb128 0xa
+	.uleb128 0xd
+	.byte	0
+	.uleb128 0x3
+	.uleb128 0xe
+	.uleb128 0x3a
+	.uleb128 0xb
+	.uleb128 0x3b
+	.uleb128 0xb
+	.uleb128 0x39
+	.uleb128 0x5
+	.uleb128 0x49
+	.uleb128 0x13
+	.uleb128 0x38
+	.uleb128 0xb
+	.byte	0
+	.byte	0
+	.uleb128 0xb
+	.uleb128 0x16
+	.byte	0
+	.uleb128 0x3
+	.uleb128 0xe
+	.uleb128 0x3a
+	.uleb128 0xb
+	.uleb128 0x3b
+	.uleb128 0xb
+	.uleb128 0x39
+	.uleb128 0xb
+	.uleb128 0x49
+	.uleb128 0x13
+	.byte	0
+	.byte	0
+	.uleb128 0xc
+	.uleb128 0x34
+	.byte	0
+	.uleb128 0x3
+	.uleb128 0xe
+	.uleb128 0x3a
+	.uleb128 0x21
+	.sleb128 1
+	.uleb128 0x3b
+	.uleb128 0x5
+	.uleb128 0x39
+	.uleb128 0xb
+	.uleb128 0x49
+	.uleb128 0x13
+	.uleb128 0x2
+	.uleb128 0x18
+	.byte	0
+	.byte	0
+	.uleb128 0xd
+	.uleb128 0x34
+	.byte	0
+	.uleb128 0x3
+	.uleb128 0xe
+	.uleb128 0x3a
+	.uleb128 0x21
+	.sleb128 1
+	.uleb128 0x3b
+	.uleb128 0xb
+	.uleb128 0x39
+	.uleb128 0xb
+	.uleb128 0x49
+	.uleb128 0x13
+	.uleb128 0x2
+	.uleb128 0x18
+	.byte	0
+	.byte	0
+	.uleb128 0xe
+	.uleb128 0x13
+	.byte	0x1
+	.uleb128 0x3
+	.uleb128 0xe
+	.uleb128 0xb
+	.uleb128 0xb
+	.uleb128 0x3a
+	.uleb128 0xb
+	.uleb128 0x3b
+	.uleb128 0xb
+	.uleb128 0x39
+	.uleb128 0xb
+	.uleb128 0x1
+	.uleb128 0x13
+	.byte	0
+	.byte	0
+	.uleb128 0xf
+	.uleb128 0xd
+	.byte	0
+	.uleb128 0x3
+	.uleb128 0xe
+	.uleb128 0x3a
+	.uleb128 0xb
+	.uleb128 0x3b
+	.uleb128 0xb
+	.uleb128 0x39
+	.uleb128 0x5
+	.uleb128 0x49
+	.uleb128 0x13
+	.uleb128 0x38
+	.uleb128 0x5
+	.byte	0
+	.byte	0
+	.uleb128 0x10
+	.uleb128 0x2e
+	.byte	0x1
+	.uleb128 0x3f
+	.uleb128 0x19
+	.uleb128 0x3
+	.uleb128 0xe
+	.uleb128 0x3a
+	.uleb128 0xb
+	.uleb128 0x3b
+	.uleb128 0xb
+	.uleb128 0x39
+	.uleb128 0xb
+	.uleb128 0x27
+	.uleb128 0x19
+	.uleb128 0x49
+	.uleb128 0x13
+	.uleb128 0x3c
+	.uleb128 0x19
+	.uleb128 0x1
+	.uleb128 0x13
+	.byte	0
+	.byte	0
+	.uleb128 0x11
+	.uleb128 0x16
+	.byte	0
+	.uleb128 0x3
+	.uleb128 0xe
+	.uleb128 0x3a
+	.uleb128 0xb
+	.uleb128 0x3b
+	.uleb128 0x5
+	.uleb128 0x39
+	.uleb128 0xb
+	.uleb128 0x49
+	.uleb128 0x13
+	.byte	0
+	.byte	0
+	.uleb128 0x12
+	.uleb128 0x34
+	.byte	0
+	.uleb128 0x3
+	.uleb128 0xe
+	.uleb128 0x3a
+	.uleb128 0xb
+	.uleb128 0x3b
+	.uleb128 0xb
+	.uleb128 0x39
+	.uleb128 0xb
+	.uleb128 0x49
+	.uleb128 0x13
+	.uleb128 0x3f
+	.uleb128 0x19
+	.uleb128 0x3c
+	.uleb128 0x19
+	.byte	0
+	.byte	0
+	.uleb128 0x13
+	.uleb128 0x13
+	.byte	0
+	.uleb128 0x3
+	.uleb128 0xe
+	.uleb128 0x3c
+	.uleb128 0x19
+	.byte	0
+	.byte	0
+	.uleb128 0x14
+	.uleb128 0xd
+	.byte	0
+	.uleb128 0x3
+	.uleb128 0x8
+	.uleb128 0x3a
+	.uleb128 0xb
+	.uleb128 0x3b
+	.uleb128 0xb
+	.uleb128 0x39
+	.uleb128 0xb
+	.uleb128 0x49
+	.uleb128 0x13
+	.uleb128 0x38
+	.uleb128 0xb
+	.byte	0
+	.byte	0
+	.uleb128 0x15
+	.uleb128 0x15
+	.byte	0x1
+	.uleb128 0x27
+	.uleb128 0x19
+	.uleb128 0x1
+	.uleb128 0x13
+	.byte	0
+	.byte	0
+	.uleb128 0x16
+	.uleb128 0x24
+	.byte	0
+	.uleb128 0xb
+	.uleb128 0xb
+	.uleb128 0x3e
+	.uleb128 0xb
+	.uleb128 0x3
+	.uleb128 0xe
+	.byte	0
+	.byte	0
+	.uleb128 0x17
+	.uleb128 0x1
+	.byte	0x1
+	.uleb128 0x49
+	.uleb128 0x13
+	.uleb128 0x1
+	.uleb128 0x13
+	.byte	0
+	.byte	0
+	.uleb128 0x18
+	.uleb128 0x21
+	.byte	0
+	.uleb128 0x49
+	.uleb128 0x13
+	.uleb128 0x2f
+	.uleb128 0xb
+	.byte	0
+	.byte	0
+	.uleb128 0x19
+	.uleb128 0x18
+	.byte	0
+	.byte	0
+	.byte	0
+	.uleb128 0x1a
+	.uleb128 0x34
+	.byte	0
+	.uleb128 0x3
+	.uleb128 0x8
+	.uleb128 0x3a
+	.uleb128 0x21
+	.sleb128 1
+	.uleb128 0x3b
+	.uleb128 0xb
+	.uleb128 0x39
+	.uleb128 0xb
+	.uleb128 0x49
+	.uleb128 0x13
+	.uleb128 0x2
+	.uleb128 0x18
+	.byte	0
+	.byte	0
+	.uleb128 0x1b
+	.uleb128 0x2e
+	.byte	0x1
+	.uleb128 0x3f
+	.uleb128 0x19
+	.uleb128 0x3
+	.uleb128 0xe
+	.uleb128 0x3a
+	.uleb128 0xb
+	.uleb128 0x3b
+	.uleb128 0x5
+	.uleb128 0x39
+	.uleb128 0xb
+	.uleb128 0x27
+	.uleb128 0x19
+	.uleb128 0x49
+	.uleb128 0x13
+	.uleb128 0x3c
+	.uleb128 0x19
+	.uleb128 0x1
+	.uleb128 0x13
+	.byte	0
+	.byte	0
+	.uleb128 0x1c
+	.uleb128 0x2e
+	.byte	0x1
+	.uleb128 0x3f
+	.uleb128 0x19
+	.uleb128 0x3
+	.uleb128 0xe
+	.uleb128 0x3a
+	.uleb128 0x21
+	.sleb128 1
+	.uleb128 0x3b
+	.uleb128 0x5
+	.uleb128 0x39
+	.uleb128 0x21
+	.sleb128 1
+	.uleb128 0x11
+	.uleb128 0x1
+	.uleb128 0x12
+	.uleb128 0x7
+	.uleb128 0x40
+	.uleb128 0x18
+	.uleb128 0x7c
+	.uleb128 0x19
+	.uleb128 0x1
+	.uleb128 0x13
+	.byte	0
+	.byte	0
+	.uleb128 0x1d
+	.uleb128 0xd
+	.byte	0
+	.uleb128 0x3
+	.uleb128 0x8
+	.uleb128 0x3a
+	.uleb128 0xb
+	.uleb128 0x3b
+	.uleb128 0x5
+	.uleb128 0x39
+	.uleb128 0xb
+	.uleb128 0x49
+	.uleb128 0x13
+	.byte	0
+	.byte	0
+	.uleb128 0x1e
+	.uleb128 0x2e
+	.byte	0x1
+	.uleb128 0x3f
+	.uleb128 0x19
+	.uleb128 0x3
+	.uleb128 0xe
+	.uleb128 0x3a
+	.uleb128 0xb
+	.uleb128 0x3b
+	.uleb128 0xb
+	.uleb128 0x39
+	.uleb128 0xb
+	.uleb128 0x27
+	.uleb128 0x19
+	.uleb128 0x3c
+	.uleb128 0x19
+	.uleb128 0x1
+	.uleb128 0x13
+	.byte	0
+	.byte	0
+	.uleb128 0x1f
+	.uleb128 0xd
+	.byte	0
+	.uleb128 0x3
+	.uleb128 0x8
+	.uleb128 0x3a
+	.uleb128 0xb
+	.uleb128 0x3b
+	.uleb128 0xb
+	.uleb128 0x39
+	.uleb128 0x5
+	.uleb128 0x49
+	.uleb128 0x13
+	.uleb128 0x38
+	.uleb128 0xb
+	.byte	0
+	.byte	0
+	.uleb128 0x20
+	.uleb128 0x26
+	.byte	0
+	.uleb128 0x49
+	.uleb128 0x13
+	.byte	0
+	.byte	0
+	.uleb128 0x21
+	.uleb128 0xd
+	.byte	0
+	.uleb128 0x3
+	.uleb128 0xe
+	.uleb128 0x3a
+	.uleb128 0x21
+	.sleb128 3
+	.uleb128 0x3b
+	.uleb128 0x21
+	.sleb128 0
+	.uleb128 0x49
+	.uleb128 0x13
+	.uleb128 0x38
+	.uleb128 0xb
+	.byte	0
+	.byte	0
+	.uleb128 0x22
+	.uleb128 0x13
+	.byte	0x1
+	.uleb128 0x3
+	.uleb128 0xe
+	.uleb128 0xb
+	.uleb128 0x5
+	.uleb128 0x3a
+	.uleb128 0xb
+	.uleb128 0x3b
+	.uleb128 0xb
+	.uleb128 0x39
+	.uleb128 0xb
+	.uleb128 0x1
+	.uleb128 0x13
+	.byte	0
+	.byte	0
+	.uleb128 0x23
+	.uleb128 0x17
+	.byte	0x1
+	.uleb128 0xb
+	.uleb128 0xb
+	.uleb128 0x3a
+	.uleb128 0xb
+	.uleb128 0x3b
+	.uleb128 0x5
+	.uleb128 0x39
+	.uleb128 0x21
+	.sleb128 2
+	.uleb128 0x1
+	.uleb128 0x13
+	.byte	0
+	.byte	0
+	.uleb128 0x24
+	.uleb128 0x2e
+	.byte	0
+	.uleb128 0x3f
+	.uleb128 0x19
+	.uleb128 0x3
+	.uleb128 0xe
+	.uleb128 0x3a
+	.uleb128 0xb
+	.uleb128 0x3b
+	.uleb128 0xb
+	.uleb128 0x39
+	.uleb128 0xb
+	.uleb128 0x27
+	.uleb128 0x19
+	.uleb128 0x49
+	.uleb128 0x13
+	.uleb128 0x3c
+	.uleb128 0x19
+	.byte	0
+	.byte	0
+	.uleb128 0x25
+	.uleb128 0x2e
+	.byte	0
+	.uleb128 0x3f
+	.uleb128 0x19
+	.uleb128 0x3
+	.uleb128 0xe
+	.uleb128 0x3a
+	.uleb128 0x21
+	.sleb128 1
+	.uleb128 0x3b
+	.uleb128 0xb
+	.uleb128 0x39
+	.uleb128 0x21
+	.sleb128 6
+	.uleb128 0x27
+	.uleb128 0x19
+	.uleb128 0x3c
+	.uleb128 0x19
+	.byte	0
+	.byte	0
+	.uleb128 0x26
+	.uleb128 0x34
+	.byte	0
+	.uleb128 0x3
+	.uleb128 0x8
+	.uleb128 0x3a
+	.uleb128 0x21
+	.sleb128 1
+	.uleb128 0x3b
+	.uleb128 0x5
+	.uleb128 0x39
+	.uleb128 0xb
+	.uleb128 0x49
+	.uleb128 0x13
+	.uleb128 0x2
+	.uleb128 0x18
+	.byte	0
+	.byte	0
+	.uleb128 0x27
+	.uleb128 0x2e
+	.byte	0x1
+	.uleb128 0x3f
+	.uleb128 0x19
+	.uleb128 0x3
+	.uleb128 0xe
+	.uleb128 0x3a
+	.uleb128 0x21
+	.sleb128 1
+	.uleb128 0x3b
+	.uleb128 0xb
+	.uleb128 0x39
+	.uleb128 0x21
+	.sleb128 1
+	.uleb128 0x11
+	.uleb128 0x1
+	.uleb128 0x12
+	.uleb128 0x7
+	.uleb128 0x40
+	.uleb128 0x18
+	.uleb128 0x7c
+	.uleb128 0x19
+	.uleb128 0x1
+	.uleb128 0x13
+	.byte	0
+	.byte	0
+	.uleb128 0x28
+	.uleb128 0x34
+	.byte	0
+	.uleb128 0x3
+	.uleb128 0xe
+	.uleb128 0x3a
+	.uleb128 0xb
+	.uleb128 0x3b
+	.uleb128 0xb
+	.uleb128 0x39
+	.uleb128 0x5
+	.uleb128 0x49
+	.uleb128 0x13
+	.uleb128 0x3f
+	.uleb128 0x19
+	.uleb128 0x3c
+	.uleb128 0x19
+	.byte	0
+	.byte	0
+	.uleb128 0x29
+	.uleb128 0x4
+	.byte	0x1
+	.uleb128 0x3
+	.uleb128 0xe
+	.uleb128 0x3e
+	.uleb128 0x21
+	.sleb128 7
+	.uleb128 0xb
+	.uleb128 0x21
+	.sleb128 4
+	.uleb128 0x49
+	.uleb128 0x13
+	.uleb128 0x3a
+	.uleb128 0x21
+	.sleb128 17
+	.uleb128 0x3b
+	.uleb128 0xb
+	.uleb128 0x39
+	.uleb128 0x21
+	.sleb128 6
+	.uleb128 0x1
+	.uleb128 0x13
+	.byte	0
+	.byte	0
+	.uleb128 0x2a
+	.uleb128 0x2e
+	.byte	0x1
+	.uleb128 0x3f
+	.uleb128 0x19
+	.uleb128 0x3
+	.uleb128 0xe
+	.uleb128 0x3a
+	.uleb128 0xb
+	.uleb128 0x3b
+	.uleb128 0xb
+	.uleb128 0x39
+	.uleb128 0x21
+	.sleb128 7
+	.uleb128 0x49
+	.uleb128 0x13
+	.uleb128 0x3c
+	.uleb128 0x19
+	.uleb128 0x1
+	.uleb128 0x13
+	.byte	0
+	.byte	0
+	.uleb128 0x2b
+	.uleb128 0x2e
+	.byte	0x1
+	.uleb128 0x3f
+	.uleb128 0x19
+	.uleb128 0x3
+	.uleb128 0x8
+	.uleb128 0x3a
+	.uleb128 0x21
+	.sleb128 29
+	.uleb128 0x3b
+	.uleb128 0xb
+	.uleb128 0x39
+	.uleb128 0xb
+	.uleb128 0x27
+	.uleb128 0x19
+	.uleb128 0x49
+	.uleb128 0x13
+	.uleb128 0x3c
+	.uleb128 0x19
+	.uleb128 0x1
+	.uleb128 0x13
+	.byte	0
+	.byte	0
+	.uleb128 0x2c
+	.uleb128 0xd
+	.byte	0
+	.uleb128 0x3
+	.uleb128 0x8
+	.uleb128 0x3a
+	.uleb128 0x21
+	.sleb128 9
+	.uleb128 0x3b
+	.uleb128 0xb
+	.uleb128 0x39
+	.uleb128 0xb
+	.uleb128 0x49
+	.uleb128 0x13
+	.byte	0
+	.byte	0
+	.uleb128 0x2d
+	.uleb128 0xd
+	.byte	0
+	.uleb128 0x3
+	.uleb128 0xe
+	.uleb128 0x3a
+	.uleb128 0x21
+	.sleb128 12
+	.uleb128 0x3b
+	.uleb128 0xb
+	.uleb128 0x39
+	.uleb128 0xb
+	.uleb128 0x49
+	.uleb128 0x13
+	.byte	0
+	.byte	0
+	.uleb128 0x2e
+	.uleb128 0x16
+	.byte	0
+	.uleb128 0x3
+	.uleb128 0x8
+	.uleb128 0x3a
+	.uleb128 0x21
+	.sleb128 15
+	.uleb128 0x3b
+	.uleb128 0xb
+	.uleb128 0x39
+	.uleb128 0x21
+	.sleb128 22
+	.uleb128 0x49
+	.uleb128 0x13
+	.byte	0
+	.byte	0
+	.uleb128 0x2f
+	.uleb128 0x17
+	.byte	0x1
+	.uleb128 0x3
+	.uleb128 0xe
+	.uleb128 0xb
+	.uleb128 0xb
+	.uleb128 0x3a
+	.uleb128 0xb
+	.uleb128 0x3b
+	.uleb128 0x5
+	.uleb128 0x39
+	.uleb128 0x21
+	.sleb128 7
+	.uleb128 0x1
+	.uleb128 0x13
+	.byte	0
+	.byte	0
+	.uleb128 0x30
+	.uleb128 0x11
+	.byte	0x1
+	.uleb128 0x25
+	.uleb128 0xe
+	.uleb128 0x13
+	.uleb128 0xb
+	.uleb128 0x3
+	.uleb128 0x1f
+	.uleb128 0x1b
+	.uleb128 0x1f
+	.uleb128 0x11
+	.uleb128 0x1
+	.uleb128 0x12
+	.uleb128 0x7
+	.uleb128 0x10
+	.uleb128 0x17
+	.byte	0
+	.byte	0
+	.uleb128 0x31
+	.uleb128 0x24
+	.byte	0
+	.uleb128 0xb
+	.uleb128 0xb
+	.uleb128 0x3e
+	.uleb128 0xb
+	.uleb128 0x3
+	.uleb128 0x8
+	.byte	0
+	.byte	0
+	.uleb128 0x32
+	.uleb128 0xf
+	.byte	0
+	.uleb128 0xb
+	.uleb128 0xb
+	.byte	0
+	.byte	0
+	.uleb128 0x33
+	.uleb128 0x13
+	.byte	0x1
+	.uleb128 0x3
+	.uleb128 0xe
+	.uleb128 0xb
+	.uleb128 0xb
+	.uleb128 0x3a
+	.uleb128 0xb
+	.uleb128 0x3b
+	.uleb128 0xb
+	.uleb128 0x1
+	.uleb128 0x13
+	.byte	0
+	.byte	0
+	.uleb128 0x34
+	.uleb128 0x16
+	.byte	0
+	.uleb128 0x3
+	.uleb128 0xe
+	.uleb128 0x3a
+	.uleb128 0xb
+	.uleb128 0x3b
+	.uleb128 0xb
+	.uleb128 0x39
+	.uleb128 0xb
+	.byte	0
+	.byte	0
+	.uleb128 0x35
+	.uleb128 0x17
+	.byte	0x1
+	.uleb128 0xb
+	.uleb128 0xb
+	.uleb128 0x3a
+	.uleb128 0xb
+	.uleb128 0x3b
+	.uleb128 0xb
+	.uleb128 0x39
+	.uleb128 0xb
+	.uleb128 0x1
+	.uleb128 0x13
+	.byte	0
+	.byte	0
+	.uleb128 0x36
+	.uleb128 0x17
+	.byte	0x1
+	.uleb128 0x3
+	.uleb128 0xe
+	.uleb128 0xb
+	.uleb128 0xb
+	.uleb128 0x3a
+	.uleb128 0xb
+	.uleb128 0x3b
+	.uleb128 0xb
+	.uleb128 0x39
+	.uleb128 0xb
+	.uleb128 0x1
+	.uleb128 0x13
+	.byte	0
+	.byte	0
+	.uleb128 0x37
+	.uleb128 0x13
+	.byte	0
+	.uleb128 0x3
+	.uleb128 0x8
+	.uleb128 0x3c
+	.uleb128 0x19
+	.byte	0
+	.byte	0
+	.uleb128 0x38
+	.uleb128 0x13
+	.byte	0x1
+	.uleb128 0x3
+	.uleb128 0x8
+	.uleb128 0xb
+	.uleb128 0x5
+	.uleb128 0x3a
+	.uleb128 0xb
+	.uleb128 0x3b
+	.uleb128 0xb
+	.uleb128 0x39
+	.uleb128 0xb
+	.uleb128 0x1
+	.uleb128 0x13
+	.byte	0
+	.byte	0
+	.uleb128 0x39
+	.uleb128 0x17
+	.byte	0
+	.uleb128 0x3
+	.uleb128 0xe
+	.uleb128 0x3c
+	.uleb128 0x19
+	.byte	0
+	.byte	0
+	.uleb128 0x3a
+	.uleb128 0xd
+	.byte	0
+	.uleb128 0x3
+	.uleb128 0xe
+	.uleb128 0x3a
+	.uleb128 0xb
+	.uleb128 0x3b
+	.uleb128 0xb
+	.uleb128 0x39
+	.uleb128 0xb
+	.uleb128 0x49
+	.uleb128 0x13
+	.uleb128 0x38
+	.uleb128 0x5
+	.byte	0
+	.byte	0
+	.uleb128 0x3b
+	.uleb128 0x13
+	.byte	0x1
+	.uleb128 0xb
+	.uleb128 0xb
+	.uleb128 0x3a
+	.uleb128 0xb
+	.uleb128 0x3b
+	.uleb128 0xb
+	.uleb128 0x39
+	.uleb128 0xb
+	.uleb128 0x1
+	.uleb128 0x13
+	.byte	0
+	.byte	0
+	.uleb128 0x3c
+	.uleb128 0x15
+	.byte	0
+	.uleb128 0x27
+	.uleb128 0x19
+	.byte	0
+	.byte	0
+	.uleb128 0x3d
+	.uleb128 0x2e
+	.byte	0
+	.uleb128 0x3f
+	.uleb128 0x19
+	.uleb128 0x3
+	.uleb128 0xe
+	.uleb128 0x3a
+	.uleb128 0xb
+	.uleb128 0x3b
+	.uleb128 0x5
+	.uleb128 0x39
+	.uleb128 0xb
+	.uleb128 0x11
+	.uleb128 0x1
+	.uleb128 0x12
+	.uleb128 0x7
+	.uleb128 0x40
+	.uleb128 0x18
+	.uleb128 0x7c
+	.uleb128 0x19
+	.byte	0
+	.byte	0
+	.uleb128 0x3e
+	.uleb128 0xb
+	.byte	0x1
+	.uleb128 0x11
+	.uleb128 0x1
+	.uleb128 0x12
+	.uleb128 0x7
+	.byte	0
+	.byte	0
+	.uleb128 0x3f
+	.uleb128 0x2e
+	.byte	0
+	.uleb128 0x3f
+	.uleb128 0x19
+	.uleb128 0x3
+	.uleb128 0xe
+	.uleb128 0x3a
+	.uleb128 0xb
+	.uleb128 0x3b
+	.uleb128 0xb
+	.uleb128 0x39
+	.uleb128 0xb
+	.uleb128 0x11
+	.uleb128 0x1
+	.uleb128 0x12
+	.uleb128 0x7
+	.uleb128 0x40
+	.uleb128 0x18
+	.uleb128 0x7c
+	.uleb128 0x19
+	.byte	0
+	.byte	0
+	.byte	0
+	.section	.debug_aranges,"",@progbits
+	.long	0x2c
+	.value	0x2
+	.long	.Ldebug_info0
+	.byte	0x8
+	.byte	0
+	.value	0
+	.value	0
+	.quad	.Ltext0
+	.quad	.Letext0-.Ltext0
+	.quad	0
+	.quad	0
+	.section	.debug_line,"",@progbits
+.Ldebug_line0:
+	.section	.debug_str,"MS",@progbits,1
+.LASF278:
+	.string	"foamCProg"
+.LASF423:
+	.string	"TFormListCons"
+.LASF519:
+	.string	"AB_Sequence"
+.LASF58:
+	.string	"UNotAsLong"
+.LASF483:
+	.string	"AB_Fix"
+.LASF47:
+	.string	"_unused2"
+.LASF33:
+	.string	"_fileno"
+.LASF702:
+	.string	"tipBupDebug"
+.LASF373:
+	.string	"ExpInfo"
+.LASF511:
+	.string	"AB_Qualify"
+.LASF633:
+	.string	"field"
+.LASF160:
+	.string	"abLocal"
+.LASF172:
+	.string	"abRaise"
+.LASF457:
+	.string	"AB_LitInteger"
+.LASF757:
+	.string	"C_def"
+.LASF298:
+	.string	"foamRRNew"
+.LASF118:
+	.string	"abDocText"
+.LASF415:
+	.string	"ContainsAllq"
+.LASF293:
+	.string	"foamIf"
+.LASF774:
+	.string	"IndexedObject_def"
+.LASF77:
+	.string	"OstWriteStringFn"
+.LASF142:
+	.string	"abFix"
+.LASF175:
+	.string	"abRestrictTo"
+.LASF168:
+	.string	"abParen"
+.LASF646:
+	.string	"dbOut"
+.LASF324:
+	.string	"intLoaded"
+.LASF303:
+	.string	"foamCCall"
+.LASF128:
+	.string	"abBuiltin"
+.LASF38:
+	.string	"_shortbuf"
+.LASF687:
+	.string	"ncafter"
+.LASF596:
+	.string	"fuses"
+.LASF516:
+	.string	"AB_RestrictTo"
+.LASF705:
+	.string	"sefoEqualDebug"
+.LASF76:
+	.string	"OstWriteCharFn"
+.LASF642:
+	.string	"StringListCons"
+.LASF81:
+	.string	"writeStringFn"
+.LASF710:
+	.string	"tfqTypeInferFails"
+.LASF114:
+	.string	"abGen"
+.LASF399:
+	.string	"LastCons"
+.LASF640:
+	.string	"place"
+.LASF171:
+	.string	"abQualify"
+.LASF282:
+	.string	"foamEInfo"
+.LASF678:
+	.string	"extendees"
+.LASF313:
+	.string	"foamKill"
+.LASF109:
+	.string	"symbol"
+.LASF239:
+	.string	"tqual"
+.LASF486:
+	.string	"AB_ForeignImport"
+.LASF592:
+	.string	"defNo"
+.LASF439:
+	.string	"TblKey"
+.LASF16:
+	.string	"overflow_arg_area"
+.LASF491:
+	.string	"AB_Has"
+.LASF19:
+	.string	"_flags"
+.LASF447:
+	.string	"AB_START"
+.LASF444:
+	.string	"next"
+.LASF648:
+	.string	"length"
+.LASF17:
+	.string	"reg_save_area"
+.LASF261:
+	.string	"foamDDecl"
+.LASF141:
+	.string	"abExtend"
+.LASF9:
+	.string	"__off_t"
+.LASF342:
+	.string	"unitb"
+.LASF207:
+	.string	"ownSyntax"
+.LASF459:
+	.string	"AB_LitString"
+.LASF662:
+	.string	"tfCond"
+.LASF548:
+	.string	"AB_State_HasPoss"
+.LASF349:
+	.string	"StabLevel"
+.LASF630:
+	.string	"usage"
+.LASF652:
+	.string	"verMinor"
+.LASF544:
+	.string	"AB_Use_LIMIT"
+.LASF412:
+	.string	"NConcat"
+.LASF686:
+	.string	"ncbefore"
+.LASF150:
+	.string	"abHas"
+.LASF39:
+	.string	"_lock"
+.LASF192:
+	.string	"FreeVar"
+.LASF213:
+	.string	"intStepNo"
+.LASF256:
+	.string	"foamRRec"
+.LASF269:
+	.string	"foamLex"
+.LASF720:
+	.string	"tfGetCatSelf"
+.LASF598:
+	.string	"mark"
+.LASF698:
+	.string	"ablogDebug"
+.LASF485:
+	.string	"AB_For"
+.LASF79:
+	.string	"ostreamOps"
+.LASF488:
+	.string	"AB_Free"
+.LASF724:
+	.string	"tfFullFrAbSyn"
+.LASF670:
+	.string	"isExplicitImport"
+.LASF301:
+	.string	"foamPCall"
+.LASF749:
+	.string	"define"
+.LASF805:
+	.string	"testTinferImport"
+.LASF396:
+	.string	"FreeDeeplyTo"
+.LASF797:
+	.string	"dCatSelfList"
+.LASF154:
+	.string	"abImport"
+.LASF661:
+	.string	"TfCondEltList"
+.LASF85:
+	.string	"fileName"
+.LASF660:
+	.string	"TfCondEltListCons"
+.LASF365:
+	.string	"Stab"
+.LASF311:
+	.string	"foamValues"
+.LASF787:
+	.string	"XIntegralDomain_def"
+.LASF144:
+	.string	"abFor"
+.LASF275:
+	.string	"foamPRef"
+.LASF487:
+	.string	"AB_ForeignExport"
+.LASF552:
+	.string	"AbEmbed"
+.LASF227:
+	.string	"queries"
+.LASF655:
+	.string	"Index"
+.LASF385:
+	.string	"Cons"
+.LASF619:
+	.string	"infoBits"
+.LASF233:
+	.string	"libNum"
+.LASF611:
+	.string	"baseType"
+.LASF113:
+	.string	"abHdr"
+.LASF585:
+	.string	"alternatives"
+.LASF538:
+	.string	"AB_Use_RetValue"
+.LASF658:
+	.string	"known"
+.LASF25:
+	.string	"_IO_write_end"
+.LASF627:
+	.string	"prog"
+.LASF701:
+	.string	"tfsExportDebug"
+.LASF322:
+	.string	"rdOnly"
+.LASF151:
+	.string	"abHide"
+.LASF682:
+	.string	"nbefore"
+.LASF808:
+	.string	"__va_list_tag"
+.LASF769:
+	.string	"M_def"
+.LASF679:
+	.string	"declarees"
+.LASF259:
+	.string	"foamDecl"
+.LASF460:
+	.string	"AB_STR_LIMIT"
+.LASF690:
+	.string	"inDegree"
+.LASF108:
+	.string	"Symbol"
+.LASF281:
+	.string	"foamEEnsure"
+.LASF534:
+	.string	"AB_Use_Label"
+.LASF631:
+	.string	"index"
+.LASF366:
+	.string	"StabLevelListCons"
+.LASF323:
+	.string	"isOutput"
+.LASF617:
+	.string	"nLabels"
+.LASF61:
+	.string	"Length"
+.LASF743:
+	.string	"typeInfer"
+.LASF577:
+	.string	"dest"
+.LASF738:
+	.string	"with"
+.LASF350:
+	.string	"stabLevel"
+.LASF123:
+	.string	"abAnd"
+.LASF404:
+	.string	"Copy"
+.LASF706:
+	.string	"titfDebug"
+.LASF238:
+	.string	"TQual"
+.LASF659:
+	.string	"TfCondElt"
+.LASF664:
+	.string	"TfCond"
+.LASF547:
+	.string	"AB_State_AbSyn"
+.LASF543:
+	.string	"AB_Use_Elided"
+.LASF140:
+	.string	"abExport"
+.LASF489:
+	.string	"AB_Generate"
+.LASF536:
+	.string	"AB_Use_Define"
+.LASF530:
+	.string	"abSynTag"
+.LASF726:
+	.string	"abFrSyme"
+.LASF684:
+	.string	"cdependents"
+.LASF341:
+	.string	"constp"
+.LASF226:
+	.string	"consts"
+.LASF340:
+	.string	"constv"
+.LASF305:
+	.string	"foamCFCall"
+.LASF593:
+	.string	"defList"
+.LASF417:
+	.string	"Position"
+.LASF562:
+	.string	"seman"
+.LASF624:
+	.string	"locals"
+.LASF284:
+	.string	"foamRElt"
+.LASF433:
+	.string	"Syme_listOpsStruct"
+.LASF317:
+	.string	"foamCatch"
+.LASF452:
+	.string	"AB_SYM_LIMIT"
+.LASF713:
+	.string	"symeListPrintDb"
+.LASF556:
+	.string	"implicit"
+.LASF428:
+	.string	"TQualList"
+.LASF200:
+	.string	"type"
+.LASF761:
+	.string	"testTinferValueConditionalAliased"
+.LASF290:
+	.string	"foamUnimp"
+.LASF718:
+	.string	"abqParse"
+.LASF635:
+	.string	"eltType"
+.LASF721:
+	.string	"afprintf"
+.LASF771:
+	.string	"testConditionalAdd"
+.LASF381:
+	.string	"SymbolList"
+.LASF730:
+	.string	"testIntEqual"
+.LASF380:
+	.string	"SymbolListCons"
+.LASF224:
+	.string	"domImports"
+.LASF148:
+	.string	"abGenerate"
+.LASF557:
+	.string	"embed"
+.LASF94:
+	.string	"Table"
+.LASF157:
+	.string	"abLabel"
+.LASF32:
+	.string	"_chain"
+.LASF328:
+	.string	"topc"
+.LASF98:
+	.string	"info"
+.LASF431:
+	.string	"SymeListCons"
+.LASF325:
+	.string	"idName"
+.LASF139:
+	.string	"abExit"
+.LASF263:
+	.string	"foamDEnv"
+.LASF253:
+	.string	"foamArb"
+.LASF2:
+	.string	"unsigned char"
+.LASF254:
+	.string	"foamArr"
+.LASF555:
+	.string	"defnIdx"
+.LASF809:
+	.string	"_IO_lock_t"
+.LASF82:
+	.string	"closeFn"
+.LASF12:
+	.string	"float"
+.LASF461:
+	.string	"AB_NODE_START"
+.LASF268:
+	.string	"foamLoc"
+.LASF656:
+	.string	"tfCondElt"
+.LASF201:
+	.string	"locmask"
+.LASF576:
+	.string	"whole"
+.LASF732:
+	.string	"comsgErrorCount"
+.LASF68:
+	.string	"MostAlignedType"
+.LASF777:
+	.string	"AdditiveType_txt"
+.LASF285:
+	.string	"foamRRElt"
+.LASF524:
+	.string	"AB_While"
+.LASF595:
+	.string	"invInfo"
+.LASF378:
+	.string	"FoamUses"
+.LASF60:
+	.string	"Hash"
+.LASF480:
+	.string	"AB_Exit"
+.LASF437:
+	.string	"UdInfoList"
+.LASF260:
+	.string	"foamGDecl"
+.LASF649:
+	.string	"libHdr"
+.LASF229:
+	.string	"conditions"
+.LASF92:
+	.string	"SrcPosStack"
+.LASF755:
+	.string	"init"
+.LASF442:
+	.string	"TblEqFun"
+.LASF588:
+	.string	"within"
+.LASF517:
+	.string	"AB_Return"
+.LASF492:
+	.string	"AB_Hide"
+.LASF93:
+	.string	"stack"
+.LASF636:
+	.string	"clos"
+.LASF405:
+	.string	"CopyTo"
+.LASF235:
+	.string	"tposs"
+.LASF783:
+	.string	"AnAdditive_txt"
+.LASF376:
+	.string	"_InvInfo"
+.LASF251:
+	.string	"foamDFlo"
+.LASF270:
+	.string	"foamGlo"
+.LASF392:
+	.string	"FreeCons"
+.LASF558:
+	.string	"impl"
+.LASF177:
+	.string	"abReturn"
+.LASF697:
+	.string	"BIntS"
+.LASF147:
+	.string	"abFree"
+.LASF223:
+	.string	"thdExports"
+.LASF24:
+	.string	"_IO_write_ptr"
+.LASF276:
+	.string	"foamLabel"
+.LASF277:
+	.string	"foamPtr"
+.LASF794:
+	.string	"sefo"
+.LASF715:
+	.string	"stabGetMeanings"
+.LASF731:
+	.string	"ablogTrue"
+.LASF410:
+	.string	"NReverse"
+.LASF264:
+	.string	"foamDFmt"
+.LASF363:
+	.string	"extendSymes"
+.LASF265:
+	.string	"foamDef"
+.LASF580:
+	.string	"elseAlt"
+.LASF591:
+	.string	"lazy"
+.LASF565:
+	.string	"test"
+.LASF312:
+	.string	"foamUnit"
+.LASF542:
+	.string	"AB_Use_Except"
+.LASF666:
+	.string	"names"
+.LASF306:
+	.string	"foamOFCall"
+.LASF369:
+	.string	"optInfo"
+.LASF225:
+	.string	"domExportNames"
+.LASF629:
+	.string	"symeIndex"
+.LASF789:
+	.string	"D_def"
+.LASF535:
+	.string	"AB_Use_Assign"
+.LASF515:
+	.string	"AB_Repeat"
+.LASF210:
+	.string	"hasSelfSelf"
+.LASF222:
+	.string	"catExports"
+.LASF620:
+	.string	"size"
+.LASF134:
+	.string	"abDefine"
+.LASF100:
+	.string	"buckc"
+.LASF48:
+	.string	"FILE"
+.LASF173:
+	.string	"abReference"
+.LASF546:
+	.string	"ab_state"
+.LASF612:
+	.string	"eltv"
+.LASF101:
+	.string	"buckv"
+.LASF347:
+	.string	"ArEntry"
+.LASF618:
+	.string	"retType"
+.LASF675:
+	.string	"imports"
+.LASF779:
+	.string	"AdditiveType2_txt"
+.LASF245:
+	.string	"foamBool"
+.LASF237:
+	.string	"tconst"
+.LASF18:
+	.string	"size_t"
+.LASF553:
+	.string	"abSeman"
+.LASF243:
+	.string	"foamNil"
+.LASF91:
+	.string	"rest"
+.LASF763:
+	.string	"Foo_def"
+.LASF307:
+	.string	"foamPushEnv"
+.LASF132:
+	.string	"abComma"
+.LASF502:
+	.string	"AB_MDefine"
+.LASF388:
+	.string	"Listv"
+.LASF570:
+	.string	"iterv"
+.LASF372:
+	.string	"_UdInfo"
+.LASF455:
+	.string	"AB_DOC_LIMIT"
+.LASF581:
+	.string	"param"
+.LASF240:
+	.string	"Foam"
+.LASF628:
+	.string	"protocol"
+.LASF176:
+	.string	"abRetractTo"
+.LASF512:
+	.string	"AB_Quote"
+.LASF473:
+	.string	"AB_Default"
+.LASF709:
+	.string	"tfImportDebug"
+.LASF348:
+	.string	"ar_entry"
+.LASF28:
+	.string	"_IO_save_base"
+.LASF310:
+	.string	"foamRRFmt"
+.LASF458:
+	.string	"AB_LitFloat"
+.LASF539:
+	.string	"AB_Use_NoValue"
+.LASF228:
+	.string	"cascades"
+.LASF477:
+	.string	"AB_Do"
+.LASF685:
+	.string	"cdependees"
+.LASF708:
+	.string	"tcDebug"
+.LASF807:
+	.string	"GNU C99 12.2.0 -mtune=generic -march=x86-64 -g -O0 -std=c99 -fasynchronous-unwind-tables"
+.LASF367:
+	.string	"first"
+.LASF394:
+	.string	"FreeTo"
+.LASF257:
+	.string	"foamProg"
+.LASF403:
+	.string	"IsLonger"
+.LASF672:
+	.string	"isCategoryImport"
+.LASF246:
+	.string	"foamByte"
+.LASF87:
+	.string	"SrcPos"
+.LASF326:
+	.string	"file"
+.LASF606:
+	.string	"HIntData"
+.LASF601:
+	.string	"code"
+.LASF42:
+	.string	"_wide_data"
+.LASF234:
+	.string	"TPoss"
+.LASF162:
+	.string	"abMDefine"
+.LASF792:
+	.string	"absynList"
+.LASF657:
+	.string	"list"
+.LASF318:
+	.string	"foamProtect"
+.LASF654:
+	.string	"Section"
+.LASF801:
+	.string	"condition"
+.LASF133:
+	.string	"abDefault"
+.LASF267:
+	.string	"foamPar"
+.LASF196:
+	.string	"fieldc"
+.LASF236:
+	.string	"TConst"
+.LASF358:
+	.string	"idsInScope"
+.LASF204:
+	.string	"fieldv"
+.LASF518:
+	.string	"AB_Select"
+.LASF733:
+	.string	"abPrintDb"
+.LASF699:
+	.string	"tfsDebug"
+.LASF490:
+	.string	"AB_Goto"
+.LASF714:
+	.string	"tfGetDomImports"
+.LASF443:
+	.string	"TblSlot"
+.LASF572:
+	.string	"value"
+.LASF379:
+	.string	"foamuses_struct"
+.LASF753:
+	.string	"fini"
+.LASF71:
+	.string	"OStreamPutFun"
+.LASF623:
+	.string	"params"
+.LASF462:
+	.string	"AB_Add"
+.LASF352:
+	.string	"lambdaLevel"
+.LASF104:
+	.string	"isNeg"
+.LASF355:
+	.string	"isChecked"
+.LASF402:
+	.string	"IsShorter"
+.LASF513:
+	.string	"AB_Raise"
+.LASF475:
+	.string	"AB_DDefine"
+.LASF778:
+	.string	"AdditiveType1_txt"
+.LASF212:
+	.string	"__absyn"
+.LASF736:
+	.string	"apply1"
+.LASF739:
+	.string	"apply2"
+.LASF781:
+	.string	"Obj_txt"
+.LASF286:
+	.string	"foamIRElt"
+.LASF359:
+	.string	"labelsInScope"
+.LASF568:
+	.string	"expr"
+.LASF637:
+	.string	"retFmt"
+.LASF187:
+	.string	"AbSub"
+.LASF115:
+	.string	"abBlank"
+.LASF691:
+	.string	"cmarked"
+.LASF605:
+	.string	"ByteData"
+.LASF206:
+	.string	"tform"
+.LASF122:
+	.string	"abAdd"
+.LASF508:
+	.string	"AB_Paren"
+.LASF782:
+	.string	"testTinfer3"
+.LASF766:
+	.string	"testTinfer5"
+.LASF765:
+	.string	"testTinfer9"
+.LASF449:
+	.string	"AB_Id"
+.LASF493:
+	.string	"AB_If"
+.LASF549:
+	.string	"AB_State_HasUnique"
+.LASF681:
+	.string	"dependees"
+.LASF377:
+	.string	"SImpl"
+.LASF509:
+	.string	"AB_PLambda"
+.LASF188:
+	.string	"abSub"
+.LASF179:
+	.string	"abSequence"
+.LASF193:
+	.string	"fvar"
+.LASF589:
+	.string	"pure"
+.LASF496:
+	.string	"AB_Iterate"
+.LASF346:
+	.string	"macros"
+.LASF754:
+	.string	"showTest"
+.LASF704:
+	.string	"tipTdnDebug"
+.LASF185:
+	.string	"abYield"
+.LASF416:
+	.string	"Posq"
+.LASF135:
+	.string	"abDDefine"
+.LASF802:
+	.string	"theAdd"
+.LASF729:
+	.string	"tiAddSymes"
+.LASF124:
+	.string	"abApply"
+.LASF644:
+	.string	"String_listOpsStruct"
+.LASF56:
+	.string	"AInt"
+.LASF632:
+	.string	"level"
+.LASF362:
+	.string	"boundSymes"
+.LASF320:
+	.string	"name"
+.LASF120:
+	.string	"abLitString"
+.LASF338:
+	.string	"typeb"
+.LASF334:
+	.string	"typec"
+.LASF665:
+	.string	"SymeSet"
+.LASF465:
+	.string	"AB_Assert"
+.LASF30:
+	.string	"_IO_save_end"
+.LASF401:
+	.string	"IsLength"
+.LASF337:
+	.string	"typep"
+.LASF336:
+	.string	"types"
+.LASF335:
+	.string	"typev"
+.LASF103:
+	.string	"bint"
+.LASF527:
+	.string	"AB_NODE_LIMIT"
+.LASF344:
+	.string	"unit"
+.LASF149:
+	.string	"abGoto"
+.LASF717:
+	.string	"tfGetThdExports"
+.LASF296:
+	.string	"foamANew"
+.LASF582:
+	.string	"rtype"
+.LASF15:
+	.string	"fp_offset"
+.LASF693:
+	.string	"TFormUsesListCons"
+.LASF537:
+	.string	"AB_Use_Value"
+.LASF14:
+	.string	"gp_offset"
+.LASF533:
+	.string	"AB_Use_Type"
+.LASF587:
+	.string	"always"
+.LASF169:
+	.string	"abPLambda"
+.LASF607:
+	.string	"SIntData"
+.LASF127:
+	.string	"abBreak"
+.LASF110:
+	.string	"AbSyn"
+.LASF218:
+	.string	"selfself"
+.LASF716:
+	.string	"symProbe"
+.LASF252:
+	.string	"foamWord"
+.LASF579:
+	.string	"thenAlt"
+.LASF156:
+	.string	"abIterate"
+.LASF190:
+	.string	"abLogic"
+.LASF181:
+	.string	"abTry"
+.LASF250:
+	.string	"foamSFlo"
+.LASF231:
+	.string	"__mark"
+.LASF3:
+	.string	"short unsigned int"
+.LASF364:
+	.string	"exportedTypes"
+.LASF700:
+	.string	"tfsParentDebug"
+.LASF6:
+	.string	"signed char"
+.LASF159:
+	.string	"abLet"
+.LASF74:
+	.string	"ostream"
+.LASF258:
+	.string	"foamClos"
+.LASF810:
+	.string	"_SImpl"
+.LASF112:
+	.string	"abSyn"
+.LASF300:
+	.string	"foamCast"
+.LASF280:
+	.string	"foamLoose"
+.LASF174:
+	.string	"abRepeat"
+.LASF65:
+	.string	"CString"
+.LASF427:
+	.string	"TQualListCons"
+.LASF689:
+	.string	"outEdges"
+.LASF99:
+	.string	"count"
+.LASF760:
+	.string	"testTinferValueConditional"
+.LASF247:
+	.string	"foamHInt"
+.LASF182:
+	.string	"abWhere"
+.LASF676:
+	.string	"inlines"
+.LASF425:
+	.string	"TConstListCons"
+.LASF703:
+	.string	"titfOneDebug"
+.LASF54:
+	.string	"UShort"
+.LASF143:
+	.string	"abFluid"
+.LASF432:
+	.string	"SymeList"
+.LASF474:
+	.string	"AB_Define"
+.LASF10:
+	.string	"__off64_t"
+.LASF203:
+	.string	"full"
+.LASF205:
+	.string	"TForm"
+.LASF397:
+	.string	"FreeIfSat"
+.LASF424:
+	.string	"TFormList"
+.LASF22:
+	.string	"_IO_read_base"
+.LASF273:
+	.string	"foamEnv"
+.LASF40:
+	.string	"_offset"
+.LASF83:
+	.string	"OStreamOps"
+.LASF507:
+	.string	"AB_Or"
+.LASF667:
+	.string	"TFormUses"
+.LASF208:
+	.string	"state"
+.LASF27:
+	.string	"_IO_buf_end"
+.LASF419:
+	.string	"FillVector"
+.LASF647:
+	.string	"libSect"
+.LASF375:
+	.string	"InvInfo"
+.LASF564:
+	.string	"capsule"
+.LASF695:
+	.string	"tipAddDebug"
+.LASF775:
+	.string	"Obj_def"
+.LASF528:
+	.string	"AB_LIMIT"
+.LASF46:
+	.string	"_mode"
+.LASF796:
+	.string	"xalgebra"
+.LASF23:
+	.string	"_IO_write_base"
+.LASF669:
+	.string	"isImported"
+.LASF575:
+	.string	"function"
+.LASF554:
+	.string	"comment"
+.LASF742:
+	.string	"testTrue"
+.LASF440:
+	.string	"TblElt"
+.LASF463:
+	.string	"AB_And"
+.LASF209:
+	.string	"hasSelf"
+.LASF198:
+	.string	"bits"
+.LASF621:
+	.string	"time"
+.LASF219:
+	.string	"parents"
+.LASF88:
+	.string	"SrcPosCell"
+.LASF626:
+	.string	"levels"
+.LASF191:
+	.string	"fake"
+.LASF242:
+	.string	"foamGen"
+.LASF8:
+	.string	"long int"
+.LASF734:
+	.string	"abNewOfList"
+.LASF540:
+	.string	"AB_Use_Iterator"
+.LASF389:
+	.string	"ListNull"
+.LASF545:
+	.string	"AbUse"
+.LASF613:
+	.string	"format"
+.LASF49:
+	.string	"_IO_marker"
+.LASF308:
+	.string	"foamPopEnv"
+.LASF89:
+	.string	"sposCell"
+.LASF616:
+	.string	"endOffset"
+.LASF407:
+	.string	"CopyDeeplyTo"
+.LASF211:
+	.string	"hasCascades"
+.LASF786:
+	.string	"XAlgebra_def"
+.LASF586:
+	.string	"cond"
+.LASF383:
+	.string	"AbSynList"
+.LASF735:
+	.string	"stdtypes"
+.LASF653:
+	.string	"numSect"
+.LASF566:
+	.string	"label"
+.LASF583:
+	.string	"context"
+.LASF272:
+	.string	"foamConst"
+.LASF456:
+	.string	"AB_STR_START"
+.LASF178:
+	.string	"abSelect"
+.LASF371:
+	.string	"UdInfo"
+.LASF271:
+	.string	"foamFluid"
+.LASF368:
+	.string	"OptInfo"
+.LASF495:
+	.string	"AB_Inline"
+.LASF722:
+	.string	"tiSefo"
+.LASF50:
+	.string	"_IO_codecvt"
+.LASF184:
+	.string	"abWith"
+.LASF561:
+	.string	"unique"
+.LASF445:
+	.string	"Symbol_TSet"
+.LASF531:
+	.string	"ab_use"
+.LASF299:
+	.string	"foamTRNew"
+.LASF674:
+	.string	"exports"
+.LASF688:
+	.string	"sortMark"
+.LASF84:
+	.string	"FileName"
+.LASF758:
+	.string	"lines"
+.LASF497:
+	.string	"AB_Label"
+.LASF309:
+	.string	"foamMFmt"
+.LASF64:
+	.string	"String"
+.LASF249:
+	.string	"foamBInt"
+.LASF559:
+	.string	"AbSeman"
+.LASF5:
+	.string	"long unsigned int"
+.LASF384:
+	.string	"AbSyn_listOpsStruct"
+.LASF521:
+	.string	"AB_Try"
+.LASF59:
+	.string	"Bool"
+.LASF195:
+	.string	"syme"
+.LASF255:
+	.string	"foamRec"
+.LASF599:
+	.string	"dvMark"
+.LASF395:
+	.string	"FreeDeeply"
+.LASF11:
+	.string	"char"
+.LASF525:
+	.string	"AB_With"
+.LASF501:
+	.string	"AB_Macro"
+.LASF86:
+	.string	"partv"
+.LASF795:
+	.string	"dSefo"
+.LASF314:
+	.string	"foamFree"
+.LASF448:
+	.string	"AB_SYM_START"
+.LASF499:
+	.string	"AB_Let"
+.LASF288:
+	.string	"foamEElt"
+.LASF434:
+	.string	"AbSyn_listPointer"
+.LASF668:
+	.string	"tformUses"
+.LASF95:
+	.string	"table"
+.LASF643:
+	.string	"StringList"
+.LASF571:
+	.string	"except"
+.LASF441:
+	.string	"TblHashFun"
+.LASF26:
+	.string	"_IO_buf_base"
+.LASF597:
+	.string	"foamHdr"
+.LASF610:
+	.string	"DFloData"
+.LASF345:
+	.string	"formats"
+.LASF479:
+	.string	"AB_Except"
+.LASF21:
+	.string	"_IO_read_end"
+.LASF289:
+	.string	"foamBVal"
+.LASF55:
+	.string	"ULong"
+.LASF594:
+	.string	"expInfo"
+.LASF199:
+	.string	"hash"
+.LASF73:
+	.string	"_IO_FILE"
+.LASF422:
+	.string	"Format"
+.LASF97:
+	.string	"eqFun"
+.LASF51:
+	.string	"_IO_wide_data"
+.LASF692:
+	.string	"crep"
+.LASF361:
+	.string	"tformsUnused"
+.LASF446:
+	.string	"SymbolTSet"
+.LASF297:
+	.string	"foamRNew"
+.LASF645:
+	.string	"String_listPointer"
+.LASF602:
+	.string	"sfloat"
+.LASF604:
+	.string	"BoolData"
+.LASF768:
+	.string	"R_def"
+.LASF744:
+	.string	"scopeBind"
+.LASF125:
+	.string	"abAssert"
+.LASF70:
+	.string	"buffer"
+.LASF217:
+	.string	"self"
+.LASF274:
+	.string	"foamEEnv"
+.LASF80:
+	.string	"writeCharFn"
+.LASF696:
+	.string	"tipLitDebug"
+.LASF393:
+	.string	"Free"
+.LASF164:
+	.string	"abNever"
+.LASF728:
+	.string	"abqParseLines"
+.LASF57:
+	.string	"UAInt"
+.LASF302:
+	.string	"foamBCall"
+.LASF741:
+	.string	"nothing"
+.LASF66:
+	.string	"SFloat"
+.LASF790:
+	.string	"E_def"
+.LASF230:
+	.string	"sigma"
+.LASF374:
+	.string	"_ExpInfo"
+.LASF136:
+	.string	"abDo"
+.LASF506:
+	.string	"AB_Nothing"
+.LASF319:
+	.string	"foamReturn"
+.LASF725:
+	.string	"abNew"
+.LASF590:
+	.string	"fixed"
+.LASF116:
+	.string	"abId"
+.LASF153:
+	.string	"abIf"
+.LASF105:
+	.string	"placea"
+.LASF106:
+	.string	"placec"
+.LASF737:
+	.string	"defineUnary"
+.LASF45:
+	.string	"__pad5"
+.LASF469:
+	.string	"AB_CoerceTo"
+.LASF107:
+	.string	"placev"
+.LASF762:
+	.string	"testTinferMutualReference"
+.LASF31:
+	.string	"_markers"
+.LASF186:
+	.string	"Sefo"
+.LASF550:
+	.string	"AB_State_Error"
+.LASF747:
+	.string	"finiFile"
+.LASF279:
+	.string	"foamCEnv"
+.LASF694:
+	.string	"TFormUsesList"
+.LASF283:
+	.string	"foamAElt"
+.LASF353:
+	.string	"serialNo"
+.LASF67:
+	.string	"DFloat"
+.LASF727:
+	.string	"uniqueMeaning"
+.LASF332:
+	.string	"codev"
+.LASF806:
+	.string	"tinferTest"
+.LASF357:
+	.string	"children"
+.LASF567:
+	.string	"what"
+.LASF41:
+	.string	"_codecvt"
+.LASF780:
+	.string	"Evalable_txt"
+.LASF13:
+	.string	"double"
+.LASF800:
+	.string	"impBoolean"
+.LASF294:
+	.string	"foamSeq"
+.LASF292:
+	.string	"foamSet"
+.LASF214:
+	.string	"argc"
+.LASF650:
+	.string	"magic"
+.LASF504:
+	.string	"AB_Never"
+.LASF641:
+	.string	"after"
+.LASF707:
+	.string	"tfDebug"
+.LASF339:
+	.string	"constc"
+.LASF166:
+	.string	"abNothing"
+.LASF215:
+	.string	"argv"
+.LASF793:
+	.string	"selfRef"
+.LASF471:
+	.string	"AB_Comma"
+.LASF130:
+	.string	"abCoerceTo"
+.LASF748:
+	.string	"initFile"
+.LASF603:
+	.string	"CharData"
+.LASF671:
+	.string	"isParamImport"
+.LASF711:
+	.string	"stdscope"
+.LASF625:
+	.string	"fluids"
+.LASF466:
+	.string	"AB_Assign"
+.LASF75:
+	.string	"data"
+.LASF712:
+	.string	"tfqTypeInfer"
+.LASF767:
+	.string	"Boolean_imp"
+.LASF180:
+	.string	"abTest"
+.LASF304:
+	.string	"foamOCall"
+.LASF111:
+	.string	"sposStack"
+.LASF194:
+	.string	"Syme"
+.LASF241:
+	.string	"foam"
+.LASF663:
+	.string	"containsEmpty"
+.LASF145:
+	.string	"abForeignImport"
+.LASF69:
+	.string	"Buffer"
+.LASF436:
+	.string	"UdInfoListCons"
+.LASF421:
+	.string	"GPrint"
+.LASF563:
+	.string	"base"
+.LASF673:
+	.string	"isCatConditionImport"
+.LASF158:
+	.string	"abLambda"
+.LASF470:
+	.string	"AB_Collect"
+.LASF541:
+	.string	"AB_Use_Default"
+.LASF78:
+	.string	"OstCloseFn"
+.LASF745:
+	.string	"abPutUse"
+.LASF321:
+	.string	"arent"
+.LASF351:
+	.string	"lexicalLevel"
+.LASF608:
+	.string	"BIntData"
+.LASF63:
+	.string	"Pointer"
+.LASF638:
+	.string	"argsPtr"
+.LASF759:
+	.string	"absyn"
+.LASF578:
+	.string	"property"
+.LASF262:
+	.string	"foamDFluid"
+.LASF44:
+	.string	"_freeres_buf"
+.LASF520:
+	.string	"AB_Test"
+.LASF90:
+	.string	"spos"
+.LASF503:
+	.string	"AB_MLambda"
+.LASF532:
+	.string	"AB_Use_Declaration"
+.LASF719:
+	.string	"symeType"
+.LASF189:
+	.string	"AbLogic"
+.LASF804:
+	.string	"testSimpleTInfer"
+.LASF167:
+	.string	"abOr"
+.LASF327:
+	.string	"offset"
+.LASF651:
+	.string	"verMajor"
+.LASF799:
+	.string	"testConditionalTInfer"
+.LASF36:
+	.string	"_cur_column"
+.LASF746:
+	.string	"stabFile"
+.LASF183:
+	.string	"abWhile"
+.LASF197:
+	.string	"kind"
+.LASF677:
+	.string	"extension"
+.LASF315:
+	.string	"foamGoto"
+.LASF723:
+	.string	"symePrintDb"
+.LASF453:
+	.string	"AB_DOC_START"
+.LASF155:
+	.string	"abInline"
+.LASF409:
+	.string	"Reverse"
+.LASF121:
+	.string	"abLitFloat"
+.LASF161:
+	.string	"abMacro"
+.LASF498:
+	.string	"AB_Lambda"
+.LASF429:
+	.string	"StabListCons"
+.LASF248:
+	.string	"foamSInt"
+.LASF131:
+	.string	"abCollect"
+.LASF522:
+	.string	"AB_Unit"
+.LASF751:
+	.string	"emptyWith"
+.LASF482:
+	.string	"AB_Extend"
+.LASF772:
+	.string	"AdditiveGroup_def"
+.LASF29:
+	.string	"_IO_backup_base"
+.LASF411:
+	.string	"Concat"
+.LASF20:
+	.string	"_IO_read_ptr"
+.LASF803:
+	.string	"fooD1"
+.LASF295:
+	.string	"foamSelect"
+.LASF146:
+	.string	"abForeignExport"
+.LASF202:
+	.string	"hasmask"
+.LASF117:
+	.string	"abIdSy"
+.LASF43:
+	.string	"_freeres_list"
+.LASF505:
+	.string	"AB_Not"
+.LASF170:
+	.string	"abPretendTo"
+.LASF451:
+	.string	"AB_Blank"
+.LASF96:
+	.string	"hashFun"
+.LASF163:
+	.string	"abMLambda"
+.LASF529:
+	.string	"AbSynTag"
+.LASF420:
+	.string	"Print"
+.LASF750:
+	.string	"declare"
+.LASF614:
+	.string	"nargs"
+.LASF615:
+	.string	"values"
+.LASF400:
+	.string	"_Length"
+.LASF35:
+	.string	"_old_offset"
+.LASF287:
+	.string	"foamTRElt"
+.LASF740:
+	.string	"import"
+.LASF510:
+	.string	"AB_PretendTo"
+.LASF500:
+	.string	"AB_Local"
+.LASF472:
+	.string	"AB_Declare"
+.LASF764:
+	.string	"Bar_def"
+.LASF756:
+	.string	"I_def"
+.LASF329:
+	.string	"symec"
+.LASF426:
+	.string	"TConstList"
+.LASF165:
+	.string	"abNot"
+.LASF331:
+	.string	"symep"
+.LASF220:
+	.string	"symes"
+.LASF330:
+	.string	"symev"
+.LASF52:
+	.string	"long long int"
+.LASF494:
+	.string	"AB_Import"
+.LASF316:
+	.string	"foamThrow"
+.LASF390:
+	.string	"Equal"
+.LASF34:
+	.string	"_flags2"
+.LASF450:
+	.string	"AB_IdSy"
+.LASF609:
+	.string	"SFloData"
+.LASF152:
+	.string	"abHook"
+.LASF370:
+	.string	"SefoMark"
+.LASF138:
+	.string	"abExcept"
+.LASF137:
+	.string	"abDocumented"
+.LASF464:
+	.string	"AB_Apply"
+.LASF514:
+	.string	"AB_Reference"
+.LASF785:
+	.string	"testSelfTInfer"
+.LASF560:
+	.string	"poss"
+.LASF788:
+	.string	"XLocalAlgebra_def"
+.LASF126:
+	.string	"abAssign"
+.LASF398:
+	.string	"Drop"
+.LASF569:
+	.string	"body"
+.LASF438:
+	.string	"sposNone"
+.LASF244:
+	.string	"foamChar"
+.LASF291:
+	.string	"foamNOp"
+.LASF62:
+	.string	"Offset"
+.LASF478:
+	.string	"AB_Documented"
+.LASF232:
+	.string	"parent"
+.LASF408:
+	.string	"NMap"
+.LASF414:
+	.string	"Member"
+.LASF354:
+	.string	"isLocked"
+.LASF129:
+	.string	"abDeclare"
+.LASF72:
+	.string	"OStream"
+.LASF418:
+	.string	"NRemove"
+.LASF784:
+	.string	"testConditionalTInfer2"
+.LASF776:
+	.string	"testConditionalTInfer4"
+.LASF53:
+	.string	"UByte"
+.LASF683:
+	.string	"nafter"
+.LASF573:
+	.string	"origin"
+.LASF467:
+	.string	"AB_Break"
+.LASF406:
+	.string	"CopyDeeply"
+.LASF574:
+	.string	"destination"
+.LASF773:
+	.string	"IndexedCategory_def"
+.LASF639:
+	.string	"defs"
+.LASF752:
+	.string	"emptyAdd"
+.LASF791:
+	.string	"F_def"
+.LASF221:
+	.string	"domExports"
+.LASF343:
+	.string	"postbl"
+.LASF386:
+	.string	"Singleton"
+.LASF551:
+	.string	"AB_State_LIMIT"
+.LASF622:
+	.string	"auxInfo"
+.LASF4:
+	.string	"unsigned int"
+.LASF770:
+	.string	"V_def"
+.LASF481:
+	.string	"AB_Export"
+.LASF435:
+	.string	"Syme_listPointer"
+.LASF413:
+	.string	"Memq"
+.LASF584:
+	.string	"testPart"
+.LASF454:
+	.string	"AB_DocText"
+.LASF102:
+	.string	"BInt"
+.LASF7:
+	.string	"short int"
+.LASF387:
+	.string	"List"
+.LASF430:
+	.string	"StabList"
+.LASF360:
+	.string	"tformsUsed"
+.LASF523:
+	.string	"AB_Where"
+.LASF37:
+	.string	"_vtable_offset"
+.LASF484:
+	.string	"AB_Fluid"
+.LASF476:
+	.string	"AB_Delay"
+.LASF333:
+	.string	"triggers"
+.LASF356:
+	.string	"isSubstable"
+.LASF266:
+	.string	"foamDDef"
+.LASF216:
+	.string	"stab"
+.LASF526:
+	.string	"AB_Yield"
+.LASF600:
+	.string	"defnId"
+.LASF798:
+	.string	"dCatSelf"
+.LASF680:
+	.string	"dependents"
+.LASF468:
+	.string	"AB_Builtin"
+.LASF119:
+	.string	"abLitInteger"
+.LASF391:
+	.string	"Find"
+.LASF634:
+	.string	"builtinTag"
+.LASF382:
+	.string	"AbSynListCons"
+	.section	.debug_line_str,"MS",@progbits,1
+.LASF0:
+	.string	"test/test_tinfer.c"
+.LASF1:
+	.string	"/repo/aldor/aldor/src"
+	.ident	"GCC: (Debian 12.2.0-14+deb12u1) 12.2.0"
+	.section	.note.GNU-stack,"",@progbits
